@@ -13,58 +13,13 @@
    - `cc_unf`: unfold the small helpers (cl_note, cl_ctx_upd, cl_resolve, cl_write_out, cl_take_req_count, cl_conn_close, ...),
      split their `if`s and close the goal by reflexivity: for frame ("does not change") goals.
    - `cl_run_ind` / `cl_run_ind_reach` / `cl_reachable`: invariants over all event lists. `cl_run_app`, `cl_run_snoc`.
-   Generated parts (between the GENERATED markers): rebuilt in place by tools/gen_clibase.sh from Impl/ClientConn.v. *)
+   The mechanical part (Arguments, tactics, ~2700 projection / frame lemmas, the `cc` database) lives in Proofs/CliBaseProj.v,
+   re-exported here, so that appending to this file does not recompile it. *)
 From H2V Require Import Base.Bytes Base.MachineInt Base.Result Gen.GenConsts Impl.ServerConn Impl.ClientConn.
+From H2V Require Export Proofs.CliBaseProj.
 From Coq Require Import ZArith Lia ZifyN ZifyNat ZifyBool List.
 Import ListNotations.
 Local Open Scope N_scope.
-
-(* ---------- implicit arguments ---------- *)
-(* BEGIN GENERATED args (tools/gen_clibase.sh) *)
-Arguments ccu_ctxs {hstate}. Arguments ccu_nextID {hstate}. Arguments ccu_open {hstate}. Arguments ccu_maxStreams {hstate}. Arguments ccu_maxFrame {hstate}. Arguments ccu_goAway {hstate}.
-Arguments ccu_closed {hstate}. Arguments ccu_closing {hstate}. Arguments ccu_netClosed {hstate}. Arguments ccu_writeFail {hstate}. Arguments ccu_enc {hstate}. Arguments ccu_encTableSize {hstate}.
-Arguments ccu_encTableSeen {hstate}. Arguments ccu_dec {hstate}. Arguments ccu_currentWindow {hstate}. Arguments ccu_serverS {hstate}. Arguments ccu_hdrStream {hstate}. Arguments ccu_hdrPrev {hstate}.
-Arguments ccu_hdrFields {hstate}. Arguments ccu_hdrEndStream {hstate}. Arguments ccu_hdrRegularSeen {hstate}. Arguments ccu_hdrStatus {hstate}. Arguments ccu_hdrErr {hstate}. Arguments ccu_stateClosed {hstate}.
-Arguments ccu_closeRef {hstate}. Arguments ccu_reqQueued {hstate}. Arguments ccu_pending {hstate}. Arguments ccu_connWindow {hstate}. Arguments ccu_streamWindow {hstate}. Arguments ccu_inQ {hstate}.
-Arguments ccu_outQ {hstate}. Arguments ccu_winCh {hstate}. Arguments ccu_lastErr {hstate}. Arguments ccu_unacks {hstate}. Arguments ccu_rl_done {hstate}. Arguments ccu_wl_done {hstate}.
-Arguments ccu_rl_stuck {hstate}. Arguments ccu_wl_stuck {hstate}. Arguments ccu_out {hstate}. Arguments cl_note {hstate}. Arguments cl_notes {hstate}. Arguments cl_can_write {hstate}.
-Arguments cl_ctx_get {hstate}. Arguments cl_ctx_put {hstate}. Arguments cl_ctx_upd {hstate}. Arguments cl_resolve {hstate}. Arguments cl_resolve_all {hstate}. Arguments cl_set_last_err {hstate}.
-Arguments cl_close_err {hstate}. Arguments cl_req_del {hstate}. Arguments cl_take_req_count {hstate}. Arguments cl_write_out {hstate}. Arguments cl_signal_window {hstate}. Arguments cl_close_begin {hstate}.
-Arguments cl_close_net {hstate}. Arguments cl_conn_close {hstate}. Arguments cl_acquire_for {hstate}. Arguments cl_go_stuck {hstate}. Arguments cl_close_body {hstate}. Arguments cl_delete_pending {hstate}.
-Arguments cl_cancel_stream {hstate}. Arguments cl_apply_initial_window {hstate}. Arguments cl_add_window {hstate}. Arguments cl_send_pending {hstate}. Arguments cl_send_fuel {hstate}. Arguments cl_flush_pending {hstate}.
-Arguments cl_pending_order {hstate}. Arguments cl_can_open_stream {hstate}. Arguments cl_enc_req_fields {hstate}. Arguments cl_request_block {hstate}. Arguments cl_write_request {hstate}. Arguments cl_wl_exit {hstate}.
-Arguments cl_wl_after {hstate}. Arguments cl_wl_in {hstate}. Arguments cl_wl_out {hstate}. Arguments cl_wl_win {hstate}. Arguments cl_wl_ping {hstate}. Arguments cl_wl_done {hstate}.
-Arguments cl_rl_exit {hstate}. Arguments cl_rl_fail {hstate}. Arguments cl_rl_panic {hstate}. Arguments cl_handle_settings {hstate}. Arguments cl_finish {hstate}. Arguments cl_gone_away {hstate}.
-Arguments cl_goaway_fail {hstate}. Arguments cl_goaway {hstate}. Arguments cl_update_window {hstate}. Arguments cl_hdr_loop {hstate}. Arguments cl_read_header_fragment {hstate}. Arguments cl_read_stream {hstate}.
-Arguments cl_dispatch {hstate}. Arguments cl_rl_frame {hstate}. Arguments cl_rl_step {hstate}. Arguments cl_submit {hstate}. Arguments cl_submit_check {hstate}. Arguments cl_receive {hstate}.
-Arguments cl_timeout_fire {hstate}. Arguments cl_timeout_cancel {hstate}. Arguments cl_close_call {hstate}. Arguments cl_close_finish {hstate}. Arguments cl_wl_live {hstate}. Arguments cl_rl_live {hstate}.
-Arguments cl_step {hstate}. Arguments cl_init {hstate}. Arguments cl_run {hstate}. Arguments cl_trace {hstate}. Arguments mkCConn {hstate}. Arguments cc_ctxs {hstate}.
-Arguments cc_nextID {hstate}. Arguments cc_open {hstate}. Arguments cc_maxStreams {hstate}. Arguments cc_maxFrame {hstate}. Arguments cc_goAway {hstate}. Arguments cc_closed {hstate}.
-Arguments cc_closing {hstate}. Arguments cc_netClosed {hstate}. Arguments cc_writeFail {hstate}. Arguments cc_enc {hstate}. Arguments cc_encTableSize {hstate}. Arguments cc_encTableSeen {hstate}.
-Arguments cc_dec {hstate}. Arguments cc_currentWindow {hstate}. Arguments cc_serverS {hstate}. Arguments cc_hdrStream {hstate}. Arguments cc_hdrPrev {hstate}. Arguments cc_hdrFields {hstate}.
-Arguments cc_hdrEndStream {hstate}. Arguments cc_hdrRegularSeen {hstate}. Arguments cc_hdrStatus {hstate}. Arguments cc_hdrErr {hstate}. Arguments cc_stateClosed {hstate}. Arguments cc_closeRef {hstate}.
-Arguments cc_reqQueued {hstate}. Arguments cc_pending {hstate}. Arguments cc_connWindow {hstate}. Arguments cc_streamWindow {hstate}. Arguments cc_inQ {hstate}. Arguments cc_outQ {hstate}.
-Arguments cc_winCh {hstate}. Arguments cc_lastErr {hstate}. Arguments cc_unacks {hstate}. Arguments cc_rl_done {hstate}. Arguments cc_wl_done {hstate}. Arguments cc_rl_stuck {hstate}.
-Arguments cc_wl_stuck {hstate}. Arguments cc_out {hstate}.
-(* END GENERATED args *)
-
-(* ---------- tactics ---------- *)
-(* BEGIN GENERATED tactics (tools/gen_clibase.sh) *)
-Ltac cc_cbn := cbn [cc_ctxs cc_nextID cc_open cc_maxStreams cc_maxFrame cc_goAway cc_closed cc_closing cc_netClosed cc_writeFail cc_enc cc_encTableSize cc_encTableSeen cc_dec cc_currentWindow cc_serverS cc_hdrStream cc_hdrPrev cc_hdrFields cc_hdrEndStream cc_hdrRegularSeen cc_hdrStatus cc_hdrErr cc_stateClosed cc_closeRef cc_reqQueued cc_pending cc_connWindow cc_streamWindow cc_inQ cc_outQ cc_winCh cc_lastErr cc_unacks cc_rl_done cc_wl_done cc_rl_stuck cc_wl_stuck cc_out ccu_ctxs ccu_nextID ccu_open ccu_maxStreams ccu_maxFrame ccu_goAway ccu_closed ccu_closing ccu_netClosed ccu_writeFail ccu_enc ccu_encTableSize ccu_encTableSeen ccu_dec ccu_currentWindow ccu_serverS ccu_hdrStream ccu_hdrPrev ccu_hdrFields ccu_hdrEndStream ccu_hdrRegularSeen ccu_hdrStatus ccu_hdrErr ccu_stateClosed ccu_closeRef ccu_reqQueued ccu_pending ccu_connWindow ccu_streamWindow ccu_inQ ccu_outQ ccu_winCh ccu_lastErr ccu_unacks ccu_rl_done ccu_wl_done ccu_rl_stuck ccu_wl_stuck ccu_out ct_tag ct_req ct_resp ct_sid ct_conn ct_done ct_resolved ct_finished ct_err ct_armed ct_fired ct_cancelled ct_gotStatus ct_bodyClosed ct_writing ct_returned ct_pooled ct_lckStuck ctu_tag ctu_req ctu_resp ctu_sid ctu_conn ctu_done ctu_resolved ctu_finished ctu_err ctu_armed ctu_fired ctu_cancelled ctu_gotStatus ctu_bodyClosed ctu_writing ctu_returned ctu_pooled ctu_lckStuck pb_id pb_tag pb_body pb_window pb_stream pb_size pb_read pb_drained pbu_id pbu_tag pbu_body pbu_window pbu_stream pbu_size pbu_read pbu_drained fst snd].
-Ltac cc_cbn_in H := cbn [cc_ctxs cc_nextID cc_open cc_maxStreams cc_maxFrame cc_goAway cc_closed cc_closing cc_netClosed cc_writeFail cc_enc cc_encTableSize cc_encTableSeen cc_dec cc_currentWindow cc_serverS cc_hdrStream cc_hdrPrev cc_hdrFields cc_hdrEndStream cc_hdrRegularSeen cc_hdrStatus cc_hdrErr cc_stateClosed cc_closeRef cc_reqQueued cc_pending cc_connWindow cc_streamWindow cc_inQ cc_outQ cc_winCh cc_lastErr cc_unacks cc_rl_done cc_wl_done cc_rl_stuck cc_wl_stuck cc_out ccu_ctxs ccu_nextID ccu_open ccu_maxStreams ccu_maxFrame ccu_goAway ccu_closed ccu_closing ccu_netClosed ccu_writeFail ccu_enc ccu_encTableSize ccu_encTableSeen ccu_dec ccu_currentWindow ccu_serverS ccu_hdrStream ccu_hdrPrev ccu_hdrFields ccu_hdrEndStream ccu_hdrRegularSeen ccu_hdrStatus ccu_hdrErr ccu_stateClosed ccu_closeRef ccu_reqQueued ccu_pending ccu_connWindow ccu_streamWindow ccu_inQ ccu_outQ ccu_winCh ccu_lastErr ccu_unacks ccu_rl_done ccu_wl_done ccu_rl_stuck ccu_wl_stuck ccu_out ct_tag ct_req ct_resp ct_sid ct_conn ct_done ct_resolved ct_finished ct_err ct_armed ct_fired ct_cancelled ct_gotStatus ct_bodyClosed ct_writing ct_returned ct_pooled ct_lckStuck ctu_tag ctu_req ctu_resp ctu_sid ctu_conn ctu_done ctu_resolved ctu_finished ctu_err ctu_armed ctu_fired ctu_cancelled ctu_gotStatus ctu_bodyClosed ctu_writing ctu_returned ctu_pooled ctu_lckStuck pb_id pb_tag pb_body pb_window pb_stream pb_size pb_read pb_drained pbu_id pbu_tag pbu_body pbu_window pbu_stream pbu_size pbu_read pbu_drained fst snd] in H.
-Ltac cc_cbn_all := cbn [cc_ctxs cc_nextID cc_open cc_maxStreams cc_maxFrame cc_goAway cc_closed cc_closing cc_netClosed cc_writeFail cc_enc cc_encTableSize cc_encTableSeen cc_dec cc_currentWindow cc_serverS cc_hdrStream cc_hdrPrev cc_hdrFields cc_hdrEndStream cc_hdrRegularSeen cc_hdrStatus cc_hdrErr cc_stateClosed cc_closeRef cc_reqQueued cc_pending cc_connWindow cc_streamWindow cc_inQ cc_outQ cc_winCh cc_lastErr cc_unacks cc_rl_done cc_wl_done cc_rl_stuck cc_wl_stuck cc_out ccu_ctxs ccu_nextID ccu_open ccu_maxStreams ccu_maxFrame ccu_goAway ccu_closed ccu_closing ccu_netClosed ccu_writeFail ccu_enc ccu_encTableSize ccu_encTableSeen ccu_dec ccu_currentWindow ccu_serverS ccu_hdrStream ccu_hdrPrev ccu_hdrFields ccu_hdrEndStream ccu_hdrRegularSeen ccu_hdrStatus ccu_hdrErr ccu_stateClosed ccu_closeRef ccu_reqQueued ccu_pending ccu_connWindow ccu_streamWindow ccu_inQ ccu_outQ ccu_winCh ccu_lastErr ccu_unacks ccu_rl_done ccu_wl_done ccu_rl_stuck ccu_wl_stuck ccu_out ct_tag ct_req ct_resp ct_sid ct_conn ct_done ct_resolved ct_finished ct_err ct_armed ct_fired ct_cancelled ct_gotStatus ct_bodyClosed ct_writing ct_returned ct_pooled ct_lckStuck ctu_tag ctu_req ctu_resp ctu_sid ctu_conn ctu_done ctu_resolved ctu_finished ctu_err ctu_armed ctu_fired ctu_cancelled ctu_gotStatus ctu_bodyClosed ctu_writing ctu_returned ctu_pooled ctu_lckStuck pb_id pb_tag pb_body pb_window pb_stream pb_size pb_read pb_drained pbu_id pbu_tag pbu_body pbu_window pbu_stream pbu_size pbu_read pbu_drained fst snd] in *.
-(* END GENERATED tactics *)
-Ltac cc_rw := autorewrite with cc.
-Ltac cc_rw_in H := autorewrite with cc in H.
-
-(* split every `if`/`match` scrutinee that blocks the goal, one at a time *)
-Ltac cc_split_ifs :=
-  repeat match goal with
-         | |- context [if ?b then _ else _] => destruct b eqn:?
-         | |- context [match ?s with Some _ => _ | None => _ end] => destruct s eqn:?
-         | |- context [match ?s with CLOk => _ | CLRefused => _ | CLSelf => _ | CLBlocked => _ end] => destruct s eqn:?
-         | |- context [let '(_, _) := ?p in _] => destruct p eqn:?
-         end.
 
 (* ---------- the tables: Ctx list, pending bodies, reqQueued ---------- *)
 Section Tables.
@@ -251,3172 +206,6 @@ Qed.
 
 End Tables.
 
-(* ---------- eq lemmas for the recursive helpers (what they change, as one setter) ---------- *)
-Section Eqs.
-Variable hstate : Type.
-Implicit Types c : cconn hstate.
-
-Lemma ccu_ctxs_same c : ccu_ctxs c (cc_ctxs c) = c.
-Proof. destruct c; reflexivity. Qed.
-Lemma ccu_out_same c : ccu_out c (cc_out c) = c.
-Proof. destruct c; reflexivity. Qed.
-Lemma ccu_ctxs_ccu_ctxs c l l' : ccu_ctxs (ccu_ctxs c l) l' = ccu_ctxs c l'.
-Proof. reflexivity. Qed.
-Lemma ccu_out_ccu_out c l l' : ccu_out (ccu_out c l) l' = ccu_out c l'.
-Proof. reflexivity. Qed.
-
-Lemma cl_notes_eq c l : cl_notes c l = ccu_out c (rev l ++ cc_out c).
-Proof.
-  revert c. induction l as [|o t IH]; intro c; cbn [cl_notes rev app]; [symmetry; apply ccu_out_same|].
-  rewrite IH. unfold cl_note. cbn [cc_out ccu_out]. rewrite <- app_assoc. reflexivity.
-Qed.
-
-Lemma cl_ctx_upd_eq c tag f : cl_ctx_upd c tag f = ccu_ctxs c (cc_ctxs (cl_ctx_upd c tag f)).
-Proof. unfold cl_ctx_upd, cl_ctx_put. destruct (cl_ctx_get c tag); [reflexivity | symmetry; apply ccu_ctxs_same]. Qed.
-
-Lemma cl_resolve_eq c tag e : cl_resolve c tag e = ccu_ctxs c (cc_ctxs (cl_resolve c tag e)).
-Proof. apply cl_ctx_upd_eq. Qed.
-
-Lemma cl_resolve_all_eq c tags e : cl_resolve_all c tags e = ccu_ctxs c (cc_ctxs (cl_resolve_all c tags e)).
-Proof.
-  revert c. induction tags as [|t r IH]; intro c; cbn [cl_resolve_all]; [symmetry; apply ccu_ctxs_same|].
-  rewrite IH at 1. rewrite cl_resolve_eq at 1. reflexivity.
-Qed.
-
-Lemma cl_stuck_fold_eq c held :
-  fold_left (fun c t => cl_ctx_upd c t (fun x => ctu_lckStuck x true)) held c =
-  ccu_ctxs c (cc_ctxs (fold_left (fun c t => cl_ctx_upd c t (fun x => ctu_lckStuck x true)) held c)).
-Proof.
-  revert c. induction held as [|t r IH]; intro c; cbn [fold_left]; [symmetry; apply ccu_ctxs_same|].
-  rewrite IH at 1. rewrite cl_ctx_upd_eq at 1. reflexivity.
-Qed.
-
-End Eqs.
-
-Ltac cc_unf :=
-  unfold cl_finish, cl_handle_settings, cl_update_window, cl_add_window, cl_apply_initial_window, cl_cancel_stream,
-         cl_delete_pending, cl_close_body, cl_go_stuck, cl_conn_close, cl_close_net, cl_close_begin, cl_signal_window,
-         cl_write_out, cl_take_req_count, cl_req_del, cl_set_last_err, cl_can_write;
-  try rewrite cl_notes_eq; try rewrite cl_resolve_all_eq; try rewrite cl_resolve_eq;
-  repeat match goal with
-         | |- context [fold_left (fun c t => cl_ctx_upd c t (fun x => ctu_lckStuck x true)) ?h ?c] =>
-           rewrite (cl_stuck_fold_eq _ c h)
-         | |- context [cl_ctx_upd ?c ?t ?f] => rewrite (cl_ctx_upd_eq _ c t f)
-         end;
-  unfold cl_ctx_put, cl_note;
-  cc_split_ifs; cc_cbn; first [reflexivity | congruence].
-
-Section Proj.
-Variable hstate : Type.
-(* BEGIN GENERATED upd (tools/gen_clibase.sh) *)
-Lemma cc_ctxs_ccu_ctxs (c : cconn hstate) v : cc_ctxs (ccu_ctxs c v) = v. Proof. reflexivity. Qed.
-Lemma cc_nextID_ccu_ctxs (c : cconn hstate) v : cc_nextID (ccu_ctxs c v) = cc_nextID c. Proof. reflexivity. Qed.
-Lemma cc_open_ccu_ctxs (c : cconn hstate) v : cc_open (ccu_ctxs c v) = cc_open c. Proof. reflexivity. Qed.
-Lemma cc_maxStreams_ccu_ctxs (c : cconn hstate) v : cc_maxStreams (ccu_ctxs c v) = cc_maxStreams c. Proof. reflexivity. Qed.
-Lemma cc_maxFrame_ccu_ctxs (c : cconn hstate) v : cc_maxFrame (ccu_ctxs c v) = cc_maxFrame c. Proof. reflexivity. Qed.
-Lemma cc_goAway_ccu_ctxs (c : cconn hstate) v : cc_goAway (ccu_ctxs c v) = cc_goAway c. Proof. reflexivity. Qed.
-Lemma cc_closed_ccu_ctxs (c : cconn hstate) v : cc_closed (ccu_ctxs c v) = cc_closed c. Proof. reflexivity. Qed.
-Lemma cc_closing_ccu_ctxs (c : cconn hstate) v : cc_closing (ccu_ctxs c v) = cc_closing c. Proof. reflexivity. Qed.
-Lemma cc_netClosed_ccu_ctxs (c : cconn hstate) v : cc_netClosed (ccu_ctxs c v) = cc_netClosed c. Proof. reflexivity. Qed.
-Lemma cc_writeFail_ccu_ctxs (c : cconn hstate) v : cc_writeFail (ccu_ctxs c v) = cc_writeFail c. Proof. reflexivity. Qed.
-Lemma cc_enc_ccu_ctxs (c : cconn hstate) v : cc_enc (ccu_ctxs c v) = cc_enc c. Proof. reflexivity. Qed.
-Lemma cc_encTableSize_ccu_ctxs (c : cconn hstate) v : cc_encTableSize (ccu_ctxs c v) = cc_encTableSize c. Proof. reflexivity. Qed.
-Lemma cc_encTableSeen_ccu_ctxs (c : cconn hstate) v : cc_encTableSeen (ccu_ctxs c v) = cc_encTableSeen c. Proof. reflexivity. Qed.
-Lemma cc_dec_ccu_ctxs (c : cconn hstate) v : cc_dec (ccu_ctxs c v) = cc_dec c. Proof. reflexivity. Qed.
-Lemma cc_currentWindow_ccu_ctxs (c : cconn hstate) v : cc_currentWindow (ccu_ctxs c v) = cc_currentWindow c. Proof. reflexivity. Qed.
-Lemma cc_serverS_ccu_ctxs (c : cconn hstate) v : cc_serverS (ccu_ctxs c v) = cc_serverS c. Proof. reflexivity. Qed.
-Lemma cc_hdrStream_ccu_ctxs (c : cconn hstate) v : cc_hdrStream (ccu_ctxs c v) = cc_hdrStream c. Proof. reflexivity. Qed.
-Lemma cc_hdrPrev_ccu_ctxs (c : cconn hstate) v : cc_hdrPrev (ccu_ctxs c v) = cc_hdrPrev c. Proof. reflexivity. Qed.
-Lemma cc_hdrFields_ccu_ctxs (c : cconn hstate) v : cc_hdrFields (ccu_ctxs c v) = cc_hdrFields c. Proof. reflexivity. Qed.
-Lemma cc_hdrEndStream_ccu_ctxs (c : cconn hstate) v : cc_hdrEndStream (ccu_ctxs c v) = cc_hdrEndStream c. Proof. reflexivity. Qed.
-Lemma cc_hdrRegularSeen_ccu_ctxs (c : cconn hstate) v : cc_hdrRegularSeen (ccu_ctxs c v) = cc_hdrRegularSeen c. Proof. reflexivity. Qed.
-Lemma cc_hdrStatus_ccu_ctxs (c : cconn hstate) v : cc_hdrStatus (ccu_ctxs c v) = cc_hdrStatus c. Proof. reflexivity. Qed.
-Lemma cc_hdrErr_ccu_ctxs (c : cconn hstate) v : cc_hdrErr (ccu_ctxs c v) = cc_hdrErr c. Proof. reflexivity. Qed.
-Lemma cc_stateClosed_ccu_ctxs (c : cconn hstate) v : cc_stateClosed (ccu_ctxs c v) = cc_stateClosed c. Proof. reflexivity. Qed.
-Lemma cc_closeRef_ccu_ctxs (c : cconn hstate) v : cc_closeRef (ccu_ctxs c v) = cc_closeRef c. Proof. reflexivity. Qed.
-Lemma cc_reqQueued_ccu_ctxs (c : cconn hstate) v : cc_reqQueued (ccu_ctxs c v) = cc_reqQueued c. Proof. reflexivity. Qed.
-Lemma cc_pending_ccu_ctxs (c : cconn hstate) v : cc_pending (ccu_ctxs c v) = cc_pending c. Proof. reflexivity. Qed.
-Lemma cc_connWindow_ccu_ctxs (c : cconn hstate) v : cc_connWindow (ccu_ctxs c v) = cc_connWindow c. Proof. reflexivity. Qed.
-Lemma cc_streamWindow_ccu_ctxs (c : cconn hstate) v : cc_streamWindow (ccu_ctxs c v) = cc_streamWindow c. Proof. reflexivity. Qed.
-Lemma cc_inQ_ccu_ctxs (c : cconn hstate) v : cc_inQ (ccu_ctxs c v) = cc_inQ c. Proof. reflexivity. Qed.
-Lemma cc_outQ_ccu_ctxs (c : cconn hstate) v : cc_outQ (ccu_ctxs c v) = cc_outQ c. Proof. reflexivity. Qed.
-Lemma cc_winCh_ccu_ctxs (c : cconn hstate) v : cc_winCh (ccu_ctxs c v) = cc_winCh c. Proof. reflexivity. Qed.
-Lemma cc_lastErr_ccu_ctxs (c : cconn hstate) v : cc_lastErr (ccu_ctxs c v) = cc_lastErr c. Proof. reflexivity. Qed.
-Lemma cc_unacks_ccu_ctxs (c : cconn hstate) v : cc_unacks (ccu_ctxs c v) = cc_unacks c. Proof. reflexivity. Qed.
-Lemma cc_rl_done_ccu_ctxs (c : cconn hstate) v : cc_rl_done (ccu_ctxs c v) = cc_rl_done c. Proof. reflexivity. Qed.
-Lemma cc_wl_done_ccu_ctxs (c : cconn hstate) v : cc_wl_done (ccu_ctxs c v) = cc_wl_done c. Proof. reflexivity. Qed.
-Lemma cc_rl_stuck_ccu_ctxs (c : cconn hstate) v : cc_rl_stuck (ccu_ctxs c v) = cc_rl_stuck c. Proof. reflexivity. Qed.
-Lemma cc_wl_stuck_ccu_ctxs (c : cconn hstate) v : cc_wl_stuck (ccu_ctxs c v) = cc_wl_stuck c. Proof. reflexivity. Qed.
-Lemma cc_out_ccu_ctxs (c : cconn hstate) v : cc_out (ccu_ctxs c v) = cc_out c. Proof. reflexivity. Qed.
-Lemma cc_ctxs_ccu_nextID (c : cconn hstate) v : cc_ctxs (ccu_nextID c v) = cc_ctxs c. Proof. reflexivity. Qed.
-Lemma cc_nextID_ccu_nextID (c : cconn hstate) v : cc_nextID (ccu_nextID c v) = v. Proof. reflexivity. Qed.
-Lemma cc_open_ccu_nextID (c : cconn hstate) v : cc_open (ccu_nextID c v) = cc_open c. Proof. reflexivity. Qed.
-Lemma cc_maxStreams_ccu_nextID (c : cconn hstate) v : cc_maxStreams (ccu_nextID c v) = cc_maxStreams c. Proof. reflexivity. Qed.
-Lemma cc_maxFrame_ccu_nextID (c : cconn hstate) v : cc_maxFrame (ccu_nextID c v) = cc_maxFrame c. Proof. reflexivity. Qed.
-Lemma cc_goAway_ccu_nextID (c : cconn hstate) v : cc_goAway (ccu_nextID c v) = cc_goAway c. Proof. reflexivity. Qed.
-Lemma cc_closed_ccu_nextID (c : cconn hstate) v : cc_closed (ccu_nextID c v) = cc_closed c. Proof. reflexivity. Qed.
-Lemma cc_closing_ccu_nextID (c : cconn hstate) v : cc_closing (ccu_nextID c v) = cc_closing c. Proof. reflexivity. Qed.
-Lemma cc_netClosed_ccu_nextID (c : cconn hstate) v : cc_netClosed (ccu_nextID c v) = cc_netClosed c. Proof. reflexivity. Qed.
-Lemma cc_writeFail_ccu_nextID (c : cconn hstate) v : cc_writeFail (ccu_nextID c v) = cc_writeFail c. Proof. reflexivity. Qed.
-Lemma cc_enc_ccu_nextID (c : cconn hstate) v : cc_enc (ccu_nextID c v) = cc_enc c. Proof. reflexivity. Qed.
-Lemma cc_encTableSize_ccu_nextID (c : cconn hstate) v : cc_encTableSize (ccu_nextID c v) = cc_encTableSize c. Proof. reflexivity. Qed.
-Lemma cc_encTableSeen_ccu_nextID (c : cconn hstate) v : cc_encTableSeen (ccu_nextID c v) = cc_encTableSeen c. Proof. reflexivity. Qed.
-Lemma cc_dec_ccu_nextID (c : cconn hstate) v : cc_dec (ccu_nextID c v) = cc_dec c. Proof. reflexivity. Qed.
-Lemma cc_currentWindow_ccu_nextID (c : cconn hstate) v : cc_currentWindow (ccu_nextID c v) = cc_currentWindow c. Proof. reflexivity. Qed.
-Lemma cc_serverS_ccu_nextID (c : cconn hstate) v : cc_serverS (ccu_nextID c v) = cc_serverS c. Proof. reflexivity. Qed.
-Lemma cc_hdrStream_ccu_nextID (c : cconn hstate) v : cc_hdrStream (ccu_nextID c v) = cc_hdrStream c. Proof. reflexivity. Qed.
-Lemma cc_hdrPrev_ccu_nextID (c : cconn hstate) v : cc_hdrPrev (ccu_nextID c v) = cc_hdrPrev c. Proof. reflexivity. Qed.
-Lemma cc_hdrFields_ccu_nextID (c : cconn hstate) v : cc_hdrFields (ccu_nextID c v) = cc_hdrFields c. Proof. reflexivity. Qed.
-Lemma cc_hdrEndStream_ccu_nextID (c : cconn hstate) v : cc_hdrEndStream (ccu_nextID c v) = cc_hdrEndStream c. Proof. reflexivity. Qed.
-Lemma cc_hdrRegularSeen_ccu_nextID (c : cconn hstate) v : cc_hdrRegularSeen (ccu_nextID c v) = cc_hdrRegularSeen c. Proof. reflexivity. Qed.
-Lemma cc_hdrStatus_ccu_nextID (c : cconn hstate) v : cc_hdrStatus (ccu_nextID c v) = cc_hdrStatus c. Proof. reflexivity. Qed.
-Lemma cc_hdrErr_ccu_nextID (c : cconn hstate) v : cc_hdrErr (ccu_nextID c v) = cc_hdrErr c. Proof. reflexivity. Qed.
-Lemma cc_stateClosed_ccu_nextID (c : cconn hstate) v : cc_stateClosed (ccu_nextID c v) = cc_stateClosed c. Proof. reflexivity. Qed.
-Lemma cc_closeRef_ccu_nextID (c : cconn hstate) v : cc_closeRef (ccu_nextID c v) = cc_closeRef c. Proof. reflexivity. Qed.
-Lemma cc_reqQueued_ccu_nextID (c : cconn hstate) v : cc_reqQueued (ccu_nextID c v) = cc_reqQueued c. Proof. reflexivity. Qed.
-Lemma cc_pending_ccu_nextID (c : cconn hstate) v : cc_pending (ccu_nextID c v) = cc_pending c. Proof. reflexivity. Qed.
-Lemma cc_connWindow_ccu_nextID (c : cconn hstate) v : cc_connWindow (ccu_nextID c v) = cc_connWindow c. Proof. reflexivity. Qed.
-Lemma cc_streamWindow_ccu_nextID (c : cconn hstate) v : cc_streamWindow (ccu_nextID c v) = cc_streamWindow c. Proof. reflexivity. Qed.
-Lemma cc_inQ_ccu_nextID (c : cconn hstate) v : cc_inQ (ccu_nextID c v) = cc_inQ c. Proof. reflexivity. Qed.
-Lemma cc_outQ_ccu_nextID (c : cconn hstate) v : cc_outQ (ccu_nextID c v) = cc_outQ c. Proof. reflexivity. Qed.
-Lemma cc_winCh_ccu_nextID (c : cconn hstate) v : cc_winCh (ccu_nextID c v) = cc_winCh c. Proof. reflexivity. Qed.
-Lemma cc_lastErr_ccu_nextID (c : cconn hstate) v : cc_lastErr (ccu_nextID c v) = cc_lastErr c. Proof. reflexivity. Qed.
-Lemma cc_unacks_ccu_nextID (c : cconn hstate) v : cc_unacks (ccu_nextID c v) = cc_unacks c. Proof. reflexivity. Qed.
-Lemma cc_rl_done_ccu_nextID (c : cconn hstate) v : cc_rl_done (ccu_nextID c v) = cc_rl_done c. Proof. reflexivity. Qed.
-Lemma cc_wl_done_ccu_nextID (c : cconn hstate) v : cc_wl_done (ccu_nextID c v) = cc_wl_done c. Proof. reflexivity. Qed.
-Lemma cc_rl_stuck_ccu_nextID (c : cconn hstate) v : cc_rl_stuck (ccu_nextID c v) = cc_rl_stuck c. Proof. reflexivity. Qed.
-Lemma cc_wl_stuck_ccu_nextID (c : cconn hstate) v : cc_wl_stuck (ccu_nextID c v) = cc_wl_stuck c. Proof. reflexivity. Qed.
-Lemma cc_out_ccu_nextID (c : cconn hstate) v : cc_out (ccu_nextID c v) = cc_out c. Proof. reflexivity. Qed.
-Lemma cc_ctxs_ccu_open (c : cconn hstate) v : cc_ctxs (ccu_open c v) = cc_ctxs c. Proof. reflexivity. Qed.
-Lemma cc_nextID_ccu_open (c : cconn hstate) v : cc_nextID (ccu_open c v) = cc_nextID c. Proof. reflexivity. Qed.
-Lemma cc_open_ccu_open (c : cconn hstate) v : cc_open (ccu_open c v) = v. Proof. reflexivity. Qed.
-Lemma cc_maxStreams_ccu_open (c : cconn hstate) v : cc_maxStreams (ccu_open c v) = cc_maxStreams c. Proof. reflexivity. Qed.
-Lemma cc_maxFrame_ccu_open (c : cconn hstate) v : cc_maxFrame (ccu_open c v) = cc_maxFrame c. Proof. reflexivity. Qed.
-Lemma cc_goAway_ccu_open (c : cconn hstate) v : cc_goAway (ccu_open c v) = cc_goAway c. Proof. reflexivity. Qed.
-Lemma cc_closed_ccu_open (c : cconn hstate) v : cc_closed (ccu_open c v) = cc_closed c. Proof. reflexivity. Qed.
-Lemma cc_closing_ccu_open (c : cconn hstate) v : cc_closing (ccu_open c v) = cc_closing c. Proof. reflexivity. Qed.
-Lemma cc_netClosed_ccu_open (c : cconn hstate) v : cc_netClosed (ccu_open c v) = cc_netClosed c. Proof. reflexivity. Qed.
-Lemma cc_writeFail_ccu_open (c : cconn hstate) v : cc_writeFail (ccu_open c v) = cc_writeFail c. Proof. reflexivity. Qed.
-Lemma cc_enc_ccu_open (c : cconn hstate) v : cc_enc (ccu_open c v) = cc_enc c. Proof. reflexivity. Qed.
-Lemma cc_encTableSize_ccu_open (c : cconn hstate) v : cc_encTableSize (ccu_open c v) = cc_encTableSize c. Proof. reflexivity. Qed.
-Lemma cc_encTableSeen_ccu_open (c : cconn hstate) v : cc_encTableSeen (ccu_open c v) = cc_encTableSeen c. Proof. reflexivity. Qed.
-Lemma cc_dec_ccu_open (c : cconn hstate) v : cc_dec (ccu_open c v) = cc_dec c. Proof. reflexivity. Qed.
-Lemma cc_currentWindow_ccu_open (c : cconn hstate) v : cc_currentWindow (ccu_open c v) = cc_currentWindow c. Proof. reflexivity. Qed.
-Lemma cc_serverS_ccu_open (c : cconn hstate) v : cc_serverS (ccu_open c v) = cc_serverS c. Proof. reflexivity. Qed.
-Lemma cc_hdrStream_ccu_open (c : cconn hstate) v : cc_hdrStream (ccu_open c v) = cc_hdrStream c. Proof. reflexivity. Qed.
-Lemma cc_hdrPrev_ccu_open (c : cconn hstate) v : cc_hdrPrev (ccu_open c v) = cc_hdrPrev c. Proof. reflexivity. Qed.
-Lemma cc_hdrFields_ccu_open (c : cconn hstate) v : cc_hdrFields (ccu_open c v) = cc_hdrFields c. Proof. reflexivity. Qed.
-Lemma cc_hdrEndStream_ccu_open (c : cconn hstate) v : cc_hdrEndStream (ccu_open c v) = cc_hdrEndStream c. Proof. reflexivity. Qed.
-Lemma cc_hdrRegularSeen_ccu_open (c : cconn hstate) v : cc_hdrRegularSeen (ccu_open c v) = cc_hdrRegularSeen c. Proof. reflexivity. Qed.
-Lemma cc_hdrStatus_ccu_open (c : cconn hstate) v : cc_hdrStatus (ccu_open c v) = cc_hdrStatus c. Proof. reflexivity. Qed.
-Lemma cc_hdrErr_ccu_open (c : cconn hstate) v : cc_hdrErr (ccu_open c v) = cc_hdrErr c. Proof. reflexivity. Qed.
-Lemma cc_stateClosed_ccu_open (c : cconn hstate) v : cc_stateClosed (ccu_open c v) = cc_stateClosed c. Proof. reflexivity. Qed.
-Lemma cc_closeRef_ccu_open (c : cconn hstate) v : cc_closeRef (ccu_open c v) = cc_closeRef c. Proof. reflexivity. Qed.
-Lemma cc_reqQueued_ccu_open (c : cconn hstate) v : cc_reqQueued (ccu_open c v) = cc_reqQueued c. Proof. reflexivity. Qed.
-Lemma cc_pending_ccu_open (c : cconn hstate) v : cc_pending (ccu_open c v) = cc_pending c. Proof. reflexivity. Qed.
-Lemma cc_connWindow_ccu_open (c : cconn hstate) v : cc_connWindow (ccu_open c v) = cc_connWindow c. Proof. reflexivity. Qed.
-Lemma cc_streamWindow_ccu_open (c : cconn hstate) v : cc_streamWindow (ccu_open c v) = cc_streamWindow c. Proof. reflexivity. Qed.
-Lemma cc_inQ_ccu_open (c : cconn hstate) v : cc_inQ (ccu_open c v) = cc_inQ c. Proof. reflexivity. Qed.
-Lemma cc_outQ_ccu_open (c : cconn hstate) v : cc_outQ (ccu_open c v) = cc_outQ c. Proof. reflexivity. Qed.
-Lemma cc_winCh_ccu_open (c : cconn hstate) v : cc_winCh (ccu_open c v) = cc_winCh c. Proof. reflexivity. Qed.
-Lemma cc_lastErr_ccu_open (c : cconn hstate) v : cc_lastErr (ccu_open c v) = cc_lastErr c. Proof. reflexivity. Qed.
-Lemma cc_unacks_ccu_open (c : cconn hstate) v : cc_unacks (ccu_open c v) = cc_unacks c. Proof. reflexivity. Qed.
-Lemma cc_rl_done_ccu_open (c : cconn hstate) v : cc_rl_done (ccu_open c v) = cc_rl_done c. Proof. reflexivity. Qed.
-Lemma cc_wl_done_ccu_open (c : cconn hstate) v : cc_wl_done (ccu_open c v) = cc_wl_done c. Proof. reflexivity. Qed.
-Lemma cc_rl_stuck_ccu_open (c : cconn hstate) v : cc_rl_stuck (ccu_open c v) = cc_rl_stuck c. Proof. reflexivity. Qed.
-Lemma cc_wl_stuck_ccu_open (c : cconn hstate) v : cc_wl_stuck (ccu_open c v) = cc_wl_stuck c. Proof. reflexivity. Qed.
-Lemma cc_out_ccu_open (c : cconn hstate) v : cc_out (ccu_open c v) = cc_out c. Proof. reflexivity. Qed.
-Lemma cc_ctxs_ccu_maxStreams (c : cconn hstate) v : cc_ctxs (ccu_maxStreams c v) = cc_ctxs c. Proof. reflexivity. Qed.
-Lemma cc_nextID_ccu_maxStreams (c : cconn hstate) v : cc_nextID (ccu_maxStreams c v) = cc_nextID c. Proof. reflexivity. Qed.
-Lemma cc_open_ccu_maxStreams (c : cconn hstate) v : cc_open (ccu_maxStreams c v) = cc_open c. Proof. reflexivity. Qed.
-Lemma cc_maxStreams_ccu_maxStreams (c : cconn hstate) v : cc_maxStreams (ccu_maxStreams c v) = v. Proof. reflexivity. Qed.
-Lemma cc_maxFrame_ccu_maxStreams (c : cconn hstate) v : cc_maxFrame (ccu_maxStreams c v) = cc_maxFrame c. Proof. reflexivity. Qed.
-Lemma cc_goAway_ccu_maxStreams (c : cconn hstate) v : cc_goAway (ccu_maxStreams c v) = cc_goAway c. Proof. reflexivity. Qed.
-Lemma cc_closed_ccu_maxStreams (c : cconn hstate) v : cc_closed (ccu_maxStreams c v) = cc_closed c. Proof. reflexivity. Qed.
-Lemma cc_closing_ccu_maxStreams (c : cconn hstate) v : cc_closing (ccu_maxStreams c v) = cc_closing c. Proof. reflexivity. Qed.
-Lemma cc_netClosed_ccu_maxStreams (c : cconn hstate) v : cc_netClosed (ccu_maxStreams c v) = cc_netClosed c. Proof. reflexivity. Qed.
-Lemma cc_writeFail_ccu_maxStreams (c : cconn hstate) v : cc_writeFail (ccu_maxStreams c v) = cc_writeFail c. Proof. reflexivity. Qed.
-Lemma cc_enc_ccu_maxStreams (c : cconn hstate) v : cc_enc (ccu_maxStreams c v) = cc_enc c. Proof. reflexivity. Qed.
-Lemma cc_encTableSize_ccu_maxStreams (c : cconn hstate) v : cc_encTableSize (ccu_maxStreams c v) = cc_encTableSize c. Proof. reflexivity. Qed.
-Lemma cc_encTableSeen_ccu_maxStreams (c : cconn hstate) v : cc_encTableSeen (ccu_maxStreams c v) = cc_encTableSeen c. Proof. reflexivity. Qed.
-Lemma cc_dec_ccu_maxStreams (c : cconn hstate) v : cc_dec (ccu_maxStreams c v) = cc_dec c. Proof. reflexivity. Qed.
-Lemma cc_currentWindow_ccu_maxStreams (c : cconn hstate) v : cc_currentWindow (ccu_maxStreams c v) = cc_currentWindow c. Proof. reflexivity. Qed.
-Lemma cc_serverS_ccu_maxStreams (c : cconn hstate) v : cc_serverS (ccu_maxStreams c v) = cc_serverS c. Proof. reflexivity. Qed.
-Lemma cc_hdrStream_ccu_maxStreams (c : cconn hstate) v : cc_hdrStream (ccu_maxStreams c v) = cc_hdrStream c. Proof. reflexivity. Qed.
-Lemma cc_hdrPrev_ccu_maxStreams (c : cconn hstate) v : cc_hdrPrev (ccu_maxStreams c v) = cc_hdrPrev c. Proof. reflexivity. Qed.
-Lemma cc_hdrFields_ccu_maxStreams (c : cconn hstate) v : cc_hdrFields (ccu_maxStreams c v) = cc_hdrFields c. Proof. reflexivity. Qed.
-Lemma cc_hdrEndStream_ccu_maxStreams (c : cconn hstate) v : cc_hdrEndStream (ccu_maxStreams c v) = cc_hdrEndStream c. Proof. reflexivity. Qed.
-Lemma cc_hdrRegularSeen_ccu_maxStreams (c : cconn hstate) v : cc_hdrRegularSeen (ccu_maxStreams c v) = cc_hdrRegularSeen c. Proof. reflexivity. Qed.
-Lemma cc_hdrStatus_ccu_maxStreams (c : cconn hstate) v : cc_hdrStatus (ccu_maxStreams c v) = cc_hdrStatus c. Proof. reflexivity. Qed.
-Lemma cc_hdrErr_ccu_maxStreams (c : cconn hstate) v : cc_hdrErr (ccu_maxStreams c v) = cc_hdrErr c. Proof. reflexivity. Qed.
-Lemma cc_stateClosed_ccu_maxStreams (c : cconn hstate) v : cc_stateClosed (ccu_maxStreams c v) = cc_stateClosed c. Proof. reflexivity. Qed.
-Lemma cc_closeRef_ccu_maxStreams (c : cconn hstate) v : cc_closeRef (ccu_maxStreams c v) = cc_closeRef c. Proof. reflexivity. Qed.
-Lemma cc_reqQueued_ccu_maxStreams (c : cconn hstate) v : cc_reqQueued (ccu_maxStreams c v) = cc_reqQueued c. Proof. reflexivity. Qed.
-Lemma cc_pending_ccu_maxStreams (c : cconn hstate) v : cc_pending (ccu_maxStreams c v) = cc_pending c. Proof. reflexivity. Qed.
-Lemma cc_connWindow_ccu_maxStreams (c : cconn hstate) v : cc_connWindow (ccu_maxStreams c v) = cc_connWindow c. Proof. reflexivity. Qed.
-Lemma cc_streamWindow_ccu_maxStreams (c : cconn hstate) v : cc_streamWindow (ccu_maxStreams c v) = cc_streamWindow c. Proof. reflexivity. Qed.
-Lemma cc_inQ_ccu_maxStreams (c : cconn hstate) v : cc_inQ (ccu_maxStreams c v) = cc_inQ c. Proof. reflexivity. Qed.
-Lemma cc_outQ_ccu_maxStreams (c : cconn hstate) v : cc_outQ (ccu_maxStreams c v) = cc_outQ c. Proof. reflexivity. Qed.
-Lemma cc_winCh_ccu_maxStreams (c : cconn hstate) v : cc_winCh (ccu_maxStreams c v) = cc_winCh c. Proof. reflexivity. Qed.
-Lemma cc_lastErr_ccu_maxStreams (c : cconn hstate) v : cc_lastErr (ccu_maxStreams c v) = cc_lastErr c. Proof. reflexivity. Qed.
-Lemma cc_unacks_ccu_maxStreams (c : cconn hstate) v : cc_unacks (ccu_maxStreams c v) = cc_unacks c. Proof. reflexivity. Qed.
-Lemma cc_rl_done_ccu_maxStreams (c : cconn hstate) v : cc_rl_done (ccu_maxStreams c v) = cc_rl_done c. Proof. reflexivity. Qed.
-Lemma cc_wl_done_ccu_maxStreams (c : cconn hstate) v : cc_wl_done (ccu_maxStreams c v) = cc_wl_done c. Proof. reflexivity. Qed.
-Lemma cc_rl_stuck_ccu_maxStreams (c : cconn hstate) v : cc_rl_stuck (ccu_maxStreams c v) = cc_rl_stuck c. Proof. reflexivity. Qed.
-Lemma cc_wl_stuck_ccu_maxStreams (c : cconn hstate) v : cc_wl_stuck (ccu_maxStreams c v) = cc_wl_stuck c. Proof. reflexivity. Qed.
-Lemma cc_out_ccu_maxStreams (c : cconn hstate) v : cc_out (ccu_maxStreams c v) = cc_out c. Proof. reflexivity. Qed.
-Lemma cc_ctxs_ccu_maxFrame (c : cconn hstate) v : cc_ctxs (ccu_maxFrame c v) = cc_ctxs c. Proof. reflexivity. Qed.
-Lemma cc_nextID_ccu_maxFrame (c : cconn hstate) v : cc_nextID (ccu_maxFrame c v) = cc_nextID c. Proof. reflexivity. Qed.
-Lemma cc_open_ccu_maxFrame (c : cconn hstate) v : cc_open (ccu_maxFrame c v) = cc_open c. Proof. reflexivity. Qed.
-Lemma cc_maxStreams_ccu_maxFrame (c : cconn hstate) v : cc_maxStreams (ccu_maxFrame c v) = cc_maxStreams c. Proof. reflexivity. Qed.
-Lemma cc_maxFrame_ccu_maxFrame (c : cconn hstate) v : cc_maxFrame (ccu_maxFrame c v) = v. Proof. reflexivity. Qed.
-Lemma cc_goAway_ccu_maxFrame (c : cconn hstate) v : cc_goAway (ccu_maxFrame c v) = cc_goAway c. Proof. reflexivity. Qed.
-Lemma cc_closed_ccu_maxFrame (c : cconn hstate) v : cc_closed (ccu_maxFrame c v) = cc_closed c. Proof. reflexivity. Qed.
-Lemma cc_closing_ccu_maxFrame (c : cconn hstate) v : cc_closing (ccu_maxFrame c v) = cc_closing c. Proof. reflexivity. Qed.
-Lemma cc_netClosed_ccu_maxFrame (c : cconn hstate) v : cc_netClosed (ccu_maxFrame c v) = cc_netClosed c. Proof. reflexivity. Qed.
-Lemma cc_writeFail_ccu_maxFrame (c : cconn hstate) v : cc_writeFail (ccu_maxFrame c v) = cc_writeFail c. Proof. reflexivity. Qed.
-Lemma cc_enc_ccu_maxFrame (c : cconn hstate) v : cc_enc (ccu_maxFrame c v) = cc_enc c. Proof. reflexivity. Qed.
-Lemma cc_encTableSize_ccu_maxFrame (c : cconn hstate) v : cc_encTableSize (ccu_maxFrame c v) = cc_encTableSize c. Proof. reflexivity. Qed.
-Lemma cc_encTableSeen_ccu_maxFrame (c : cconn hstate) v : cc_encTableSeen (ccu_maxFrame c v) = cc_encTableSeen c. Proof. reflexivity. Qed.
-Lemma cc_dec_ccu_maxFrame (c : cconn hstate) v : cc_dec (ccu_maxFrame c v) = cc_dec c. Proof. reflexivity. Qed.
-Lemma cc_currentWindow_ccu_maxFrame (c : cconn hstate) v : cc_currentWindow (ccu_maxFrame c v) = cc_currentWindow c. Proof. reflexivity. Qed.
-Lemma cc_serverS_ccu_maxFrame (c : cconn hstate) v : cc_serverS (ccu_maxFrame c v) = cc_serverS c. Proof. reflexivity. Qed.
-Lemma cc_hdrStream_ccu_maxFrame (c : cconn hstate) v : cc_hdrStream (ccu_maxFrame c v) = cc_hdrStream c. Proof. reflexivity. Qed.
-Lemma cc_hdrPrev_ccu_maxFrame (c : cconn hstate) v : cc_hdrPrev (ccu_maxFrame c v) = cc_hdrPrev c. Proof. reflexivity. Qed.
-Lemma cc_hdrFields_ccu_maxFrame (c : cconn hstate) v : cc_hdrFields (ccu_maxFrame c v) = cc_hdrFields c. Proof. reflexivity. Qed.
-Lemma cc_hdrEndStream_ccu_maxFrame (c : cconn hstate) v : cc_hdrEndStream (ccu_maxFrame c v) = cc_hdrEndStream c. Proof. reflexivity. Qed.
-Lemma cc_hdrRegularSeen_ccu_maxFrame (c : cconn hstate) v : cc_hdrRegularSeen (ccu_maxFrame c v) = cc_hdrRegularSeen c. Proof. reflexivity. Qed.
-Lemma cc_hdrStatus_ccu_maxFrame (c : cconn hstate) v : cc_hdrStatus (ccu_maxFrame c v) = cc_hdrStatus c. Proof. reflexivity. Qed.
-Lemma cc_hdrErr_ccu_maxFrame (c : cconn hstate) v : cc_hdrErr (ccu_maxFrame c v) = cc_hdrErr c. Proof. reflexivity. Qed.
-Lemma cc_stateClosed_ccu_maxFrame (c : cconn hstate) v : cc_stateClosed (ccu_maxFrame c v) = cc_stateClosed c. Proof. reflexivity. Qed.
-Lemma cc_closeRef_ccu_maxFrame (c : cconn hstate) v : cc_closeRef (ccu_maxFrame c v) = cc_closeRef c. Proof. reflexivity. Qed.
-Lemma cc_reqQueued_ccu_maxFrame (c : cconn hstate) v : cc_reqQueued (ccu_maxFrame c v) = cc_reqQueued c. Proof. reflexivity. Qed.
-Lemma cc_pending_ccu_maxFrame (c : cconn hstate) v : cc_pending (ccu_maxFrame c v) = cc_pending c. Proof. reflexivity. Qed.
-Lemma cc_connWindow_ccu_maxFrame (c : cconn hstate) v : cc_connWindow (ccu_maxFrame c v) = cc_connWindow c. Proof. reflexivity. Qed.
-Lemma cc_streamWindow_ccu_maxFrame (c : cconn hstate) v : cc_streamWindow (ccu_maxFrame c v) = cc_streamWindow c. Proof. reflexivity. Qed.
-Lemma cc_inQ_ccu_maxFrame (c : cconn hstate) v : cc_inQ (ccu_maxFrame c v) = cc_inQ c. Proof. reflexivity. Qed.
-Lemma cc_outQ_ccu_maxFrame (c : cconn hstate) v : cc_outQ (ccu_maxFrame c v) = cc_outQ c. Proof. reflexivity. Qed.
-Lemma cc_winCh_ccu_maxFrame (c : cconn hstate) v : cc_winCh (ccu_maxFrame c v) = cc_winCh c. Proof. reflexivity. Qed.
-Lemma cc_lastErr_ccu_maxFrame (c : cconn hstate) v : cc_lastErr (ccu_maxFrame c v) = cc_lastErr c. Proof. reflexivity. Qed.
-Lemma cc_unacks_ccu_maxFrame (c : cconn hstate) v : cc_unacks (ccu_maxFrame c v) = cc_unacks c. Proof. reflexivity. Qed.
-Lemma cc_rl_done_ccu_maxFrame (c : cconn hstate) v : cc_rl_done (ccu_maxFrame c v) = cc_rl_done c. Proof. reflexivity. Qed.
-Lemma cc_wl_done_ccu_maxFrame (c : cconn hstate) v : cc_wl_done (ccu_maxFrame c v) = cc_wl_done c. Proof. reflexivity. Qed.
-Lemma cc_rl_stuck_ccu_maxFrame (c : cconn hstate) v : cc_rl_stuck (ccu_maxFrame c v) = cc_rl_stuck c. Proof. reflexivity. Qed.
-Lemma cc_wl_stuck_ccu_maxFrame (c : cconn hstate) v : cc_wl_stuck (ccu_maxFrame c v) = cc_wl_stuck c. Proof. reflexivity. Qed.
-Lemma cc_out_ccu_maxFrame (c : cconn hstate) v : cc_out (ccu_maxFrame c v) = cc_out c. Proof. reflexivity. Qed.
-Lemma cc_ctxs_ccu_goAway (c : cconn hstate) v : cc_ctxs (ccu_goAway c v) = cc_ctxs c. Proof. reflexivity. Qed.
-Lemma cc_nextID_ccu_goAway (c : cconn hstate) v : cc_nextID (ccu_goAway c v) = cc_nextID c. Proof. reflexivity. Qed.
-Lemma cc_open_ccu_goAway (c : cconn hstate) v : cc_open (ccu_goAway c v) = cc_open c. Proof. reflexivity. Qed.
-Lemma cc_maxStreams_ccu_goAway (c : cconn hstate) v : cc_maxStreams (ccu_goAway c v) = cc_maxStreams c. Proof. reflexivity. Qed.
-Lemma cc_maxFrame_ccu_goAway (c : cconn hstate) v : cc_maxFrame (ccu_goAway c v) = cc_maxFrame c. Proof. reflexivity. Qed.
-Lemma cc_goAway_ccu_goAway (c : cconn hstate) v : cc_goAway (ccu_goAway c v) = v. Proof. reflexivity. Qed.
-Lemma cc_closed_ccu_goAway (c : cconn hstate) v : cc_closed (ccu_goAway c v) = cc_closed c. Proof. reflexivity. Qed.
-Lemma cc_closing_ccu_goAway (c : cconn hstate) v : cc_closing (ccu_goAway c v) = cc_closing c. Proof. reflexivity. Qed.
-Lemma cc_netClosed_ccu_goAway (c : cconn hstate) v : cc_netClosed (ccu_goAway c v) = cc_netClosed c. Proof. reflexivity. Qed.
-Lemma cc_writeFail_ccu_goAway (c : cconn hstate) v : cc_writeFail (ccu_goAway c v) = cc_writeFail c. Proof. reflexivity. Qed.
-Lemma cc_enc_ccu_goAway (c : cconn hstate) v : cc_enc (ccu_goAway c v) = cc_enc c. Proof. reflexivity. Qed.
-Lemma cc_encTableSize_ccu_goAway (c : cconn hstate) v : cc_encTableSize (ccu_goAway c v) = cc_encTableSize c. Proof. reflexivity. Qed.
-Lemma cc_encTableSeen_ccu_goAway (c : cconn hstate) v : cc_encTableSeen (ccu_goAway c v) = cc_encTableSeen c. Proof. reflexivity. Qed.
-Lemma cc_dec_ccu_goAway (c : cconn hstate) v : cc_dec (ccu_goAway c v) = cc_dec c. Proof. reflexivity. Qed.
-Lemma cc_currentWindow_ccu_goAway (c : cconn hstate) v : cc_currentWindow (ccu_goAway c v) = cc_currentWindow c. Proof. reflexivity. Qed.
-Lemma cc_serverS_ccu_goAway (c : cconn hstate) v : cc_serverS (ccu_goAway c v) = cc_serverS c. Proof. reflexivity. Qed.
-Lemma cc_hdrStream_ccu_goAway (c : cconn hstate) v : cc_hdrStream (ccu_goAway c v) = cc_hdrStream c. Proof. reflexivity. Qed.
-Lemma cc_hdrPrev_ccu_goAway (c : cconn hstate) v : cc_hdrPrev (ccu_goAway c v) = cc_hdrPrev c. Proof. reflexivity. Qed.
-Lemma cc_hdrFields_ccu_goAway (c : cconn hstate) v : cc_hdrFields (ccu_goAway c v) = cc_hdrFields c. Proof. reflexivity. Qed.
-Lemma cc_hdrEndStream_ccu_goAway (c : cconn hstate) v : cc_hdrEndStream (ccu_goAway c v) = cc_hdrEndStream c. Proof. reflexivity. Qed.
-Lemma cc_hdrRegularSeen_ccu_goAway (c : cconn hstate) v : cc_hdrRegularSeen (ccu_goAway c v) = cc_hdrRegularSeen c. Proof. reflexivity. Qed.
-Lemma cc_hdrStatus_ccu_goAway (c : cconn hstate) v : cc_hdrStatus (ccu_goAway c v) = cc_hdrStatus c. Proof. reflexivity. Qed.
-Lemma cc_hdrErr_ccu_goAway (c : cconn hstate) v : cc_hdrErr (ccu_goAway c v) = cc_hdrErr c. Proof. reflexivity. Qed.
-Lemma cc_stateClosed_ccu_goAway (c : cconn hstate) v : cc_stateClosed (ccu_goAway c v) = cc_stateClosed c. Proof. reflexivity. Qed.
-Lemma cc_closeRef_ccu_goAway (c : cconn hstate) v : cc_closeRef (ccu_goAway c v) = cc_closeRef c. Proof. reflexivity. Qed.
-Lemma cc_reqQueued_ccu_goAway (c : cconn hstate) v : cc_reqQueued (ccu_goAway c v) = cc_reqQueued c. Proof. reflexivity. Qed.
-Lemma cc_pending_ccu_goAway (c : cconn hstate) v : cc_pending (ccu_goAway c v) = cc_pending c. Proof. reflexivity. Qed.
-Lemma cc_connWindow_ccu_goAway (c : cconn hstate) v : cc_connWindow (ccu_goAway c v) = cc_connWindow c. Proof. reflexivity. Qed.
-Lemma cc_streamWindow_ccu_goAway (c : cconn hstate) v : cc_streamWindow (ccu_goAway c v) = cc_streamWindow c. Proof. reflexivity. Qed.
-Lemma cc_inQ_ccu_goAway (c : cconn hstate) v : cc_inQ (ccu_goAway c v) = cc_inQ c. Proof. reflexivity. Qed.
-Lemma cc_outQ_ccu_goAway (c : cconn hstate) v : cc_outQ (ccu_goAway c v) = cc_outQ c. Proof. reflexivity. Qed.
-Lemma cc_winCh_ccu_goAway (c : cconn hstate) v : cc_winCh (ccu_goAway c v) = cc_winCh c. Proof. reflexivity. Qed.
-Lemma cc_lastErr_ccu_goAway (c : cconn hstate) v : cc_lastErr (ccu_goAway c v) = cc_lastErr c. Proof. reflexivity. Qed.
-Lemma cc_unacks_ccu_goAway (c : cconn hstate) v : cc_unacks (ccu_goAway c v) = cc_unacks c. Proof. reflexivity. Qed.
-Lemma cc_rl_done_ccu_goAway (c : cconn hstate) v : cc_rl_done (ccu_goAway c v) = cc_rl_done c. Proof. reflexivity. Qed.
-Lemma cc_wl_done_ccu_goAway (c : cconn hstate) v : cc_wl_done (ccu_goAway c v) = cc_wl_done c. Proof. reflexivity. Qed.
-Lemma cc_rl_stuck_ccu_goAway (c : cconn hstate) v : cc_rl_stuck (ccu_goAway c v) = cc_rl_stuck c. Proof. reflexivity. Qed.
-Lemma cc_wl_stuck_ccu_goAway (c : cconn hstate) v : cc_wl_stuck (ccu_goAway c v) = cc_wl_stuck c. Proof. reflexivity. Qed.
-Lemma cc_out_ccu_goAway (c : cconn hstate) v : cc_out (ccu_goAway c v) = cc_out c. Proof. reflexivity. Qed.
-Lemma cc_ctxs_ccu_closed (c : cconn hstate) v : cc_ctxs (ccu_closed c v) = cc_ctxs c. Proof. reflexivity. Qed.
-Lemma cc_nextID_ccu_closed (c : cconn hstate) v : cc_nextID (ccu_closed c v) = cc_nextID c. Proof. reflexivity. Qed.
-Lemma cc_open_ccu_closed (c : cconn hstate) v : cc_open (ccu_closed c v) = cc_open c. Proof. reflexivity. Qed.
-Lemma cc_maxStreams_ccu_closed (c : cconn hstate) v : cc_maxStreams (ccu_closed c v) = cc_maxStreams c. Proof. reflexivity. Qed.
-Lemma cc_maxFrame_ccu_closed (c : cconn hstate) v : cc_maxFrame (ccu_closed c v) = cc_maxFrame c. Proof. reflexivity. Qed.
-Lemma cc_goAway_ccu_closed (c : cconn hstate) v : cc_goAway (ccu_closed c v) = cc_goAway c. Proof. reflexivity. Qed.
-Lemma cc_closed_ccu_closed (c : cconn hstate) v : cc_closed (ccu_closed c v) = v. Proof. reflexivity. Qed.
-Lemma cc_closing_ccu_closed (c : cconn hstate) v : cc_closing (ccu_closed c v) = cc_closing c. Proof. reflexivity. Qed.
-Lemma cc_netClosed_ccu_closed (c : cconn hstate) v : cc_netClosed (ccu_closed c v) = cc_netClosed c. Proof. reflexivity. Qed.
-Lemma cc_writeFail_ccu_closed (c : cconn hstate) v : cc_writeFail (ccu_closed c v) = cc_writeFail c. Proof. reflexivity. Qed.
-Lemma cc_enc_ccu_closed (c : cconn hstate) v : cc_enc (ccu_closed c v) = cc_enc c. Proof. reflexivity. Qed.
-Lemma cc_encTableSize_ccu_closed (c : cconn hstate) v : cc_encTableSize (ccu_closed c v) = cc_encTableSize c. Proof. reflexivity. Qed.
-Lemma cc_encTableSeen_ccu_closed (c : cconn hstate) v : cc_encTableSeen (ccu_closed c v) = cc_encTableSeen c. Proof. reflexivity. Qed.
-Lemma cc_dec_ccu_closed (c : cconn hstate) v : cc_dec (ccu_closed c v) = cc_dec c. Proof. reflexivity. Qed.
-Lemma cc_currentWindow_ccu_closed (c : cconn hstate) v : cc_currentWindow (ccu_closed c v) = cc_currentWindow c. Proof. reflexivity. Qed.
-Lemma cc_serverS_ccu_closed (c : cconn hstate) v : cc_serverS (ccu_closed c v) = cc_serverS c. Proof. reflexivity. Qed.
-Lemma cc_hdrStream_ccu_closed (c : cconn hstate) v : cc_hdrStream (ccu_closed c v) = cc_hdrStream c. Proof. reflexivity. Qed.
-Lemma cc_hdrPrev_ccu_closed (c : cconn hstate) v : cc_hdrPrev (ccu_closed c v) = cc_hdrPrev c. Proof. reflexivity. Qed.
-Lemma cc_hdrFields_ccu_closed (c : cconn hstate) v : cc_hdrFields (ccu_closed c v) = cc_hdrFields c. Proof. reflexivity. Qed.
-Lemma cc_hdrEndStream_ccu_closed (c : cconn hstate) v : cc_hdrEndStream (ccu_closed c v) = cc_hdrEndStream c. Proof. reflexivity. Qed.
-Lemma cc_hdrRegularSeen_ccu_closed (c : cconn hstate) v : cc_hdrRegularSeen (ccu_closed c v) = cc_hdrRegularSeen c. Proof. reflexivity. Qed.
-Lemma cc_hdrStatus_ccu_closed (c : cconn hstate) v : cc_hdrStatus (ccu_closed c v) = cc_hdrStatus c. Proof. reflexivity. Qed.
-Lemma cc_hdrErr_ccu_closed (c : cconn hstate) v : cc_hdrErr (ccu_closed c v) = cc_hdrErr c. Proof. reflexivity. Qed.
-Lemma cc_stateClosed_ccu_closed (c : cconn hstate) v : cc_stateClosed (ccu_closed c v) = cc_stateClosed c. Proof. reflexivity. Qed.
-Lemma cc_closeRef_ccu_closed (c : cconn hstate) v : cc_closeRef (ccu_closed c v) = cc_closeRef c. Proof. reflexivity. Qed.
-Lemma cc_reqQueued_ccu_closed (c : cconn hstate) v : cc_reqQueued (ccu_closed c v) = cc_reqQueued c. Proof. reflexivity. Qed.
-Lemma cc_pending_ccu_closed (c : cconn hstate) v : cc_pending (ccu_closed c v) = cc_pending c. Proof. reflexivity. Qed.
-Lemma cc_connWindow_ccu_closed (c : cconn hstate) v : cc_connWindow (ccu_closed c v) = cc_connWindow c. Proof. reflexivity. Qed.
-Lemma cc_streamWindow_ccu_closed (c : cconn hstate) v : cc_streamWindow (ccu_closed c v) = cc_streamWindow c. Proof. reflexivity. Qed.
-Lemma cc_inQ_ccu_closed (c : cconn hstate) v : cc_inQ (ccu_closed c v) = cc_inQ c. Proof. reflexivity. Qed.
-Lemma cc_outQ_ccu_closed (c : cconn hstate) v : cc_outQ (ccu_closed c v) = cc_outQ c. Proof. reflexivity. Qed.
-Lemma cc_winCh_ccu_closed (c : cconn hstate) v : cc_winCh (ccu_closed c v) = cc_winCh c. Proof. reflexivity. Qed.
-Lemma cc_lastErr_ccu_closed (c : cconn hstate) v : cc_lastErr (ccu_closed c v) = cc_lastErr c. Proof. reflexivity. Qed.
-Lemma cc_unacks_ccu_closed (c : cconn hstate) v : cc_unacks (ccu_closed c v) = cc_unacks c. Proof. reflexivity. Qed.
-Lemma cc_rl_done_ccu_closed (c : cconn hstate) v : cc_rl_done (ccu_closed c v) = cc_rl_done c. Proof. reflexivity. Qed.
-Lemma cc_wl_done_ccu_closed (c : cconn hstate) v : cc_wl_done (ccu_closed c v) = cc_wl_done c. Proof. reflexivity. Qed.
-Lemma cc_rl_stuck_ccu_closed (c : cconn hstate) v : cc_rl_stuck (ccu_closed c v) = cc_rl_stuck c. Proof. reflexivity. Qed.
-Lemma cc_wl_stuck_ccu_closed (c : cconn hstate) v : cc_wl_stuck (ccu_closed c v) = cc_wl_stuck c. Proof. reflexivity. Qed.
-Lemma cc_out_ccu_closed (c : cconn hstate) v : cc_out (ccu_closed c v) = cc_out c. Proof. reflexivity. Qed.
-Lemma cc_ctxs_ccu_closing (c : cconn hstate) v : cc_ctxs (ccu_closing c v) = cc_ctxs c. Proof. reflexivity. Qed.
-Lemma cc_nextID_ccu_closing (c : cconn hstate) v : cc_nextID (ccu_closing c v) = cc_nextID c. Proof. reflexivity. Qed.
-Lemma cc_open_ccu_closing (c : cconn hstate) v : cc_open (ccu_closing c v) = cc_open c. Proof. reflexivity. Qed.
-Lemma cc_maxStreams_ccu_closing (c : cconn hstate) v : cc_maxStreams (ccu_closing c v) = cc_maxStreams c. Proof. reflexivity. Qed.
-Lemma cc_maxFrame_ccu_closing (c : cconn hstate) v : cc_maxFrame (ccu_closing c v) = cc_maxFrame c. Proof. reflexivity. Qed.
-Lemma cc_goAway_ccu_closing (c : cconn hstate) v : cc_goAway (ccu_closing c v) = cc_goAway c. Proof. reflexivity. Qed.
-Lemma cc_closed_ccu_closing (c : cconn hstate) v : cc_closed (ccu_closing c v) = cc_closed c. Proof. reflexivity. Qed.
-Lemma cc_closing_ccu_closing (c : cconn hstate) v : cc_closing (ccu_closing c v) = v. Proof. reflexivity. Qed.
-Lemma cc_netClosed_ccu_closing (c : cconn hstate) v : cc_netClosed (ccu_closing c v) = cc_netClosed c. Proof. reflexivity. Qed.
-Lemma cc_writeFail_ccu_closing (c : cconn hstate) v : cc_writeFail (ccu_closing c v) = cc_writeFail c. Proof. reflexivity. Qed.
-Lemma cc_enc_ccu_closing (c : cconn hstate) v : cc_enc (ccu_closing c v) = cc_enc c. Proof. reflexivity. Qed.
-Lemma cc_encTableSize_ccu_closing (c : cconn hstate) v : cc_encTableSize (ccu_closing c v) = cc_encTableSize c. Proof. reflexivity. Qed.
-Lemma cc_encTableSeen_ccu_closing (c : cconn hstate) v : cc_encTableSeen (ccu_closing c v) = cc_encTableSeen c. Proof. reflexivity. Qed.
-Lemma cc_dec_ccu_closing (c : cconn hstate) v : cc_dec (ccu_closing c v) = cc_dec c. Proof. reflexivity. Qed.
-Lemma cc_currentWindow_ccu_closing (c : cconn hstate) v : cc_currentWindow (ccu_closing c v) = cc_currentWindow c. Proof. reflexivity. Qed.
-Lemma cc_serverS_ccu_closing (c : cconn hstate) v : cc_serverS (ccu_closing c v) = cc_serverS c. Proof. reflexivity. Qed.
-Lemma cc_hdrStream_ccu_closing (c : cconn hstate) v : cc_hdrStream (ccu_closing c v) = cc_hdrStream c. Proof. reflexivity. Qed.
-Lemma cc_hdrPrev_ccu_closing (c : cconn hstate) v : cc_hdrPrev (ccu_closing c v) = cc_hdrPrev c. Proof. reflexivity. Qed.
-Lemma cc_hdrFields_ccu_closing (c : cconn hstate) v : cc_hdrFields (ccu_closing c v) = cc_hdrFields c. Proof. reflexivity. Qed.
-Lemma cc_hdrEndStream_ccu_closing (c : cconn hstate) v : cc_hdrEndStream (ccu_closing c v) = cc_hdrEndStream c. Proof. reflexivity. Qed.
-Lemma cc_hdrRegularSeen_ccu_closing (c : cconn hstate) v : cc_hdrRegularSeen (ccu_closing c v) = cc_hdrRegularSeen c. Proof. reflexivity. Qed.
-Lemma cc_hdrStatus_ccu_closing (c : cconn hstate) v : cc_hdrStatus (ccu_closing c v) = cc_hdrStatus c. Proof. reflexivity. Qed.
-Lemma cc_hdrErr_ccu_closing (c : cconn hstate) v : cc_hdrErr (ccu_closing c v) = cc_hdrErr c. Proof. reflexivity. Qed.
-Lemma cc_stateClosed_ccu_closing (c : cconn hstate) v : cc_stateClosed (ccu_closing c v) = cc_stateClosed c. Proof. reflexivity. Qed.
-Lemma cc_closeRef_ccu_closing (c : cconn hstate) v : cc_closeRef (ccu_closing c v) = cc_closeRef c. Proof. reflexivity. Qed.
-Lemma cc_reqQueued_ccu_closing (c : cconn hstate) v : cc_reqQueued (ccu_closing c v) = cc_reqQueued c. Proof. reflexivity. Qed.
-Lemma cc_pending_ccu_closing (c : cconn hstate) v : cc_pending (ccu_closing c v) = cc_pending c. Proof. reflexivity. Qed.
-Lemma cc_connWindow_ccu_closing (c : cconn hstate) v : cc_connWindow (ccu_closing c v) = cc_connWindow c. Proof. reflexivity. Qed.
-Lemma cc_streamWindow_ccu_closing (c : cconn hstate) v : cc_streamWindow (ccu_closing c v) = cc_streamWindow c. Proof. reflexivity. Qed.
-Lemma cc_inQ_ccu_closing (c : cconn hstate) v : cc_inQ (ccu_closing c v) = cc_inQ c. Proof. reflexivity. Qed.
-Lemma cc_outQ_ccu_closing (c : cconn hstate) v : cc_outQ (ccu_closing c v) = cc_outQ c. Proof. reflexivity. Qed.
-Lemma cc_winCh_ccu_closing (c : cconn hstate) v : cc_winCh (ccu_closing c v) = cc_winCh c. Proof. reflexivity. Qed.
-Lemma cc_lastErr_ccu_closing (c : cconn hstate) v : cc_lastErr (ccu_closing c v) = cc_lastErr c. Proof. reflexivity. Qed.
-Lemma cc_unacks_ccu_closing (c : cconn hstate) v : cc_unacks (ccu_closing c v) = cc_unacks c. Proof. reflexivity. Qed.
-Lemma cc_rl_done_ccu_closing (c : cconn hstate) v : cc_rl_done (ccu_closing c v) = cc_rl_done c. Proof. reflexivity. Qed.
-Lemma cc_wl_done_ccu_closing (c : cconn hstate) v : cc_wl_done (ccu_closing c v) = cc_wl_done c. Proof. reflexivity. Qed.
-Lemma cc_rl_stuck_ccu_closing (c : cconn hstate) v : cc_rl_stuck (ccu_closing c v) = cc_rl_stuck c. Proof. reflexivity. Qed.
-Lemma cc_wl_stuck_ccu_closing (c : cconn hstate) v : cc_wl_stuck (ccu_closing c v) = cc_wl_stuck c. Proof. reflexivity. Qed.
-Lemma cc_out_ccu_closing (c : cconn hstate) v : cc_out (ccu_closing c v) = cc_out c. Proof. reflexivity. Qed.
-Lemma cc_ctxs_ccu_netClosed (c : cconn hstate) v : cc_ctxs (ccu_netClosed c v) = cc_ctxs c. Proof. reflexivity. Qed.
-Lemma cc_nextID_ccu_netClosed (c : cconn hstate) v : cc_nextID (ccu_netClosed c v) = cc_nextID c. Proof. reflexivity. Qed.
-Lemma cc_open_ccu_netClosed (c : cconn hstate) v : cc_open (ccu_netClosed c v) = cc_open c. Proof. reflexivity. Qed.
-Lemma cc_maxStreams_ccu_netClosed (c : cconn hstate) v : cc_maxStreams (ccu_netClosed c v) = cc_maxStreams c. Proof. reflexivity. Qed.
-Lemma cc_maxFrame_ccu_netClosed (c : cconn hstate) v : cc_maxFrame (ccu_netClosed c v) = cc_maxFrame c. Proof. reflexivity. Qed.
-Lemma cc_goAway_ccu_netClosed (c : cconn hstate) v : cc_goAway (ccu_netClosed c v) = cc_goAway c. Proof. reflexivity. Qed.
-Lemma cc_closed_ccu_netClosed (c : cconn hstate) v : cc_closed (ccu_netClosed c v) = cc_closed c. Proof. reflexivity. Qed.
-Lemma cc_closing_ccu_netClosed (c : cconn hstate) v : cc_closing (ccu_netClosed c v) = cc_closing c. Proof. reflexivity. Qed.
-Lemma cc_netClosed_ccu_netClosed (c : cconn hstate) v : cc_netClosed (ccu_netClosed c v) = v. Proof. reflexivity. Qed.
-Lemma cc_writeFail_ccu_netClosed (c : cconn hstate) v : cc_writeFail (ccu_netClosed c v) = cc_writeFail c. Proof. reflexivity. Qed.
-Lemma cc_enc_ccu_netClosed (c : cconn hstate) v : cc_enc (ccu_netClosed c v) = cc_enc c. Proof. reflexivity. Qed.
-Lemma cc_encTableSize_ccu_netClosed (c : cconn hstate) v : cc_encTableSize (ccu_netClosed c v) = cc_encTableSize c. Proof. reflexivity. Qed.
-Lemma cc_encTableSeen_ccu_netClosed (c : cconn hstate) v : cc_encTableSeen (ccu_netClosed c v) = cc_encTableSeen c. Proof. reflexivity. Qed.
-Lemma cc_dec_ccu_netClosed (c : cconn hstate) v : cc_dec (ccu_netClosed c v) = cc_dec c. Proof. reflexivity. Qed.
-Lemma cc_currentWindow_ccu_netClosed (c : cconn hstate) v : cc_currentWindow (ccu_netClosed c v) = cc_currentWindow c. Proof. reflexivity. Qed.
-Lemma cc_serverS_ccu_netClosed (c : cconn hstate) v : cc_serverS (ccu_netClosed c v) = cc_serverS c. Proof. reflexivity. Qed.
-Lemma cc_hdrStream_ccu_netClosed (c : cconn hstate) v : cc_hdrStream (ccu_netClosed c v) = cc_hdrStream c. Proof. reflexivity. Qed.
-Lemma cc_hdrPrev_ccu_netClosed (c : cconn hstate) v : cc_hdrPrev (ccu_netClosed c v) = cc_hdrPrev c. Proof. reflexivity. Qed.
-Lemma cc_hdrFields_ccu_netClosed (c : cconn hstate) v : cc_hdrFields (ccu_netClosed c v) = cc_hdrFields c. Proof. reflexivity. Qed.
-Lemma cc_hdrEndStream_ccu_netClosed (c : cconn hstate) v : cc_hdrEndStream (ccu_netClosed c v) = cc_hdrEndStream c. Proof. reflexivity. Qed.
-Lemma cc_hdrRegularSeen_ccu_netClosed (c : cconn hstate) v : cc_hdrRegularSeen (ccu_netClosed c v) = cc_hdrRegularSeen c. Proof. reflexivity. Qed.
-Lemma cc_hdrStatus_ccu_netClosed (c : cconn hstate) v : cc_hdrStatus (ccu_netClosed c v) = cc_hdrStatus c. Proof. reflexivity. Qed.
-Lemma cc_hdrErr_ccu_netClosed (c : cconn hstate) v : cc_hdrErr (ccu_netClosed c v) = cc_hdrErr c. Proof. reflexivity. Qed.
-Lemma cc_stateClosed_ccu_netClosed (c : cconn hstate) v : cc_stateClosed (ccu_netClosed c v) = cc_stateClosed c. Proof. reflexivity. Qed.
-Lemma cc_closeRef_ccu_netClosed (c : cconn hstate) v : cc_closeRef (ccu_netClosed c v) = cc_closeRef c. Proof. reflexivity. Qed.
-Lemma cc_reqQueued_ccu_netClosed (c : cconn hstate) v : cc_reqQueued (ccu_netClosed c v) = cc_reqQueued c. Proof. reflexivity. Qed.
-Lemma cc_pending_ccu_netClosed (c : cconn hstate) v : cc_pending (ccu_netClosed c v) = cc_pending c. Proof. reflexivity. Qed.
-Lemma cc_connWindow_ccu_netClosed (c : cconn hstate) v : cc_connWindow (ccu_netClosed c v) = cc_connWindow c. Proof. reflexivity. Qed.
-Lemma cc_streamWindow_ccu_netClosed (c : cconn hstate) v : cc_streamWindow (ccu_netClosed c v) = cc_streamWindow c. Proof. reflexivity. Qed.
-Lemma cc_inQ_ccu_netClosed (c : cconn hstate) v : cc_inQ (ccu_netClosed c v) = cc_inQ c. Proof. reflexivity. Qed.
-Lemma cc_outQ_ccu_netClosed (c : cconn hstate) v : cc_outQ (ccu_netClosed c v) = cc_outQ c. Proof. reflexivity. Qed.
-Lemma cc_winCh_ccu_netClosed (c : cconn hstate) v : cc_winCh (ccu_netClosed c v) = cc_winCh c. Proof. reflexivity. Qed.
-Lemma cc_lastErr_ccu_netClosed (c : cconn hstate) v : cc_lastErr (ccu_netClosed c v) = cc_lastErr c. Proof. reflexivity. Qed.
-Lemma cc_unacks_ccu_netClosed (c : cconn hstate) v : cc_unacks (ccu_netClosed c v) = cc_unacks c. Proof. reflexivity. Qed.
-Lemma cc_rl_done_ccu_netClosed (c : cconn hstate) v : cc_rl_done (ccu_netClosed c v) = cc_rl_done c. Proof. reflexivity. Qed.
-Lemma cc_wl_done_ccu_netClosed (c : cconn hstate) v : cc_wl_done (ccu_netClosed c v) = cc_wl_done c. Proof. reflexivity. Qed.
-Lemma cc_rl_stuck_ccu_netClosed (c : cconn hstate) v : cc_rl_stuck (ccu_netClosed c v) = cc_rl_stuck c. Proof. reflexivity. Qed.
-Lemma cc_wl_stuck_ccu_netClosed (c : cconn hstate) v : cc_wl_stuck (ccu_netClosed c v) = cc_wl_stuck c. Proof. reflexivity. Qed.
-Lemma cc_out_ccu_netClosed (c : cconn hstate) v : cc_out (ccu_netClosed c v) = cc_out c. Proof. reflexivity. Qed.
-Lemma cc_ctxs_ccu_writeFail (c : cconn hstate) v : cc_ctxs (ccu_writeFail c v) = cc_ctxs c. Proof. reflexivity. Qed.
-Lemma cc_nextID_ccu_writeFail (c : cconn hstate) v : cc_nextID (ccu_writeFail c v) = cc_nextID c. Proof. reflexivity. Qed.
-Lemma cc_open_ccu_writeFail (c : cconn hstate) v : cc_open (ccu_writeFail c v) = cc_open c. Proof. reflexivity. Qed.
-Lemma cc_maxStreams_ccu_writeFail (c : cconn hstate) v : cc_maxStreams (ccu_writeFail c v) = cc_maxStreams c. Proof. reflexivity. Qed.
-Lemma cc_maxFrame_ccu_writeFail (c : cconn hstate) v : cc_maxFrame (ccu_writeFail c v) = cc_maxFrame c. Proof. reflexivity. Qed.
-Lemma cc_goAway_ccu_writeFail (c : cconn hstate) v : cc_goAway (ccu_writeFail c v) = cc_goAway c. Proof. reflexivity. Qed.
-Lemma cc_closed_ccu_writeFail (c : cconn hstate) v : cc_closed (ccu_writeFail c v) = cc_closed c. Proof. reflexivity. Qed.
-Lemma cc_closing_ccu_writeFail (c : cconn hstate) v : cc_closing (ccu_writeFail c v) = cc_closing c. Proof. reflexivity. Qed.
-Lemma cc_netClosed_ccu_writeFail (c : cconn hstate) v : cc_netClosed (ccu_writeFail c v) = cc_netClosed c. Proof. reflexivity. Qed.
-Lemma cc_writeFail_ccu_writeFail (c : cconn hstate) v : cc_writeFail (ccu_writeFail c v) = v. Proof. reflexivity. Qed.
-Lemma cc_enc_ccu_writeFail (c : cconn hstate) v : cc_enc (ccu_writeFail c v) = cc_enc c. Proof. reflexivity. Qed.
-Lemma cc_encTableSize_ccu_writeFail (c : cconn hstate) v : cc_encTableSize (ccu_writeFail c v) = cc_encTableSize c. Proof. reflexivity. Qed.
-Lemma cc_encTableSeen_ccu_writeFail (c : cconn hstate) v : cc_encTableSeen (ccu_writeFail c v) = cc_encTableSeen c. Proof. reflexivity. Qed.
-Lemma cc_dec_ccu_writeFail (c : cconn hstate) v : cc_dec (ccu_writeFail c v) = cc_dec c. Proof. reflexivity. Qed.
-Lemma cc_currentWindow_ccu_writeFail (c : cconn hstate) v : cc_currentWindow (ccu_writeFail c v) = cc_currentWindow c. Proof. reflexivity. Qed.
-Lemma cc_serverS_ccu_writeFail (c : cconn hstate) v : cc_serverS (ccu_writeFail c v) = cc_serverS c. Proof. reflexivity. Qed.
-Lemma cc_hdrStream_ccu_writeFail (c : cconn hstate) v : cc_hdrStream (ccu_writeFail c v) = cc_hdrStream c. Proof. reflexivity. Qed.
-Lemma cc_hdrPrev_ccu_writeFail (c : cconn hstate) v : cc_hdrPrev (ccu_writeFail c v) = cc_hdrPrev c. Proof. reflexivity. Qed.
-Lemma cc_hdrFields_ccu_writeFail (c : cconn hstate) v : cc_hdrFields (ccu_writeFail c v) = cc_hdrFields c. Proof. reflexivity. Qed.
-Lemma cc_hdrEndStream_ccu_writeFail (c : cconn hstate) v : cc_hdrEndStream (ccu_writeFail c v) = cc_hdrEndStream c. Proof. reflexivity. Qed.
-Lemma cc_hdrRegularSeen_ccu_writeFail (c : cconn hstate) v : cc_hdrRegularSeen (ccu_writeFail c v) = cc_hdrRegularSeen c. Proof. reflexivity. Qed.
-Lemma cc_hdrStatus_ccu_writeFail (c : cconn hstate) v : cc_hdrStatus (ccu_writeFail c v) = cc_hdrStatus c. Proof. reflexivity. Qed.
-Lemma cc_hdrErr_ccu_writeFail (c : cconn hstate) v : cc_hdrErr (ccu_writeFail c v) = cc_hdrErr c. Proof. reflexivity. Qed.
-Lemma cc_stateClosed_ccu_writeFail (c : cconn hstate) v : cc_stateClosed (ccu_writeFail c v) = cc_stateClosed c. Proof. reflexivity. Qed.
-Lemma cc_closeRef_ccu_writeFail (c : cconn hstate) v : cc_closeRef (ccu_writeFail c v) = cc_closeRef c. Proof. reflexivity. Qed.
-Lemma cc_reqQueued_ccu_writeFail (c : cconn hstate) v : cc_reqQueued (ccu_writeFail c v) = cc_reqQueued c. Proof. reflexivity. Qed.
-Lemma cc_pending_ccu_writeFail (c : cconn hstate) v : cc_pending (ccu_writeFail c v) = cc_pending c. Proof. reflexivity. Qed.
-Lemma cc_connWindow_ccu_writeFail (c : cconn hstate) v : cc_connWindow (ccu_writeFail c v) = cc_connWindow c. Proof. reflexivity. Qed.
-Lemma cc_streamWindow_ccu_writeFail (c : cconn hstate) v : cc_streamWindow (ccu_writeFail c v) = cc_streamWindow c. Proof. reflexivity. Qed.
-Lemma cc_inQ_ccu_writeFail (c : cconn hstate) v : cc_inQ (ccu_writeFail c v) = cc_inQ c. Proof. reflexivity. Qed.
-Lemma cc_outQ_ccu_writeFail (c : cconn hstate) v : cc_outQ (ccu_writeFail c v) = cc_outQ c. Proof. reflexivity. Qed.
-Lemma cc_winCh_ccu_writeFail (c : cconn hstate) v : cc_winCh (ccu_writeFail c v) = cc_winCh c. Proof. reflexivity. Qed.
-Lemma cc_lastErr_ccu_writeFail (c : cconn hstate) v : cc_lastErr (ccu_writeFail c v) = cc_lastErr c. Proof. reflexivity. Qed.
-Lemma cc_unacks_ccu_writeFail (c : cconn hstate) v : cc_unacks (ccu_writeFail c v) = cc_unacks c. Proof. reflexivity. Qed.
-Lemma cc_rl_done_ccu_writeFail (c : cconn hstate) v : cc_rl_done (ccu_writeFail c v) = cc_rl_done c. Proof. reflexivity. Qed.
-Lemma cc_wl_done_ccu_writeFail (c : cconn hstate) v : cc_wl_done (ccu_writeFail c v) = cc_wl_done c. Proof. reflexivity. Qed.
-Lemma cc_rl_stuck_ccu_writeFail (c : cconn hstate) v : cc_rl_stuck (ccu_writeFail c v) = cc_rl_stuck c. Proof. reflexivity. Qed.
-Lemma cc_wl_stuck_ccu_writeFail (c : cconn hstate) v : cc_wl_stuck (ccu_writeFail c v) = cc_wl_stuck c. Proof. reflexivity. Qed.
-Lemma cc_out_ccu_writeFail (c : cconn hstate) v : cc_out (ccu_writeFail c v) = cc_out c. Proof. reflexivity. Qed.
-Lemma cc_ctxs_ccu_enc (c : cconn hstate) v : cc_ctxs (ccu_enc c v) = cc_ctxs c. Proof. reflexivity. Qed.
-Lemma cc_nextID_ccu_enc (c : cconn hstate) v : cc_nextID (ccu_enc c v) = cc_nextID c. Proof. reflexivity. Qed.
-Lemma cc_open_ccu_enc (c : cconn hstate) v : cc_open (ccu_enc c v) = cc_open c. Proof. reflexivity. Qed.
-Lemma cc_maxStreams_ccu_enc (c : cconn hstate) v : cc_maxStreams (ccu_enc c v) = cc_maxStreams c. Proof. reflexivity. Qed.
-Lemma cc_maxFrame_ccu_enc (c : cconn hstate) v : cc_maxFrame (ccu_enc c v) = cc_maxFrame c. Proof. reflexivity. Qed.
-Lemma cc_goAway_ccu_enc (c : cconn hstate) v : cc_goAway (ccu_enc c v) = cc_goAway c. Proof. reflexivity. Qed.
-Lemma cc_closed_ccu_enc (c : cconn hstate) v : cc_closed (ccu_enc c v) = cc_closed c. Proof. reflexivity. Qed.
-Lemma cc_closing_ccu_enc (c : cconn hstate) v : cc_closing (ccu_enc c v) = cc_closing c. Proof. reflexivity. Qed.
-Lemma cc_netClosed_ccu_enc (c : cconn hstate) v : cc_netClosed (ccu_enc c v) = cc_netClosed c. Proof. reflexivity. Qed.
-Lemma cc_writeFail_ccu_enc (c : cconn hstate) v : cc_writeFail (ccu_enc c v) = cc_writeFail c. Proof. reflexivity. Qed.
-Lemma cc_enc_ccu_enc (c : cconn hstate) v : cc_enc (ccu_enc c v) = v. Proof. reflexivity. Qed.
-Lemma cc_encTableSize_ccu_enc (c : cconn hstate) v : cc_encTableSize (ccu_enc c v) = cc_encTableSize c. Proof. reflexivity. Qed.
-Lemma cc_encTableSeen_ccu_enc (c : cconn hstate) v : cc_encTableSeen (ccu_enc c v) = cc_encTableSeen c. Proof. reflexivity. Qed.
-Lemma cc_dec_ccu_enc (c : cconn hstate) v : cc_dec (ccu_enc c v) = cc_dec c. Proof. reflexivity. Qed.
-Lemma cc_currentWindow_ccu_enc (c : cconn hstate) v : cc_currentWindow (ccu_enc c v) = cc_currentWindow c. Proof. reflexivity. Qed.
-Lemma cc_serverS_ccu_enc (c : cconn hstate) v : cc_serverS (ccu_enc c v) = cc_serverS c. Proof. reflexivity. Qed.
-Lemma cc_hdrStream_ccu_enc (c : cconn hstate) v : cc_hdrStream (ccu_enc c v) = cc_hdrStream c. Proof. reflexivity. Qed.
-Lemma cc_hdrPrev_ccu_enc (c : cconn hstate) v : cc_hdrPrev (ccu_enc c v) = cc_hdrPrev c. Proof. reflexivity. Qed.
-Lemma cc_hdrFields_ccu_enc (c : cconn hstate) v : cc_hdrFields (ccu_enc c v) = cc_hdrFields c. Proof. reflexivity. Qed.
-Lemma cc_hdrEndStream_ccu_enc (c : cconn hstate) v : cc_hdrEndStream (ccu_enc c v) = cc_hdrEndStream c. Proof. reflexivity. Qed.
-Lemma cc_hdrRegularSeen_ccu_enc (c : cconn hstate) v : cc_hdrRegularSeen (ccu_enc c v) = cc_hdrRegularSeen c. Proof. reflexivity. Qed.
-Lemma cc_hdrStatus_ccu_enc (c : cconn hstate) v : cc_hdrStatus (ccu_enc c v) = cc_hdrStatus c. Proof. reflexivity. Qed.
-Lemma cc_hdrErr_ccu_enc (c : cconn hstate) v : cc_hdrErr (ccu_enc c v) = cc_hdrErr c. Proof. reflexivity. Qed.
-Lemma cc_stateClosed_ccu_enc (c : cconn hstate) v : cc_stateClosed (ccu_enc c v) = cc_stateClosed c. Proof. reflexivity. Qed.
-Lemma cc_closeRef_ccu_enc (c : cconn hstate) v : cc_closeRef (ccu_enc c v) = cc_closeRef c. Proof. reflexivity. Qed.
-Lemma cc_reqQueued_ccu_enc (c : cconn hstate) v : cc_reqQueued (ccu_enc c v) = cc_reqQueued c. Proof. reflexivity. Qed.
-Lemma cc_pending_ccu_enc (c : cconn hstate) v : cc_pending (ccu_enc c v) = cc_pending c. Proof. reflexivity. Qed.
-Lemma cc_connWindow_ccu_enc (c : cconn hstate) v : cc_connWindow (ccu_enc c v) = cc_connWindow c. Proof. reflexivity. Qed.
-Lemma cc_streamWindow_ccu_enc (c : cconn hstate) v : cc_streamWindow (ccu_enc c v) = cc_streamWindow c. Proof. reflexivity. Qed.
-Lemma cc_inQ_ccu_enc (c : cconn hstate) v : cc_inQ (ccu_enc c v) = cc_inQ c. Proof. reflexivity. Qed.
-Lemma cc_outQ_ccu_enc (c : cconn hstate) v : cc_outQ (ccu_enc c v) = cc_outQ c. Proof. reflexivity. Qed.
-Lemma cc_winCh_ccu_enc (c : cconn hstate) v : cc_winCh (ccu_enc c v) = cc_winCh c. Proof. reflexivity. Qed.
-Lemma cc_lastErr_ccu_enc (c : cconn hstate) v : cc_lastErr (ccu_enc c v) = cc_lastErr c. Proof. reflexivity. Qed.
-Lemma cc_unacks_ccu_enc (c : cconn hstate) v : cc_unacks (ccu_enc c v) = cc_unacks c. Proof. reflexivity. Qed.
-Lemma cc_rl_done_ccu_enc (c : cconn hstate) v : cc_rl_done (ccu_enc c v) = cc_rl_done c. Proof. reflexivity. Qed.
-Lemma cc_wl_done_ccu_enc (c : cconn hstate) v : cc_wl_done (ccu_enc c v) = cc_wl_done c. Proof. reflexivity. Qed.
-Lemma cc_rl_stuck_ccu_enc (c : cconn hstate) v : cc_rl_stuck (ccu_enc c v) = cc_rl_stuck c. Proof. reflexivity. Qed.
-Lemma cc_wl_stuck_ccu_enc (c : cconn hstate) v : cc_wl_stuck (ccu_enc c v) = cc_wl_stuck c. Proof. reflexivity. Qed.
-Lemma cc_out_ccu_enc (c : cconn hstate) v : cc_out (ccu_enc c v) = cc_out c. Proof. reflexivity. Qed.
-Lemma cc_ctxs_ccu_encTableSize (c : cconn hstate) v : cc_ctxs (ccu_encTableSize c v) = cc_ctxs c. Proof. reflexivity. Qed.
-Lemma cc_nextID_ccu_encTableSize (c : cconn hstate) v : cc_nextID (ccu_encTableSize c v) = cc_nextID c. Proof. reflexivity. Qed.
-Lemma cc_open_ccu_encTableSize (c : cconn hstate) v : cc_open (ccu_encTableSize c v) = cc_open c. Proof. reflexivity. Qed.
-Lemma cc_maxStreams_ccu_encTableSize (c : cconn hstate) v : cc_maxStreams (ccu_encTableSize c v) = cc_maxStreams c. Proof. reflexivity. Qed.
-Lemma cc_maxFrame_ccu_encTableSize (c : cconn hstate) v : cc_maxFrame (ccu_encTableSize c v) = cc_maxFrame c. Proof. reflexivity. Qed.
-Lemma cc_goAway_ccu_encTableSize (c : cconn hstate) v : cc_goAway (ccu_encTableSize c v) = cc_goAway c. Proof. reflexivity. Qed.
-Lemma cc_closed_ccu_encTableSize (c : cconn hstate) v : cc_closed (ccu_encTableSize c v) = cc_closed c. Proof. reflexivity. Qed.
-Lemma cc_closing_ccu_encTableSize (c : cconn hstate) v : cc_closing (ccu_encTableSize c v) = cc_closing c. Proof. reflexivity. Qed.
-Lemma cc_netClosed_ccu_encTableSize (c : cconn hstate) v : cc_netClosed (ccu_encTableSize c v) = cc_netClosed c. Proof. reflexivity. Qed.
-Lemma cc_writeFail_ccu_encTableSize (c : cconn hstate) v : cc_writeFail (ccu_encTableSize c v) = cc_writeFail c. Proof. reflexivity. Qed.
-Lemma cc_enc_ccu_encTableSize (c : cconn hstate) v : cc_enc (ccu_encTableSize c v) = cc_enc c. Proof. reflexivity. Qed.
-Lemma cc_encTableSize_ccu_encTableSize (c : cconn hstate) v : cc_encTableSize (ccu_encTableSize c v) = v. Proof. reflexivity. Qed.
-Lemma cc_encTableSeen_ccu_encTableSize (c : cconn hstate) v : cc_encTableSeen (ccu_encTableSize c v) = cc_encTableSeen c. Proof. reflexivity. Qed.
-Lemma cc_dec_ccu_encTableSize (c : cconn hstate) v : cc_dec (ccu_encTableSize c v) = cc_dec c. Proof. reflexivity. Qed.
-Lemma cc_currentWindow_ccu_encTableSize (c : cconn hstate) v : cc_currentWindow (ccu_encTableSize c v) = cc_currentWindow c. Proof. reflexivity. Qed.
-Lemma cc_serverS_ccu_encTableSize (c : cconn hstate) v : cc_serverS (ccu_encTableSize c v) = cc_serverS c. Proof. reflexivity. Qed.
-Lemma cc_hdrStream_ccu_encTableSize (c : cconn hstate) v : cc_hdrStream (ccu_encTableSize c v) = cc_hdrStream c. Proof. reflexivity. Qed.
-Lemma cc_hdrPrev_ccu_encTableSize (c : cconn hstate) v : cc_hdrPrev (ccu_encTableSize c v) = cc_hdrPrev c. Proof. reflexivity. Qed.
-Lemma cc_hdrFields_ccu_encTableSize (c : cconn hstate) v : cc_hdrFields (ccu_encTableSize c v) = cc_hdrFields c. Proof. reflexivity. Qed.
-Lemma cc_hdrEndStream_ccu_encTableSize (c : cconn hstate) v : cc_hdrEndStream (ccu_encTableSize c v) = cc_hdrEndStream c. Proof. reflexivity. Qed.
-Lemma cc_hdrRegularSeen_ccu_encTableSize (c : cconn hstate) v : cc_hdrRegularSeen (ccu_encTableSize c v) = cc_hdrRegularSeen c. Proof. reflexivity. Qed.
-Lemma cc_hdrStatus_ccu_encTableSize (c : cconn hstate) v : cc_hdrStatus (ccu_encTableSize c v) = cc_hdrStatus c. Proof. reflexivity. Qed.
-Lemma cc_hdrErr_ccu_encTableSize (c : cconn hstate) v : cc_hdrErr (ccu_encTableSize c v) = cc_hdrErr c. Proof. reflexivity. Qed.
-Lemma cc_stateClosed_ccu_encTableSize (c : cconn hstate) v : cc_stateClosed (ccu_encTableSize c v) = cc_stateClosed c. Proof. reflexivity. Qed.
-Lemma cc_closeRef_ccu_encTableSize (c : cconn hstate) v : cc_closeRef (ccu_encTableSize c v) = cc_closeRef c. Proof. reflexivity. Qed.
-Lemma cc_reqQueued_ccu_encTableSize (c : cconn hstate) v : cc_reqQueued (ccu_encTableSize c v) = cc_reqQueued c. Proof. reflexivity. Qed.
-Lemma cc_pending_ccu_encTableSize (c : cconn hstate) v : cc_pending (ccu_encTableSize c v) = cc_pending c. Proof. reflexivity. Qed.
-Lemma cc_connWindow_ccu_encTableSize (c : cconn hstate) v : cc_connWindow (ccu_encTableSize c v) = cc_connWindow c. Proof. reflexivity. Qed.
-Lemma cc_streamWindow_ccu_encTableSize (c : cconn hstate) v : cc_streamWindow (ccu_encTableSize c v) = cc_streamWindow c. Proof. reflexivity. Qed.
-Lemma cc_inQ_ccu_encTableSize (c : cconn hstate) v : cc_inQ (ccu_encTableSize c v) = cc_inQ c. Proof. reflexivity. Qed.
-Lemma cc_outQ_ccu_encTableSize (c : cconn hstate) v : cc_outQ (ccu_encTableSize c v) = cc_outQ c. Proof. reflexivity. Qed.
-Lemma cc_winCh_ccu_encTableSize (c : cconn hstate) v : cc_winCh (ccu_encTableSize c v) = cc_winCh c. Proof. reflexivity. Qed.
-Lemma cc_lastErr_ccu_encTableSize (c : cconn hstate) v : cc_lastErr (ccu_encTableSize c v) = cc_lastErr c. Proof. reflexivity. Qed.
-Lemma cc_unacks_ccu_encTableSize (c : cconn hstate) v : cc_unacks (ccu_encTableSize c v) = cc_unacks c. Proof. reflexivity. Qed.
-Lemma cc_rl_done_ccu_encTableSize (c : cconn hstate) v : cc_rl_done (ccu_encTableSize c v) = cc_rl_done c. Proof. reflexivity. Qed.
-Lemma cc_wl_done_ccu_encTableSize (c : cconn hstate) v : cc_wl_done (ccu_encTableSize c v) = cc_wl_done c. Proof. reflexivity. Qed.
-Lemma cc_rl_stuck_ccu_encTableSize (c : cconn hstate) v : cc_rl_stuck (ccu_encTableSize c v) = cc_rl_stuck c. Proof. reflexivity. Qed.
-Lemma cc_wl_stuck_ccu_encTableSize (c : cconn hstate) v : cc_wl_stuck (ccu_encTableSize c v) = cc_wl_stuck c. Proof. reflexivity. Qed.
-Lemma cc_out_ccu_encTableSize (c : cconn hstate) v : cc_out (ccu_encTableSize c v) = cc_out c. Proof. reflexivity. Qed.
-Lemma cc_ctxs_ccu_encTableSeen (c : cconn hstate) v : cc_ctxs (ccu_encTableSeen c v) = cc_ctxs c. Proof. reflexivity. Qed.
-Lemma cc_nextID_ccu_encTableSeen (c : cconn hstate) v : cc_nextID (ccu_encTableSeen c v) = cc_nextID c. Proof. reflexivity. Qed.
-Lemma cc_open_ccu_encTableSeen (c : cconn hstate) v : cc_open (ccu_encTableSeen c v) = cc_open c. Proof. reflexivity. Qed.
-Lemma cc_maxStreams_ccu_encTableSeen (c : cconn hstate) v : cc_maxStreams (ccu_encTableSeen c v) = cc_maxStreams c. Proof. reflexivity. Qed.
-Lemma cc_maxFrame_ccu_encTableSeen (c : cconn hstate) v : cc_maxFrame (ccu_encTableSeen c v) = cc_maxFrame c. Proof. reflexivity. Qed.
-Lemma cc_goAway_ccu_encTableSeen (c : cconn hstate) v : cc_goAway (ccu_encTableSeen c v) = cc_goAway c. Proof. reflexivity. Qed.
-Lemma cc_closed_ccu_encTableSeen (c : cconn hstate) v : cc_closed (ccu_encTableSeen c v) = cc_closed c. Proof. reflexivity. Qed.
-Lemma cc_closing_ccu_encTableSeen (c : cconn hstate) v : cc_closing (ccu_encTableSeen c v) = cc_closing c. Proof. reflexivity. Qed.
-Lemma cc_netClosed_ccu_encTableSeen (c : cconn hstate) v : cc_netClosed (ccu_encTableSeen c v) = cc_netClosed c. Proof. reflexivity. Qed.
-Lemma cc_writeFail_ccu_encTableSeen (c : cconn hstate) v : cc_writeFail (ccu_encTableSeen c v) = cc_writeFail c. Proof. reflexivity. Qed.
-Lemma cc_enc_ccu_encTableSeen (c : cconn hstate) v : cc_enc (ccu_encTableSeen c v) = cc_enc c. Proof. reflexivity. Qed.
-Lemma cc_encTableSize_ccu_encTableSeen (c : cconn hstate) v : cc_encTableSize (ccu_encTableSeen c v) = cc_encTableSize c. Proof. reflexivity. Qed.
-Lemma cc_encTableSeen_ccu_encTableSeen (c : cconn hstate) v : cc_encTableSeen (ccu_encTableSeen c v) = v. Proof. reflexivity. Qed.
-Lemma cc_dec_ccu_encTableSeen (c : cconn hstate) v : cc_dec (ccu_encTableSeen c v) = cc_dec c. Proof. reflexivity. Qed.
-Lemma cc_currentWindow_ccu_encTableSeen (c : cconn hstate) v : cc_currentWindow (ccu_encTableSeen c v) = cc_currentWindow c. Proof. reflexivity. Qed.
-Lemma cc_serverS_ccu_encTableSeen (c : cconn hstate) v : cc_serverS (ccu_encTableSeen c v) = cc_serverS c. Proof. reflexivity. Qed.
-Lemma cc_hdrStream_ccu_encTableSeen (c : cconn hstate) v : cc_hdrStream (ccu_encTableSeen c v) = cc_hdrStream c. Proof. reflexivity. Qed.
-Lemma cc_hdrPrev_ccu_encTableSeen (c : cconn hstate) v : cc_hdrPrev (ccu_encTableSeen c v) = cc_hdrPrev c. Proof. reflexivity. Qed.
-Lemma cc_hdrFields_ccu_encTableSeen (c : cconn hstate) v : cc_hdrFields (ccu_encTableSeen c v) = cc_hdrFields c. Proof. reflexivity. Qed.
-Lemma cc_hdrEndStream_ccu_encTableSeen (c : cconn hstate) v : cc_hdrEndStream (ccu_encTableSeen c v) = cc_hdrEndStream c. Proof. reflexivity. Qed.
-Lemma cc_hdrRegularSeen_ccu_encTableSeen (c : cconn hstate) v : cc_hdrRegularSeen (ccu_encTableSeen c v) = cc_hdrRegularSeen c. Proof. reflexivity. Qed.
-Lemma cc_hdrStatus_ccu_encTableSeen (c : cconn hstate) v : cc_hdrStatus (ccu_encTableSeen c v) = cc_hdrStatus c. Proof. reflexivity. Qed.
-Lemma cc_hdrErr_ccu_encTableSeen (c : cconn hstate) v : cc_hdrErr (ccu_encTableSeen c v) = cc_hdrErr c. Proof. reflexivity. Qed.
-Lemma cc_stateClosed_ccu_encTableSeen (c : cconn hstate) v : cc_stateClosed (ccu_encTableSeen c v) = cc_stateClosed c. Proof. reflexivity. Qed.
-Lemma cc_closeRef_ccu_encTableSeen (c : cconn hstate) v : cc_closeRef (ccu_encTableSeen c v) = cc_closeRef c. Proof. reflexivity. Qed.
-Lemma cc_reqQueued_ccu_encTableSeen (c : cconn hstate) v : cc_reqQueued (ccu_encTableSeen c v) = cc_reqQueued c. Proof. reflexivity. Qed.
-Lemma cc_pending_ccu_encTableSeen (c : cconn hstate) v : cc_pending (ccu_encTableSeen c v) = cc_pending c. Proof. reflexivity. Qed.
-Lemma cc_connWindow_ccu_encTableSeen (c : cconn hstate) v : cc_connWindow (ccu_encTableSeen c v) = cc_connWindow c. Proof. reflexivity. Qed.
-Lemma cc_streamWindow_ccu_encTableSeen (c : cconn hstate) v : cc_streamWindow (ccu_encTableSeen c v) = cc_streamWindow c. Proof. reflexivity. Qed.
-Lemma cc_inQ_ccu_encTableSeen (c : cconn hstate) v : cc_inQ (ccu_encTableSeen c v) = cc_inQ c. Proof. reflexivity. Qed.
-Lemma cc_outQ_ccu_encTableSeen (c : cconn hstate) v : cc_outQ (ccu_encTableSeen c v) = cc_outQ c. Proof. reflexivity. Qed.
-Lemma cc_winCh_ccu_encTableSeen (c : cconn hstate) v : cc_winCh (ccu_encTableSeen c v) = cc_winCh c. Proof. reflexivity. Qed.
-Lemma cc_lastErr_ccu_encTableSeen (c : cconn hstate) v : cc_lastErr (ccu_encTableSeen c v) = cc_lastErr c. Proof. reflexivity. Qed.
-Lemma cc_unacks_ccu_encTableSeen (c : cconn hstate) v : cc_unacks (ccu_encTableSeen c v) = cc_unacks c. Proof. reflexivity. Qed.
-Lemma cc_rl_done_ccu_encTableSeen (c : cconn hstate) v : cc_rl_done (ccu_encTableSeen c v) = cc_rl_done c. Proof. reflexivity. Qed.
-Lemma cc_wl_done_ccu_encTableSeen (c : cconn hstate) v : cc_wl_done (ccu_encTableSeen c v) = cc_wl_done c. Proof. reflexivity. Qed.
-Lemma cc_rl_stuck_ccu_encTableSeen (c : cconn hstate) v : cc_rl_stuck (ccu_encTableSeen c v) = cc_rl_stuck c. Proof. reflexivity. Qed.
-Lemma cc_wl_stuck_ccu_encTableSeen (c : cconn hstate) v : cc_wl_stuck (ccu_encTableSeen c v) = cc_wl_stuck c. Proof. reflexivity. Qed.
-Lemma cc_out_ccu_encTableSeen (c : cconn hstate) v : cc_out (ccu_encTableSeen c v) = cc_out c. Proof. reflexivity. Qed.
-Lemma cc_ctxs_ccu_dec (c : cconn hstate) v : cc_ctxs (ccu_dec c v) = cc_ctxs c. Proof. reflexivity. Qed.
-Lemma cc_nextID_ccu_dec (c : cconn hstate) v : cc_nextID (ccu_dec c v) = cc_nextID c. Proof. reflexivity. Qed.
-Lemma cc_open_ccu_dec (c : cconn hstate) v : cc_open (ccu_dec c v) = cc_open c. Proof. reflexivity. Qed.
-Lemma cc_maxStreams_ccu_dec (c : cconn hstate) v : cc_maxStreams (ccu_dec c v) = cc_maxStreams c. Proof. reflexivity. Qed.
-Lemma cc_maxFrame_ccu_dec (c : cconn hstate) v : cc_maxFrame (ccu_dec c v) = cc_maxFrame c. Proof. reflexivity. Qed.
-Lemma cc_goAway_ccu_dec (c : cconn hstate) v : cc_goAway (ccu_dec c v) = cc_goAway c. Proof. reflexivity. Qed.
-Lemma cc_closed_ccu_dec (c : cconn hstate) v : cc_closed (ccu_dec c v) = cc_closed c. Proof. reflexivity. Qed.
-Lemma cc_closing_ccu_dec (c : cconn hstate) v : cc_closing (ccu_dec c v) = cc_closing c. Proof. reflexivity. Qed.
-Lemma cc_netClosed_ccu_dec (c : cconn hstate) v : cc_netClosed (ccu_dec c v) = cc_netClosed c. Proof. reflexivity. Qed.
-Lemma cc_writeFail_ccu_dec (c : cconn hstate) v : cc_writeFail (ccu_dec c v) = cc_writeFail c. Proof. reflexivity. Qed.
-Lemma cc_enc_ccu_dec (c : cconn hstate) v : cc_enc (ccu_dec c v) = cc_enc c. Proof. reflexivity. Qed.
-Lemma cc_encTableSize_ccu_dec (c : cconn hstate) v : cc_encTableSize (ccu_dec c v) = cc_encTableSize c. Proof. reflexivity. Qed.
-Lemma cc_encTableSeen_ccu_dec (c : cconn hstate) v : cc_encTableSeen (ccu_dec c v) = cc_encTableSeen c. Proof. reflexivity. Qed.
-Lemma cc_dec_ccu_dec (c : cconn hstate) v : cc_dec (ccu_dec c v) = v. Proof. reflexivity. Qed.
-Lemma cc_currentWindow_ccu_dec (c : cconn hstate) v : cc_currentWindow (ccu_dec c v) = cc_currentWindow c. Proof. reflexivity. Qed.
-Lemma cc_serverS_ccu_dec (c : cconn hstate) v : cc_serverS (ccu_dec c v) = cc_serverS c. Proof. reflexivity. Qed.
-Lemma cc_hdrStream_ccu_dec (c : cconn hstate) v : cc_hdrStream (ccu_dec c v) = cc_hdrStream c. Proof. reflexivity. Qed.
-Lemma cc_hdrPrev_ccu_dec (c : cconn hstate) v : cc_hdrPrev (ccu_dec c v) = cc_hdrPrev c. Proof. reflexivity. Qed.
-Lemma cc_hdrFields_ccu_dec (c : cconn hstate) v : cc_hdrFields (ccu_dec c v) = cc_hdrFields c. Proof. reflexivity. Qed.
-Lemma cc_hdrEndStream_ccu_dec (c : cconn hstate) v : cc_hdrEndStream (ccu_dec c v) = cc_hdrEndStream c. Proof. reflexivity. Qed.
-Lemma cc_hdrRegularSeen_ccu_dec (c : cconn hstate) v : cc_hdrRegularSeen (ccu_dec c v) = cc_hdrRegularSeen c. Proof. reflexivity. Qed.
-Lemma cc_hdrStatus_ccu_dec (c : cconn hstate) v : cc_hdrStatus (ccu_dec c v) = cc_hdrStatus c. Proof. reflexivity. Qed.
-Lemma cc_hdrErr_ccu_dec (c : cconn hstate) v : cc_hdrErr (ccu_dec c v) = cc_hdrErr c. Proof. reflexivity. Qed.
-Lemma cc_stateClosed_ccu_dec (c : cconn hstate) v : cc_stateClosed (ccu_dec c v) = cc_stateClosed c. Proof. reflexivity. Qed.
-Lemma cc_closeRef_ccu_dec (c : cconn hstate) v : cc_closeRef (ccu_dec c v) = cc_closeRef c. Proof. reflexivity. Qed.
-Lemma cc_reqQueued_ccu_dec (c : cconn hstate) v : cc_reqQueued (ccu_dec c v) = cc_reqQueued c. Proof. reflexivity. Qed.
-Lemma cc_pending_ccu_dec (c : cconn hstate) v : cc_pending (ccu_dec c v) = cc_pending c. Proof. reflexivity. Qed.
-Lemma cc_connWindow_ccu_dec (c : cconn hstate) v : cc_connWindow (ccu_dec c v) = cc_connWindow c. Proof. reflexivity. Qed.
-Lemma cc_streamWindow_ccu_dec (c : cconn hstate) v : cc_streamWindow (ccu_dec c v) = cc_streamWindow c. Proof. reflexivity. Qed.
-Lemma cc_inQ_ccu_dec (c : cconn hstate) v : cc_inQ (ccu_dec c v) = cc_inQ c. Proof. reflexivity. Qed.
-Lemma cc_outQ_ccu_dec (c : cconn hstate) v : cc_outQ (ccu_dec c v) = cc_outQ c. Proof. reflexivity. Qed.
-Lemma cc_winCh_ccu_dec (c : cconn hstate) v : cc_winCh (ccu_dec c v) = cc_winCh c. Proof. reflexivity. Qed.
-Lemma cc_lastErr_ccu_dec (c : cconn hstate) v : cc_lastErr (ccu_dec c v) = cc_lastErr c. Proof. reflexivity. Qed.
-Lemma cc_unacks_ccu_dec (c : cconn hstate) v : cc_unacks (ccu_dec c v) = cc_unacks c. Proof. reflexivity. Qed.
-Lemma cc_rl_done_ccu_dec (c : cconn hstate) v : cc_rl_done (ccu_dec c v) = cc_rl_done c. Proof. reflexivity. Qed.
-Lemma cc_wl_done_ccu_dec (c : cconn hstate) v : cc_wl_done (ccu_dec c v) = cc_wl_done c. Proof. reflexivity. Qed.
-Lemma cc_rl_stuck_ccu_dec (c : cconn hstate) v : cc_rl_stuck (ccu_dec c v) = cc_rl_stuck c. Proof. reflexivity. Qed.
-Lemma cc_wl_stuck_ccu_dec (c : cconn hstate) v : cc_wl_stuck (ccu_dec c v) = cc_wl_stuck c. Proof. reflexivity. Qed.
-Lemma cc_out_ccu_dec (c : cconn hstate) v : cc_out (ccu_dec c v) = cc_out c. Proof. reflexivity. Qed.
-Lemma cc_ctxs_ccu_currentWindow (c : cconn hstate) v : cc_ctxs (ccu_currentWindow c v) = cc_ctxs c. Proof. reflexivity. Qed.
-Lemma cc_nextID_ccu_currentWindow (c : cconn hstate) v : cc_nextID (ccu_currentWindow c v) = cc_nextID c. Proof. reflexivity. Qed.
-Lemma cc_open_ccu_currentWindow (c : cconn hstate) v : cc_open (ccu_currentWindow c v) = cc_open c. Proof. reflexivity. Qed.
-Lemma cc_maxStreams_ccu_currentWindow (c : cconn hstate) v : cc_maxStreams (ccu_currentWindow c v) = cc_maxStreams c. Proof. reflexivity. Qed.
-Lemma cc_maxFrame_ccu_currentWindow (c : cconn hstate) v : cc_maxFrame (ccu_currentWindow c v) = cc_maxFrame c. Proof. reflexivity. Qed.
-Lemma cc_goAway_ccu_currentWindow (c : cconn hstate) v : cc_goAway (ccu_currentWindow c v) = cc_goAway c. Proof. reflexivity. Qed.
-Lemma cc_closed_ccu_currentWindow (c : cconn hstate) v : cc_closed (ccu_currentWindow c v) = cc_closed c. Proof. reflexivity. Qed.
-Lemma cc_closing_ccu_currentWindow (c : cconn hstate) v : cc_closing (ccu_currentWindow c v) = cc_closing c. Proof. reflexivity. Qed.
-Lemma cc_netClosed_ccu_currentWindow (c : cconn hstate) v : cc_netClosed (ccu_currentWindow c v) = cc_netClosed c. Proof. reflexivity. Qed.
-Lemma cc_writeFail_ccu_currentWindow (c : cconn hstate) v : cc_writeFail (ccu_currentWindow c v) = cc_writeFail c. Proof. reflexivity. Qed.
-Lemma cc_enc_ccu_currentWindow (c : cconn hstate) v : cc_enc (ccu_currentWindow c v) = cc_enc c. Proof. reflexivity. Qed.
-Lemma cc_encTableSize_ccu_currentWindow (c : cconn hstate) v : cc_encTableSize (ccu_currentWindow c v) = cc_encTableSize c. Proof. reflexivity. Qed.
-Lemma cc_encTableSeen_ccu_currentWindow (c : cconn hstate) v : cc_encTableSeen (ccu_currentWindow c v) = cc_encTableSeen c. Proof. reflexivity. Qed.
-Lemma cc_dec_ccu_currentWindow (c : cconn hstate) v : cc_dec (ccu_currentWindow c v) = cc_dec c. Proof. reflexivity. Qed.
-Lemma cc_currentWindow_ccu_currentWindow (c : cconn hstate) v : cc_currentWindow (ccu_currentWindow c v) = v. Proof. reflexivity. Qed.
-Lemma cc_serverS_ccu_currentWindow (c : cconn hstate) v : cc_serverS (ccu_currentWindow c v) = cc_serverS c. Proof. reflexivity. Qed.
-Lemma cc_hdrStream_ccu_currentWindow (c : cconn hstate) v : cc_hdrStream (ccu_currentWindow c v) = cc_hdrStream c. Proof. reflexivity. Qed.
-Lemma cc_hdrPrev_ccu_currentWindow (c : cconn hstate) v : cc_hdrPrev (ccu_currentWindow c v) = cc_hdrPrev c. Proof. reflexivity. Qed.
-Lemma cc_hdrFields_ccu_currentWindow (c : cconn hstate) v : cc_hdrFields (ccu_currentWindow c v) = cc_hdrFields c. Proof. reflexivity. Qed.
-Lemma cc_hdrEndStream_ccu_currentWindow (c : cconn hstate) v : cc_hdrEndStream (ccu_currentWindow c v) = cc_hdrEndStream c. Proof. reflexivity. Qed.
-Lemma cc_hdrRegularSeen_ccu_currentWindow (c : cconn hstate) v : cc_hdrRegularSeen (ccu_currentWindow c v) = cc_hdrRegularSeen c. Proof. reflexivity. Qed.
-Lemma cc_hdrStatus_ccu_currentWindow (c : cconn hstate) v : cc_hdrStatus (ccu_currentWindow c v) = cc_hdrStatus c. Proof. reflexivity. Qed.
-Lemma cc_hdrErr_ccu_currentWindow (c : cconn hstate) v : cc_hdrErr (ccu_currentWindow c v) = cc_hdrErr c. Proof. reflexivity. Qed.
-Lemma cc_stateClosed_ccu_currentWindow (c : cconn hstate) v : cc_stateClosed (ccu_currentWindow c v) = cc_stateClosed c. Proof. reflexivity. Qed.
-Lemma cc_closeRef_ccu_currentWindow (c : cconn hstate) v : cc_closeRef (ccu_currentWindow c v) = cc_closeRef c. Proof. reflexivity. Qed.
-Lemma cc_reqQueued_ccu_currentWindow (c : cconn hstate) v : cc_reqQueued (ccu_currentWindow c v) = cc_reqQueued c. Proof. reflexivity. Qed.
-Lemma cc_pending_ccu_currentWindow (c : cconn hstate) v : cc_pending (ccu_currentWindow c v) = cc_pending c. Proof. reflexivity. Qed.
-Lemma cc_connWindow_ccu_currentWindow (c : cconn hstate) v : cc_connWindow (ccu_currentWindow c v) = cc_connWindow c. Proof. reflexivity. Qed.
-Lemma cc_streamWindow_ccu_currentWindow (c : cconn hstate) v : cc_streamWindow (ccu_currentWindow c v) = cc_streamWindow c. Proof. reflexivity. Qed.
-Lemma cc_inQ_ccu_currentWindow (c : cconn hstate) v : cc_inQ (ccu_currentWindow c v) = cc_inQ c. Proof. reflexivity. Qed.
-Lemma cc_outQ_ccu_currentWindow (c : cconn hstate) v : cc_outQ (ccu_currentWindow c v) = cc_outQ c. Proof. reflexivity. Qed.
-Lemma cc_winCh_ccu_currentWindow (c : cconn hstate) v : cc_winCh (ccu_currentWindow c v) = cc_winCh c. Proof. reflexivity. Qed.
-Lemma cc_lastErr_ccu_currentWindow (c : cconn hstate) v : cc_lastErr (ccu_currentWindow c v) = cc_lastErr c. Proof. reflexivity. Qed.
-Lemma cc_unacks_ccu_currentWindow (c : cconn hstate) v : cc_unacks (ccu_currentWindow c v) = cc_unacks c. Proof. reflexivity. Qed.
-Lemma cc_rl_done_ccu_currentWindow (c : cconn hstate) v : cc_rl_done (ccu_currentWindow c v) = cc_rl_done c. Proof. reflexivity. Qed.
-Lemma cc_wl_done_ccu_currentWindow (c : cconn hstate) v : cc_wl_done (ccu_currentWindow c v) = cc_wl_done c. Proof. reflexivity. Qed.
-Lemma cc_rl_stuck_ccu_currentWindow (c : cconn hstate) v : cc_rl_stuck (ccu_currentWindow c v) = cc_rl_stuck c. Proof. reflexivity. Qed.
-Lemma cc_wl_stuck_ccu_currentWindow (c : cconn hstate) v : cc_wl_stuck (ccu_currentWindow c v) = cc_wl_stuck c. Proof. reflexivity. Qed.
-Lemma cc_out_ccu_currentWindow (c : cconn hstate) v : cc_out (ccu_currentWindow c v) = cc_out c. Proof. reflexivity. Qed.
-Lemma cc_ctxs_ccu_serverS (c : cconn hstate) v : cc_ctxs (ccu_serverS c v) = cc_ctxs c. Proof. reflexivity. Qed.
-Lemma cc_nextID_ccu_serverS (c : cconn hstate) v : cc_nextID (ccu_serverS c v) = cc_nextID c. Proof. reflexivity. Qed.
-Lemma cc_open_ccu_serverS (c : cconn hstate) v : cc_open (ccu_serverS c v) = cc_open c. Proof. reflexivity. Qed.
-Lemma cc_maxStreams_ccu_serverS (c : cconn hstate) v : cc_maxStreams (ccu_serverS c v) = cc_maxStreams c. Proof. reflexivity. Qed.
-Lemma cc_maxFrame_ccu_serverS (c : cconn hstate) v : cc_maxFrame (ccu_serverS c v) = cc_maxFrame c. Proof. reflexivity. Qed.
-Lemma cc_goAway_ccu_serverS (c : cconn hstate) v : cc_goAway (ccu_serverS c v) = cc_goAway c. Proof. reflexivity. Qed.
-Lemma cc_closed_ccu_serverS (c : cconn hstate) v : cc_closed (ccu_serverS c v) = cc_closed c. Proof. reflexivity. Qed.
-Lemma cc_closing_ccu_serverS (c : cconn hstate) v : cc_closing (ccu_serverS c v) = cc_closing c. Proof. reflexivity. Qed.
-Lemma cc_netClosed_ccu_serverS (c : cconn hstate) v : cc_netClosed (ccu_serverS c v) = cc_netClosed c. Proof. reflexivity. Qed.
-Lemma cc_writeFail_ccu_serverS (c : cconn hstate) v : cc_writeFail (ccu_serverS c v) = cc_writeFail c. Proof. reflexivity. Qed.
-Lemma cc_enc_ccu_serverS (c : cconn hstate) v : cc_enc (ccu_serverS c v) = cc_enc c. Proof. reflexivity. Qed.
-Lemma cc_encTableSize_ccu_serverS (c : cconn hstate) v : cc_encTableSize (ccu_serverS c v) = cc_encTableSize c. Proof. reflexivity. Qed.
-Lemma cc_encTableSeen_ccu_serverS (c : cconn hstate) v : cc_encTableSeen (ccu_serverS c v) = cc_encTableSeen c. Proof. reflexivity. Qed.
-Lemma cc_dec_ccu_serverS (c : cconn hstate) v : cc_dec (ccu_serverS c v) = cc_dec c. Proof. reflexivity. Qed.
-Lemma cc_currentWindow_ccu_serverS (c : cconn hstate) v : cc_currentWindow (ccu_serverS c v) = cc_currentWindow c. Proof. reflexivity. Qed.
-Lemma cc_serverS_ccu_serverS (c : cconn hstate) v : cc_serverS (ccu_serverS c v) = v. Proof. reflexivity. Qed.
-Lemma cc_hdrStream_ccu_serverS (c : cconn hstate) v : cc_hdrStream (ccu_serverS c v) = cc_hdrStream c. Proof. reflexivity. Qed.
-Lemma cc_hdrPrev_ccu_serverS (c : cconn hstate) v : cc_hdrPrev (ccu_serverS c v) = cc_hdrPrev c. Proof. reflexivity. Qed.
-Lemma cc_hdrFields_ccu_serverS (c : cconn hstate) v : cc_hdrFields (ccu_serverS c v) = cc_hdrFields c. Proof. reflexivity. Qed.
-Lemma cc_hdrEndStream_ccu_serverS (c : cconn hstate) v : cc_hdrEndStream (ccu_serverS c v) = cc_hdrEndStream c. Proof. reflexivity. Qed.
-Lemma cc_hdrRegularSeen_ccu_serverS (c : cconn hstate) v : cc_hdrRegularSeen (ccu_serverS c v) = cc_hdrRegularSeen c. Proof. reflexivity. Qed.
-Lemma cc_hdrStatus_ccu_serverS (c : cconn hstate) v : cc_hdrStatus (ccu_serverS c v) = cc_hdrStatus c. Proof. reflexivity. Qed.
-Lemma cc_hdrErr_ccu_serverS (c : cconn hstate) v : cc_hdrErr (ccu_serverS c v) = cc_hdrErr c. Proof. reflexivity. Qed.
-Lemma cc_stateClosed_ccu_serverS (c : cconn hstate) v : cc_stateClosed (ccu_serverS c v) = cc_stateClosed c. Proof. reflexivity. Qed.
-Lemma cc_closeRef_ccu_serverS (c : cconn hstate) v : cc_closeRef (ccu_serverS c v) = cc_closeRef c. Proof. reflexivity. Qed.
-Lemma cc_reqQueued_ccu_serverS (c : cconn hstate) v : cc_reqQueued (ccu_serverS c v) = cc_reqQueued c. Proof. reflexivity. Qed.
-Lemma cc_pending_ccu_serverS (c : cconn hstate) v : cc_pending (ccu_serverS c v) = cc_pending c. Proof. reflexivity. Qed.
-Lemma cc_connWindow_ccu_serverS (c : cconn hstate) v : cc_connWindow (ccu_serverS c v) = cc_connWindow c. Proof. reflexivity. Qed.
-Lemma cc_streamWindow_ccu_serverS (c : cconn hstate) v : cc_streamWindow (ccu_serverS c v) = cc_streamWindow c. Proof. reflexivity. Qed.
-Lemma cc_inQ_ccu_serverS (c : cconn hstate) v : cc_inQ (ccu_serverS c v) = cc_inQ c. Proof. reflexivity. Qed.
-Lemma cc_outQ_ccu_serverS (c : cconn hstate) v : cc_outQ (ccu_serverS c v) = cc_outQ c. Proof. reflexivity. Qed.
-Lemma cc_winCh_ccu_serverS (c : cconn hstate) v : cc_winCh (ccu_serverS c v) = cc_winCh c. Proof. reflexivity. Qed.
-Lemma cc_lastErr_ccu_serverS (c : cconn hstate) v : cc_lastErr (ccu_serverS c v) = cc_lastErr c. Proof. reflexivity. Qed.
-Lemma cc_unacks_ccu_serverS (c : cconn hstate) v : cc_unacks (ccu_serverS c v) = cc_unacks c. Proof. reflexivity. Qed.
-Lemma cc_rl_done_ccu_serverS (c : cconn hstate) v : cc_rl_done (ccu_serverS c v) = cc_rl_done c. Proof. reflexivity. Qed.
-Lemma cc_wl_done_ccu_serverS (c : cconn hstate) v : cc_wl_done (ccu_serverS c v) = cc_wl_done c. Proof. reflexivity. Qed.
-Lemma cc_rl_stuck_ccu_serverS (c : cconn hstate) v : cc_rl_stuck (ccu_serverS c v) = cc_rl_stuck c. Proof. reflexivity. Qed.
-Lemma cc_wl_stuck_ccu_serverS (c : cconn hstate) v : cc_wl_stuck (ccu_serverS c v) = cc_wl_stuck c. Proof. reflexivity. Qed.
-Lemma cc_out_ccu_serverS (c : cconn hstate) v : cc_out (ccu_serverS c v) = cc_out c. Proof. reflexivity. Qed.
-Lemma cc_ctxs_ccu_hdrStream (c : cconn hstate) v : cc_ctxs (ccu_hdrStream c v) = cc_ctxs c. Proof. reflexivity. Qed.
-Lemma cc_nextID_ccu_hdrStream (c : cconn hstate) v : cc_nextID (ccu_hdrStream c v) = cc_nextID c. Proof. reflexivity. Qed.
-Lemma cc_open_ccu_hdrStream (c : cconn hstate) v : cc_open (ccu_hdrStream c v) = cc_open c. Proof. reflexivity. Qed.
-Lemma cc_maxStreams_ccu_hdrStream (c : cconn hstate) v : cc_maxStreams (ccu_hdrStream c v) = cc_maxStreams c. Proof. reflexivity. Qed.
-Lemma cc_maxFrame_ccu_hdrStream (c : cconn hstate) v : cc_maxFrame (ccu_hdrStream c v) = cc_maxFrame c. Proof. reflexivity. Qed.
-Lemma cc_goAway_ccu_hdrStream (c : cconn hstate) v : cc_goAway (ccu_hdrStream c v) = cc_goAway c. Proof. reflexivity. Qed.
-Lemma cc_closed_ccu_hdrStream (c : cconn hstate) v : cc_closed (ccu_hdrStream c v) = cc_closed c. Proof. reflexivity. Qed.
-Lemma cc_closing_ccu_hdrStream (c : cconn hstate) v : cc_closing (ccu_hdrStream c v) = cc_closing c. Proof. reflexivity. Qed.
-Lemma cc_netClosed_ccu_hdrStream (c : cconn hstate) v : cc_netClosed (ccu_hdrStream c v) = cc_netClosed c. Proof. reflexivity. Qed.
-Lemma cc_writeFail_ccu_hdrStream (c : cconn hstate) v : cc_writeFail (ccu_hdrStream c v) = cc_writeFail c. Proof. reflexivity. Qed.
-Lemma cc_enc_ccu_hdrStream (c : cconn hstate) v : cc_enc (ccu_hdrStream c v) = cc_enc c. Proof. reflexivity. Qed.
-Lemma cc_encTableSize_ccu_hdrStream (c : cconn hstate) v : cc_encTableSize (ccu_hdrStream c v) = cc_encTableSize c. Proof. reflexivity. Qed.
-Lemma cc_encTableSeen_ccu_hdrStream (c : cconn hstate) v : cc_encTableSeen (ccu_hdrStream c v) = cc_encTableSeen c. Proof. reflexivity. Qed.
-Lemma cc_dec_ccu_hdrStream (c : cconn hstate) v : cc_dec (ccu_hdrStream c v) = cc_dec c. Proof. reflexivity. Qed.
-Lemma cc_currentWindow_ccu_hdrStream (c : cconn hstate) v : cc_currentWindow (ccu_hdrStream c v) = cc_currentWindow c. Proof. reflexivity. Qed.
-Lemma cc_serverS_ccu_hdrStream (c : cconn hstate) v : cc_serverS (ccu_hdrStream c v) = cc_serverS c. Proof. reflexivity. Qed.
-Lemma cc_hdrStream_ccu_hdrStream (c : cconn hstate) v : cc_hdrStream (ccu_hdrStream c v) = v. Proof. reflexivity. Qed.
-Lemma cc_hdrPrev_ccu_hdrStream (c : cconn hstate) v : cc_hdrPrev (ccu_hdrStream c v) = cc_hdrPrev c. Proof. reflexivity. Qed.
-Lemma cc_hdrFields_ccu_hdrStream (c : cconn hstate) v : cc_hdrFields (ccu_hdrStream c v) = cc_hdrFields c. Proof. reflexivity. Qed.
-Lemma cc_hdrEndStream_ccu_hdrStream (c : cconn hstate) v : cc_hdrEndStream (ccu_hdrStream c v) = cc_hdrEndStream c. Proof. reflexivity. Qed.
-Lemma cc_hdrRegularSeen_ccu_hdrStream (c : cconn hstate) v : cc_hdrRegularSeen (ccu_hdrStream c v) = cc_hdrRegularSeen c. Proof. reflexivity. Qed.
-Lemma cc_hdrStatus_ccu_hdrStream (c : cconn hstate) v : cc_hdrStatus (ccu_hdrStream c v) = cc_hdrStatus c. Proof. reflexivity. Qed.
-Lemma cc_hdrErr_ccu_hdrStream (c : cconn hstate) v : cc_hdrErr (ccu_hdrStream c v) = cc_hdrErr c. Proof. reflexivity. Qed.
-Lemma cc_stateClosed_ccu_hdrStream (c : cconn hstate) v : cc_stateClosed (ccu_hdrStream c v) = cc_stateClosed c. Proof. reflexivity. Qed.
-Lemma cc_closeRef_ccu_hdrStream (c : cconn hstate) v : cc_closeRef (ccu_hdrStream c v) = cc_closeRef c. Proof. reflexivity. Qed.
-Lemma cc_reqQueued_ccu_hdrStream (c : cconn hstate) v : cc_reqQueued (ccu_hdrStream c v) = cc_reqQueued c. Proof. reflexivity. Qed.
-Lemma cc_pending_ccu_hdrStream (c : cconn hstate) v : cc_pending (ccu_hdrStream c v) = cc_pending c. Proof. reflexivity. Qed.
-Lemma cc_connWindow_ccu_hdrStream (c : cconn hstate) v : cc_connWindow (ccu_hdrStream c v) = cc_connWindow c. Proof. reflexivity. Qed.
-Lemma cc_streamWindow_ccu_hdrStream (c : cconn hstate) v : cc_streamWindow (ccu_hdrStream c v) = cc_streamWindow c. Proof. reflexivity. Qed.
-Lemma cc_inQ_ccu_hdrStream (c : cconn hstate) v : cc_inQ (ccu_hdrStream c v) = cc_inQ c. Proof. reflexivity. Qed.
-Lemma cc_outQ_ccu_hdrStream (c : cconn hstate) v : cc_outQ (ccu_hdrStream c v) = cc_outQ c. Proof. reflexivity. Qed.
-Lemma cc_winCh_ccu_hdrStream (c : cconn hstate) v : cc_winCh (ccu_hdrStream c v) = cc_winCh c. Proof. reflexivity. Qed.
-Lemma cc_lastErr_ccu_hdrStream (c : cconn hstate) v : cc_lastErr (ccu_hdrStream c v) = cc_lastErr c. Proof. reflexivity. Qed.
-Lemma cc_unacks_ccu_hdrStream (c : cconn hstate) v : cc_unacks (ccu_hdrStream c v) = cc_unacks c. Proof. reflexivity. Qed.
-Lemma cc_rl_done_ccu_hdrStream (c : cconn hstate) v : cc_rl_done (ccu_hdrStream c v) = cc_rl_done c. Proof. reflexivity. Qed.
-Lemma cc_wl_done_ccu_hdrStream (c : cconn hstate) v : cc_wl_done (ccu_hdrStream c v) = cc_wl_done c. Proof. reflexivity. Qed.
-Lemma cc_rl_stuck_ccu_hdrStream (c : cconn hstate) v : cc_rl_stuck (ccu_hdrStream c v) = cc_rl_stuck c. Proof. reflexivity. Qed.
-Lemma cc_wl_stuck_ccu_hdrStream (c : cconn hstate) v : cc_wl_stuck (ccu_hdrStream c v) = cc_wl_stuck c. Proof. reflexivity. Qed.
-Lemma cc_out_ccu_hdrStream (c : cconn hstate) v : cc_out (ccu_hdrStream c v) = cc_out c. Proof. reflexivity. Qed.
-Lemma cc_ctxs_ccu_hdrPrev (c : cconn hstate) v : cc_ctxs (ccu_hdrPrev c v) = cc_ctxs c. Proof. reflexivity. Qed.
-Lemma cc_nextID_ccu_hdrPrev (c : cconn hstate) v : cc_nextID (ccu_hdrPrev c v) = cc_nextID c. Proof. reflexivity. Qed.
-Lemma cc_open_ccu_hdrPrev (c : cconn hstate) v : cc_open (ccu_hdrPrev c v) = cc_open c. Proof. reflexivity. Qed.
-Lemma cc_maxStreams_ccu_hdrPrev (c : cconn hstate) v : cc_maxStreams (ccu_hdrPrev c v) = cc_maxStreams c. Proof. reflexivity. Qed.
-Lemma cc_maxFrame_ccu_hdrPrev (c : cconn hstate) v : cc_maxFrame (ccu_hdrPrev c v) = cc_maxFrame c. Proof. reflexivity. Qed.
-Lemma cc_goAway_ccu_hdrPrev (c : cconn hstate) v : cc_goAway (ccu_hdrPrev c v) = cc_goAway c. Proof. reflexivity. Qed.
-Lemma cc_closed_ccu_hdrPrev (c : cconn hstate) v : cc_closed (ccu_hdrPrev c v) = cc_closed c. Proof. reflexivity. Qed.
-Lemma cc_closing_ccu_hdrPrev (c : cconn hstate) v : cc_closing (ccu_hdrPrev c v) = cc_closing c. Proof. reflexivity. Qed.
-Lemma cc_netClosed_ccu_hdrPrev (c : cconn hstate) v : cc_netClosed (ccu_hdrPrev c v) = cc_netClosed c. Proof. reflexivity. Qed.
-Lemma cc_writeFail_ccu_hdrPrev (c : cconn hstate) v : cc_writeFail (ccu_hdrPrev c v) = cc_writeFail c. Proof. reflexivity. Qed.
-Lemma cc_enc_ccu_hdrPrev (c : cconn hstate) v : cc_enc (ccu_hdrPrev c v) = cc_enc c. Proof. reflexivity. Qed.
-Lemma cc_encTableSize_ccu_hdrPrev (c : cconn hstate) v : cc_encTableSize (ccu_hdrPrev c v) = cc_encTableSize c. Proof. reflexivity. Qed.
-Lemma cc_encTableSeen_ccu_hdrPrev (c : cconn hstate) v : cc_encTableSeen (ccu_hdrPrev c v) = cc_encTableSeen c. Proof. reflexivity. Qed.
-Lemma cc_dec_ccu_hdrPrev (c : cconn hstate) v : cc_dec (ccu_hdrPrev c v) = cc_dec c. Proof. reflexivity. Qed.
-Lemma cc_currentWindow_ccu_hdrPrev (c : cconn hstate) v : cc_currentWindow (ccu_hdrPrev c v) = cc_currentWindow c. Proof. reflexivity. Qed.
-Lemma cc_serverS_ccu_hdrPrev (c : cconn hstate) v : cc_serverS (ccu_hdrPrev c v) = cc_serverS c. Proof. reflexivity. Qed.
-Lemma cc_hdrStream_ccu_hdrPrev (c : cconn hstate) v : cc_hdrStream (ccu_hdrPrev c v) = cc_hdrStream c. Proof. reflexivity. Qed.
-Lemma cc_hdrPrev_ccu_hdrPrev (c : cconn hstate) v : cc_hdrPrev (ccu_hdrPrev c v) = v. Proof. reflexivity. Qed.
-Lemma cc_hdrFields_ccu_hdrPrev (c : cconn hstate) v : cc_hdrFields (ccu_hdrPrev c v) = cc_hdrFields c. Proof. reflexivity. Qed.
-Lemma cc_hdrEndStream_ccu_hdrPrev (c : cconn hstate) v : cc_hdrEndStream (ccu_hdrPrev c v) = cc_hdrEndStream c. Proof. reflexivity. Qed.
-Lemma cc_hdrRegularSeen_ccu_hdrPrev (c : cconn hstate) v : cc_hdrRegularSeen (ccu_hdrPrev c v) = cc_hdrRegularSeen c. Proof. reflexivity. Qed.
-Lemma cc_hdrStatus_ccu_hdrPrev (c : cconn hstate) v : cc_hdrStatus (ccu_hdrPrev c v) = cc_hdrStatus c. Proof. reflexivity. Qed.
-Lemma cc_hdrErr_ccu_hdrPrev (c : cconn hstate) v : cc_hdrErr (ccu_hdrPrev c v) = cc_hdrErr c. Proof. reflexivity. Qed.
-Lemma cc_stateClosed_ccu_hdrPrev (c : cconn hstate) v : cc_stateClosed (ccu_hdrPrev c v) = cc_stateClosed c. Proof. reflexivity. Qed.
-Lemma cc_closeRef_ccu_hdrPrev (c : cconn hstate) v : cc_closeRef (ccu_hdrPrev c v) = cc_closeRef c. Proof. reflexivity. Qed.
-Lemma cc_reqQueued_ccu_hdrPrev (c : cconn hstate) v : cc_reqQueued (ccu_hdrPrev c v) = cc_reqQueued c. Proof. reflexivity. Qed.
-Lemma cc_pending_ccu_hdrPrev (c : cconn hstate) v : cc_pending (ccu_hdrPrev c v) = cc_pending c. Proof. reflexivity. Qed.
-Lemma cc_connWindow_ccu_hdrPrev (c : cconn hstate) v : cc_connWindow (ccu_hdrPrev c v) = cc_connWindow c. Proof. reflexivity. Qed.
-Lemma cc_streamWindow_ccu_hdrPrev (c : cconn hstate) v : cc_streamWindow (ccu_hdrPrev c v) = cc_streamWindow c. Proof. reflexivity. Qed.
-Lemma cc_inQ_ccu_hdrPrev (c : cconn hstate) v : cc_inQ (ccu_hdrPrev c v) = cc_inQ c. Proof. reflexivity. Qed.
-Lemma cc_outQ_ccu_hdrPrev (c : cconn hstate) v : cc_outQ (ccu_hdrPrev c v) = cc_outQ c. Proof. reflexivity. Qed.
-Lemma cc_winCh_ccu_hdrPrev (c : cconn hstate) v : cc_winCh (ccu_hdrPrev c v) = cc_winCh c. Proof. reflexivity. Qed.
-Lemma cc_lastErr_ccu_hdrPrev (c : cconn hstate) v : cc_lastErr (ccu_hdrPrev c v) = cc_lastErr c. Proof. reflexivity. Qed.
-Lemma cc_unacks_ccu_hdrPrev (c : cconn hstate) v : cc_unacks (ccu_hdrPrev c v) = cc_unacks c. Proof. reflexivity. Qed.
-Lemma cc_rl_done_ccu_hdrPrev (c : cconn hstate) v : cc_rl_done (ccu_hdrPrev c v) = cc_rl_done c. Proof. reflexivity. Qed.
-Lemma cc_wl_done_ccu_hdrPrev (c : cconn hstate) v : cc_wl_done (ccu_hdrPrev c v) = cc_wl_done c. Proof. reflexivity. Qed.
-Lemma cc_rl_stuck_ccu_hdrPrev (c : cconn hstate) v : cc_rl_stuck (ccu_hdrPrev c v) = cc_rl_stuck c. Proof. reflexivity. Qed.
-Lemma cc_wl_stuck_ccu_hdrPrev (c : cconn hstate) v : cc_wl_stuck (ccu_hdrPrev c v) = cc_wl_stuck c. Proof. reflexivity. Qed.
-Lemma cc_out_ccu_hdrPrev (c : cconn hstate) v : cc_out (ccu_hdrPrev c v) = cc_out c. Proof. reflexivity. Qed.
-Lemma cc_ctxs_ccu_hdrFields (c : cconn hstate) v : cc_ctxs (ccu_hdrFields c v) = cc_ctxs c. Proof. reflexivity. Qed.
-Lemma cc_nextID_ccu_hdrFields (c : cconn hstate) v : cc_nextID (ccu_hdrFields c v) = cc_nextID c. Proof. reflexivity. Qed.
-Lemma cc_open_ccu_hdrFields (c : cconn hstate) v : cc_open (ccu_hdrFields c v) = cc_open c. Proof. reflexivity. Qed.
-Lemma cc_maxStreams_ccu_hdrFields (c : cconn hstate) v : cc_maxStreams (ccu_hdrFields c v) = cc_maxStreams c. Proof. reflexivity. Qed.
-Lemma cc_maxFrame_ccu_hdrFields (c : cconn hstate) v : cc_maxFrame (ccu_hdrFields c v) = cc_maxFrame c. Proof. reflexivity. Qed.
-Lemma cc_goAway_ccu_hdrFields (c : cconn hstate) v : cc_goAway (ccu_hdrFields c v) = cc_goAway c. Proof. reflexivity. Qed.
-Lemma cc_closed_ccu_hdrFields (c : cconn hstate) v : cc_closed (ccu_hdrFields c v) = cc_closed c. Proof. reflexivity. Qed.
-Lemma cc_closing_ccu_hdrFields (c : cconn hstate) v : cc_closing (ccu_hdrFields c v) = cc_closing c. Proof. reflexivity. Qed.
-Lemma cc_netClosed_ccu_hdrFields (c : cconn hstate) v : cc_netClosed (ccu_hdrFields c v) = cc_netClosed c. Proof. reflexivity. Qed.
-Lemma cc_writeFail_ccu_hdrFields (c : cconn hstate) v : cc_writeFail (ccu_hdrFields c v) = cc_writeFail c. Proof. reflexivity. Qed.
-Lemma cc_enc_ccu_hdrFields (c : cconn hstate) v : cc_enc (ccu_hdrFields c v) = cc_enc c. Proof. reflexivity. Qed.
-Lemma cc_encTableSize_ccu_hdrFields (c : cconn hstate) v : cc_encTableSize (ccu_hdrFields c v) = cc_encTableSize c. Proof. reflexivity. Qed.
-Lemma cc_encTableSeen_ccu_hdrFields (c : cconn hstate) v : cc_encTableSeen (ccu_hdrFields c v) = cc_encTableSeen c. Proof. reflexivity. Qed.
-Lemma cc_dec_ccu_hdrFields (c : cconn hstate) v : cc_dec (ccu_hdrFields c v) = cc_dec c. Proof. reflexivity. Qed.
-Lemma cc_currentWindow_ccu_hdrFields (c : cconn hstate) v : cc_currentWindow (ccu_hdrFields c v) = cc_currentWindow c. Proof. reflexivity. Qed.
-Lemma cc_serverS_ccu_hdrFields (c : cconn hstate) v : cc_serverS (ccu_hdrFields c v) = cc_serverS c. Proof. reflexivity. Qed.
-Lemma cc_hdrStream_ccu_hdrFields (c : cconn hstate) v : cc_hdrStream (ccu_hdrFields c v) = cc_hdrStream c. Proof. reflexivity. Qed.
-Lemma cc_hdrPrev_ccu_hdrFields (c : cconn hstate) v : cc_hdrPrev (ccu_hdrFields c v) = cc_hdrPrev c. Proof. reflexivity. Qed.
-Lemma cc_hdrFields_ccu_hdrFields (c : cconn hstate) v : cc_hdrFields (ccu_hdrFields c v) = v. Proof. reflexivity. Qed.
-Lemma cc_hdrEndStream_ccu_hdrFields (c : cconn hstate) v : cc_hdrEndStream (ccu_hdrFields c v) = cc_hdrEndStream c. Proof. reflexivity. Qed.
-Lemma cc_hdrRegularSeen_ccu_hdrFields (c : cconn hstate) v : cc_hdrRegularSeen (ccu_hdrFields c v) = cc_hdrRegularSeen c. Proof. reflexivity. Qed.
-Lemma cc_hdrStatus_ccu_hdrFields (c : cconn hstate) v : cc_hdrStatus (ccu_hdrFields c v) = cc_hdrStatus c. Proof. reflexivity. Qed.
-Lemma cc_hdrErr_ccu_hdrFields (c : cconn hstate) v : cc_hdrErr (ccu_hdrFields c v) = cc_hdrErr c. Proof. reflexivity. Qed.
-Lemma cc_stateClosed_ccu_hdrFields (c : cconn hstate) v : cc_stateClosed (ccu_hdrFields c v) = cc_stateClosed c. Proof. reflexivity. Qed.
-Lemma cc_closeRef_ccu_hdrFields (c : cconn hstate) v : cc_closeRef (ccu_hdrFields c v) = cc_closeRef c. Proof. reflexivity. Qed.
-Lemma cc_reqQueued_ccu_hdrFields (c : cconn hstate) v : cc_reqQueued (ccu_hdrFields c v) = cc_reqQueued c. Proof. reflexivity. Qed.
-Lemma cc_pending_ccu_hdrFields (c : cconn hstate) v : cc_pending (ccu_hdrFields c v) = cc_pending c. Proof. reflexivity. Qed.
-Lemma cc_connWindow_ccu_hdrFields (c : cconn hstate) v : cc_connWindow (ccu_hdrFields c v) = cc_connWindow c. Proof. reflexivity. Qed.
-Lemma cc_streamWindow_ccu_hdrFields (c : cconn hstate) v : cc_streamWindow (ccu_hdrFields c v) = cc_streamWindow c. Proof. reflexivity. Qed.
-Lemma cc_inQ_ccu_hdrFields (c : cconn hstate) v : cc_inQ (ccu_hdrFields c v) = cc_inQ c. Proof. reflexivity. Qed.
-Lemma cc_outQ_ccu_hdrFields (c : cconn hstate) v : cc_outQ (ccu_hdrFields c v) = cc_outQ c. Proof. reflexivity. Qed.
-Lemma cc_winCh_ccu_hdrFields (c : cconn hstate) v : cc_winCh (ccu_hdrFields c v) = cc_winCh c. Proof. reflexivity. Qed.
-Lemma cc_lastErr_ccu_hdrFields (c : cconn hstate) v : cc_lastErr (ccu_hdrFields c v) = cc_lastErr c. Proof. reflexivity. Qed.
-Lemma cc_unacks_ccu_hdrFields (c : cconn hstate) v : cc_unacks (ccu_hdrFields c v) = cc_unacks c. Proof. reflexivity. Qed.
-Lemma cc_rl_done_ccu_hdrFields (c : cconn hstate) v : cc_rl_done (ccu_hdrFields c v) = cc_rl_done c. Proof. reflexivity. Qed.
-Lemma cc_wl_done_ccu_hdrFields (c : cconn hstate) v : cc_wl_done (ccu_hdrFields c v) = cc_wl_done c. Proof. reflexivity. Qed.
-Lemma cc_rl_stuck_ccu_hdrFields (c : cconn hstate) v : cc_rl_stuck (ccu_hdrFields c v) = cc_rl_stuck c. Proof. reflexivity. Qed.
-Lemma cc_wl_stuck_ccu_hdrFields (c : cconn hstate) v : cc_wl_stuck (ccu_hdrFields c v) = cc_wl_stuck c. Proof. reflexivity. Qed.
-Lemma cc_out_ccu_hdrFields (c : cconn hstate) v : cc_out (ccu_hdrFields c v) = cc_out c. Proof. reflexivity. Qed.
-Lemma cc_ctxs_ccu_hdrEndStream (c : cconn hstate) v : cc_ctxs (ccu_hdrEndStream c v) = cc_ctxs c. Proof. reflexivity. Qed.
-Lemma cc_nextID_ccu_hdrEndStream (c : cconn hstate) v : cc_nextID (ccu_hdrEndStream c v) = cc_nextID c. Proof. reflexivity. Qed.
-Lemma cc_open_ccu_hdrEndStream (c : cconn hstate) v : cc_open (ccu_hdrEndStream c v) = cc_open c. Proof. reflexivity. Qed.
-Lemma cc_maxStreams_ccu_hdrEndStream (c : cconn hstate) v : cc_maxStreams (ccu_hdrEndStream c v) = cc_maxStreams c. Proof. reflexivity. Qed.
-Lemma cc_maxFrame_ccu_hdrEndStream (c : cconn hstate) v : cc_maxFrame (ccu_hdrEndStream c v) = cc_maxFrame c. Proof. reflexivity. Qed.
-Lemma cc_goAway_ccu_hdrEndStream (c : cconn hstate) v : cc_goAway (ccu_hdrEndStream c v) = cc_goAway c. Proof. reflexivity. Qed.
-Lemma cc_closed_ccu_hdrEndStream (c : cconn hstate) v : cc_closed (ccu_hdrEndStream c v) = cc_closed c. Proof. reflexivity. Qed.
-Lemma cc_closing_ccu_hdrEndStream (c : cconn hstate) v : cc_closing (ccu_hdrEndStream c v) = cc_closing c. Proof. reflexivity. Qed.
-Lemma cc_netClosed_ccu_hdrEndStream (c : cconn hstate) v : cc_netClosed (ccu_hdrEndStream c v) = cc_netClosed c. Proof. reflexivity. Qed.
-Lemma cc_writeFail_ccu_hdrEndStream (c : cconn hstate) v : cc_writeFail (ccu_hdrEndStream c v) = cc_writeFail c. Proof. reflexivity. Qed.
-Lemma cc_enc_ccu_hdrEndStream (c : cconn hstate) v : cc_enc (ccu_hdrEndStream c v) = cc_enc c. Proof. reflexivity. Qed.
-Lemma cc_encTableSize_ccu_hdrEndStream (c : cconn hstate) v : cc_encTableSize (ccu_hdrEndStream c v) = cc_encTableSize c. Proof. reflexivity. Qed.
-Lemma cc_encTableSeen_ccu_hdrEndStream (c : cconn hstate) v : cc_encTableSeen (ccu_hdrEndStream c v) = cc_encTableSeen c. Proof. reflexivity. Qed.
-Lemma cc_dec_ccu_hdrEndStream (c : cconn hstate) v : cc_dec (ccu_hdrEndStream c v) = cc_dec c. Proof. reflexivity. Qed.
-Lemma cc_currentWindow_ccu_hdrEndStream (c : cconn hstate) v : cc_currentWindow (ccu_hdrEndStream c v) = cc_currentWindow c. Proof. reflexivity. Qed.
-Lemma cc_serverS_ccu_hdrEndStream (c : cconn hstate) v : cc_serverS (ccu_hdrEndStream c v) = cc_serverS c. Proof. reflexivity. Qed.
-Lemma cc_hdrStream_ccu_hdrEndStream (c : cconn hstate) v : cc_hdrStream (ccu_hdrEndStream c v) = cc_hdrStream c. Proof. reflexivity. Qed.
-Lemma cc_hdrPrev_ccu_hdrEndStream (c : cconn hstate) v : cc_hdrPrev (ccu_hdrEndStream c v) = cc_hdrPrev c. Proof. reflexivity. Qed.
-Lemma cc_hdrFields_ccu_hdrEndStream (c : cconn hstate) v : cc_hdrFields (ccu_hdrEndStream c v) = cc_hdrFields c. Proof. reflexivity. Qed.
-Lemma cc_hdrEndStream_ccu_hdrEndStream (c : cconn hstate) v : cc_hdrEndStream (ccu_hdrEndStream c v) = v. Proof. reflexivity. Qed.
-Lemma cc_hdrRegularSeen_ccu_hdrEndStream (c : cconn hstate) v : cc_hdrRegularSeen (ccu_hdrEndStream c v) = cc_hdrRegularSeen c. Proof. reflexivity. Qed.
-Lemma cc_hdrStatus_ccu_hdrEndStream (c : cconn hstate) v : cc_hdrStatus (ccu_hdrEndStream c v) = cc_hdrStatus c. Proof. reflexivity. Qed.
-Lemma cc_hdrErr_ccu_hdrEndStream (c : cconn hstate) v : cc_hdrErr (ccu_hdrEndStream c v) = cc_hdrErr c. Proof. reflexivity. Qed.
-Lemma cc_stateClosed_ccu_hdrEndStream (c : cconn hstate) v : cc_stateClosed (ccu_hdrEndStream c v) = cc_stateClosed c. Proof. reflexivity. Qed.
-Lemma cc_closeRef_ccu_hdrEndStream (c : cconn hstate) v : cc_closeRef (ccu_hdrEndStream c v) = cc_closeRef c. Proof. reflexivity. Qed.
-Lemma cc_reqQueued_ccu_hdrEndStream (c : cconn hstate) v : cc_reqQueued (ccu_hdrEndStream c v) = cc_reqQueued c. Proof. reflexivity. Qed.
-Lemma cc_pending_ccu_hdrEndStream (c : cconn hstate) v : cc_pending (ccu_hdrEndStream c v) = cc_pending c. Proof. reflexivity. Qed.
-Lemma cc_connWindow_ccu_hdrEndStream (c : cconn hstate) v : cc_connWindow (ccu_hdrEndStream c v) = cc_connWindow c. Proof. reflexivity. Qed.
-Lemma cc_streamWindow_ccu_hdrEndStream (c : cconn hstate) v : cc_streamWindow (ccu_hdrEndStream c v) = cc_streamWindow c. Proof. reflexivity. Qed.
-Lemma cc_inQ_ccu_hdrEndStream (c : cconn hstate) v : cc_inQ (ccu_hdrEndStream c v) = cc_inQ c. Proof. reflexivity. Qed.
-Lemma cc_outQ_ccu_hdrEndStream (c : cconn hstate) v : cc_outQ (ccu_hdrEndStream c v) = cc_outQ c. Proof. reflexivity. Qed.
-Lemma cc_winCh_ccu_hdrEndStream (c : cconn hstate) v : cc_winCh (ccu_hdrEndStream c v) = cc_winCh c. Proof. reflexivity. Qed.
-Lemma cc_lastErr_ccu_hdrEndStream (c : cconn hstate) v : cc_lastErr (ccu_hdrEndStream c v) = cc_lastErr c. Proof. reflexivity. Qed.
-Lemma cc_unacks_ccu_hdrEndStream (c : cconn hstate) v : cc_unacks (ccu_hdrEndStream c v) = cc_unacks c. Proof. reflexivity. Qed.
-Lemma cc_rl_done_ccu_hdrEndStream (c : cconn hstate) v : cc_rl_done (ccu_hdrEndStream c v) = cc_rl_done c. Proof. reflexivity. Qed.
-Lemma cc_wl_done_ccu_hdrEndStream (c : cconn hstate) v : cc_wl_done (ccu_hdrEndStream c v) = cc_wl_done c. Proof. reflexivity. Qed.
-Lemma cc_rl_stuck_ccu_hdrEndStream (c : cconn hstate) v : cc_rl_stuck (ccu_hdrEndStream c v) = cc_rl_stuck c. Proof. reflexivity. Qed.
-Lemma cc_wl_stuck_ccu_hdrEndStream (c : cconn hstate) v : cc_wl_stuck (ccu_hdrEndStream c v) = cc_wl_stuck c. Proof. reflexivity. Qed.
-Lemma cc_out_ccu_hdrEndStream (c : cconn hstate) v : cc_out (ccu_hdrEndStream c v) = cc_out c. Proof. reflexivity. Qed.
-Lemma cc_ctxs_ccu_hdrRegularSeen (c : cconn hstate) v : cc_ctxs (ccu_hdrRegularSeen c v) = cc_ctxs c. Proof. reflexivity. Qed.
-Lemma cc_nextID_ccu_hdrRegularSeen (c : cconn hstate) v : cc_nextID (ccu_hdrRegularSeen c v) = cc_nextID c. Proof. reflexivity. Qed.
-Lemma cc_open_ccu_hdrRegularSeen (c : cconn hstate) v : cc_open (ccu_hdrRegularSeen c v) = cc_open c. Proof. reflexivity. Qed.
-Lemma cc_maxStreams_ccu_hdrRegularSeen (c : cconn hstate) v : cc_maxStreams (ccu_hdrRegularSeen c v) = cc_maxStreams c. Proof. reflexivity. Qed.
-Lemma cc_maxFrame_ccu_hdrRegularSeen (c : cconn hstate) v : cc_maxFrame (ccu_hdrRegularSeen c v) = cc_maxFrame c. Proof. reflexivity. Qed.
-Lemma cc_goAway_ccu_hdrRegularSeen (c : cconn hstate) v : cc_goAway (ccu_hdrRegularSeen c v) = cc_goAway c. Proof. reflexivity. Qed.
-Lemma cc_closed_ccu_hdrRegularSeen (c : cconn hstate) v : cc_closed (ccu_hdrRegularSeen c v) = cc_closed c. Proof. reflexivity. Qed.
-Lemma cc_closing_ccu_hdrRegularSeen (c : cconn hstate) v : cc_closing (ccu_hdrRegularSeen c v) = cc_closing c. Proof. reflexivity. Qed.
-Lemma cc_netClosed_ccu_hdrRegularSeen (c : cconn hstate) v : cc_netClosed (ccu_hdrRegularSeen c v) = cc_netClosed c. Proof. reflexivity. Qed.
-Lemma cc_writeFail_ccu_hdrRegularSeen (c : cconn hstate) v : cc_writeFail (ccu_hdrRegularSeen c v) = cc_writeFail c. Proof. reflexivity. Qed.
-Lemma cc_enc_ccu_hdrRegularSeen (c : cconn hstate) v : cc_enc (ccu_hdrRegularSeen c v) = cc_enc c. Proof. reflexivity. Qed.
-Lemma cc_encTableSize_ccu_hdrRegularSeen (c : cconn hstate) v : cc_encTableSize (ccu_hdrRegularSeen c v) = cc_encTableSize c. Proof. reflexivity. Qed.
-Lemma cc_encTableSeen_ccu_hdrRegularSeen (c : cconn hstate) v : cc_encTableSeen (ccu_hdrRegularSeen c v) = cc_encTableSeen c. Proof. reflexivity. Qed.
-Lemma cc_dec_ccu_hdrRegularSeen (c : cconn hstate) v : cc_dec (ccu_hdrRegularSeen c v) = cc_dec c. Proof. reflexivity. Qed.
-Lemma cc_currentWindow_ccu_hdrRegularSeen (c : cconn hstate) v : cc_currentWindow (ccu_hdrRegularSeen c v) = cc_currentWindow c. Proof. reflexivity. Qed.
-Lemma cc_serverS_ccu_hdrRegularSeen (c : cconn hstate) v : cc_serverS (ccu_hdrRegularSeen c v) = cc_serverS c. Proof. reflexivity. Qed.
-Lemma cc_hdrStream_ccu_hdrRegularSeen (c : cconn hstate) v : cc_hdrStream (ccu_hdrRegularSeen c v) = cc_hdrStream c. Proof. reflexivity. Qed.
-Lemma cc_hdrPrev_ccu_hdrRegularSeen (c : cconn hstate) v : cc_hdrPrev (ccu_hdrRegularSeen c v) = cc_hdrPrev c. Proof. reflexivity. Qed.
-Lemma cc_hdrFields_ccu_hdrRegularSeen (c : cconn hstate) v : cc_hdrFields (ccu_hdrRegularSeen c v) = cc_hdrFields c. Proof. reflexivity. Qed.
-Lemma cc_hdrEndStream_ccu_hdrRegularSeen (c : cconn hstate) v : cc_hdrEndStream (ccu_hdrRegularSeen c v) = cc_hdrEndStream c. Proof. reflexivity. Qed.
-Lemma cc_hdrRegularSeen_ccu_hdrRegularSeen (c : cconn hstate) v : cc_hdrRegularSeen (ccu_hdrRegularSeen c v) = v. Proof. reflexivity. Qed.
-Lemma cc_hdrStatus_ccu_hdrRegularSeen (c : cconn hstate) v : cc_hdrStatus (ccu_hdrRegularSeen c v) = cc_hdrStatus c. Proof. reflexivity. Qed.
-Lemma cc_hdrErr_ccu_hdrRegularSeen (c : cconn hstate) v : cc_hdrErr (ccu_hdrRegularSeen c v) = cc_hdrErr c. Proof. reflexivity. Qed.
-Lemma cc_stateClosed_ccu_hdrRegularSeen (c : cconn hstate) v : cc_stateClosed (ccu_hdrRegularSeen c v) = cc_stateClosed c. Proof. reflexivity. Qed.
-Lemma cc_closeRef_ccu_hdrRegularSeen (c : cconn hstate) v : cc_closeRef (ccu_hdrRegularSeen c v) = cc_closeRef c. Proof. reflexivity. Qed.
-Lemma cc_reqQueued_ccu_hdrRegularSeen (c : cconn hstate) v : cc_reqQueued (ccu_hdrRegularSeen c v) = cc_reqQueued c. Proof. reflexivity. Qed.
-Lemma cc_pending_ccu_hdrRegularSeen (c : cconn hstate) v : cc_pending (ccu_hdrRegularSeen c v) = cc_pending c. Proof. reflexivity. Qed.
-Lemma cc_connWindow_ccu_hdrRegularSeen (c : cconn hstate) v : cc_connWindow (ccu_hdrRegularSeen c v) = cc_connWindow c. Proof. reflexivity. Qed.
-Lemma cc_streamWindow_ccu_hdrRegularSeen (c : cconn hstate) v : cc_streamWindow (ccu_hdrRegularSeen c v) = cc_streamWindow c. Proof. reflexivity. Qed.
-Lemma cc_inQ_ccu_hdrRegularSeen (c : cconn hstate) v : cc_inQ (ccu_hdrRegularSeen c v) = cc_inQ c. Proof. reflexivity. Qed.
-Lemma cc_outQ_ccu_hdrRegularSeen (c : cconn hstate) v : cc_outQ (ccu_hdrRegularSeen c v) = cc_outQ c. Proof. reflexivity. Qed.
-Lemma cc_winCh_ccu_hdrRegularSeen (c : cconn hstate) v : cc_winCh (ccu_hdrRegularSeen c v) = cc_winCh c. Proof. reflexivity. Qed.
-Lemma cc_lastErr_ccu_hdrRegularSeen (c : cconn hstate) v : cc_lastErr (ccu_hdrRegularSeen c v) = cc_lastErr c. Proof. reflexivity. Qed.
-Lemma cc_unacks_ccu_hdrRegularSeen (c : cconn hstate) v : cc_unacks (ccu_hdrRegularSeen c v) = cc_unacks c. Proof. reflexivity. Qed.
-Lemma cc_rl_done_ccu_hdrRegularSeen (c : cconn hstate) v : cc_rl_done (ccu_hdrRegularSeen c v) = cc_rl_done c. Proof. reflexivity. Qed.
-Lemma cc_wl_done_ccu_hdrRegularSeen (c : cconn hstate) v : cc_wl_done (ccu_hdrRegularSeen c v) = cc_wl_done c. Proof. reflexivity. Qed.
-Lemma cc_rl_stuck_ccu_hdrRegularSeen (c : cconn hstate) v : cc_rl_stuck (ccu_hdrRegularSeen c v) = cc_rl_stuck c. Proof. reflexivity. Qed.
-Lemma cc_wl_stuck_ccu_hdrRegularSeen (c : cconn hstate) v : cc_wl_stuck (ccu_hdrRegularSeen c v) = cc_wl_stuck c. Proof. reflexivity. Qed.
-Lemma cc_out_ccu_hdrRegularSeen (c : cconn hstate) v : cc_out (ccu_hdrRegularSeen c v) = cc_out c. Proof. reflexivity. Qed.
-Lemma cc_ctxs_ccu_hdrStatus (c : cconn hstate) v : cc_ctxs (ccu_hdrStatus c v) = cc_ctxs c. Proof. reflexivity. Qed.
-Lemma cc_nextID_ccu_hdrStatus (c : cconn hstate) v : cc_nextID (ccu_hdrStatus c v) = cc_nextID c. Proof. reflexivity. Qed.
-Lemma cc_open_ccu_hdrStatus (c : cconn hstate) v : cc_open (ccu_hdrStatus c v) = cc_open c. Proof. reflexivity. Qed.
-Lemma cc_maxStreams_ccu_hdrStatus (c : cconn hstate) v : cc_maxStreams (ccu_hdrStatus c v) = cc_maxStreams c. Proof. reflexivity. Qed.
-Lemma cc_maxFrame_ccu_hdrStatus (c : cconn hstate) v : cc_maxFrame (ccu_hdrStatus c v) = cc_maxFrame c. Proof. reflexivity. Qed.
-Lemma cc_goAway_ccu_hdrStatus (c : cconn hstate) v : cc_goAway (ccu_hdrStatus c v) = cc_goAway c. Proof. reflexivity. Qed.
-Lemma cc_closed_ccu_hdrStatus (c : cconn hstate) v : cc_closed (ccu_hdrStatus c v) = cc_closed c. Proof. reflexivity. Qed.
-Lemma cc_closing_ccu_hdrStatus (c : cconn hstate) v : cc_closing (ccu_hdrStatus c v) = cc_closing c. Proof. reflexivity. Qed.
-Lemma cc_netClosed_ccu_hdrStatus (c : cconn hstate) v : cc_netClosed (ccu_hdrStatus c v) = cc_netClosed c. Proof. reflexivity. Qed.
-Lemma cc_writeFail_ccu_hdrStatus (c : cconn hstate) v : cc_writeFail (ccu_hdrStatus c v) = cc_writeFail c. Proof. reflexivity. Qed.
-Lemma cc_enc_ccu_hdrStatus (c : cconn hstate) v : cc_enc (ccu_hdrStatus c v) = cc_enc c. Proof. reflexivity. Qed.
-Lemma cc_encTableSize_ccu_hdrStatus (c : cconn hstate) v : cc_encTableSize (ccu_hdrStatus c v) = cc_encTableSize c. Proof. reflexivity. Qed.
-Lemma cc_encTableSeen_ccu_hdrStatus (c : cconn hstate) v : cc_encTableSeen (ccu_hdrStatus c v) = cc_encTableSeen c. Proof. reflexivity. Qed.
-Lemma cc_dec_ccu_hdrStatus (c : cconn hstate) v : cc_dec (ccu_hdrStatus c v) = cc_dec c. Proof. reflexivity. Qed.
-Lemma cc_currentWindow_ccu_hdrStatus (c : cconn hstate) v : cc_currentWindow (ccu_hdrStatus c v) = cc_currentWindow c. Proof. reflexivity. Qed.
-Lemma cc_serverS_ccu_hdrStatus (c : cconn hstate) v : cc_serverS (ccu_hdrStatus c v) = cc_serverS c. Proof. reflexivity. Qed.
-Lemma cc_hdrStream_ccu_hdrStatus (c : cconn hstate) v : cc_hdrStream (ccu_hdrStatus c v) = cc_hdrStream c. Proof. reflexivity. Qed.
-Lemma cc_hdrPrev_ccu_hdrStatus (c : cconn hstate) v : cc_hdrPrev (ccu_hdrStatus c v) = cc_hdrPrev c. Proof. reflexivity. Qed.
-Lemma cc_hdrFields_ccu_hdrStatus (c : cconn hstate) v : cc_hdrFields (ccu_hdrStatus c v) = cc_hdrFields c. Proof. reflexivity. Qed.
-Lemma cc_hdrEndStream_ccu_hdrStatus (c : cconn hstate) v : cc_hdrEndStream (ccu_hdrStatus c v) = cc_hdrEndStream c. Proof. reflexivity. Qed.
-Lemma cc_hdrRegularSeen_ccu_hdrStatus (c : cconn hstate) v : cc_hdrRegularSeen (ccu_hdrStatus c v) = cc_hdrRegularSeen c. Proof. reflexivity. Qed.
-Lemma cc_hdrStatus_ccu_hdrStatus (c : cconn hstate) v : cc_hdrStatus (ccu_hdrStatus c v) = v. Proof. reflexivity. Qed.
-Lemma cc_hdrErr_ccu_hdrStatus (c : cconn hstate) v : cc_hdrErr (ccu_hdrStatus c v) = cc_hdrErr c. Proof. reflexivity. Qed.
-Lemma cc_stateClosed_ccu_hdrStatus (c : cconn hstate) v : cc_stateClosed (ccu_hdrStatus c v) = cc_stateClosed c. Proof. reflexivity. Qed.
-Lemma cc_closeRef_ccu_hdrStatus (c : cconn hstate) v : cc_closeRef (ccu_hdrStatus c v) = cc_closeRef c. Proof. reflexivity. Qed.
-Lemma cc_reqQueued_ccu_hdrStatus (c : cconn hstate) v : cc_reqQueued (ccu_hdrStatus c v) = cc_reqQueued c. Proof. reflexivity. Qed.
-Lemma cc_pending_ccu_hdrStatus (c : cconn hstate) v : cc_pending (ccu_hdrStatus c v) = cc_pending c. Proof. reflexivity. Qed.
-Lemma cc_connWindow_ccu_hdrStatus (c : cconn hstate) v : cc_connWindow (ccu_hdrStatus c v) = cc_connWindow c. Proof. reflexivity. Qed.
-Lemma cc_streamWindow_ccu_hdrStatus (c : cconn hstate) v : cc_streamWindow (ccu_hdrStatus c v) = cc_streamWindow c. Proof. reflexivity. Qed.
-Lemma cc_inQ_ccu_hdrStatus (c : cconn hstate) v : cc_inQ (ccu_hdrStatus c v) = cc_inQ c. Proof. reflexivity. Qed.
-Lemma cc_outQ_ccu_hdrStatus (c : cconn hstate) v : cc_outQ (ccu_hdrStatus c v) = cc_outQ c. Proof. reflexivity. Qed.
-Lemma cc_winCh_ccu_hdrStatus (c : cconn hstate) v : cc_winCh (ccu_hdrStatus c v) = cc_winCh c. Proof. reflexivity. Qed.
-Lemma cc_lastErr_ccu_hdrStatus (c : cconn hstate) v : cc_lastErr (ccu_hdrStatus c v) = cc_lastErr c. Proof. reflexivity. Qed.
-Lemma cc_unacks_ccu_hdrStatus (c : cconn hstate) v : cc_unacks (ccu_hdrStatus c v) = cc_unacks c. Proof. reflexivity. Qed.
-Lemma cc_rl_done_ccu_hdrStatus (c : cconn hstate) v : cc_rl_done (ccu_hdrStatus c v) = cc_rl_done c. Proof. reflexivity. Qed.
-Lemma cc_wl_done_ccu_hdrStatus (c : cconn hstate) v : cc_wl_done (ccu_hdrStatus c v) = cc_wl_done c. Proof. reflexivity. Qed.
-Lemma cc_rl_stuck_ccu_hdrStatus (c : cconn hstate) v : cc_rl_stuck (ccu_hdrStatus c v) = cc_rl_stuck c. Proof. reflexivity. Qed.
-Lemma cc_wl_stuck_ccu_hdrStatus (c : cconn hstate) v : cc_wl_stuck (ccu_hdrStatus c v) = cc_wl_stuck c. Proof. reflexivity. Qed.
-Lemma cc_out_ccu_hdrStatus (c : cconn hstate) v : cc_out (ccu_hdrStatus c v) = cc_out c. Proof. reflexivity. Qed.
-Lemma cc_ctxs_ccu_hdrErr (c : cconn hstate) v : cc_ctxs (ccu_hdrErr c v) = cc_ctxs c. Proof. reflexivity. Qed.
-Lemma cc_nextID_ccu_hdrErr (c : cconn hstate) v : cc_nextID (ccu_hdrErr c v) = cc_nextID c. Proof. reflexivity. Qed.
-Lemma cc_open_ccu_hdrErr (c : cconn hstate) v : cc_open (ccu_hdrErr c v) = cc_open c. Proof. reflexivity. Qed.
-Lemma cc_maxStreams_ccu_hdrErr (c : cconn hstate) v : cc_maxStreams (ccu_hdrErr c v) = cc_maxStreams c. Proof. reflexivity. Qed.
-Lemma cc_maxFrame_ccu_hdrErr (c : cconn hstate) v : cc_maxFrame (ccu_hdrErr c v) = cc_maxFrame c. Proof. reflexivity. Qed.
-Lemma cc_goAway_ccu_hdrErr (c : cconn hstate) v : cc_goAway (ccu_hdrErr c v) = cc_goAway c. Proof. reflexivity. Qed.
-Lemma cc_closed_ccu_hdrErr (c : cconn hstate) v : cc_closed (ccu_hdrErr c v) = cc_closed c. Proof. reflexivity. Qed.
-Lemma cc_closing_ccu_hdrErr (c : cconn hstate) v : cc_closing (ccu_hdrErr c v) = cc_closing c. Proof. reflexivity. Qed.
-Lemma cc_netClosed_ccu_hdrErr (c : cconn hstate) v : cc_netClosed (ccu_hdrErr c v) = cc_netClosed c. Proof. reflexivity. Qed.
-Lemma cc_writeFail_ccu_hdrErr (c : cconn hstate) v : cc_writeFail (ccu_hdrErr c v) = cc_writeFail c. Proof. reflexivity. Qed.
-Lemma cc_enc_ccu_hdrErr (c : cconn hstate) v : cc_enc (ccu_hdrErr c v) = cc_enc c. Proof. reflexivity. Qed.
-Lemma cc_encTableSize_ccu_hdrErr (c : cconn hstate) v : cc_encTableSize (ccu_hdrErr c v) = cc_encTableSize c. Proof. reflexivity. Qed.
-Lemma cc_encTableSeen_ccu_hdrErr (c : cconn hstate) v : cc_encTableSeen (ccu_hdrErr c v) = cc_encTableSeen c. Proof. reflexivity. Qed.
-Lemma cc_dec_ccu_hdrErr (c : cconn hstate) v : cc_dec (ccu_hdrErr c v) = cc_dec c. Proof. reflexivity. Qed.
-Lemma cc_currentWindow_ccu_hdrErr (c : cconn hstate) v : cc_currentWindow (ccu_hdrErr c v) = cc_currentWindow c. Proof. reflexivity. Qed.
-Lemma cc_serverS_ccu_hdrErr (c : cconn hstate) v : cc_serverS (ccu_hdrErr c v) = cc_serverS c. Proof. reflexivity. Qed.
-Lemma cc_hdrStream_ccu_hdrErr (c : cconn hstate) v : cc_hdrStream (ccu_hdrErr c v) = cc_hdrStream c. Proof. reflexivity. Qed.
-Lemma cc_hdrPrev_ccu_hdrErr (c : cconn hstate) v : cc_hdrPrev (ccu_hdrErr c v) = cc_hdrPrev c. Proof. reflexivity. Qed.
-Lemma cc_hdrFields_ccu_hdrErr (c : cconn hstate) v : cc_hdrFields (ccu_hdrErr c v) = cc_hdrFields c. Proof. reflexivity. Qed.
-Lemma cc_hdrEndStream_ccu_hdrErr (c : cconn hstate) v : cc_hdrEndStream (ccu_hdrErr c v) = cc_hdrEndStream c. Proof. reflexivity. Qed.
-Lemma cc_hdrRegularSeen_ccu_hdrErr (c : cconn hstate) v : cc_hdrRegularSeen (ccu_hdrErr c v) = cc_hdrRegularSeen c. Proof. reflexivity. Qed.
-Lemma cc_hdrStatus_ccu_hdrErr (c : cconn hstate) v : cc_hdrStatus (ccu_hdrErr c v) = cc_hdrStatus c. Proof. reflexivity. Qed.
-Lemma cc_hdrErr_ccu_hdrErr (c : cconn hstate) v : cc_hdrErr (ccu_hdrErr c v) = v. Proof. reflexivity. Qed.
-Lemma cc_stateClosed_ccu_hdrErr (c : cconn hstate) v : cc_stateClosed (ccu_hdrErr c v) = cc_stateClosed c. Proof. reflexivity. Qed.
-Lemma cc_closeRef_ccu_hdrErr (c : cconn hstate) v : cc_closeRef (ccu_hdrErr c v) = cc_closeRef c. Proof. reflexivity. Qed.
-Lemma cc_reqQueued_ccu_hdrErr (c : cconn hstate) v : cc_reqQueued (ccu_hdrErr c v) = cc_reqQueued c. Proof. reflexivity. Qed.
-Lemma cc_pending_ccu_hdrErr (c : cconn hstate) v : cc_pending (ccu_hdrErr c v) = cc_pending c. Proof. reflexivity. Qed.
-Lemma cc_connWindow_ccu_hdrErr (c : cconn hstate) v : cc_connWindow (ccu_hdrErr c v) = cc_connWindow c. Proof. reflexivity. Qed.
-Lemma cc_streamWindow_ccu_hdrErr (c : cconn hstate) v : cc_streamWindow (ccu_hdrErr c v) = cc_streamWindow c. Proof. reflexivity. Qed.
-Lemma cc_inQ_ccu_hdrErr (c : cconn hstate) v : cc_inQ (ccu_hdrErr c v) = cc_inQ c. Proof. reflexivity. Qed.
-Lemma cc_outQ_ccu_hdrErr (c : cconn hstate) v : cc_outQ (ccu_hdrErr c v) = cc_outQ c. Proof. reflexivity. Qed.
-Lemma cc_winCh_ccu_hdrErr (c : cconn hstate) v : cc_winCh (ccu_hdrErr c v) = cc_winCh c. Proof. reflexivity. Qed.
-Lemma cc_lastErr_ccu_hdrErr (c : cconn hstate) v : cc_lastErr (ccu_hdrErr c v) = cc_lastErr c. Proof. reflexivity. Qed.
-Lemma cc_unacks_ccu_hdrErr (c : cconn hstate) v : cc_unacks (ccu_hdrErr c v) = cc_unacks c. Proof. reflexivity. Qed.
-Lemma cc_rl_done_ccu_hdrErr (c : cconn hstate) v : cc_rl_done (ccu_hdrErr c v) = cc_rl_done c. Proof. reflexivity. Qed.
-Lemma cc_wl_done_ccu_hdrErr (c : cconn hstate) v : cc_wl_done (ccu_hdrErr c v) = cc_wl_done c. Proof. reflexivity. Qed.
-Lemma cc_rl_stuck_ccu_hdrErr (c : cconn hstate) v : cc_rl_stuck (ccu_hdrErr c v) = cc_rl_stuck c. Proof. reflexivity. Qed.
-Lemma cc_wl_stuck_ccu_hdrErr (c : cconn hstate) v : cc_wl_stuck (ccu_hdrErr c v) = cc_wl_stuck c. Proof. reflexivity. Qed.
-Lemma cc_out_ccu_hdrErr (c : cconn hstate) v : cc_out (ccu_hdrErr c v) = cc_out c. Proof. reflexivity. Qed.
-Lemma cc_ctxs_ccu_stateClosed (c : cconn hstate) v : cc_ctxs (ccu_stateClosed c v) = cc_ctxs c. Proof. reflexivity. Qed.
-Lemma cc_nextID_ccu_stateClosed (c : cconn hstate) v : cc_nextID (ccu_stateClosed c v) = cc_nextID c. Proof. reflexivity. Qed.
-Lemma cc_open_ccu_stateClosed (c : cconn hstate) v : cc_open (ccu_stateClosed c v) = cc_open c. Proof. reflexivity. Qed.
-Lemma cc_maxStreams_ccu_stateClosed (c : cconn hstate) v : cc_maxStreams (ccu_stateClosed c v) = cc_maxStreams c. Proof. reflexivity. Qed.
-Lemma cc_maxFrame_ccu_stateClosed (c : cconn hstate) v : cc_maxFrame (ccu_stateClosed c v) = cc_maxFrame c. Proof. reflexivity. Qed.
-Lemma cc_goAway_ccu_stateClosed (c : cconn hstate) v : cc_goAway (ccu_stateClosed c v) = cc_goAway c. Proof. reflexivity. Qed.
-Lemma cc_closed_ccu_stateClosed (c : cconn hstate) v : cc_closed (ccu_stateClosed c v) = cc_closed c. Proof. reflexivity. Qed.
-Lemma cc_closing_ccu_stateClosed (c : cconn hstate) v : cc_closing (ccu_stateClosed c v) = cc_closing c. Proof. reflexivity. Qed.
-Lemma cc_netClosed_ccu_stateClosed (c : cconn hstate) v : cc_netClosed (ccu_stateClosed c v) = cc_netClosed c. Proof. reflexivity. Qed.
-Lemma cc_writeFail_ccu_stateClosed (c : cconn hstate) v : cc_writeFail (ccu_stateClosed c v) = cc_writeFail c. Proof. reflexivity. Qed.
-Lemma cc_enc_ccu_stateClosed (c : cconn hstate) v : cc_enc (ccu_stateClosed c v) = cc_enc c. Proof. reflexivity. Qed.
-Lemma cc_encTableSize_ccu_stateClosed (c : cconn hstate) v : cc_encTableSize (ccu_stateClosed c v) = cc_encTableSize c. Proof. reflexivity. Qed.
-Lemma cc_encTableSeen_ccu_stateClosed (c : cconn hstate) v : cc_encTableSeen (ccu_stateClosed c v) = cc_encTableSeen c. Proof. reflexivity. Qed.
-Lemma cc_dec_ccu_stateClosed (c : cconn hstate) v : cc_dec (ccu_stateClosed c v) = cc_dec c. Proof. reflexivity. Qed.
-Lemma cc_currentWindow_ccu_stateClosed (c : cconn hstate) v : cc_currentWindow (ccu_stateClosed c v) = cc_currentWindow c. Proof. reflexivity. Qed.
-Lemma cc_serverS_ccu_stateClosed (c : cconn hstate) v : cc_serverS (ccu_stateClosed c v) = cc_serverS c. Proof. reflexivity. Qed.
-Lemma cc_hdrStream_ccu_stateClosed (c : cconn hstate) v : cc_hdrStream (ccu_stateClosed c v) = cc_hdrStream c. Proof. reflexivity. Qed.
-Lemma cc_hdrPrev_ccu_stateClosed (c : cconn hstate) v : cc_hdrPrev (ccu_stateClosed c v) = cc_hdrPrev c. Proof. reflexivity. Qed.
-Lemma cc_hdrFields_ccu_stateClosed (c : cconn hstate) v : cc_hdrFields (ccu_stateClosed c v) = cc_hdrFields c. Proof. reflexivity. Qed.
-Lemma cc_hdrEndStream_ccu_stateClosed (c : cconn hstate) v : cc_hdrEndStream (ccu_stateClosed c v) = cc_hdrEndStream c. Proof. reflexivity. Qed.
-Lemma cc_hdrRegularSeen_ccu_stateClosed (c : cconn hstate) v : cc_hdrRegularSeen (ccu_stateClosed c v) = cc_hdrRegularSeen c. Proof. reflexivity. Qed.
-Lemma cc_hdrStatus_ccu_stateClosed (c : cconn hstate) v : cc_hdrStatus (ccu_stateClosed c v) = cc_hdrStatus c. Proof. reflexivity. Qed.
-Lemma cc_hdrErr_ccu_stateClosed (c : cconn hstate) v : cc_hdrErr (ccu_stateClosed c v) = cc_hdrErr c. Proof. reflexivity. Qed.
-Lemma cc_stateClosed_ccu_stateClosed (c : cconn hstate) v : cc_stateClosed (ccu_stateClosed c v) = v. Proof. reflexivity. Qed.
-Lemma cc_closeRef_ccu_stateClosed (c : cconn hstate) v : cc_closeRef (ccu_stateClosed c v) = cc_closeRef c. Proof. reflexivity. Qed.
-Lemma cc_reqQueued_ccu_stateClosed (c : cconn hstate) v : cc_reqQueued (ccu_stateClosed c v) = cc_reqQueued c. Proof. reflexivity. Qed.
-Lemma cc_pending_ccu_stateClosed (c : cconn hstate) v : cc_pending (ccu_stateClosed c v) = cc_pending c. Proof. reflexivity. Qed.
-Lemma cc_connWindow_ccu_stateClosed (c : cconn hstate) v : cc_connWindow (ccu_stateClosed c v) = cc_connWindow c. Proof. reflexivity. Qed.
-Lemma cc_streamWindow_ccu_stateClosed (c : cconn hstate) v : cc_streamWindow (ccu_stateClosed c v) = cc_streamWindow c. Proof. reflexivity. Qed.
-Lemma cc_inQ_ccu_stateClosed (c : cconn hstate) v : cc_inQ (ccu_stateClosed c v) = cc_inQ c. Proof. reflexivity. Qed.
-Lemma cc_outQ_ccu_stateClosed (c : cconn hstate) v : cc_outQ (ccu_stateClosed c v) = cc_outQ c. Proof. reflexivity. Qed.
-Lemma cc_winCh_ccu_stateClosed (c : cconn hstate) v : cc_winCh (ccu_stateClosed c v) = cc_winCh c. Proof. reflexivity. Qed.
-Lemma cc_lastErr_ccu_stateClosed (c : cconn hstate) v : cc_lastErr (ccu_stateClosed c v) = cc_lastErr c. Proof. reflexivity. Qed.
-Lemma cc_unacks_ccu_stateClosed (c : cconn hstate) v : cc_unacks (ccu_stateClosed c v) = cc_unacks c. Proof. reflexivity. Qed.
-Lemma cc_rl_done_ccu_stateClosed (c : cconn hstate) v : cc_rl_done (ccu_stateClosed c v) = cc_rl_done c. Proof. reflexivity. Qed.
-Lemma cc_wl_done_ccu_stateClosed (c : cconn hstate) v : cc_wl_done (ccu_stateClosed c v) = cc_wl_done c. Proof. reflexivity. Qed.
-Lemma cc_rl_stuck_ccu_stateClosed (c : cconn hstate) v : cc_rl_stuck (ccu_stateClosed c v) = cc_rl_stuck c. Proof. reflexivity. Qed.
-Lemma cc_wl_stuck_ccu_stateClosed (c : cconn hstate) v : cc_wl_stuck (ccu_stateClosed c v) = cc_wl_stuck c. Proof. reflexivity. Qed.
-Lemma cc_out_ccu_stateClosed (c : cconn hstate) v : cc_out (ccu_stateClosed c v) = cc_out c. Proof. reflexivity. Qed.
-Lemma cc_ctxs_ccu_closeRef (c : cconn hstate) v : cc_ctxs (ccu_closeRef c v) = cc_ctxs c. Proof. reflexivity. Qed.
-Lemma cc_nextID_ccu_closeRef (c : cconn hstate) v : cc_nextID (ccu_closeRef c v) = cc_nextID c. Proof. reflexivity. Qed.
-Lemma cc_open_ccu_closeRef (c : cconn hstate) v : cc_open (ccu_closeRef c v) = cc_open c. Proof. reflexivity. Qed.
-Lemma cc_maxStreams_ccu_closeRef (c : cconn hstate) v : cc_maxStreams (ccu_closeRef c v) = cc_maxStreams c. Proof. reflexivity. Qed.
-Lemma cc_maxFrame_ccu_closeRef (c : cconn hstate) v : cc_maxFrame (ccu_closeRef c v) = cc_maxFrame c. Proof. reflexivity. Qed.
-Lemma cc_goAway_ccu_closeRef (c : cconn hstate) v : cc_goAway (ccu_closeRef c v) = cc_goAway c. Proof. reflexivity. Qed.
-Lemma cc_closed_ccu_closeRef (c : cconn hstate) v : cc_closed (ccu_closeRef c v) = cc_closed c. Proof. reflexivity. Qed.
-Lemma cc_closing_ccu_closeRef (c : cconn hstate) v : cc_closing (ccu_closeRef c v) = cc_closing c. Proof. reflexivity. Qed.
-Lemma cc_netClosed_ccu_closeRef (c : cconn hstate) v : cc_netClosed (ccu_closeRef c v) = cc_netClosed c. Proof. reflexivity. Qed.
-Lemma cc_writeFail_ccu_closeRef (c : cconn hstate) v : cc_writeFail (ccu_closeRef c v) = cc_writeFail c. Proof. reflexivity. Qed.
-Lemma cc_enc_ccu_closeRef (c : cconn hstate) v : cc_enc (ccu_closeRef c v) = cc_enc c. Proof. reflexivity. Qed.
-Lemma cc_encTableSize_ccu_closeRef (c : cconn hstate) v : cc_encTableSize (ccu_closeRef c v) = cc_encTableSize c. Proof. reflexivity. Qed.
-Lemma cc_encTableSeen_ccu_closeRef (c : cconn hstate) v : cc_encTableSeen (ccu_closeRef c v) = cc_encTableSeen c. Proof. reflexivity. Qed.
-Lemma cc_dec_ccu_closeRef (c : cconn hstate) v : cc_dec (ccu_closeRef c v) = cc_dec c. Proof. reflexivity. Qed.
-Lemma cc_currentWindow_ccu_closeRef (c : cconn hstate) v : cc_currentWindow (ccu_closeRef c v) = cc_currentWindow c. Proof. reflexivity. Qed.
-Lemma cc_serverS_ccu_closeRef (c : cconn hstate) v : cc_serverS (ccu_closeRef c v) = cc_serverS c. Proof. reflexivity. Qed.
-Lemma cc_hdrStream_ccu_closeRef (c : cconn hstate) v : cc_hdrStream (ccu_closeRef c v) = cc_hdrStream c. Proof. reflexivity. Qed.
-Lemma cc_hdrPrev_ccu_closeRef (c : cconn hstate) v : cc_hdrPrev (ccu_closeRef c v) = cc_hdrPrev c. Proof. reflexivity. Qed.
-Lemma cc_hdrFields_ccu_closeRef (c : cconn hstate) v : cc_hdrFields (ccu_closeRef c v) = cc_hdrFields c. Proof. reflexivity. Qed.
-Lemma cc_hdrEndStream_ccu_closeRef (c : cconn hstate) v : cc_hdrEndStream (ccu_closeRef c v) = cc_hdrEndStream c. Proof. reflexivity. Qed.
-Lemma cc_hdrRegularSeen_ccu_closeRef (c : cconn hstate) v : cc_hdrRegularSeen (ccu_closeRef c v) = cc_hdrRegularSeen c. Proof. reflexivity. Qed.
-Lemma cc_hdrStatus_ccu_closeRef (c : cconn hstate) v : cc_hdrStatus (ccu_closeRef c v) = cc_hdrStatus c. Proof. reflexivity. Qed.
-Lemma cc_hdrErr_ccu_closeRef (c : cconn hstate) v : cc_hdrErr (ccu_closeRef c v) = cc_hdrErr c. Proof. reflexivity. Qed.
-Lemma cc_stateClosed_ccu_closeRef (c : cconn hstate) v : cc_stateClosed (ccu_closeRef c v) = cc_stateClosed c. Proof. reflexivity. Qed.
-Lemma cc_closeRef_ccu_closeRef (c : cconn hstate) v : cc_closeRef (ccu_closeRef c v) = v. Proof. reflexivity. Qed.
-Lemma cc_reqQueued_ccu_closeRef (c : cconn hstate) v : cc_reqQueued (ccu_closeRef c v) = cc_reqQueued c. Proof. reflexivity. Qed.
-Lemma cc_pending_ccu_closeRef (c : cconn hstate) v : cc_pending (ccu_closeRef c v) = cc_pending c. Proof. reflexivity. Qed.
-Lemma cc_connWindow_ccu_closeRef (c : cconn hstate) v : cc_connWindow (ccu_closeRef c v) = cc_connWindow c. Proof. reflexivity. Qed.
-Lemma cc_streamWindow_ccu_closeRef (c : cconn hstate) v : cc_streamWindow (ccu_closeRef c v) = cc_streamWindow c. Proof. reflexivity. Qed.
-Lemma cc_inQ_ccu_closeRef (c : cconn hstate) v : cc_inQ (ccu_closeRef c v) = cc_inQ c. Proof. reflexivity. Qed.
-Lemma cc_outQ_ccu_closeRef (c : cconn hstate) v : cc_outQ (ccu_closeRef c v) = cc_outQ c. Proof. reflexivity. Qed.
-Lemma cc_winCh_ccu_closeRef (c : cconn hstate) v : cc_winCh (ccu_closeRef c v) = cc_winCh c. Proof. reflexivity. Qed.
-Lemma cc_lastErr_ccu_closeRef (c : cconn hstate) v : cc_lastErr (ccu_closeRef c v) = cc_lastErr c. Proof. reflexivity. Qed.
-Lemma cc_unacks_ccu_closeRef (c : cconn hstate) v : cc_unacks (ccu_closeRef c v) = cc_unacks c. Proof. reflexivity. Qed.
-Lemma cc_rl_done_ccu_closeRef (c : cconn hstate) v : cc_rl_done (ccu_closeRef c v) = cc_rl_done c. Proof. reflexivity. Qed.
-Lemma cc_wl_done_ccu_closeRef (c : cconn hstate) v : cc_wl_done (ccu_closeRef c v) = cc_wl_done c. Proof. reflexivity. Qed.
-Lemma cc_rl_stuck_ccu_closeRef (c : cconn hstate) v : cc_rl_stuck (ccu_closeRef c v) = cc_rl_stuck c. Proof. reflexivity. Qed.
-Lemma cc_wl_stuck_ccu_closeRef (c : cconn hstate) v : cc_wl_stuck (ccu_closeRef c v) = cc_wl_stuck c. Proof. reflexivity. Qed.
-Lemma cc_out_ccu_closeRef (c : cconn hstate) v : cc_out (ccu_closeRef c v) = cc_out c. Proof. reflexivity. Qed.
-Lemma cc_ctxs_ccu_reqQueued (c : cconn hstate) v : cc_ctxs (ccu_reqQueued c v) = cc_ctxs c. Proof. reflexivity. Qed.
-Lemma cc_nextID_ccu_reqQueued (c : cconn hstate) v : cc_nextID (ccu_reqQueued c v) = cc_nextID c. Proof. reflexivity. Qed.
-Lemma cc_open_ccu_reqQueued (c : cconn hstate) v : cc_open (ccu_reqQueued c v) = cc_open c. Proof. reflexivity. Qed.
-Lemma cc_maxStreams_ccu_reqQueued (c : cconn hstate) v : cc_maxStreams (ccu_reqQueued c v) = cc_maxStreams c. Proof. reflexivity. Qed.
-Lemma cc_maxFrame_ccu_reqQueued (c : cconn hstate) v : cc_maxFrame (ccu_reqQueued c v) = cc_maxFrame c. Proof. reflexivity. Qed.
-Lemma cc_goAway_ccu_reqQueued (c : cconn hstate) v : cc_goAway (ccu_reqQueued c v) = cc_goAway c. Proof. reflexivity. Qed.
-Lemma cc_closed_ccu_reqQueued (c : cconn hstate) v : cc_closed (ccu_reqQueued c v) = cc_closed c. Proof. reflexivity. Qed.
-Lemma cc_closing_ccu_reqQueued (c : cconn hstate) v : cc_closing (ccu_reqQueued c v) = cc_closing c. Proof. reflexivity. Qed.
-Lemma cc_netClosed_ccu_reqQueued (c : cconn hstate) v : cc_netClosed (ccu_reqQueued c v) = cc_netClosed c. Proof. reflexivity. Qed.
-Lemma cc_writeFail_ccu_reqQueued (c : cconn hstate) v : cc_writeFail (ccu_reqQueued c v) = cc_writeFail c. Proof. reflexivity. Qed.
-Lemma cc_enc_ccu_reqQueued (c : cconn hstate) v : cc_enc (ccu_reqQueued c v) = cc_enc c. Proof. reflexivity. Qed.
-Lemma cc_encTableSize_ccu_reqQueued (c : cconn hstate) v : cc_encTableSize (ccu_reqQueued c v) = cc_encTableSize c. Proof. reflexivity. Qed.
-Lemma cc_encTableSeen_ccu_reqQueued (c : cconn hstate) v : cc_encTableSeen (ccu_reqQueued c v) = cc_encTableSeen c. Proof. reflexivity. Qed.
-Lemma cc_dec_ccu_reqQueued (c : cconn hstate) v : cc_dec (ccu_reqQueued c v) = cc_dec c. Proof. reflexivity. Qed.
-Lemma cc_currentWindow_ccu_reqQueued (c : cconn hstate) v : cc_currentWindow (ccu_reqQueued c v) = cc_currentWindow c. Proof. reflexivity. Qed.
-Lemma cc_serverS_ccu_reqQueued (c : cconn hstate) v : cc_serverS (ccu_reqQueued c v) = cc_serverS c. Proof. reflexivity. Qed.
-Lemma cc_hdrStream_ccu_reqQueued (c : cconn hstate) v : cc_hdrStream (ccu_reqQueued c v) = cc_hdrStream c. Proof. reflexivity. Qed.
-Lemma cc_hdrPrev_ccu_reqQueued (c : cconn hstate) v : cc_hdrPrev (ccu_reqQueued c v) = cc_hdrPrev c. Proof. reflexivity. Qed.
-Lemma cc_hdrFields_ccu_reqQueued (c : cconn hstate) v : cc_hdrFields (ccu_reqQueued c v) = cc_hdrFields c. Proof. reflexivity. Qed.
-Lemma cc_hdrEndStream_ccu_reqQueued (c : cconn hstate) v : cc_hdrEndStream (ccu_reqQueued c v) = cc_hdrEndStream c. Proof. reflexivity. Qed.
-Lemma cc_hdrRegularSeen_ccu_reqQueued (c : cconn hstate) v : cc_hdrRegularSeen (ccu_reqQueued c v) = cc_hdrRegularSeen c. Proof. reflexivity. Qed.
-Lemma cc_hdrStatus_ccu_reqQueued (c : cconn hstate) v : cc_hdrStatus (ccu_reqQueued c v) = cc_hdrStatus c. Proof. reflexivity. Qed.
-Lemma cc_hdrErr_ccu_reqQueued (c : cconn hstate) v : cc_hdrErr (ccu_reqQueued c v) = cc_hdrErr c. Proof. reflexivity. Qed.
-Lemma cc_stateClosed_ccu_reqQueued (c : cconn hstate) v : cc_stateClosed (ccu_reqQueued c v) = cc_stateClosed c. Proof. reflexivity. Qed.
-Lemma cc_closeRef_ccu_reqQueued (c : cconn hstate) v : cc_closeRef (ccu_reqQueued c v) = cc_closeRef c. Proof. reflexivity. Qed.
-Lemma cc_reqQueued_ccu_reqQueued (c : cconn hstate) v : cc_reqQueued (ccu_reqQueued c v) = v. Proof. reflexivity. Qed.
-Lemma cc_pending_ccu_reqQueued (c : cconn hstate) v : cc_pending (ccu_reqQueued c v) = cc_pending c. Proof. reflexivity. Qed.
-Lemma cc_connWindow_ccu_reqQueued (c : cconn hstate) v : cc_connWindow (ccu_reqQueued c v) = cc_connWindow c. Proof. reflexivity. Qed.
-Lemma cc_streamWindow_ccu_reqQueued (c : cconn hstate) v : cc_streamWindow (ccu_reqQueued c v) = cc_streamWindow c. Proof. reflexivity. Qed.
-Lemma cc_inQ_ccu_reqQueued (c : cconn hstate) v : cc_inQ (ccu_reqQueued c v) = cc_inQ c. Proof. reflexivity. Qed.
-Lemma cc_outQ_ccu_reqQueued (c : cconn hstate) v : cc_outQ (ccu_reqQueued c v) = cc_outQ c. Proof. reflexivity. Qed.
-Lemma cc_winCh_ccu_reqQueued (c : cconn hstate) v : cc_winCh (ccu_reqQueued c v) = cc_winCh c. Proof. reflexivity. Qed.
-Lemma cc_lastErr_ccu_reqQueued (c : cconn hstate) v : cc_lastErr (ccu_reqQueued c v) = cc_lastErr c. Proof. reflexivity. Qed.
-Lemma cc_unacks_ccu_reqQueued (c : cconn hstate) v : cc_unacks (ccu_reqQueued c v) = cc_unacks c. Proof. reflexivity. Qed.
-Lemma cc_rl_done_ccu_reqQueued (c : cconn hstate) v : cc_rl_done (ccu_reqQueued c v) = cc_rl_done c. Proof. reflexivity. Qed.
-Lemma cc_wl_done_ccu_reqQueued (c : cconn hstate) v : cc_wl_done (ccu_reqQueued c v) = cc_wl_done c. Proof. reflexivity. Qed.
-Lemma cc_rl_stuck_ccu_reqQueued (c : cconn hstate) v : cc_rl_stuck (ccu_reqQueued c v) = cc_rl_stuck c. Proof. reflexivity. Qed.
-Lemma cc_wl_stuck_ccu_reqQueued (c : cconn hstate) v : cc_wl_stuck (ccu_reqQueued c v) = cc_wl_stuck c. Proof. reflexivity. Qed.
-Lemma cc_out_ccu_reqQueued (c : cconn hstate) v : cc_out (ccu_reqQueued c v) = cc_out c. Proof. reflexivity. Qed.
-Lemma cc_ctxs_ccu_pending (c : cconn hstate) v : cc_ctxs (ccu_pending c v) = cc_ctxs c. Proof. reflexivity. Qed.
-Lemma cc_nextID_ccu_pending (c : cconn hstate) v : cc_nextID (ccu_pending c v) = cc_nextID c. Proof. reflexivity. Qed.
-Lemma cc_open_ccu_pending (c : cconn hstate) v : cc_open (ccu_pending c v) = cc_open c. Proof. reflexivity. Qed.
-Lemma cc_maxStreams_ccu_pending (c : cconn hstate) v : cc_maxStreams (ccu_pending c v) = cc_maxStreams c. Proof. reflexivity. Qed.
-Lemma cc_maxFrame_ccu_pending (c : cconn hstate) v : cc_maxFrame (ccu_pending c v) = cc_maxFrame c. Proof. reflexivity. Qed.
-Lemma cc_goAway_ccu_pending (c : cconn hstate) v : cc_goAway (ccu_pending c v) = cc_goAway c. Proof. reflexivity. Qed.
-Lemma cc_closed_ccu_pending (c : cconn hstate) v : cc_closed (ccu_pending c v) = cc_closed c. Proof. reflexivity. Qed.
-Lemma cc_closing_ccu_pending (c : cconn hstate) v : cc_closing (ccu_pending c v) = cc_closing c. Proof. reflexivity. Qed.
-Lemma cc_netClosed_ccu_pending (c : cconn hstate) v : cc_netClosed (ccu_pending c v) = cc_netClosed c. Proof. reflexivity. Qed.
-Lemma cc_writeFail_ccu_pending (c : cconn hstate) v : cc_writeFail (ccu_pending c v) = cc_writeFail c. Proof. reflexivity. Qed.
-Lemma cc_enc_ccu_pending (c : cconn hstate) v : cc_enc (ccu_pending c v) = cc_enc c. Proof. reflexivity. Qed.
-Lemma cc_encTableSize_ccu_pending (c : cconn hstate) v : cc_encTableSize (ccu_pending c v) = cc_encTableSize c. Proof. reflexivity. Qed.
-Lemma cc_encTableSeen_ccu_pending (c : cconn hstate) v : cc_encTableSeen (ccu_pending c v) = cc_encTableSeen c. Proof. reflexivity. Qed.
-Lemma cc_dec_ccu_pending (c : cconn hstate) v : cc_dec (ccu_pending c v) = cc_dec c. Proof. reflexivity. Qed.
-Lemma cc_currentWindow_ccu_pending (c : cconn hstate) v : cc_currentWindow (ccu_pending c v) = cc_currentWindow c. Proof. reflexivity. Qed.
-Lemma cc_serverS_ccu_pending (c : cconn hstate) v : cc_serverS (ccu_pending c v) = cc_serverS c. Proof. reflexivity. Qed.
-Lemma cc_hdrStream_ccu_pending (c : cconn hstate) v : cc_hdrStream (ccu_pending c v) = cc_hdrStream c. Proof. reflexivity. Qed.
-Lemma cc_hdrPrev_ccu_pending (c : cconn hstate) v : cc_hdrPrev (ccu_pending c v) = cc_hdrPrev c. Proof. reflexivity. Qed.
-Lemma cc_hdrFields_ccu_pending (c : cconn hstate) v : cc_hdrFields (ccu_pending c v) = cc_hdrFields c. Proof. reflexivity. Qed.
-Lemma cc_hdrEndStream_ccu_pending (c : cconn hstate) v : cc_hdrEndStream (ccu_pending c v) = cc_hdrEndStream c. Proof. reflexivity. Qed.
-Lemma cc_hdrRegularSeen_ccu_pending (c : cconn hstate) v : cc_hdrRegularSeen (ccu_pending c v) = cc_hdrRegularSeen c. Proof. reflexivity. Qed.
-Lemma cc_hdrStatus_ccu_pending (c : cconn hstate) v : cc_hdrStatus (ccu_pending c v) = cc_hdrStatus c. Proof. reflexivity. Qed.
-Lemma cc_hdrErr_ccu_pending (c : cconn hstate) v : cc_hdrErr (ccu_pending c v) = cc_hdrErr c. Proof. reflexivity. Qed.
-Lemma cc_stateClosed_ccu_pending (c : cconn hstate) v : cc_stateClosed (ccu_pending c v) = cc_stateClosed c. Proof. reflexivity. Qed.
-Lemma cc_closeRef_ccu_pending (c : cconn hstate) v : cc_closeRef (ccu_pending c v) = cc_closeRef c. Proof. reflexivity. Qed.
-Lemma cc_reqQueued_ccu_pending (c : cconn hstate) v : cc_reqQueued (ccu_pending c v) = cc_reqQueued c. Proof. reflexivity. Qed.
-Lemma cc_pending_ccu_pending (c : cconn hstate) v : cc_pending (ccu_pending c v) = v. Proof. reflexivity. Qed.
-Lemma cc_connWindow_ccu_pending (c : cconn hstate) v : cc_connWindow (ccu_pending c v) = cc_connWindow c. Proof. reflexivity. Qed.
-Lemma cc_streamWindow_ccu_pending (c : cconn hstate) v : cc_streamWindow (ccu_pending c v) = cc_streamWindow c. Proof. reflexivity. Qed.
-Lemma cc_inQ_ccu_pending (c : cconn hstate) v : cc_inQ (ccu_pending c v) = cc_inQ c. Proof. reflexivity. Qed.
-Lemma cc_outQ_ccu_pending (c : cconn hstate) v : cc_outQ (ccu_pending c v) = cc_outQ c. Proof. reflexivity. Qed.
-Lemma cc_winCh_ccu_pending (c : cconn hstate) v : cc_winCh (ccu_pending c v) = cc_winCh c. Proof. reflexivity. Qed.
-Lemma cc_lastErr_ccu_pending (c : cconn hstate) v : cc_lastErr (ccu_pending c v) = cc_lastErr c. Proof. reflexivity. Qed.
-Lemma cc_unacks_ccu_pending (c : cconn hstate) v : cc_unacks (ccu_pending c v) = cc_unacks c. Proof. reflexivity. Qed.
-Lemma cc_rl_done_ccu_pending (c : cconn hstate) v : cc_rl_done (ccu_pending c v) = cc_rl_done c. Proof. reflexivity. Qed.
-Lemma cc_wl_done_ccu_pending (c : cconn hstate) v : cc_wl_done (ccu_pending c v) = cc_wl_done c. Proof. reflexivity. Qed.
-Lemma cc_rl_stuck_ccu_pending (c : cconn hstate) v : cc_rl_stuck (ccu_pending c v) = cc_rl_stuck c. Proof. reflexivity. Qed.
-Lemma cc_wl_stuck_ccu_pending (c : cconn hstate) v : cc_wl_stuck (ccu_pending c v) = cc_wl_stuck c. Proof. reflexivity. Qed.
-Lemma cc_out_ccu_pending (c : cconn hstate) v : cc_out (ccu_pending c v) = cc_out c. Proof. reflexivity. Qed.
-Lemma cc_ctxs_ccu_connWindow (c : cconn hstate) v : cc_ctxs (ccu_connWindow c v) = cc_ctxs c. Proof. reflexivity. Qed.
-Lemma cc_nextID_ccu_connWindow (c : cconn hstate) v : cc_nextID (ccu_connWindow c v) = cc_nextID c. Proof. reflexivity. Qed.
-Lemma cc_open_ccu_connWindow (c : cconn hstate) v : cc_open (ccu_connWindow c v) = cc_open c. Proof. reflexivity. Qed.
-Lemma cc_maxStreams_ccu_connWindow (c : cconn hstate) v : cc_maxStreams (ccu_connWindow c v) = cc_maxStreams c. Proof. reflexivity. Qed.
-Lemma cc_maxFrame_ccu_connWindow (c : cconn hstate) v : cc_maxFrame (ccu_connWindow c v) = cc_maxFrame c. Proof. reflexivity. Qed.
-Lemma cc_goAway_ccu_connWindow (c : cconn hstate) v : cc_goAway (ccu_connWindow c v) = cc_goAway c. Proof. reflexivity. Qed.
-Lemma cc_closed_ccu_connWindow (c : cconn hstate) v : cc_closed (ccu_connWindow c v) = cc_closed c. Proof. reflexivity. Qed.
-Lemma cc_closing_ccu_connWindow (c : cconn hstate) v : cc_closing (ccu_connWindow c v) = cc_closing c. Proof. reflexivity. Qed.
-Lemma cc_netClosed_ccu_connWindow (c : cconn hstate) v : cc_netClosed (ccu_connWindow c v) = cc_netClosed c. Proof. reflexivity. Qed.
-Lemma cc_writeFail_ccu_connWindow (c : cconn hstate) v : cc_writeFail (ccu_connWindow c v) = cc_writeFail c. Proof. reflexivity. Qed.
-Lemma cc_enc_ccu_connWindow (c : cconn hstate) v : cc_enc (ccu_connWindow c v) = cc_enc c. Proof. reflexivity. Qed.
-Lemma cc_encTableSize_ccu_connWindow (c : cconn hstate) v : cc_encTableSize (ccu_connWindow c v) = cc_encTableSize c. Proof. reflexivity. Qed.
-Lemma cc_encTableSeen_ccu_connWindow (c : cconn hstate) v : cc_encTableSeen (ccu_connWindow c v) = cc_encTableSeen c. Proof. reflexivity. Qed.
-Lemma cc_dec_ccu_connWindow (c : cconn hstate) v : cc_dec (ccu_connWindow c v) = cc_dec c. Proof. reflexivity. Qed.
-Lemma cc_currentWindow_ccu_connWindow (c : cconn hstate) v : cc_currentWindow (ccu_connWindow c v) = cc_currentWindow c. Proof. reflexivity. Qed.
-Lemma cc_serverS_ccu_connWindow (c : cconn hstate) v : cc_serverS (ccu_connWindow c v) = cc_serverS c. Proof. reflexivity. Qed.
-Lemma cc_hdrStream_ccu_connWindow (c : cconn hstate) v : cc_hdrStream (ccu_connWindow c v) = cc_hdrStream c. Proof. reflexivity. Qed.
-Lemma cc_hdrPrev_ccu_connWindow (c : cconn hstate) v : cc_hdrPrev (ccu_connWindow c v) = cc_hdrPrev c. Proof. reflexivity. Qed.
-Lemma cc_hdrFields_ccu_connWindow (c : cconn hstate) v : cc_hdrFields (ccu_connWindow c v) = cc_hdrFields c. Proof. reflexivity. Qed.
-Lemma cc_hdrEndStream_ccu_connWindow (c : cconn hstate) v : cc_hdrEndStream (ccu_connWindow c v) = cc_hdrEndStream c. Proof. reflexivity. Qed.
-Lemma cc_hdrRegularSeen_ccu_connWindow (c : cconn hstate) v : cc_hdrRegularSeen (ccu_connWindow c v) = cc_hdrRegularSeen c. Proof. reflexivity. Qed.
-Lemma cc_hdrStatus_ccu_connWindow (c : cconn hstate) v : cc_hdrStatus (ccu_connWindow c v) = cc_hdrStatus c. Proof. reflexivity. Qed.
-Lemma cc_hdrErr_ccu_connWindow (c : cconn hstate) v : cc_hdrErr (ccu_connWindow c v) = cc_hdrErr c. Proof. reflexivity. Qed.
-Lemma cc_stateClosed_ccu_connWindow (c : cconn hstate) v : cc_stateClosed (ccu_connWindow c v) = cc_stateClosed c. Proof. reflexivity. Qed.
-Lemma cc_closeRef_ccu_connWindow (c : cconn hstate) v : cc_closeRef (ccu_connWindow c v) = cc_closeRef c. Proof. reflexivity. Qed.
-Lemma cc_reqQueued_ccu_connWindow (c : cconn hstate) v : cc_reqQueued (ccu_connWindow c v) = cc_reqQueued c. Proof. reflexivity. Qed.
-Lemma cc_pending_ccu_connWindow (c : cconn hstate) v : cc_pending (ccu_connWindow c v) = cc_pending c. Proof. reflexivity. Qed.
-Lemma cc_connWindow_ccu_connWindow (c : cconn hstate) v : cc_connWindow (ccu_connWindow c v) = v. Proof. reflexivity. Qed.
-Lemma cc_streamWindow_ccu_connWindow (c : cconn hstate) v : cc_streamWindow (ccu_connWindow c v) = cc_streamWindow c. Proof. reflexivity. Qed.
-Lemma cc_inQ_ccu_connWindow (c : cconn hstate) v : cc_inQ (ccu_connWindow c v) = cc_inQ c. Proof. reflexivity. Qed.
-Lemma cc_outQ_ccu_connWindow (c : cconn hstate) v : cc_outQ (ccu_connWindow c v) = cc_outQ c. Proof. reflexivity. Qed.
-Lemma cc_winCh_ccu_connWindow (c : cconn hstate) v : cc_winCh (ccu_connWindow c v) = cc_winCh c. Proof. reflexivity. Qed.
-Lemma cc_lastErr_ccu_connWindow (c : cconn hstate) v : cc_lastErr (ccu_connWindow c v) = cc_lastErr c. Proof. reflexivity. Qed.
-Lemma cc_unacks_ccu_connWindow (c : cconn hstate) v : cc_unacks (ccu_connWindow c v) = cc_unacks c. Proof. reflexivity. Qed.
-Lemma cc_rl_done_ccu_connWindow (c : cconn hstate) v : cc_rl_done (ccu_connWindow c v) = cc_rl_done c. Proof. reflexivity. Qed.
-Lemma cc_wl_done_ccu_connWindow (c : cconn hstate) v : cc_wl_done (ccu_connWindow c v) = cc_wl_done c. Proof. reflexivity. Qed.
-Lemma cc_rl_stuck_ccu_connWindow (c : cconn hstate) v : cc_rl_stuck (ccu_connWindow c v) = cc_rl_stuck c. Proof. reflexivity. Qed.
-Lemma cc_wl_stuck_ccu_connWindow (c : cconn hstate) v : cc_wl_stuck (ccu_connWindow c v) = cc_wl_stuck c. Proof. reflexivity. Qed.
-Lemma cc_out_ccu_connWindow (c : cconn hstate) v : cc_out (ccu_connWindow c v) = cc_out c. Proof. reflexivity. Qed.
-Lemma cc_ctxs_ccu_streamWindow (c : cconn hstate) v : cc_ctxs (ccu_streamWindow c v) = cc_ctxs c. Proof. reflexivity. Qed.
-Lemma cc_nextID_ccu_streamWindow (c : cconn hstate) v : cc_nextID (ccu_streamWindow c v) = cc_nextID c. Proof. reflexivity. Qed.
-Lemma cc_open_ccu_streamWindow (c : cconn hstate) v : cc_open (ccu_streamWindow c v) = cc_open c. Proof. reflexivity. Qed.
-Lemma cc_maxStreams_ccu_streamWindow (c : cconn hstate) v : cc_maxStreams (ccu_streamWindow c v) = cc_maxStreams c. Proof. reflexivity. Qed.
-Lemma cc_maxFrame_ccu_streamWindow (c : cconn hstate) v : cc_maxFrame (ccu_streamWindow c v) = cc_maxFrame c. Proof. reflexivity. Qed.
-Lemma cc_goAway_ccu_streamWindow (c : cconn hstate) v : cc_goAway (ccu_streamWindow c v) = cc_goAway c. Proof. reflexivity. Qed.
-Lemma cc_closed_ccu_streamWindow (c : cconn hstate) v : cc_closed (ccu_streamWindow c v) = cc_closed c. Proof. reflexivity. Qed.
-Lemma cc_closing_ccu_streamWindow (c : cconn hstate) v : cc_closing (ccu_streamWindow c v) = cc_closing c. Proof. reflexivity. Qed.
-Lemma cc_netClosed_ccu_streamWindow (c : cconn hstate) v : cc_netClosed (ccu_streamWindow c v) = cc_netClosed c. Proof. reflexivity. Qed.
-Lemma cc_writeFail_ccu_streamWindow (c : cconn hstate) v : cc_writeFail (ccu_streamWindow c v) = cc_writeFail c. Proof. reflexivity. Qed.
-Lemma cc_enc_ccu_streamWindow (c : cconn hstate) v : cc_enc (ccu_streamWindow c v) = cc_enc c. Proof. reflexivity. Qed.
-Lemma cc_encTableSize_ccu_streamWindow (c : cconn hstate) v : cc_encTableSize (ccu_streamWindow c v) = cc_encTableSize c. Proof. reflexivity. Qed.
-Lemma cc_encTableSeen_ccu_streamWindow (c : cconn hstate) v : cc_encTableSeen (ccu_streamWindow c v) = cc_encTableSeen c. Proof. reflexivity. Qed.
-Lemma cc_dec_ccu_streamWindow (c : cconn hstate) v : cc_dec (ccu_streamWindow c v) = cc_dec c. Proof. reflexivity. Qed.
-Lemma cc_currentWindow_ccu_streamWindow (c : cconn hstate) v : cc_currentWindow (ccu_streamWindow c v) = cc_currentWindow c. Proof. reflexivity. Qed.
-Lemma cc_serverS_ccu_streamWindow (c : cconn hstate) v : cc_serverS (ccu_streamWindow c v) = cc_serverS c. Proof. reflexivity. Qed.
-Lemma cc_hdrStream_ccu_streamWindow (c : cconn hstate) v : cc_hdrStream (ccu_streamWindow c v) = cc_hdrStream c. Proof. reflexivity. Qed.
-Lemma cc_hdrPrev_ccu_streamWindow (c : cconn hstate) v : cc_hdrPrev (ccu_streamWindow c v) = cc_hdrPrev c. Proof. reflexivity. Qed.
-Lemma cc_hdrFields_ccu_streamWindow (c : cconn hstate) v : cc_hdrFields (ccu_streamWindow c v) = cc_hdrFields c. Proof. reflexivity. Qed.
-Lemma cc_hdrEndStream_ccu_streamWindow (c : cconn hstate) v : cc_hdrEndStream (ccu_streamWindow c v) = cc_hdrEndStream c. Proof. reflexivity. Qed.
-Lemma cc_hdrRegularSeen_ccu_streamWindow (c : cconn hstate) v : cc_hdrRegularSeen (ccu_streamWindow c v) = cc_hdrRegularSeen c. Proof. reflexivity. Qed.
-Lemma cc_hdrStatus_ccu_streamWindow (c : cconn hstate) v : cc_hdrStatus (ccu_streamWindow c v) = cc_hdrStatus c. Proof. reflexivity. Qed.
-Lemma cc_hdrErr_ccu_streamWindow (c : cconn hstate) v : cc_hdrErr (ccu_streamWindow c v) = cc_hdrErr c. Proof. reflexivity. Qed.
-Lemma cc_stateClosed_ccu_streamWindow (c : cconn hstate) v : cc_stateClosed (ccu_streamWindow c v) = cc_stateClosed c. Proof. reflexivity. Qed.
-Lemma cc_closeRef_ccu_streamWindow (c : cconn hstate) v : cc_closeRef (ccu_streamWindow c v) = cc_closeRef c. Proof. reflexivity. Qed.
-Lemma cc_reqQueued_ccu_streamWindow (c : cconn hstate) v : cc_reqQueued (ccu_streamWindow c v) = cc_reqQueued c. Proof. reflexivity. Qed.
-Lemma cc_pending_ccu_streamWindow (c : cconn hstate) v : cc_pending (ccu_streamWindow c v) = cc_pending c. Proof. reflexivity. Qed.
-Lemma cc_connWindow_ccu_streamWindow (c : cconn hstate) v : cc_connWindow (ccu_streamWindow c v) = cc_connWindow c. Proof. reflexivity. Qed.
-Lemma cc_streamWindow_ccu_streamWindow (c : cconn hstate) v : cc_streamWindow (ccu_streamWindow c v) = v. Proof. reflexivity. Qed.
-Lemma cc_inQ_ccu_streamWindow (c : cconn hstate) v : cc_inQ (ccu_streamWindow c v) = cc_inQ c. Proof. reflexivity. Qed.
-Lemma cc_outQ_ccu_streamWindow (c : cconn hstate) v : cc_outQ (ccu_streamWindow c v) = cc_outQ c. Proof. reflexivity. Qed.
-Lemma cc_winCh_ccu_streamWindow (c : cconn hstate) v : cc_winCh (ccu_streamWindow c v) = cc_winCh c. Proof. reflexivity. Qed.
-Lemma cc_lastErr_ccu_streamWindow (c : cconn hstate) v : cc_lastErr (ccu_streamWindow c v) = cc_lastErr c. Proof. reflexivity. Qed.
-Lemma cc_unacks_ccu_streamWindow (c : cconn hstate) v : cc_unacks (ccu_streamWindow c v) = cc_unacks c. Proof. reflexivity. Qed.
-Lemma cc_rl_done_ccu_streamWindow (c : cconn hstate) v : cc_rl_done (ccu_streamWindow c v) = cc_rl_done c. Proof. reflexivity. Qed.
-Lemma cc_wl_done_ccu_streamWindow (c : cconn hstate) v : cc_wl_done (ccu_streamWindow c v) = cc_wl_done c. Proof. reflexivity. Qed.
-Lemma cc_rl_stuck_ccu_streamWindow (c : cconn hstate) v : cc_rl_stuck (ccu_streamWindow c v) = cc_rl_stuck c. Proof. reflexivity. Qed.
-Lemma cc_wl_stuck_ccu_streamWindow (c : cconn hstate) v : cc_wl_stuck (ccu_streamWindow c v) = cc_wl_stuck c. Proof. reflexivity. Qed.
-Lemma cc_out_ccu_streamWindow (c : cconn hstate) v : cc_out (ccu_streamWindow c v) = cc_out c. Proof. reflexivity. Qed.
-Lemma cc_ctxs_ccu_inQ (c : cconn hstate) v : cc_ctxs (ccu_inQ c v) = cc_ctxs c. Proof. reflexivity. Qed.
-Lemma cc_nextID_ccu_inQ (c : cconn hstate) v : cc_nextID (ccu_inQ c v) = cc_nextID c. Proof. reflexivity. Qed.
-Lemma cc_open_ccu_inQ (c : cconn hstate) v : cc_open (ccu_inQ c v) = cc_open c. Proof. reflexivity. Qed.
-Lemma cc_maxStreams_ccu_inQ (c : cconn hstate) v : cc_maxStreams (ccu_inQ c v) = cc_maxStreams c. Proof. reflexivity. Qed.
-Lemma cc_maxFrame_ccu_inQ (c : cconn hstate) v : cc_maxFrame (ccu_inQ c v) = cc_maxFrame c. Proof. reflexivity. Qed.
-Lemma cc_goAway_ccu_inQ (c : cconn hstate) v : cc_goAway (ccu_inQ c v) = cc_goAway c. Proof. reflexivity. Qed.
-Lemma cc_closed_ccu_inQ (c : cconn hstate) v : cc_closed (ccu_inQ c v) = cc_closed c. Proof. reflexivity. Qed.
-Lemma cc_closing_ccu_inQ (c : cconn hstate) v : cc_closing (ccu_inQ c v) = cc_closing c. Proof. reflexivity. Qed.
-Lemma cc_netClosed_ccu_inQ (c : cconn hstate) v : cc_netClosed (ccu_inQ c v) = cc_netClosed c. Proof. reflexivity. Qed.
-Lemma cc_writeFail_ccu_inQ (c : cconn hstate) v : cc_writeFail (ccu_inQ c v) = cc_writeFail c. Proof. reflexivity. Qed.
-Lemma cc_enc_ccu_inQ (c : cconn hstate) v : cc_enc (ccu_inQ c v) = cc_enc c. Proof. reflexivity. Qed.
-Lemma cc_encTableSize_ccu_inQ (c : cconn hstate) v : cc_encTableSize (ccu_inQ c v) = cc_encTableSize c. Proof. reflexivity. Qed.
-Lemma cc_encTableSeen_ccu_inQ (c : cconn hstate) v : cc_encTableSeen (ccu_inQ c v) = cc_encTableSeen c. Proof. reflexivity. Qed.
-Lemma cc_dec_ccu_inQ (c : cconn hstate) v : cc_dec (ccu_inQ c v) = cc_dec c. Proof. reflexivity. Qed.
-Lemma cc_currentWindow_ccu_inQ (c : cconn hstate) v : cc_currentWindow (ccu_inQ c v) = cc_currentWindow c. Proof. reflexivity. Qed.
-Lemma cc_serverS_ccu_inQ (c : cconn hstate) v : cc_serverS (ccu_inQ c v) = cc_serverS c. Proof. reflexivity. Qed.
-Lemma cc_hdrStream_ccu_inQ (c : cconn hstate) v : cc_hdrStream (ccu_inQ c v) = cc_hdrStream c. Proof. reflexivity. Qed.
-Lemma cc_hdrPrev_ccu_inQ (c : cconn hstate) v : cc_hdrPrev (ccu_inQ c v) = cc_hdrPrev c. Proof. reflexivity. Qed.
-Lemma cc_hdrFields_ccu_inQ (c : cconn hstate) v : cc_hdrFields (ccu_inQ c v) = cc_hdrFields c. Proof. reflexivity. Qed.
-Lemma cc_hdrEndStream_ccu_inQ (c : cconn hstate) v : cc_hdrEndStream (ccu_inQ c v) = cc_hdrEndStream c. Proof. reflexivity. Qed.
-Lemma cc_hdrRegularSeen_ccu_inQ (c : cconn hstate) v : cc_hdrRegularSeen (ccu_inQ c v) = cc_hdrRegularSeen c. Proof. reflexivity. Qed.
-Lemma cc_hdrStatus_ccu_inQ (c : cconn hstate) v : cc_hdrStatus (ccu_inQ c v) = cc_hdrStatus c. Proof. reflexivity. Qed.
-Lemma cc_hdrErr_ccu_inQ (c : cconn hstate) v : cc_hdrErr (ccu_inQ c v) = cc_hdrErr c. Proof. reflexivity. Qed.
-Lemma cc_stateClosed_ccu_inQ (c : cconn hstate) v : cc_stateClosed (ccu_inQ c v) = cc_stateClosed c. Proof. reflexivity. Qed.
-Lemma cc_closeRef_ccu_inQ (c : cconn hstate) v : cc_closeRef (ccu_inQ c v) = cc_closeRef c. Proof. reflexivity. Qed.
-Lemma cc_reqQueued_ccu_inQ (c : cconn hstate) v : cc_reqQueued (ccu_inQ c v) = cc_reqQueued c. Proof. reflexivity. Qed.
-Lemma cc_pending_ccu_inQ (c : cconn hstate) v : cc_pending (ccu_inQ c v) = cc_pending c. Proof. reflexivity. Qed.
-Lemma cc_connWindow_ccu_inQ (c : cconn hstate) v : cc_connWindow (ccu_inQ c v) = cc_connWindow c. Proof. reflexivity. Qed.
-Lemma cc_streamWindow_ccu_inQ (c : cconn hstate) v : cc_streamWindow (ccu_inQ c v) = cc_streamWindow c. Proof. reflexivity. Qed.
-Lemma cc_inQ_ccu_inQ (c : cconn hstate) v : cc_inQ (ccu_inQ c v) = v. Proof. reflexivity. Qed.
-Lemma cc_outQ_ccu_inQ (c : cconn hstate) v : cc_outQ (ccu_inQ c v) = cc_outQ c. Proof. reflexivity. Qed.
-Lemma cc_winCh_ccu_inQ (c : cconn hstate) v : cc_winCh (ccu_inQ c v) = cc_winCh c. Proof. reflexivity. Qed.
-Lemma cc_lastErr_ccu_inQ (c : cconn hstate) v : cc_lastErr (ccu_inQ c v) = cc_lastErr c. Proof. reflexivity. Qed.
-Lemma cc_unacks_ccu_inQ (c : cconn hstate) v : cc_unacks (ccu_inQ c v) = cc_unacks c. Proof. reflexivity. Qed.
-Lemma cc_rl_done_ccu_inQ (c : cconn hstate) v : cc_rl_done (ccu_inQ c v) = cc_rl_done c. Proof. reflexivity. Qed.
-Lemma cc_wl_done_ccu_inQ (c : cconn hstate) v : cc_wl_done (ccu_inQ c v) = cc_wl_done c. Proof. reflexivity. Qed.
-Lemma cc_rl_stuck_ccu_inQ (c : cconn hstate) v : cc_rl_stuck (ccu_inQ c v) = cc_rl_stuck c. Proof. reflexivity. Qed.
-Lemma cc_wl_stuck_ccu_inQ (c : cconn hstate) v : cc_wl_stuck (ccu_inQ c v) = cc_wl_stuck c. Proof. reflexivity. Qed.
-Lemma cc_out_ccu_inQ (c : cconn hstate) v : cc_out (ccu_inQ c v) = cc_out c. Proof. reflexivity. Qed.
-Lemma cc_ctxs_ccu_outQ (c : cconn hstate) v : cc_ctxs (ccu_outQ c v) = cc_ctxs c. Proof. reflexivity. Qed.
-Lemma cc_nextID_ccu_outQ (c : cconn hstate) v : cc_nextID (ccu_outQ c v) = cc_nextID c. Proof. reflexivity. Qed.
-Lemma cc_open_ccu_outQ (c : cconn hstate) v : cc_open (ccu_outQ c v) = cc_open c. Proof. reflexivity. Qed.
-Lemma cc_maxStreams_ccu_outQ (c : cconn hstate) v : cc_maxStreams (ccu_outQ c v) = cc_maxStreams c. Proof. reflexivity. Qed.
-Lemma cc_maxFrame_ccu_outQ (c : cconn hstate) v : cc_maxFrame (ccu_outQ c v) = cc_maxFrame c. Proof. reflexivity. Qed.
-Lemma cc_goAway_ccu_outQ (c : cconn hstate) v : cc_goAway (ccu_outQ c v) = cc_goAway c. Proof. reflexivity. Qed.
-Lemma cc_closed_ccu_outQ (c : cconn hstate) v : cc_closed (ccu_outQ c v) = cc_closed c. Proof. reflexivity. Qed.
-Lemma cc_closing_ccu_outQ (c : cconn hstate) v : cc_closing (ccu_outQ c v) = cc_closing c. Proof. reflexivity. Qed.
-Lemma cc_netClosed_ccu_outQ (c : cconn hstate) v : cc_netClosed (ccu_outQ c v) = cc_netClosed c. Proof. reflexivity. Qed.
-Lemma cc_writeFail_ccu_outQ (c : cconn hstate) v : cc_writeFail (ccu_outQ c v) = cc_writeFail c. Proof. reflexivity. Qed.
-Lemma cc_enc_ccu_outQ (c : cconn hstate) v : cc_enc (ccu_outQ c v) = cc_enc c. Proof. reflexivity. Qed.
-Lemma cc_encTableSize_ccu_outQ (c : cconn hstate) v : cc_encTableSize (ccu_outQ c v) = cc_encTableSize c. Proof. reflexivity. Qed.
-Lemma cc_encTableSeen_ccu_outQ (c : cconn hstate) v : cc_encTableSeen (ccu_outQ c v) = cc_encTableSeen c. Proof. reflexivity. Qed.
-Lemma cc_dec_ccu_outQ (c : cconn hstate) v : cc_dec (ccu_outQ c v) = cc_dec c. Proof. reflexivity. Qed.
-Lemma cc_currentWindow_ccu_outQ (c : cconn hstate) v : cc_currentWindow (ccu_outQ c v) = cc_currentWindow c. Proof. reflexivity. Qed.
-Lemma cc_serverS_ccu_outQ (c : cconn hstate) v : cc_serverS (ccu_outQ c v) = cc_serverS c. Proof. reflexivity. Qed.
-Lemma cc_hdrStream_ccu_outQ (c : cconn hstate) v : cc_hdrStream (ccu_outQ c v) = cc_hdrStream c. Proof. reflexivity. Qed.
-Lemma cc_hdrPrev_ccu_outQ (c : cconn hstate) v : cc_hdrPrev (ccu_outQ c v) = cc_hdrPrev c. Proof. reflexivity. Qed.
-Lemma cc_hdrFields_ccu_outQ (c : cconn hstate) v : cc_hdrFields (ccu_outQ c v) = cc_hdrFields c. Proof. reflexivity. Qed.
-Lemma cc_hdrEndStream_ccu_outQ (c : cconn hstate) v : cc_hdrEndStream (ccu_outQ c v) = cc_hdrEndStream c. Proof. reflexivity. Qed.
-Lemma cc_hdrRegularSeen_ccu_outQ (c : cconn hstate) v : cc_hdrRegularSeen (ccu_outQ c v) = cc_hdrRegularSeen c. Proof. reflexivity. Qed.
-Lemma cc_hdrStatus_ccu_outQ (c : cconn hstate) v : cc_hdrStatus (ccu_outQ c v) = cc_hdrStatus c. Proof. reflexivity. Qed.
-Lemma cc_hdrErr_ccu_outQ (c : cconn hstate) v : cc_hdrErr (ccu_outQ c v) = cc_hdrErr c. Proof. reflexivity. Qed.
-Lemma cc_stateClosed_ccu_outQ (c : cconn hstate) v : cc_stateClosed (ccu_outQ c v) = cc_stateClosed c. Proof. reflexivity. Qed.
-Lemma cc_closeRef_ccu_outQ (c : cconn hstate) v : cc_closeRef (ccu_outQ c v) = cc_closeRef c. Proof. reflexivity. Qed.
-Lemma cc_reqQueued_ccu_outQ (c : cconn hstate) v : cc_reqQueued (ccu_outQ c v) = cc_reqQueued c. Proof. reflexivity. Qed.
-Lemma cc_pending_ccu_outQ (c : cconn hstate) v : cc_pending (ccu_outQ c v) = cc_pending c. Proof. reflexivity. Qed.
-Lemma cc_connWindow_ccu_outQ (c : cconn hstate) v : cc_connWindow (ccu_outQ c v) = cc_connWindow c. Proof. reflexivity. Qed.
-Lemma cc_streamWindow_ccu_outQ (c : cconn hstate) v : cc_streamWindow (ccu_outQ c v) = cc_streamWindow c. Proof. reflexivity. Qed.
-Lemma cc_inQ_ccu_outQ (c : cconn hstate) v : cc_inQ (ccu_outQ c v) = cc_inQ c. Proof. reflexivity. Qed.
-Lemma cc_outQ_ccu_outQ (c : cconn hstate) v : cc_outQ (ccu_outQ c v) = v. Proof. reflexivity. Qed.
-Lemma cc_winCh_ccu_outQ (c : cconn hstate) v : cc_winCh (ccu_outQ c v) = cc_winCh c. Proof. reflexivity. Qed.
-Lemma cc_lastErr_ccu_outQ (c : cconn hstate) v : cc_lastErr (ccu_outQ c v) = cc_lastErr c. Proof. reflexivity. Qed.
-Lemma cc_unacks_ccu_outQ (c : cconn hstate) v : cc_unacks (ccu_outQ c v) = cc_unacks c. Proof. reflexivity. Qed.
-Lemma cc_rl_done_ccu_outQ (c : cconn hstate) v : cc_rl_done (ccu_outQ c v) = cc_rl_done c. Proof. reflexivity. Qed.
-Lemma cc_wl_done_ccu_outQ (c : cconn hstate) v : cc_wl_done (ccu_outQ c v) = cc_wl_done c. Proof. reflexivity. Qed.
-Lemma cc_rl_stuck_ccu_outQ (c : cconn hstate) v : cc_rl_stuck (ccu_outQ c v) = cc_rl_stuck c. Proof. reflexivity. Qed.
-Lemma cc_wl_stuck_ccu_outQ (c : cconn hstate) v : cc_wl_stuck (ccu_outQ c v) = cc_wl_stuck c. Proof. reflexivity. Qed.
-Lemma cc_out_ccu_outQ (c : cconn hstate) v : cc_out (ccu_outQ c v) = cc_out c. Proof. reflexivity. Qed.
-Lemma cc_ctxs_ccu_winCh (c : cconn hstate) v : cc_ctxs (ccu_winCh c v) = cc_ctxs c. Proof. reflexivity. Qed.
-Lemma cc_nextID_ccu_winCh (c : cconn hstate) v : cc_nextID (ccu_winCh c v) = cc_nextID c. Proof. reflexivity. Qed.
-Lemma cc_open_ccu_winCh (c : cconn hstate) v : cc_open (ccu_winCh c v) = cc_open c. Proof. reflexivity. Qed.
-Lemma cc_maxStreams_ccu_winCh (c : cconn hstate) v : cc_maxStreams (ccu_winCh c v) = cc_maxStreams c. Proof. reflexivity. Qed.
-Lemma cc_maxFrame_ccu_winCh (c : cconn hstate) v : cc_maxFrame (ccu_winCh c v) = cc_maxFrame c. Proof. reflexivity. Qed.
-Lemma cc_goAway_ccu_winCh (c : cconn hstate) v : cc_goAway (ccu_winCh c v) = cc_goAway c. Proof. reflexivity. Qed.
-Lemma cc_closed_ccu_winCh (c : cconn hstate) v : cc_closed (ccu_winCh c v) = cc_closed c. Proof. reflexivity. Qed.
-Lemma cc_closing_ccu_winCh (c : cconn hstate) v : cc_closing (ccu_winCh c v) = cc_closing c. Proof. reflexivity. Qed.
-Lemma cc_netClosed_ccu_winCh (c : cconn hstate) v : cc_netClosed (ccu_winCh c v) = cc_netClosed c. Proof. reflexivity. Qed.
-Lemma cc_writeFail_ccu_winCh (c : cconn hstate) v : cc_writeFail (ccu_winCh c v) = cc_writeFail c. Proof. reflexivity. Qed.
-Lemma cc_enc_ccu_winCh (c : cconn hstate) v : cc_enc (ccu_winCh c v) = cc_enc c. Proof. reflexivity. Qed.
-Lemma cc_encTableSize_ccu_winCh (c : cconn hstate) v : cc_encTableSize (ccu_winCh c v) = cc_encTableSize c. Proof. reflexivity. Qed.
-Lemma cc_encTableSeen_ccu_winCh (c : cconn hstate) v : cc_encTableSeen (ccu_winCh c v) = cc_encTableSeen c. Proof. reflexivity. Qed.
-Lemma cc_dec_ccu_winCh (c : cconn hstate) v : cc_dec (ccu_winCh c v) = cc_dec c. Proof. reflexivity. Qed.
-Lemma cc_currentWindow_ccu_winCh (c : cconn hstate) v : cc_currentWindow (ccu_winCh c v) = cc_currentWindow c. Proof. reflexivity. Qed.
-Lemma cc_serverS_ccu_winCh (c : cconn hstate) v : cc_serverS (ccu_winCh c v) = cc_serverS c. Proof. reflexivity. Qed.
-Lemma cc_hdrStream_ccu_winCh (c : cconn hstate) v : cc_hdrStream (ccu_winCh c v) = cc_hdrStream c. Proof. reflexivity. Qed.
-Lemma cc_hdrPrev_ccu_winCh (c : cconn hstate) v : cc_hdrPrev (ccu_winCh c v) = cc_hdrPrev c. Proof. reflexivity. Qed.
-Lemma cc_hdrFields_ccu_winCh (c : cconn hstate) v : cc_hdrFields (ccu_winCh c v) = cc_hdrFields c. Proof. reflexivity. Qed.
-Lemma cc_hdrEndStream_ccu_winCh (c : cconn hstate) v : cc_hdrEndStream (ccu_winCh c v) = cc_hdrEndStream c. Proof. reflexivity. Qed.
-Lemma cc_hdrRegularSeen_ccu_winCh (c : cconn hstate) v : cc_hdrRegularSeen (ccu_winCh c v) = cc_hdrRegularSeen c. Proof. reflexivity. Qed.
-Lemma cc_hdrStatus_ccu_winCh (c : cconn hstate) v : cc_hdrStatus (ccu_winCh c v) = cc_hdrStatus c. Proof. reflexivity. Qed.
-Lemma cc_hdrErr_ccu_winCh (c : cconn hstate) v : cc_hdrErr (ccu_winCh c v) = cc_hdrErr c. Proof. reflexivity. Qed.
-Lemma cc_stateClosed_ccu_winCh (c : cconn hstate) v : cc_stateClosed (ccu_winCh c v) = cc_stateClosed c. Proof. reflexivity. Qed.
-Lemma cc_closeRef_ccu_winCh (c : cconn hstate) v : cc_closeRef (ccu_winCh c v) = cc_closeRef c. Proof. reflexivity. Qed.
-Lemma cc_reqQueued_ccu_winCh (c : cconn hstate) v : cc_reqQueued (ccu_winCh c v) = cc_reqQueued c. Proof. reflexivity. Qed.
-Lemma cc_pending_ccu_winCh (c : cconn hstate) v : cc_pending (ccu_winCh c v) = cc_pending c. Proof. reflexivity. Qed.
-Lemma cc_connWindow_ccu_winCh (c : cconn hstate) v : cc_connWindow (ccu_winCh c v) = cc_connWindow c. Proof. reflexivity. Qed.
-Lemma cc_streamWindow_ccu_winCh (c : cconn hstate) v : cc_streamWindow (ccu_winCh c v) = cc_streamWindow c. Proof. reflexivity. Qed.
-Lemma cc_inQ_ccu_winCh (c : cconn hstate) v : cc_inQ (ccu_winCh c v) = cc_inQ c. Proof. reflexivity. Qed.
-Lemma cc_outQ_ccu_winCh (c : cconn hstate) v : cc_outQ (ccu_winCh c v) = cc_outQ c. Proof. reflexivity. Qed.
-Lemma cc_winCh_ccu_winCh (c : cconn hstate) v : cc_winCh (ccu_winCh c v) = v. Proof. reflexivity. Qed.
-Lemma cc_lastErr_ccu_winCh (c : cconn hstate) v : cc_lastErr (ccu_winCh c v) = cc_lastErr c. Proof. reflexivity. Qed.
-Lemma cc_unacks_ccu_winCh (c : cconn hstate) v : cc_unacks (ccu_winCh c v) = cc_unacks c. Proof. reflexivity. Qed.
-Lemma cc_rl_done_ccu_winCh (c : cconn hstate) v : cc_rl_done (ccu_winCh c v) = cc_rl_done c. Proof. reflexivity. Qed.
-Lemma cc_wl_done_ccu_winCh (c : cconn hstate) v : cc_wl_done (ccu_winCh c v) = cc_wl_done c. Proof. reflexivity. Qed.
-Lemma cc_rl_stuck_ccu_winCh (c : cconn hstate) v : cc_rl_stuck (ccu_winCh c v) = cc_rl_stuck c. Proof. reflexivity. Qed.
-Lemma cc_wl_stuck_ccu_winCh (c : cconn hstate) v : cc_wl_stuck (ccu_winCh c v) = cc_wl_stuck c. Proof. reflexivity. Qed.
-Lemma cc_out_ccu_winCh (c : cconn hstate) v : cc_out (ccu_winCh c v) = cc_out c. Proof. reflexivity. Qed.
-Lemma cc_ctxs_ccu_lastErr (c : cconn hstate) v : cc_ctxs (ccu_lastErr c v) = cc_ctxs c. Proof. reflexivity. Qed.
-Lemma cc_nextID_ccu_lastErr (c : cconn hstate) v : cc_nextID (ccu_lastErr c v) = cc_nextID c. Proof. reflexivity. Qed.
-Lemma cc_open_ccu_lastErr (c : cconn hstate) v : cc_open (ccu_lastErr c v) = cc_open c. Proof. reflexivity. Qed.
-Lemma cc_maxStreams_ccu_lastErr (c : cconn hstate) v : cc_maxStreams (ccu_lastErr c v) = cc_maxStreams c. Proof. reflexivity. Qed.
-Lemma cc_maxFrame_ccu_lastErr (c : cconn hstate) v : cc_maxFrame (ccu_lastErr c v) = cc_maxFrame c. Proof. reflexivity. Qed.
-Lemma cc_goAway_ccu_lastErr (c : cconn hstate) v : cc_goAway (ccu_lastErr c v) = cc_goAway c. Proof. reflexivity. Qed.
-Lemma cc_closed_ccu_lastErr (c : cconn hstate) v : cc_closed (ccu_lastErr c v) = cc_closed c. Proof. reflexivity. Qed.
-Lemma cc_closing_ccu_lastErr (c : cconn hstate) v : cc_closing (ccu_lastErr c v) = cc_closing c. Proof. reflexivity. Qed.
-Lemma cc_netClosed_ccu_lastErr (c : cconn hstate) v : cc_netClosed (ccu_lastErr c v) = cc_netClosed c. Proof. reflexivity. Qed.
-Lemma cc_writeFail_ccu_lastErr (c : cconn hstate) v : cc_writeFail (ccu_lastErr c v) = cc_writeFail c. Proof. reflexivity. Qed.
-Lemma cc_enc_ccu_lastErr (c : cconn hstate) v : cc_enc (ccu_lastErr c v) = cc_enc c. Proof. reflexivity. Qed.
-Lemma cc_encTableSize_ccu_lastErr (c : cconn hstate) v : cc_encTableSize (ccu_lastErr c v) = cc_encTableSize c. Proof. reflexivity. Qed.
-Lemma cc_encTableSeen_ccu_lastErr (c : cconn hstate) v : cc_encTableSeen (ccu_lastErr c v) = cc_encTableSeen c. Proof. reflexivity. Qed.
-Lemma cc_dec_ccu_lastErr (c : cconn hstate) v : cc_dec (ccu_lastErr c v) = cc_dec c. Proof. reflexivity. Qed.
-Lemma cc_currentWindow_ccu_lastErr (c : cconn hstate) v : cc_currentWindow (ccu_lastErr c v) = cc_currentWindow c. Proof. reflexivity. Qed.
-Lemma cc_serverS_ccu_lastErr (c : cconn hstate) v : cc_serverS (ccu_lastErr c v) = cc_serverS c. Proof. reflexivity. Qed.
-Lemma cc_hdrStream_ccu_lastErr (c : cconn hstate) v : cc_hdrStream (ccu_lastErr c v) = cc_hdrStream c. Proof. reflexivity. Qed.
-Lemma cc_hdrPrev_ccu_lastErr (c : cconn hstate) v : cc_hdrPrev (ccu_lastErr c v) = cc_hdrPrev c. Proof. reflexivity. Qed.
-Lemma cc_hdrFields_ccu_lastErr (c : cconn hstate) v : cc_hdrFields (ccu_lastErr c v) = cc_hdrFields c. Proof. reflexivity. Qed.
-Lemma cc_hdrEndStream_ccu_lastErr (c : cconn hstate) v : cc_hdrEndStream (ccu_lastErr c v) = cc_hdrEndStream c. Proof. reflexivity. Qed.
-Lemma cc_hdrRegularSeen_ccu_lastErr (c : cconn hstate) v : cc_hdrRegularSeen (ccu_lastErr c v) = cc_hdrRegularSeen c. Proof. reflexivity. Qed.
-Lemma cc_hdrStatus_ccu_lastErr (c : cconn hstate) v : cc_hdrStatus (ccu_lastErr c v) = cc_hdrStatus c. Proof. reflexivity. Qed.
-Lemma cc_hdrErr_ccu_lastErr (c : cconn hstate) v : cc_hdrErr (ccu_lastErr c v) = cc_hdrErr c. Proof. reflexivity. Qed.
-Lemma cc_stateClosed_ccu_lastErr (c : cconn hstate) v : cc_stateClosed (ccu_lastErr c v) = cc_stateClosed c. Proof. reflexivity. Qed.
-Lemma cc_closeRef_ccu_lastErr (c : cconn hstate) v : cc_closeRef (ccu_lastErr c v) = cc_closeRef c. Proof. reflexivity. Qed.
-Lemma cc_reqQueued_ccu_lastErr (c : cconn hstate) v : cc_reqQueued (ccu_lastErr c v) = cc_reqQueued c. Proof. reflexivity. Qed.
-Lemma cc_pending_ccu_lastErr (c : cconn hstate) v : cc_pending (ccu_lastErr c v) = cc_pending c. Proof. reflexivity. Qed.
-Lemma cc_connWindow_ccu_lastErr (c : cconn hstate) v : cc_connWindow (ccu_lastErr c v) = cc_connWindow c. Proof. reflexivity. Qed.
-Lemma cc_streamWindow_ccu_lastErr (c : cconn hstate) v : cc_streamWindow (ccu_lastErr c v) = cc_streamWindow c. Proof. reflexivity. Qed.
-Lemma cc_inQ_ccu_lastErr (c : cconn hstate) v : cc_inQ (ccu_lastErr c v) = cc_inQ c. Proof. reflexivity. Qed.
-Lemma cc_outQ_ccu_lastErr (c : cconn hstate) v : cc_outQ (ccu_lastErr c v) = cc_outQ c. Proof. reflexivity. Qed.
-Lemma cc_winCh_ccu_lastErr (c : cconn hstate) v : cc_winCh (ccu_lastErr c v) = cc_winCh c. Proof. reflexivity. Qed.
-Lemma cc_lastErr_ccu_lastErr (c : cconn hstate) v : cc_lastErr (ccu_lastErr c v) = v. Proof. reflexivity. Qed.
-Lemma cc_unacks_ccu_lastErr (c : cconn hstate) v : cc_unacks (ccu_lastErr c v) = cc_unacks c. Proof. reflexivity. Qed.
-Lemma cc_rl_done_ccu_lastErr (c : cconn hstate) v : cc_rl_done (ccu_lastErr c v) = cc_rl_done c. Proof. reflexivity. Qed.
-Lemma cc_wl_done_ccu_lastErr (c : cconn hstate) v : cc_wl_done (ccu_lastErr c v) = cc_wl_done c. Proof. reflexivity. Qed.
-Lemma cc_rl_stuck_ccu_lastErr (c : cconn hstate) v : cc_rl_stuck (ccu_lastErr c v) = cc_rl_stuck c. Proof. reflexivity. Qed.
-Lemma cc_wl_stuck_ccu_lastErr (c : cconn hstate) v : cc_wl_stuck (ccu_lastErr c v) = cc_wl_stuck c. Proof. reflexivity. Qed.
-Lemma cc_out_ccu_lastErr (c : cconn hstate) v : cc_out (ccu_lastErr c v) = cc_out c. Proof. reflexivity. Qed.
-Lemma cc_ctxs_ccu_unacks (c : cconn hstate) v : cc_ctxs (ccu_unacks c v) = cc_ctxs c. Proof. reflexivity. Qed.
-Lemma cc_nextID_ccu_unacks (c : cconn hstate) v : cc_nextID (ccu_unacks c v) = cc_nextID c. Proof. reflexivity. Qed.
-Lemma cc_open_ccu_unacks (c : cconn hstate) v : cc_open (ccu_unacks c v) = cc_open c. Proof. reflexivity. Qed.
-Lemma cc_maxStreams_ccu_unacks (c : cconn hstate) v : cc_maxStreams (ccu_unacks c v) = cc_maxStreams c. Proof. reflexivity. Qed.
-Lemma cc_maxFrame_ccu_unacks (c : cconn hstate) v : cc_maxFrame (ccu_unacks c v) = cc_maxFrame c. Proof. reflexivity. Qed.
-Lemma cc_goAway_ccu_unacks (c : cconn hstate) v : cc_goAway (ccu_unacks c v) = cc_goAway c. Proof. reflexivity. Qed.
-Lemma cc_closed_ccu_unacks (c : cconn hstate) v : cc_closed (ccu_unacks c v) = cc_closed c. Proof. reflexivity. Qed.
-Lemma cc_closing_ccu_unacks (c : cconn hstate) v : cc_closing (ccu_unacks c v) = cc_closing c. Proof. reflexivity. Qed.
-Lemma cc_netClosed_ccu_unacks (c : cconn hstate) v : cc_netClosed (ccu_unacks c v) = cc_netClosed c. Proof. reflexivity. Qed.
-Lemma cc_writeFail_ccu_unacks (c : cconn hstate) v : cc_writeFail (ccu_unacks c v) = cc_writeFail c. Proof. reflexivity. Qed.
-Lemma cc_enc_ccu_unacks (c : cconn hstate) v : cc_enc (ccu_unacks c v) = cc_enc c. Proof. reflexivity. Qed.
-Lemma cc_encTableSize_ccu_unacks (c : cconn hstate) v : cc_encTableSize (ccu_unacks c v) = cc_encTableSize c. Proof. reflexivity. Qed.
-Lemma cc_encTableSeen_ccu_unacks (c : cconn hstate) v : cc_encTableSeen (ccu_unacks c v) = cc_encTableSeen c. Proof. reflexivity. Qed.
-Lemma cc_dec_ccu_unacks (c : cconn hstate) v : cc_dec (ccu_unacks c v) = cc_dec c. Proof. reflexivity. Qed.
-Lemma cc_currentWindow_ccu_unacks (c : cconn hstate) v : cc_currentWindow (ccu_unacks c v) = cc_currentWindow c. Proof. reflexivity. Qed.
-Lemma cc_serverS_ccu_unacks (c : cconn hstate) v : cc_serverS (ccu_unacks c v) = cc_serverS c. Proof. reflexivity. Qed.
-Lemma cc_hdrStream_ccu_unacks (c : cconn hstate) v : cc_hdrStream (ccu_unacks c v) = cc_hdrStream c. Proof. reflexivity. Qed.
-Lemma cc_hdrPrev_ccu_unacks (c : cconn hstate) v : cc_hdrPrev (ccu_unacks c v) = cc_hdrPrev c. Proof. reflexivity. Qed.
-Lemma cc_hdrFields_ccu_unacks (c : cconn hstate) v : cc_hdrFields (ccu_unacks c v) = cc_hdrFields c. Proof. reflexivity. Qed.
-Lemma cc_hdrEndStream_ccu_unacks (c : cconn hstate) v : cc_hdrEndStream (ccu_unacks c v) = cc_hdrEndStream c. Proof. reflexivity. Qed.
-Lemma cc_hdrRegularSeen_ccu_unacks (c : cconn hstate) v : cc_hdrRegularSeen (ccu_unacks c v) = cc_hdrRegularSeen c. Proof. reflexivity. Qed.
-Lemma cc_hdrStatus_ccu_unacks (c : cconn hstate) v : cc_hdrStatus (ccu_unacks c v) = cc_hdrStatus c. Proof. reflexivity. Qed.
-Lemma cc_hdrErr_ccu_unacks (c : cconn hstate) v : cc_hdrErr (ccu_unacks c v) = cc_hdrErr c. Proof. reflexivity. Qed.
-Lemma cc_stateClosed_ccu_unacks (c : cconn hstate) v : cc_stateClosed (ccu_unacks c v) = cc_stateClosed c. Proof. reflexivity. Qed.
-Lemma cc_closeRef_ccu_unacks (c : cconn hstate) v : cc_closeRef (ccu_unacks c v) = cc_closeRef c. Proof. reflexivity. Qed.
-Lemma cc_reqQueued_ccu_unacks (c : cconn hstate) v : cc_reqQueued (ccu_unacks c v) = cc_reqQueued c. Proof. reflexivity. Qed.
-Lemma cc_pending_ccu_unacks (c : cconn hstate) v : cc_pending (ccu_unacks c v) = cc_pending c. Proof. reflexivity. Qed.
-Lemma cc_connWindow_ccu_unacks (c : cconn hstate) v : cc_connWindow (ccu_unacks c v) = cc_connWindow c. Proof. reflexivity. Qed.
-Lemma cc_streamWindow_ccu_unacks (c : cconn hstate) v : cc_streamWindow (ccu_unacks c v) = cc_streamWindow c. Proof. reflexivity. Qed.
-Lemma cc_inQ_ccu_unacks (c : cconn hstate) v : cc_inQ (ccu_unacks c v) = cc_inQ c. Proof. reflexivity. Qed.
-Lemma cc_outQ_ccu_unacks (c : cconn hstate) v : cc_outQ (ccu_unacks c v) = cc_outQ c. Proof. reflexivity. Qed.
-Lemma cc_winCh_ccu_unacks (c : cconn hstate) v : cc_winCh (ccu_unacks c v) = cc_winCh c. Proof. reflexivity. Qed.
-Lemma cc_lastErr_ccu_unacks (c : cconn hstate) v : cc_lastErr (ccu_unacks c v) = cc_lastErr c. Proof. reflexivity. Qed.
-Lemma cc_unacks_ccu_unacks (c : cconn hstate) v : cc_unacks (ccu_unacks c v) = v. Proof. reflexivity. Qed.
-Lemma cc_rl_done_ccu_unacks (c : cconn hstate) v : cc_rl_done (ccu_unacks c v) = cc_rl_done c. Proof. reflexivity. Qed.
-Lemma cc_wl_done_ccu_unacks (c : cconn hstate) v : cc_wl_done (ccu_unacks c v) = cc_wl_done c. Proof. reflexivity. Qed.
-Lemma cc_rl_stuck_ccu_unacks (c : cconn hstate) v : cc_rl_stuck (ccu_unacks c v) = cc_rl_stuck c. Proof. reflexivity. Qed.
-Lemma cc_wl_stuck_ccu_unacks (c : cconn hstate) v : cc_wl_stuck (ccu_unacks c v) = cc_wl_stuck c. Proof. reflexivity. Qed.
-Lemma cc_out_ccu_unacks (c : cconn hstate) v : cc_out (ccu_unacks c v) = cc_out c. Proof. reflexivity. Qed.
-Lemma cc_ctxs_ccu_rl_done (c : cconn hstate) v : cc_ctxs (ccu_rl_done c v) = cc_ctxs c. Proof. reflexivity. Qed.
-Lemma cc_nextID_ccu_rl_done (c : cconn hstate) v : cc_nextID (ccu_rl_done c v) = cc_nextID c. Proof. reflexivity. Qed.
-Lemma cc_open_ccu_rl_done (c : cconn hstate) v : cc_open (ccu_rl_done c v) = cc_open c. Proof. reflexivity. Qed.
-Lemma cc_maxStreams_ccu_rl_done (c : cconn hstate) v : cc_maxStreams (ccu_rl_done c v) = cc_maxStreams c. Proof. reflexivity. Qed.
-Lemma cc_maxFrame_ccu_rl_done (c : cconn hstate) v : cc_maxFrame (ccu_rl_done c v) = cc_maxFrame c. Proof. reflexivity. Qed.
-Lemma cc_goAway_ccu_rl_done (c : cconn hstate) v : cc_goAway (ccu_rl_done c v) = cc_goAway c. Proof. reflexivity. Qed.
-Lemma cc_closed_ccu_rl_done (c : cconn hstate) v : cc_closed (ccu_rl_done c v) = cc_closed c. Proof. reflexivity. Qed.
-Lemma cc_closing_ccu_rl_done (c : cconn hstate) v : cc_closing (ccu_rl_done c v) = cc_closing c. Proof. reflexivity. Qed.
-Lemma cc_netClosed_ccu_rl_done (c : cconn hstate) v : cc_netClosed (ccu_rl_done c v) = cc_netClosed c. Proof. reflexivity. Qed.
-Lemma cc_writeFail_ccu_rl_done (c : cconn hstate) v : cc_writeFail (ccu_rl_done c v) = cc_writeFail c. Proof. reflexivity. Qed.
-Lemma cc_enc_ccu_rl_done (c : cconn hstate) v : cc_enc (ccu_rl_done c v) = cc_enc c. Proof. reflexivity. Qed.
-Lemma cc_encTableSize_ccu_rl_done (c : cconn hstate) v : cc_encTableSize (ccu_rl_done c v) = cc_encTableSize c. Proof. reflexivity. Qed.
-Lemma cc_encTableSeen_ccu_rl_done (c : cconn hstate) v : cc_encTableSeen (ccu_rl_done c v) = cc_encTableSeen c. Proof. reflexivity. Qed.
-Lemma cc_dec_ccu_rl_done (c : cconn hstate) v : cc_dec (ccu_rl_done c v) = cc_dec c. Proof. reflexivity. Qed.
-Lemma cc_currentWindow_ccu_rl_done (c : cconn hstate) v : cc_currentWindow (ccu_rl_done c v) = cc_currentWindow c. Proof. reflexivity. Qed.
-Lemma cc_serverS_ccu_rl_done (c : cconn hstate) v : cc_serverS (ccu_rl_done c v) = cc_serverS c. Proof. reflexivity. Qed.
-Lemma cc_hdrStream_ccu_rl_done (c : cconn hstate) v : cc_hdrStream (ccu_rl_done c v) = cc_hdrStream c. Proof. reflexivity. Qed.
-Lemma cc_hdrPrev_ccu_rl_done (c : cconn hstate) v : cc_hdrPrev (ccu_rl_done c v) = cc_hdrPrev c. Proof. reflexivity. Qed.
-Lemma cc_hdrFields_ccu_rl_done (c : cconn hstate) v : cc_hdrFields (ccu_rl_done c v) = cc_hdrFields c. Proof. reflexivity. Qed.
-Lemma cc_hdrEndStream_ccu_rl_done (c : cconn hstate) v : cc_hdrEndStream (ccu_rl_done c v) = cc_hdrEndStream c. Proof. reflexivity. Qed.
-Lemma cc_hdrRegularSeen_ccu_rl_done (c : cconn hstate) v : cc_hdrRegularSeen (ccu_rl_done c v) = cc_hdrRegularSeen c. Proof. reflexivity. Qed.
-Lemma cc_hdrStatus_ccu_rl_done (c : cconn hstate) v : cc_hdrStatus (ccu_rl_done c v) = cc_hdrStatus c. Proof. reflexivity. Qed.
-Lemma cc_hdrErr_ccu_rl_done (c : cconn hstate) v : cc_hdrErr (ccu_rl_done c v) = cc_hdrErr c. Proof. reflexivity. Qed.
-Lemma cc_stateClosed_ccu_rl_done (c : cconn hstate) v : cc_stateClosed (ccu_rl_done c v) = cc_stateClosed c. Proof. reflexivity. Qed.
-Lemma cc_closeRef_ccu_rl_done (c : cconn hstate) v : cc_closeRef (ccu_rl_done c v) = cc_closeRef c. Proof. reflexivity. Qed.
-Lemma cc_reqQueued_ccu_rl_done (c : cconn hstate) v : cc_reqQueued (ccu_rl_done c v) = cc_reqQueued c. Proof. reflexivity. Qed.
-Lemma cc_pending_ccu_rl_done (c : cconn hstate) v : cc_pending (ccu_rl_done c v) = cc_pending c. Proof. reflexivity. Qed.
-Lemma cc_connWindow_ccu_rl_done (c : cconn hstate) v : cc_connWindow (ccu_rl_done c v) = cc_connWindow c. Proof. reflexivity. Qed.
-Lemma cc_streamWindow_ccu_rl_done (c : cconn hstate) v : cc_streamWindow (ccu_rl_done c v) = cc_streamWindow c. Proof. reflexivity. Qed.
-Lemma cc_inQ_ccu_rl_done (c : cconn hstate) v : cc_inQ (ccu_rl_done c v) = cc_inQ c. Proof. reflexivity. Qed.
-Lemma cc_outQ_ccu_rl_done (c : cconn hstate) v : cc_outQ (ccu_rl_done c v) = cc_outQ c. Proof. reflexivity. Qed.
-Lemma cc_winCh_ccu_rl_done (c : cconn hstate) v : cc_winCh (ccu_rl_done c v) = cc_winCh c. Proof. reflexivity. Qed.
-Lemma cc_lastErr_ccu_rl_done (c : cconn hstate) v : cc_lastErr (ccu_rl_done c v) = cc_lastErr c. Proof. reflexivity. Qed.
-Lemma cc_unacks_ccu_rl_done (c : cconn hstate) v : cc_unacks (ccu_rl_done c v) = cc_unacks c. Proof. reflexivity. Qed.
-Lemma cc_rl_done_ccu_rl_done (c : cconn hstate) v : cc_rl_done (ccu_rl_done c v) = v. Proof. reflexivity. Qed.
-Lemma cc_wl_done_ccu_rl_done (c : cconn hstate) v : cc_wl_done (ccu_rl_done c v) = cc_wl_done c. Proof. reflexivity. Qed.
-Lemma cc_rl_stuck_ccu_rl_done (c : cconn hstate) v : cc_rl_stuck (ccu_rl_done c v) = cc_rl_stuck c. Proof. reflexivity. Qed.
-Lemma cc_wl_stuck_ccu_rl_done (c : cconn hstate) v : cc_wl_stuck (ccu_rl_done c v) = cc_wl_stuck c. Proof. reflexivity. Qed.
-Lemma cc_out_ccu_rl_done (c : cconn hstate) v : cc_out (ccu_rl_done c v) = cc_out c. Proof. reflexivity. Qed.
-Lemma cc_ctxs_ccu_wl_done (c : cconn hstate) v : cc_ctxs (ccu_wl_done c v) = cc_ctxs c. Proof. reflexivity. Qed.
-Lemma cc_nextID_ccu_wl_done (c : cconn hstate) v : cc_nextID (ccu_wl_done c v) = cc_nextID c. Proof. reflexivity. Qed.
-Lemma cc_open_ccu_wl_done (c : cconn hstate) v : cc_open (ccu_wl_done c v) = cc_open c. Proof. reflexivity. Qed.
-Lemma cc_maxStreams_ccu_wl_done (c : cconn hstate) v : cc_maxStreams (ccu_wl_done c v) = cc_maxStreams c. Proof. reflexivity. Qed.
-Lemma cc_maxFrame_ccu_wl_done (c : cconn hstate) v : cc_maxFrame (ccu_wl_done c v) = cc_maxFrame c. Proof. reflexivity. Qed.
-Lemma cc_goAway_ccu_wl_done (c : cconn hstate) v : cc_goAway (ccu_wl_done c v) = cc_goAway c. Proof. reflexivity. Qed.
-Lemma cc_closed_ccu_wl_done (c : cconn hstate) v : cc_closed (ccu_wl_done c v) = cc_closed c. Proof. reflexivity. Qed.
-Lemma cc_closing_ccu_wl_done (c : cconn hstate) v : cc_closing (ccu_wl_done c v) = cc_closing c. Proof. reflexivity. Qed.
-Lemma cc_netClosed_ccu_wl_done (c : cconn hstate) v : cc_netClosed (ccu_wl_done c v) = cc_netClosed c. Proof. reflexivity. Qed.
-Lemma cc_writeFail_ccu_wl_done (c : cconn hstate) v : cc_writeFail (ccu_wl_done c v) = cc_writeFail c. Proof. reflexivity. Qed.
-Lemma cc_enc_ccu_wl_done (c : cconn hstate) v : cc_enc (ccu_wl_done c v) = cc_enc c. Proof. reflexivity. Qed.
-Lemma cc_encTableSize_ccu_wl_done (c : cconn hstate) v : cc_encTableSize (ccu_wl_done c v) = cc_encTableSize c. Proof. reflexivity. Qed.
-Lemma cc_encTableSeen_ccu_wl_done (c : cconn hstate) v : cc_encTableSeen (ccu_wl_done c v) = cc_encTableSeen c. Proof. reflexivity. Qed.
-Lemma cc_dec_ccu_wl_done (c : cconn hstate) v : cc_dec (ccu_wl_done c v) = cc_dec c. Proof. reflexivity. Qed.
-Lemma cc_currentWindow_ccu_wl_done (c : cconn hstate) v : cc_currentWindow (ccu_wl_done c v) = cc_currentWindow c. Proof. reflexivity. Qed.
-Lemma cc_serverS_ccu_wl_done (c : cconn hstate) v : cc_serverS (ccu_wl_done c v) = cc_serverS c. Proof. reflexivity. Qed.
-Lemma cc_hdrStream_ccu_wl_done (c : cconn hstate) v : cc_hdrStream (ccu_wl_done c v) = cc_hdrStream c. Proof. reflexivity. Qed.
-Lemma cc_hdrPrev_ccu_wl_done (c : cconn hstate) v : cc_hdrPrev (ccu_wl_done c v) = cc_hdrPrev c. Proof. reflexivity. Qed.
-Lemma cc_hdrFields_ccu_wl_done (c : cconn hstate) v : cc_hdrFields (ccu_wl_done c v) = cc_hdrFields c. Proof. reflexivity. Qed.
-Lemma cc_hdrEndStream_ccu_wl_done (c : cconn hstate) v : cc_hdrEndStream (ccu_wl_done c v) = cc_hdrEndStream c. Proof. reflexivity. Qed.
-Lemma cc_hdrRegularSeen_ccu_wl_done (c : cconn hstate) v : cc_hdrRegularSeen (ccu_wl_done c v) = cc_hdrRegularSeen c. Proof. reflexivity. Qed.
-Lemma cc_hdrStatus_ccu_wl_done (c : cconn hstate) v : cc_hdrStatus (ccu_wl_done c v) = cc_hdrStatus c. Proof. reflexivity. Qed.
-Lemma cc_hdrErr_ccu_wl_done (c : cconn hstate) v : cc_hdrErr (ccu_wl_done c v) = cc_hdrErr c. Proof. reflexivity. Qed.
-Lemma cc_stateClosed_ccu_wl_done (c : cconn hstate) v : cc_stateClosed (ccu_wl_done c v) = cc_stateClosed c. Proof. reflexivity. Qed.
-Lemma cc_closeRef_ccu_wl_done (c : cconn hstate) v : cc_closeRef (ccu_wl_done c v) = cc_closeRef c. Proof. reflexivity. Qed.
-Lemma cc_reqQueued_ccu_wl_done (c : cconn hstate) v : cc_reqQueued (ccu_wl_done c v) = cc_reqQueued c. Proof. reflexivity. Qed.
-Lemma cc_pending_ccu_wl_done (c : cconn hstate) v : cc_pending (ccu_wl_done c v) = cc_pending c. Proof. reflexivity. Qed.
-Lemma cc_connWindow_ccu_wl_done (c : cconn hstate) v : cc_connWindow (ccu_wl_done c v) = cc_connWindow c. Proof. reflexivity. Qed.
-Lemma cc_streamWindow_ccu_wl_done (c : cconn hstate) v : cc_streamWindow (ccu_wl_done c v) = cc_streamWindow c. Proof. reflexivity. Qed.
-Lemma cc_inQ_ccu_wl_done (c : cconn hstate) v : cc_inQ (ccu_wl_done c v) = cc_inQ c. Proof. reflexivity. Qed.
-Lemma cc_outQ_ccu_wl_done (c : cconn hstate) v : cc_outQ (ccu_wl_done c v) = cc_outQ c. Proof. reflexivity. Qed.
-Lemma cc_winCh_ccu_wl_done (c : cconn hstate) v : cc_winCh (ccu_wl_done c v) = cc_winCh c. Proof. reflexivity. Qed.
-Lemma cc_lastErr_ccu_wl_done (c : cconn hstate) v : cc_lastErr (ccu_wl_done c v) = cc_lastErr c. Proof. reflexivity. Qed.
-Lemma cc_unacks_ccu_wl_done (c : cconn hstate) v : cc_unacks (ccu_wl_done c v) = cc_unacks c. Proof. reflexivity. Qed.
-Lemma cc_rl_done_ccu_wl_done (c : cconn hstate) v : cc_rl_done (ccu_wl_done c v) = cc_rl_done c. Proof. reflexivity. Qed.
-Lemma cc_wl_done_ccu_wl_done (c : cconn hstate) v : cc_wl_done (ccu_wl_done c v) = v. Proof. reflexivity. Qed.
-Lemma cc_rl_stuck_ccu_wl_done (c : cconn hstate) v : cc_rl_stuck (ccu_wl_done c v) = cc_rl_stuck c. Proof. reflexivity. Qed.
-Lemma cc_wl_stuck_ccu_wl_done (c : cconn hstate) v : cc_wl_stuck (ccu_wl_done c v) = cc_wl_stuck c. Proof. reflexivity. Qed.
-Lemma cc_out_ccu_wl_done (c : cconn hstate) v : cc_out (ccu_wl_done c v) = cc_out c. Proof. reflexivity. Qed.
-Lemma cc_ctxs_ccu_rl_stuck (c : cconn hstate) v : cc_ctxs (ccu_rl_stuck c v) = cc_ctxs c. Proof. reflexivity. Qed.
-Lemma cc_nextID_ccu_rl_stuck (c : cconn hstate) v : cc_nextID (ccu_rl_stuck c v) = cc_nextID c. Proof. reflexivity. Qed.
-Lemma cc_open_ccu_rl_stuck (c : cconn hstate) v : cc_open (ccu_rl_stuck c v) = cc_open c. Proof. reflexivity. Qed.
-Lemma cc_maxStreams_ccu_rl_stuck (c : cconn hstate) v : cc_maxStreams (ccu_rl_stuck c v) = cc_maxStreams c. Proof. reflexivity. Qed.
-Lemma cc_maxFrame_ccu_rl_stuck (c : cconn hstate) v : cc_maxFrame (ccu_rl_stuck c v) = cc_maxFrame c. Proof. reflexivity. Qed.
-Lemma cc_goAway_ccu_rl_stuck (c : cconn hstate) v : cc_goAway (ccu_rl_stuck c v) = cc_goAway c. Proof. reflexivity. Qed.
-Lemma cc_closed_ccu_rl_stuck (c : cconn hstate) v : cc_closed (ccu_rl_stuck c v) = cc_closed c. Proof. reflexivity. Qed.
-Lemma cc_closing_ccu_rl_stuck (c : cconn hstate) v : cc_closing (ccu_rl_stuck c v) = cc_closing c. Proof. reflexivity. Qed.
-Lemma cc_netClosed_ccu_rl_stuck (c : cconn hstate) v : cc_netClosed (ccu_rl_stuck c v) = cc_netClosed c. Proof. reflexivity. Qed.
-Lemma cc_writeFail_ccu_rl_stuck (c : cconn hstate) v : cc_writeFail (ccu_rl_stuck c v) = cc_writeFail c. Proof. reflexivity. Qed.
-Lemma cc_enc_ccu_rl_stuck (c : cconn hstate) v : cc_enc (ccu_rl_stuck c v) = cc_enc c. Proof. reflexivity. Qed.
-Lemma cc_encTableSize_ccu_rl_stuck (c : cconn hstate) v : cc_encTableSize (ccu_rl_stuck c v) = cc_encTableSize c. Proof. reflexivity. Qed.
-Lemma cc_encTableSeen_ccu_rl_stuck (c : cconn hstate) v : cc_encTableSeen (ccu_rl_stuck c v) = cc_encTableSeen c. Proof. reflexivity. Qed.
-Lemma cc_dec_ccu_rl_stuck (c : cconn hstate) v : cc_dec (ccu_rl_stuck c v) = cc_dec c. Proof. reflexivity. Qed.
-Lemma cc_currentWindow_ccu_rl_stuck (c : cconn hstate) v : cc_currentWindow (ccu_rl_stuck c v) = cc_currentWindow c. Proof. reflexivity. Qed.
-Lemma cc_serverS_ccu_rl_stuck (c : cconn hstate) v : cc_serverS (ccu_rl_stuck c v) = cc_serverS c. Proof. reflexivity. Qed.
-Lemma cc_hdrStream_ccu_rl_stuck (c : cconn hstate) v : cc_hdrStream (ccu_rl_stuck c v) = cc_hdrStream c. Proof. reflexivity. Qed.
-Lemma cc_hdrPrev_ccu_rl_stuck (c : cconn hstate) v : cc_hdrPrev (ccu_rl_stuck c v) = cc_hdrPrev c. Proof. reflexivity. Qed.
-Lemma cc_hdrFields_ccu_rl_stuck (c : cconn hstate) v : cc_hdrFields (ccu_rl_stuck c v) = cc_hdrFields c. Proof. reflexivity. Qed.
-Lemma cc_hdrEndStream_ccu_rl_stuck (c : cconn hstate) v : cc_hdrEndStream (ccu_rl_stuck c v) = cc_hdrEndStream c. Proof. reflexivity. Qed.
-Lemma cc_hdrRegularSeen_ccu_rl_stuck (c : cconn hstate) v : cc_hdrRegularSeen (ccu_rl_stuck c v) = cc_hdrRegularSeen c. Proof. reflexivity. Qed.
-Lemma cc_hdrStatus_ccu_rl_stuck (c : cconn hstate) v : cc_hdrStatus (ccu_rl_stuck c v) = cc_hdrStatus c. Proof. reflexivity. Qed.
-Lemma cc_hdrErr_ccu_rl_stuck (c : cconn hstate) v : cc_hdrErr (ccu_rl_stuck c v) = cc_hdrErr c. Proof. reflexivity. Qed.
-Lemma cc_stateClosed_ccu_rl_stuck (c : cconn hstate) v : cc_stateClosed (ccu_rl_stuck c v) = cc_stateClosed c. Proof. reflexivity. Qed.
-Lemma cc_closeRef_ccu_rl_stuck (c : cconn hstate) v : cc_closeRef (ccu_rl_stuck c v) = cc_closeRef c. Proof. reflexivity. Qed.
-Lemma cc_reqQueued_ccu_rl_stuck (c : cconn hstate) v : cc_reqQueued (ccu_rl_stuck c v) = cc_reqQueued c. Proof. reflexivity. Qed.
-Lemma cc_pending_ccu_rl_stuck (c : cconn hstate) v : cc_pending (ccu_rl_stuck c v) = cc_pending c. Proof. reflexivity. Qed.
-Lemma cc_connWindow_ccu_rl_stuck (c : cconn hstate) v : cc_connWindow (ccu_rl_stuck c v) = cc_connWindow c. Proof. reflexivity. Qed.
-Lemma cc_streamWindow_ccu_rl_stuck (c : cconn hstate) v : cc_streamWindow (ccu_rl_stuck c v) = cc_streamWindow c. Proof. reflexivity. Qed.
-Lemma cc_inQ_ccu_rl_stuck (c : cconn hstate) v : cc_inQ (ccu_rl_stuck c v) = cc_inQ c. Proof. reflexivity. Qed.
-Lemma cc_outQ_ccu_rl_stuck (c : cconn hstate) v : cc_outQ (ccu_rl_stuck c v) = cc_outQ c. Proof. reflexivity. Qed.
-Lemma cc_winCh_ccu_rl_stuck (c : cconn hstate) v : cc_winCh (ccu_rl_stuck c v) = cc_winCh c. Proof. reflexivity. Qed.
-Lemma cc_lastErr_ccu_rl_stuck (c : cconn hstate) v : cc_lastErr (ccu_rl_stuck c v) = cc_lastErr c. Proof. reflexivity. Qed.
-Lemma cc_unacks_ccu_rl_stuck (c : cconn hstate) v : cc_unacks (ccu_rl_stuck c v) = cc_unacks c. Proof. reflexivity. Qed.
-Lemma cc_rl_done_ccu_rl_stuck (c : cconn hstate) v : cc_rl_done (ccu_rl_stuck c v) = cc_rl_done c. Proof. reflexivity. Qed.
-Lemma cc_wl_done_ccu_rl_stuck (c : cconn hstate) v : cc_wl_done (ccu_rl_stuck c v) = cc_wl_done c. Proof. reflexivity. Qed.
-Lemma cc_rl_stuck_ccu_rl_stuck (c : cconn hstate) v : cc_rl_stuck (ccu_rl_stuck c v) = v. Proof. reflexivity. Qed.
-Lemma cc_wl_stuck_ccu_rl_stuck (c : cconn hstate) v : cc_wl_stuck (ccu_rl_stuck c v) = cc_wl_stuck c. Proof. reflexivity. Qed.
-Lemma cc_out_ccu_rl_stuck (c : cconn hstate) v : cc_out (ccu_rl_stuck c v) = cc_out c. Proof. reflexivity. Qed.
-Lemma cc_ctxs_ccu_wl_stuck (c : cconn hstate) v : cc_ctxs (ccu_wl_stuck c v) = cc_ctxs c. Proof. reflexivity. Qed.
-Lemma cc_nextID_ccu_wl_stuck (c : cconn hstate) v : cc_nextID (ccu_wl_stuck c v) = cc_nextID c. Proof. reflexivity. Qed.
-Lemma cc_open_ccu_wl_stuck (c : cconn hstate) v : cc_open (ccu_wl_stuck c v) = cc_open c. Proof. reflexivity. Qed.
-Lemma cc_maxStreams_ccu_wl_stuck (c : cconn hstate) v : cc_maxStreams (ccu_wl_stuck c v) = cc_maxStreams c. Proof. reflexivity. Qed.
-Lemma cc_maxFrame_ccu_wl_stuck (c : cconn hstate) v : cc_maxFrame (ccu_wl_stuck c v) = cc_maxFrame c. Proof. reflexivity. Qed.
-Lemma cc_goAway_ccu_wl_stuck (c : cconn hstate) v : cc_goAway (ccu_wl_stuck c v) = cc_goAway c. Proof. reflexivity. Qed.
-Lemma cc_closed_ccu_wl_stuck (c : cconn hstate) v : cc_closed (ccu_wl_stuck c v) = cc_closed c. Proof. reflexivity. Qed.
-Lemma cc_closing_ccu_wl_stuck (c : cconn hstate) v : cc_closing (ccu_wl_stuck c v) = cc_closing c. Proof. reflexivity. Qed.
-Lemma cc_netClosed_ccu_wl_stuck (c : cconn hstate) v : cc_netClosed (ccu_wl_stuck c v) = cc_netClosed c. Proof. reflexivity. Qed.
-Lemma cc_writeFail_ccu_wl_stuck (c : cconn hstate) v : cc_writeFail (ccu_wl_stuck c v) = cc_writeFail c. Proof. reflexivity. Qed.
-Lemma cc_enc_ccu_wl_stuck (c : cconn hstate) v : cc_enc (ccu_wl_stuck c v) = cc_enc c. Proof. reflexivity. Qed.
-Lemma cc_encTableSize_ccu_wl_stuck (c : cconn hstate) v : cc_encTableSize (ccu_wl_stuck c v) = cc_encTableSize c. Proof. reflexivity. Qed.
-Lemma cc_encTableSeen_ccu_wl_stuck (c : cconn hstate) v : cc_encTableSeen (ccu_wl_stuck c v) = cc_encTableSeen c. Proof. reflexivity. Qed.
-Lemma cc_dec_ccu_wl_stuck (c : cconn hstate) v : cc_dec (ccu_wl_stuck c v) = cc_dec c. Proof. reflexivity. Qed.
-Lemma cc_currentWindow_ccu_wl_stuck (c : cconn hstate) v : cc_currentWindow (ccu_wl_stuck c v) = cc_currentWindow c. Proof. reflexivity. Qed.
-Lemma cc_serverS_ccu_wl_stuck (c : cconn hstate) v : cc_serverS (ccu_wl_stuck c v) = cc_serverS c. Proof. reflexivity. Qed.
-Lemma cc_hdrStream_ccu_wl_stuck (c : cconn hstate) v : cc_hdrStream (ccu_wl_stuck c v) = cc_hdrStream c. Proof. reflexivity. Qed.
-Lemma cc_hdrPrev_ccu_wl_stuck (c : cconn hstate) v : cc_hdrPrev (ccu_wl_stuck c v) = cc_hdrPrev c. Proof. reflexivity. Qed.
-Lemma cc_hdrFields_ccu_wl_stuck (c : cconn hstate) v : cc_hdrFields (ccu_wl_stuck c v) = cc_hdrFields c. Proof. reflexivity. Qed.
-Lemma cc_hdrEndStream_ccu_wl_stuck (c : cconn hstate) v : cc_hdrEndStream (ccu_wl_stuck c v) = cc_hdrEndStream c. Proof. reflexivity. Qed.
-Lemma cc_hdrRegularSeen_ccu_wl_stuck (c : cconn hstate) v : cc_hdrRegularSeen (ccu_wl_stuck c v) = cc_hdrRegularSeen c. Proof. reflexivity. Qed.
-Lemma cc_hdrStatus_ccu_wl_stuck (c : cconn hstate) v : cc_hdrStatus (ccu_wl_stuck c v) = cc_hdrStatus c. Proof. reflexivity. Qed.
-Lemma cc_hdrErr_ccu_wl_stuck (c : cconn hstate) v : cc_hdrErr (ccu_wl_stuck c v) = cc_hdrErr c. Proof. reflexivity. Qed.
-Lemma cc_stateClosed_ccu_wl_stuck (c : cconn hstate) v : cc_stateClosed (ccu_wl_stuck c v) = cc_stateClosed c. Proof. reflexivity. Qed.
-Lemma cc_closeRef_ccu_wl_stuck (c : cconn hstate) v : cc_closeRef (ccu_wl_stuck c v) = cc_closeRef c. Proof. reflexivity. Qed.
-Lemma cc_reqQueued_ccu_wl_stuck (c : cconn hstate) v : cc_reqQueued (ccu_wl_stuck c v) = cc_reqQueued c. Proof. reflexivity. Qed.
-Lemma cc_pending_ccu_wl_stuck (c : cconn hstate) v : cc_pending (ccu_wl_stuck c v) = cc_pending c. Proof. reflexivity. Qed.
-Lemma cc_connWindow_ccu_wl_stuck (c : cconn hstate) v : cc_connWindow (ccu_wl_stuck c v) = cc_connWindow c. Proof. reflexivity. Qed.
-Lemma cc_streamWindow_ccu_wl_stuck (c : cconn hstate) v : cc_streamWindow (ccu_wl_stuck c v) = cc_streamWindow c. Proof. reflexivity. Qed.
-Lemma cc_inQ_ccu_wl_stuck (c : cconn hstate) v : cc_inQ (ccu_wl_stuck c v) = cc_inQ c. Proof. reflexivity. Qed.
-Lemma cc_outQ_ccu_wl_stuck (c : cconn hstate) v : cc_outQ (ccu_wl_stuck c v) = cc_outQ c. Proof. reflexivity. Qed.
-Lemma cc_winCh_ccu_wl_stuck (c : cconn hstate) v : cc_winCh (ccu_wl_stuck c v) = cc_winCh c. Proof. reflexivity. Qed.
-Lemma cc_lastErr_ccu_wl_stuck (c : cconn hstate) v : cc_lastErr (ccu_wl_stuck c v) = cc_lastErr c. Proof. reflexivity. Qed.
-Lemma cc_unacks_ccu_wl_stuck (c : cconn hstate) v : cc_unacks (ccu_wl_stuck c v) = cc_unacks c. Proof. reflexivity. Qed.
-Lemma cc_rl_done_ccu_wl_stuck (c : cconn hstate) v : cc_rl_done (ccu_wl_stuck c v) = cc_rl_done c. Proof. reflexivity. Qed.
-Lemma cc_wl_done_ccu_wl_stuck (c : cconn hstate) v : cc_wl_done (ccu_wl_stuck c v) = cc_wl_done c. Proof. reflexivity. Qed.
-Lemma cc_rl_stuck_ccu_wl_stuck (c : cconn hstate) v : cc_rl_stuck (ccu_wl_stuck c v) = cc_rl_stuck c. Proof. reflexivity. Qed.
-Lemma cc_wl_stuck_ccu_wl_stuck (c : cconn hstate) v : cc_wl_stuck (ccu_wl_stuck c v) = v. Proof. reflexivity. Qed.
-Lemma cc_out_ccu_wl_stuck (c : cconn hstate) v : cc_out (ccu_wl_stuck c v) = cc_out c. Proof. reflexivity. Qed.
-Lemma cc_ctxs_ccu_out (c : cconn hstate) v : cc_ctxs (ccu_out c v) = cc_ctxs c. Proof. reflexivity. Qed.
-Lemma cc_nextID_ccu_out (c : cconn hstate) v : cc_nextID (ccu_out c v) = cc_nextID c. Proof. reflexivity. Qed.
-Lemma cc_open_ccu_out (c : cconn hstate) v : cc_open (ccu_out c v) = cc_open c. Proof. reflexivity. Qed.
-Lemma cc_maxStreams_ccu_out (c : cconn hstate) v : cc_maxStreams (ccu_out c v) = cc_maxStreams c. Proof. reflexivity. Qed.
-Lemma cc_maxFrame_ccu_out (c : cconn hstate) v : cc_maxFrame (ccu_out c v) = cc_maxFrame c. Proof. reflexivity. Qed.
-Lemma cc_goAway_ccu_out (c : cconn hstate) v : cc_goAway (ccu_out c v) = cc_goAway c. Proof. reflexivity. Qed.
-Lemma cc_closed_ccu_out (c : cconn hstate) v : cc_closed (ccu_out c v) = cc_closed c. Proof. reflexivity. Qed.
-Lemma cc_closing_ccu_out (c : cconn hstate) v : cc_closing (ccu_out c v) = cc_closing c. Proof. reflexivity. Qed.
-Lemma cc_netClosed_ccu_out (c : cconn hstate) v : cc_netClosed (ccu_out c v) = cc_netClosed c. Proof. reflexivity. Qed.
-Lemma cc_writeFail_ccu_out (c : cconn hstate) v : cc_writeFail (ccu_out c v) = cc_writeFail c. Proof. reflexivity. Qed.
-Lemma cc_enc_ccu_out (c : cconn hstate) v : cc_enc (ccu_out c v) = cc_enc c. Proof. reflexivity. Qed.
-Lemma cc_encTableSize_ccu_out (c : cconn hstate) v : cc_encTableSize (ccu_out c v) = cc_encTableSize c. Proof. reflexivity. Qed.
-Lemma cc_encTableSeen_ccu_out (c : cconn hstate) v : cc_encTableSeen (ccu_out c v) = cc_encTableSeen c. Proof. reflexivity. Qed.
-Lemma cc_dec_ccu_out (c : cconn hstate) v : cc_dec (ccu_out c v) = cc_dec c. Proof. reflexivity. Qed.
-Lemma cc_currentWindow_ccu_out (c : cconn hstate) v : cc_currentWindow (ccu_out c v) = cc_currentWindow c. Proof. reflexivity. Qed.
-Lemma cc_serverS_ccu_out (c : cconn hstate) v : cc_serverS (ccu_out c v) = cc_serverS c. Proof. reflexivity. Qed.
-Lemma cc_hdrStream_ccu_out (c : cconn hstate) v : cc_hdrStream (ccu_out c v) = cc_hdrStream c. Proof. reflexivity. Qed.
-Lemma cc_hdrPrev_ccu_out (c : cconn hstate) v : cc_hdrPrev (ccu_out c v) = cc_hdrPrev c. Proof. reflexivity. Qed.
-Lemma cc_hdrFields_ccu_out (c : cconn hstate) v : cc_hdrFields (ccu_out c v) = cc_hdrFields c. Proof. reflexivity. Qed.
-Lemma cc_hdrEndStream_ccu_out (c : cconn hstate) v : cc_hdrEndStream (ccu_out c v) = cc_hdrEndStream c. Proof. reflexivity. Qed.
-Lemma cc_hdrRegularSeen_ccu_out (c : cconn hstate) v : cc_hdrRegularSeen (ccu_out c v) = cc_hdrRegularSeen c. Proof. reflexivity. Qed.
-Lemma cc_hdrStatus_ccu_out (c : cconn hstate) v : cc_hdrStatus (ccu_out c v) = cc_hdrStatus c. Proof. reflexivity. Qed.
-Lemma cc_hdrErr_ccu_out (c : cconn hstate) v : cc_hdrErr (ccu_out c v) = cc_hdrErr c. Proof. reflexivity. Qed.
-Lemma cc_stateClosed_ccu_out (c : cconn hstate) v : cc_stateClosed (ccu_out c v) = cc_stateClosed c. Proof. reflexivity. Qed.
-Lemma cc_closeRef_ccu_out (c : cconn hstate) v : cc_closeRef (ccu_out c v) = cc_closeRef c. Proof. reflexivity. Qed.
-Lemma cc_reqQueued_ccu_out (c : cconn hstate) v : cc_reqQueued (ccu_out c v) = cc_reqQueued c. Proof. reflexivity. Qed.
-Lemma cc_pending_ccu_out (c : cconn hstate) v : cc_pending (ccu_out c v) = cc_pending c. Proof. reflexivity. Qed.
-Lemma cc_connWindow_ccu_out (c : cconn hstate) v : cc_connWindow (ccu_out c v) = cc_connWindow c. Proof. reflexivity. Qed.
-Lemma cc_streamWindow_ccu_out (c : cconn hstate) v : cc_streamWindow (ccu_out c v) = cc_streamWindow c. Proof. reflexivity. Qed.
-Lemma cc_inQ_ccu_out (c : cconn hstate) v : cc_inQ (ccu_out c v) = cc_inQ c. Proof. reflexivity. Qed.
-Lemma cc_outQ_ccu_out (c : cconn hstate) v : cc_outQ (ccu_out c v) = cc_outQ c. Proof. reflexivity. Qed.
-Lemma cc_winCh_ccu_out (c : cconn hstate) v : cc_winCh (ccu_out c v) = cc_winCh c. Proof. reflexivity. Qed.
-Lemma cc_lastErr_ccu_out (c : cconn hstate) v : cc_lastErr (ccu_out c v) = cc_lastErr c. Proof. reflexivity. Qed.
-Lemma cc_unacks_ccu_out (c : cconn hstate) v : cc_unacks (ccu_out c v) = cc_unacks c. Proof. reflexivity. Qed.
-Lemma cc_rl_done_ccu_out (c : cconn hstate) v : cc_rl_done (ccu_out c v) = cc_rl_done c. Proof. reflexivity. Qed.
-Lemma cc_wl_done_ccu_out (c : cconn hstate) v : cc_wl_done (ccu_out c v) = cc_wl_done c. Proof. reflexivity. Qed.
-Lemma cc_rl_stuck_ccu_out (c : cconn hstate) v : cc_rl_stuck (ccu_out c v) = cc_rl_stuck c. Proof. reflexivity. Qed.
-Lemma cc_wl_stuck_ccu_out (c : cconn hstate) v : cc_wl_stuck (ccu_out c v) = cc_wl_stuck c. Proof. reflexivity. Qed.
-Lemma cc_out_ccu_out (c : cconn hstate) v : cc_out (ccu_out c v) = v. Proof. reflexivity. Qed.
-Lemma ct_tag_ctu_tag (x : cctx) v : ct_tag (ctu_tag x v) = v. Proof. reflexivity. Qed.
-Lemma ct_req_ctu_tag (x : cctx) v : ct_req (ctu_tag x v) = ct_req x. Proof. reflexivity. Qed.
-Lemma ct_resp_ctu_tag (x : cctx) v : ct_resp (ctu_tag x v) = ct_resp x. Proof. reflexivity. Qed.
-Lemma ct_sid_ctu_tag (x : cctx) v : ct_sid (ctu_tag x v) = ct_sid x. Proof. reflexivity. Qed.
-Lemma ct_conn_ctu_tag (x : cctx) v : ct_conn (ctu_tag x v) = ct_conn x. Proof. reflexivity. Qed.
-Lemma ct_done_ctu_tag (x : cctx) v : ct_done (ctu_tag x v) = ct_done x. Proof. reflexivity. Qed.
-Lemma ct_resolved_ctu_tag (x : cctx) v : ct_resolved (ctu_tag x v) = ct_resolved x. Proof. reflexivity. Qed.
-Lemma ct_finished_ctu_tag (x : cctx) v : ct_finished (ctu_tag x v) = ct_finished x. Proof. reflexivity. Qed.
-Lemma ct_err_ctu_tag (x : cctx) v : ct_err (ctu_tag x v) = ct_err x. Proof. reflexivity. Qed.
-Lemma ct_armed_ctu_tag (x : cctx) v : ct_armed (ctu_tag x v) = ct_armed x. Proof. reflexivity. Qed.
-Lemma ct_fired_ctu_tag (x : cctx) v : ct_fired (ctu_tag x v) = ct_fired x. Proof. reflexivity. Qed.
-Lemma ct_cancelled_ctu_tag (x : cctx) v : ct_cancelled (ctu_tag x v) = ct_cancelled x. Proof. reflexivity. Qed.
-Lemma ct_gotStatus_ctu_tag (x : cctx) v : ct_gotStatus (ctu_tag x v) = ct_gotStatus x. Proof. reflexivity. Qed.
-Lemma ct_bodyClosed_ctu_tag (x : cctx) v : ct_bodyClosed (ctu_tag x v) = ct_bodyClosed x. Proof. reflexivity. Qed.
-Lemma ct_writing_ctu_tag (x : cctx) v : ct_writing (ctu_tag x v) = ct_writing x. Proof. reflexivity. Qed.
-Lemma ct_returned_ctu_tag (x : cctx) v : ct_returned (ctu_tag x v) = ct_returned x. Proof. reflexivity. Qed.
-Lemma ct_pooled_ctu_tag (x : cctx) v : ct_pooled (ctu_tag x v) = ct_pooled x. Proof. reflexivity. Qed.
-Lemma ct_lckStuck_ctu_tag (x : cctx) v : ct_lckStuck (ctu_tag x v) = ct_lckStuck x. Proof. reflexivity. Qed.
-Lemma ct_tag_ctu_req (x : cctx) v : ct_tag (ctu_req x v) = ct_tag x. Proof. reflexivity. Qed.
-Lemma ct_req_ctu_req (x : cctx) v : ct_req (ctu_req x v) = v. Proof. reflexivity. Qed.
-Lemma ct_resp_ctu_req (x : cctx) v : ct_resp (ctu_req x v) = ct_resp x. Proof. reflexivity. Qed.
-Lemma ct_sid_ctu_req (x : cctx) v : ct_sid (ctu_req x v) = ct_sid x. Proof. reflexivity. Qed.
-Lemma ct_conn_ctu_req (x : cctx) v : ct_conn (ctu_req x v) = ct_conn x. Proof. reflexivity. Qed.
-Lemma ct_done_ctu_req (x : cctx) v : ct_done (ctu_req x v) = ct_done x. Proof. reflexivity. Qed.
-Lemma ct_resolved_ctu_req (x : cctx) v : ct_resolved (ctu_req x v) = ct_resolved x. Proof. reflexivity. Qed.
-Lemma ct_finished_ctu_req (x : cctx) v : ct_finished (ctu_req x v) = ct_finished x. Proof. reflexivity. Qed.
-Lemma ct_err_ctu_req (x : cctx) v : ct_err (ctu_req x v) = ct_err x. Proof. reflexivity. Qed.
-Lemma ct_armed_ctu_req (x : cctx) v : ct_armed (ctu_req x v) = ct_armed x. Proof. reflexivity. Qed.
-Lemma ct_fired_ctu_req (x : cctx) v : ct_fired (ctu_req x v) = ct_fired x. Proof. reflexivity. Qed.
-Lemma ct_cancelled_ctu_req (x : cctx) v : ct_cancelled (ctu_req x v) = ct_cancelled x. Proof. reflexivity. Qed.
-Lemma ct_gotStatus_ctu_req (x : cctx) v : ct_gotStatus (ctu_req x v) = ct_gotStatus x. Proof. reflexivity. Qed.
-Lemma ct_bodyClosed_ctu_req (x : cctx) v : ct_bodyClosed (ctu_req x v) = ct_bodyClosed x. Proof. reflexivity. Qed.
-Lemma ct_writing_ctu_req (x : cctx) v : ct_writing (ctu_req x v) = ct_writing x. Proof. reflexivity. Qed.
-Lemma ct_returned_ctu_req (x : cctx) v : ct_returned (ctu_req x v) = ct_returned x. Proof. reflexivity. Qed.
-Lemma ct_pooled_ctu_req (x : cctx) v : ct_pooled (ctu_req x v) = ct_pooled x. Proof. reflexivity. Qed.
-Lemma ct_lckStuck_ctu_req (x : cctx) v : ct_lckStuck (ctu_req x v) = ct_lckStuck x. Proof. reflexivity. Qed.
-Lemma ct_tag_ctu_resp (x : cctx) v : ct_tag (ctu_resp x v) = ct_tag x. Proof. reflexivity. Qed.
-Lemma ct_req_ctu_resp (x : cctx) v : ct_req (ctu_resp x v) = ct_req x. Proof. reflexivity. Qed.
-Lemma ct_resp_ctu_resp (x : cctx) v : ct_resp (ctu_resp x v) = v. Proof. reflexivity. Qed.
-Lemma ct_sid_ctu_resp (x : cctx) v : ct_sid (ctu_resp x v) = ct_sid x. Proof. reflexivity. Qed.
-Lemma ct_conn_ctu_resp (x : cctx) v : ct_conn (ctu_resp x v) = ct_conn x. Proof. reflexivity. Qed.
-Lemma ct_done_ctu_resp (x : cctx) v : ct_done (ctu_resp x v) = ct_done x. Proof. reflexivity. Qed.
-Lemma ct_resolved_ctu_resp (x : cctx) v : ct_resolved (ctu_resp x v) = ct_resolved x. Proof. reflexivity. Qed.
-Lemma ct_finished_ctu_resp (x : cctx) v : ct_finished (ctu_resp x v) = ct_finished x. Proof. reflexivity. Qed.
-Lemma ct_err_ctu_resp (x : cctx) v : ct_err (ctu_resp x v) = ct_err x. Proof. reflexivity. Qed.
-Lemma ct_armed_ctu_resp (x : cctx) v : ct_armed (ctu_resp x v) = ct_armed x. Proof. reflexivity. Qed.
-Lemma ct_fired_ctu_resp (x : cctx) v : ct_fired (ctu_resp x v) = ct_fired x. Proof. reflexivity. Qed.
-Lemma ct_cancelled_ctu_resp (x : cctx) v : ct_cancelled (ctu_resp x v) = ct_cancelled x. Proof. reflexivity. Qed.
-Lemma ct_gotStatus_ctu_resp (x : cctx) v : ct_gotStatus (ctu_resp x v) = ct_gotStatus x. Proof. reflexivity. Qed.
-Lemma ct_bodyClosed_ctu_resp (x : cctx) v : ct_bodyClosed (ctu_resp x v) = ct_bodyClosed x. Proof. reflexivity. Qed.
-Lemma ct_writing_ctu_resp (x : cctx) v : ct_writing (ctu_resp x v) = ct_writing x. Proof. reflexivity. Qed.
-Lemma ct_returned_ctu_resp (x : cctx) v : ct_returned (ctu_resp x v) = ct_returned x. Proof. reflexivity. Qed.
-Lemma ct_pooled_ctu_resp (x : cctx) v : ct_pooled (ctu_resp x v) = ct_pooled x. Proof. reflexivity. Qed.
-Lemma ct_lckStuck_ctu_resp (x : cctx) v : ct_lckStuck (ctu_resp x v) = ct_lckStuck x. Proof. reflexivity. Qed.
-Lemma ct_tag_ctu_sid (x : cctx) v : ct_tag (ctu_sid x v) = ct_tag x. Proof. reflexivity. Qed.
-Lemma ct_req_ctu_sid (x : cctx) v : ct_req (ctu_sid x v) = ct_req x. Proof. reflexivity. Qed.
-Lemma ct_resp_ctu_sid (x : cctx) v : ct_resp (ctu_sid x v) = ct_resp x. Proof. reflexivity. Qed.
-Lemma ct_sid_ctu_sid (x : cctx) v : ct_sid (ctu_sid x v) = v. Proof. reflexivity. Qed.
-Lemma ct_conn_ctu_sid (x : cctx) v : ct_conn (ctu_sid x v) = ct_conn x. Proof. reflexivity. Qed.
-Lemma ct_done_ctu_sid (x : cctx) v : ct_done (ctu_sid x v) = ct_done x. Proof. reflexivity. Qed.
-Lemma ct_resolved_ctu_sid (x : cctx) v : ct_resolved (ctu_sid x v) = ct_resolved x. Proof. reflexivity. Qed.
-Lemma ct_finished_ctu_sid (x : cctx) v : ct_finished (ctu_sid x v) = ct_finished x. Proof. reflexivity. Qed.
-Lemma ct_err_ctu_sid (x : cctx) v : ct_err (ctu_sid x v) = ct_err x. Proof. reflexivity. Qed.
-Lemma ct_armed_ctu_sid (x : cctx) v : ct_armed (ctu_sid x v) = ct_armed x. Proof. reflexivity. Qed.
-Lemma ct_fired_ctu_sid (x : cctx) v : ct_fired (ctu_sid x v) = ct_fired x. Proof. reflexivity. Qed.
-Lemma ct_cancelled_ctu_sid (x : cctx) v : ct_cancelled (ctu_sid x v) = ct_cancelled x. Proof. reflexivity. Qed.
-Lemma ct_gotStatus_ctu_sid (x : cctx) v : ct_gotStatus (ctu_sid x v) = ct_gotStatus x. Proof. reflexivity. Qed.
-Lemma ct_bodyClosed_ctu_sid (x : cctx) v : ct_bodyClosed (ctu_sid x v) = ct_bodyClosed x. Proof. reflexivity. Qed.
-Lemma ct_writing_ctu_sid (x : cctx) v : ct_writing (ctu_sid x v) = ct_writing x. Proof. reflexivity. Qed.
-Lemma ct_returned_ctu_sid (x : cctx) v : ct_returned (ctu_sid x v) = ct_returned x. Proof. reflexivity. Qed.
-Lemma ct_pooled_ctu_sid (x : cctx) v : ct_pooled (ctu_sid x v) = ct_pooled x. Proof. reflexivity. Qed.
-Lemma ct_lckStuck_ctu_sid (x : cctx) v : ct_lckStuck (ctu_sid x v) = ct_lckStuck x. Proof. reflexivity. Qed.
-Lemma ct_tag_ctu_conn (x : cctx) v : ct_tag (ctu_conn x v) = ct_tag x. Proof. reflexivity. Qed.
-Lemma ct_req_ctu_conn (x : cctx) v : ct_req (ctu_conn x v) = ct_req x. Proof. reflexivity. Qed.
-Lemma ct_resp_ctu_conn (x : cctx) v : ct_resp (ctu_conn x v) = ct_resp x. Proof. reflexivity. Qed.
-Lemma ct_sid_ctu_conn (x : cctx) v : ct_sid (ctu_conn x v) = ct_sid x. Proof. reflexivity. Qed.
-Lemma ct_conn_ctu_conn (x : cctx) v : ct_conn (ctu_conn x v) = v. Proof. reflexivity. Qed.
-Lemma ct_done_ctu_conn (x : cctx) v : ct_done (ctu_conn x v) = ct_done x. Proof. reflexivity. Qed.
-Lemma ct_resolved_ctu_conn (x : cctx) v : ct_resolved (ctu_conn x v) = ct_resolved x. Proof. reflexivity. Qed.
-Lemma ct_finished_ctu_conn (x : cctx) v : ct_finished (ctu_conn x v) = ct_finished x. Proof. reflexivity. Qed.
-Lemma ct_err_ctu_conn (x : cctx) v : ct_err (ctu_conn x v) = ct_err x. Proof. reflexivity. Qed.
-Lemma ct_armed_ctu_conn (x : cctx) v : ct_armed (ctu_conn x v) = ct_armed x. Proof. reflexivity. Qed.
-Lemma ct_fired_ctu_conn (x : cctx) v : ct_fired (ctu_conn x v) = ct_fired x. Proof. reflexivity. Qed.
-Lemma ct_cancelled_ctu_conn (x : cctx) v : ct_cancelled (ctu_conn x v) = ct_cancelled x. Proof. reflexivity. Qed.
-Lemma ct_gotStatus_ctu_conn (x : cctx) v : ct_gotStatus (ctu_conn x v) = ct_gotStatus x. Proof. reflexivity. Qed.
-Lemma ct_bodyClosed_ctu_conn (x : cctx) v : ct_bodyClosed (ctu_conn x v) = ct_bodyClosed x. Proof. reflexivity. Qed.
-Lemma ct_writing_ctu_conn (x : cctx) v : ct_writing (ctu_conn x v) = ct_writing x. Proof. reflexivity. Qed.
-Lemma ct_returned_ctu_conn (x : cctx) v : ct_returned (ctu_conn x v) = ct_returned x. Proof. reflexivity. Qed.
-Lemma ct_pooled_ctu_conn (x : cctx) v : ct_pooled (ctu_conn x v) = ct_pooled x. Proof. reflexivity. Qed.
-Lemma ct_lckStuck_ctu_conn (x : cctx) v : ct_lckStuck (ctu_conn x v) = ct_lckStuck x. Proof. reflexivity. Qed.
-Lemma ct_tag_ctu_done (x : cctx) v : ct_tag (ctu_done x v) = ct_tag x. Proof. reflexivity. Qed.
-Lemma ct_req_ctu_done (x : cctx) v : ct_req (ctu_done x v) = ct_req x. Proof. reflexivity. Qed.
-Lemma ct_resp_ctu_done (x : cctx) v : ct_resp (ctu_done x v) = ct_resp x. Proof. reflexivity. Qed.
-Lemma ct_sid_ctu_done (x : cctx) v : ct_sid (ctu_done x v) = ct_sid x. Proof. reflexivity. Qed.
-Lemma ct_conn_ctu_done (x : cctx) v : ct_conn (ctu_done x v) = ct_conn x. Proof. reflexivity. Qed.
-Lemma ct_done_ctu_done (x : cctx) v : ct_done (ctu_done x v) = v. Proof. reflexivity. Qed.
-Lemma ct_resolved_ctu_done (x : cctx) v : ct_resolved (ctu_done x v) = ct_resolved x. Proof. reflexivity. Qed.
-Lemma ct_finished_ctu_done (x : cctx) v : ct_finished (ctu_done x v) = ct_finished x. Proof. reflexivity. Qed.
-Lemma ct_err_ctu_done (x : cctx) v : ct_err (ctu_done x v) = ct_err x. Proof. reflexivity. Qed.
-Lemma ct_armed_ctu_done (x : cctx) v : ct_armed (ctu_done x v) = ct_armed x. Proof. reflexivity. Qed.
-Lemma ct_fired_ctu_done (x : cctx) v : ct_fired (ctu_done x v) = ct_fired x. Proof. reflexivity. Qed.
-Lemma ct_cancelled_ctu_done (x : cctx) v : ct_cancelled (ctu_done x v) = ct_cancelled x. Proof. reflexivity. Qed.
-Lemma ct_gotStatus_ctu_done (x : cctx) v : ct_gotStatus (ctu_done x v) = ct_gotStatus x. Proof. reflexivity. Qed.
-Lemma ct_bodyClosed_ctu_done (x : cctx) v : ct_bodyClosed (ctu_done x v) = ct_bodyClosed x. Proof. reflexivity. Qed.
-Lemma ct_writing_ctu_done (x : cctx) v : ct_writing (ctu_done x v) = ct_writing x. Proof. reflexivity. Qed.
-Lemma ct_returned_ctu_done (x : cctx) v : ct_returned (ctu_done x v) = ct_returned x. Proof. reflexivity. Qed.
-Lemma ct_pooled_ctu_done (x : cctx) v : ct_pooled (ctu_done x v) = ct_pooled x. Proof. reflexivity. Qed.
-Lemma ct_lckStuck_ctu_done (x : cctx) v : ct_lckStuck (ctu_done x v) = ct_lckStuck x. Proof. reflexivity. Qed.
-Lemma ct_tag_ctu_resolved (x : cctx) v : ct_tag (ctu_resolved x v) = ct_tag x. Proof. reflexivity. Qed.
-Lemma ct_req_ctu_resolved (x : cctx) v : ct_req (ctu_resolved x v) = ct_req x. Proof. reflexivity. Qed.
-Lemma ct_resp_ctu_resolved (x : cctx) v : ct_resp (ctu_resolved x v) = ct_resp x. Proof. reflexivity. Qed.
-Lemma ct_sid_ctu_resolved (x : cctx) v : ct_sid (ctu_resolved x v) = ct_sid x. Proof. reflexivity. Qed.
-Lemma ct_conn_ctu_resolved (x : cctx) v : ct_conn (ctu_resolved x v) = ct_conn x. Proof. reflexivity. Qed.
-Lemma ct_done_ctu_resolved (x : cctx) v : ct_done (ctu_resolved x v) = ct_done x. Proof. reflexivity. Qed.
-Lemma ct_resolved_ctu_resolved (x : cctx) v : ct_resolved (ctu_resolved x v) = v. Proof. reflexivity. Qed.
-Lemma ct_finished_ctu_resolved (x : cctx) v : ct_finished (ctu_resolved x v) = ct_finished x. Proof. reflexivity. Qed.
-Lemma ct_err_ctu_resolved (x : cctx) v : ct_err (ctu_resolved x v) = ct_err x. Proof. reflexivity. Qed.
-Lemma ct_armed_ctu_resolved (x : cctx) v : ct_armed (ctu_resolved x v) = ct_armed x. Proof. reflexivity. Qed.
-Lemma ct_fired_ctu_resolved (x : cctx) v : ct_fired (ctu_resolved x v) = ct_fired x. Proof. reflexivity. Qed.
-Lemma ct_cancelled_ctu_resolved (x : cctx) v : ct_cancelled (ctu_resolved x v) = ct_cancelled x. Proof. reflexivity. Qed.
-Lemma ct_gotStatus_ctu_resolved (x : cctx) v : ct_gotStatus (ctu_resolved x v) = ct_gotStatus x. Proof. reflexivity. Qed.
-Lemma ct_bodyClosed_ctu_resolved (x : cctx) v : ct_bodyClosed (ctu_resolved x v) = ct_bodyClosed x. Proof. reflexivity. Qed.
-Lemma ct_writing_ctu_resolved (x : cctx) v : ct_writing (ctu_resolved x v) = ct_writing x. Proof. reflexivity. Qed.
-Lemma ct_returned_ctu_resolved (x : cctx) v : ct_returned (ctu_resolved x v) = ct_returned x. Proof. reflexivity. Qed.
-Lemma ct_pooled_ctu_resolved (x : cctx) v : ct_pooled (ctu_resolved x v) = ct_pooled x. Proof. reflexivity. Qed.
-Lemma ct_lckStuck_ctu_resolved (x : cctx) v : ct_lckStuck (ctu_resolved x v) = ct_lckStuck x. Proof. reflexivity. Qed.
-Lemma ct_tag_ctu_finished (x : cctx) v : ct_tag (ctu_finished x v) = ct_tag x. Proof. reflexivity. Qed.
-Lemma ct_req_ctu_finished (x : cctx) v : ct_req (ctu_finished x v) = ct_req x. Proof. reflexivity. Qed.
-Lemma ct_resp_ctu_finished (x : cctx) v : ct_resp (ctu_finished x v) = ct_resp x. Proof. reflexivity. Qed.
-Lemma ct_sid_ctu_finished (x : cctx) v : ct_sid (ctu_finished x v) = ct_sid x. Proof. reflexivity. Qed.
-Lemma ct_conn_ctu_finished (x : cctx) v : ct_conn (ctu_finished x v) = ct_conn x. Proof. reflexivity. Qed.
-Lemma ct_done_ctu_finished (x : cctx) v : ct_done (ctu_finished x v) = ct_done x. Proof. reflexivity. Qed.
-Lemma ct_resolved_ctu_finished (x : cctx) v : ct_resolved (ctu_finished x v) = ct_resolved x. Proof. reflexivity. Qed.
-Lemma ct_finished_ctu_finished (x : cctx) v : ct_finished (ctu_finished x v) = v. Proof. reflexivity. Qed.
-Lemma ct_err_ctu_finished (x : cctx) v : ct_err (ctu_finished x v) = ct_err x. Proof. reflexivity. Qed.
-Lemma ct_armed_ctu_finished (x : cctx) v : ct_armed (ctu_finished x v) = ct_armed x. Proof. reflexivity. Qed.
-Lemma ct_fired_ctu_finished (x : cctx) v : ct_fired (ctu_finished x v) = ct_fired x. Proof. reflexivity. Qed.
-Lemma ct_cancelled_ctu_finished (x : cctx) v : ct_cancelled (ctu_finished x v) = ct_cancelled x. Proof. reflexivity. Qed.
-Lemma ct_gotStatus_ctu_finished (x : cctx) v : ct_gotStatus (ctu_finished x v) = ct_gotStatus x. Proof. reflexivity. Qed.
-Lemma ct_bodyClosed_ctu_finished (x : cctx) v : ct_bodyClosed (ctu_finished x v) = ct_bodyClosed x. Proof. reflexivity. Qed.
-Lemma ct_writing_ctu_finished (x : cctx) v : ct_writing (ctu_finished x v) = ct_writing x. Proof. reflexivity. Qed.
-Lemma ct_returned_ctu_finished (x : cctx) v : ct_returned (ctu_finished x v) = ct_returned x. Proof. reflexivity. Qed.
-Lemma ct_pooled_ctu_finished (x : cctx) v : ct_pooled (ctu_finished x v) = ct_pooled x. Proof. reflexivity. Qed.
-Lemma ct_lckStuck_ctu_finished (x : cctx) v : ct_lckStuck (ctu_finished x v) = ct_lckStuck x. Proof. reflexivity. Qed.
-Lemma ct_tag_ctu_err (x : cctx) v : ct_tag (ctu_err x v) = ct_tag x. Proof. reflexivity. Qed.
-Lemma ct_req_ctu_err (x : cctx) v : ct_req (ctu_err x v) = ct_req x. Proof. reflexivity. Qed.
-Lemma ct_resp_ctu_err (x : cctx) v : ct_resp (ctu_err x v) = ct_resp x. Proof. reflexivity. Qed.
-Lemma ct_sid_ctu_err (x : cctx) v : ct_sid (ctu_err x v) = ct_sid x. Proof. reflexivity. Qed.
-Lemma ct_conn_ctu_err (x : cctx) v : ct_conn (ctu_err x v) = ct_conn x. Proof. reflexivity. Qed.
-Lemma ct_done_ctu_err (x : cctx) v : ct_done (ctu_err x v) = ct_done x. Proof. reflexivity. Qed.
-Lemma ct_resolved_ctu_err (x : cctx) v : ct_resolved (ctu_err x v) = ct_resolved x. Proof. reflexivity. Qed.
-Lemma ct_finished_ctu_err (x : cctx) v : ct_finished (ctu_err x v) = ct_finished x. Proof. reflexivity. Qed.
-Lemma ct_err_ctu_err (x : cctx) v : ct_err (ctu_err x v) = v. Proof. reflexivity. Qed.
-Lemma ct_armed_ctu_err (x : cctx) v : ct_armed (ctu_err x v) = ct_armed x. Proof. reflexivity. Qed.
-Lemma ct_fired_ctu_err (x : cctx) v : ct_fired (ctu_err x v) = ct_fired x. Proof. reflexivity. Qed.
-Lemma ct_cancelled_ctu_err (x : cctx) v : ct_cancelled (ctu_err x v) = ct_cancelled x. Proof. reflexivity. Qed.
-Lemma ct_gotStatus_ctu_err (x : cctx) v : ct_gotStatus (ctu_err x v) = ct_gotStatus x. Proof. reflexivity. Qed.
-Lemma ct_bodyClosed_ctu_err (x : cctx) v : ct_bodyClosed (ctu_err x v) = ct_bodyClosed x. Proof. reflexivity. Qed.
-Lemma ct_writing_ctu_err (x : cctx) v : ct_writing (ctu_err x v) = ct_writing x. Proof. reflexivity. Qed.
-Lemma ct_returned_ctu_err (x : cctx) v : ct_returned (ctu_err x v) = ct_returned x. Proof. reflexivity. Qed.
-Lemma ct_pooled_ctu_err (x : cctx) v : ct_pooled (ctu_err x v) = ct_pooled x. Proof. reflexivity. Qed.
-Lemma ct_lckStuck_ctu_err (x : cctx) v : ct_lckStuck (ctu_err x v) = ct_lckStuck x. Proof. reflexivity. Qed.
-Lemma ct_tag_ctu_armed (x : cctx) v : ct_tag (ctu_armed x v) = ct_tag x. Proof. reflexivity. Qed.
-Lemma ct_req_ctu_armed (x : cctx) v : ct_req (ctu_armed x v) = ct_req x. Proof. reflexivity. Qed.
-Lemma ct_resp_ctu_armed (x : cctx) v : ct_resp (ctu_armed x v) = ct_resp x. Proof. reflexivity. Qed.
-Lemma ct_sid_ctu_armed (x : cctx) v : ct_sid (ctu_armed x v) = ct_sid x. Proof. reflexivity. Qed.
-Lemma ct_conn_ctu_armed (x : cctx) v : ct_conn (ctu_armed x v) = ct_conn x. Proof. reflexivity. Qed.
-Lemma ct_done_ctu_armed (x : cctx) v : ct_done (ctu_armed x v) = ct_done x. Proof. reflexivity. Qed.
-Lemma ct_resolved_ctu_armed (x : cctx) v : ct_resolved (ctu_armed x v) = ct_resolved x. Proof. reflexivity. Qed.
-Lemma ct_finished_ctu_armed (x : cctx) v : ct_finished (ctu_armed x v) = ct_finished x. Proof. reflexivity. Qed.
-Lemma ct_err_ctu_armed (x : cctx) v : ct_err (ctu_armed x v) = ct_err x. Proof. reflexivity. Qed.
-Lemma ct_armed_ctu_armed (x : cctx) v : ct_armed (ctu_armed x v) = v. Proof. reflexivity. Qed.
-Lemma ct_fired_ctu_armed (x : cctx) v : ct_fired (ctu_armed x v) = ct_fired x. Proof. reflexivity. Qed.
-Lemma ct_cancelled_ctu_armed (x : cctx) v : ct_cancelled (ctu_armed x v) = ct_cancelled x. Proof. reflexivity. Qed.
-Lemma ct_gotStatus_ctu_armed (x : cctx) v : ct_gotStatus (ctu_armed x v) = ct_gotStatus x. Proof. reflexivity. Qed.
-Lemma ct_bodyClosed_ctu_armed (x : cctx) v : ct_bodyClosed (ctu_armed x v) = ct_bodyClosed x. Proof. reflexivity. Qed.
-Lemma ct_writing_ctu_armed (x : cctx) v : ct_writing (ctu_armed x v) = ct_writing x. Proof. reflexivity. Qed.
-Lemma ct_returned_ctu_armed (x : cctx) v : ct_returned (ctu_armed x v) = ct_returned x. Proof. reflexivity. Qed.
-Lemma ct_pooled_ctu_armed (x : cctx) v : ct_pooled (ctu_armed x v) = ct_pooled x. Proof. reflexivity. Qed.
-Lemma ct_lckStuck_ctu_armed (x : cctx) v : ct_lckStuck (ctu_armed x v) = ct_lckStuck x. Proof. reflexivity. Qed.
-Lemma ct_tag_ctu_fired (x : cctx) v : ct_tag (ctu_fired x v) = ct_tag x. Proof. reflexivity. Qed.
-Lemma ct_req_ctu_fired (x : cctx) v : ct_req (ctu_fired x v) = ct_req x. Proof. reflexivity. Qed.
-Lemma ct_resp_ctu_fired (x : cctx) v : ct_resp (ctu_fired x v) = ct_resp x. Proof. reflexivity. Qed.
-Lemma ct_sid_ctu_fired (x : cctx) v : ct_sid (ctu_fired x v) = ct_sid x. Proof. reflexivity. Qed.
-Lemma ct_conn_ctu_fired (x : cctx) v : ct_conn (ctu_fired x v) = ct_conn x. Proof. reflexivity. Qed.
-Lemma ct_done_ctu_fired (x : cctx) v : ct_done (ctu_fired x v) = ct_done x. Proof. reflexivity. Qed.
-Lemma ct_resolved_ctu_fired (x : cctx) v : ct_resolved (ctu_fired x v) = ct_resolved x. Proof. reflexivity. Qed.
-Lemma ct_finished_ctu_fired (x : cctx) v : ct_finished (ctu_fired x v) = ct_finished x. Proof. reflexivity. Qed.
-Lemma ct_err_ctu_fired (x : cctx) v : ct_err (ctu_fired x v) = ct_err x. Proof. reflexivity. Qed.
-Lemma ct_armed_ctu_fired (x : cctx) v : ct_armed (ctu_fired x v) = ct_armed x. Proof. reflexivity. Qed.
-Lemma ct_fired_ctu_fired (x : cctx) v : ct_fired (ctu_fired x v) = v. Proof. reflexivity. Qed.
-Lemma ct_cancelled_ctu_fired (x : cctx) v : ct_cancelled (ctu_fired x v) = ct_cancelled x. Proof. reflexivity. Qed.
-Lemma ct_gotStatus_ctu_fired (x : cctx) v : ct_gotStatus (ctu_fired x v) = ct_gotStatus x. Proof. reflexivity. Qed.
-Lemma ct_bodyClosed_ctu_fired (x : cctx) v : ct_bodyClosed (ctu_fired x v) = ct_bodyClosed x. Proof. reflexivity. Qed.
-Lemma ct_writing_ctu_fired (x : cctx) v : ct_writing (ctu_fired x v) = ct_writing x. Proof. reflexivity. Qed.
-Lemma ct_returned_ctu_fired (x : cctx) v : ct_returned (ctu_fired x v) = ct_returned x. Proof. reflexivity. Qed.
-Lemma ct_pooled_ctu_fired (x : cctx) v : ct_pooled (ctu_fired x v) = ct_pooled x. Proof. reflexivity. Qed.
-Lemma ct_lckStuck_ctu_fired (x : cctx) v : ct_lckStuck (ctu_fired x v) = ct_lckStuck x. Proof. reflexivity. Qed.
-Lemma ct_tag_ctu_cancelled (x : cctx) v : ct_tag (ctu_cancelled x v) = ct_tag x. Proof. reflexivity. Qed.
-Lemma ct_req_ctu_cancelled (x : cctx) v : ct_req (ctu_cancelled x v) = ct_req x. Proof. reflexivity. Qed.
-Lemma ct_resp_ctu_cancelled (x : cctx) v : ct_resp (ctu_cancelled x v) = ct_resp x. Proof. reflexivity. Qed.
-Lemma ct_sid_ctu_cancelled (x : cctx) v : ct_sid (ctu_cancelled x v) = ct_sid x. Proof. reflexivity. Qed.
-Lemma ct_conn_ctu_cancelled (x : cctx) v : ct_conn (ctu_cancelled x v) = ct_conn x. Proof. reflexivity. Qed.
-Lemma ct_done_ctu_cancelled (x : cctx) v : ct_done (ctu_cancelled x v) = ct_done x. Proof. reflexivity. Qed.
-Lemma ct_resolved_ctu_cancelled (x : cctx) v : ct_resolved (ctu_cancelled x v) = ct_resolved x. Proof. reflexivity. Qed.
-Lemma ct_finished_ctu_cancelled (x : cctx) v : ct_finished (ctu_cancelled x v) = ct_finished x. Proof. reflexivity. Qed.
-Lemma ct_err_ctu_cancelled (x : cctx) v : ct_err (ctu_cancelled x v) = ct_err x. Proof. reflexivity. Qed.
-Lemma ct_armed_ctu_cancelled (x : cctx) v : ct_armed (ctu_cancelled x v) = ct_armed x. Proof. reflexivity. Qed.
-Lemma ct_fired_ctu_cancelled (x : cctx) v : ct_fired (ctu_cancelled x v) = ct_fired x. Proof. reflexivity. Qed.
-Lemma ct_cancelled_ctu_cancelled (x : cctx) v : ct_cancelled (ctu_cancelled x v) = v. Proof. reflexivity. Qed.
-Lemma ct_gotStatus_ctu_cancelled (x : cctx) v : ct_gotStatus (ctu_cancelled x v) = ct_gotStatus x. Proof. reflexivity. Qed.
-Lemma ct_bodyClosed_ctu_cancelled (x : cctx) v : ct_bodyClosed (ctu_cancelled x v) = ct_bodyClosed x. Proof. reflexivity. Qed.
-Lemma ct_writing_ctu_cancelled (x : cctx) v : ct_writing (ctu_cancelled x v) = ct_writing x. Proof. reflexivity. Qed.
-Lemma ct_returned_ctu_cancelled (x : cctx) v : ct_returned (ctu_cancelled x v) = ct_returned x. Proof. reflexivity. Qed.
-Lemma ct_pooled_ctu_cancelled (x : cctx) v : ct_pooled (ctu_cancelled x v) = ct_pooled x. Proof. reflexivity. Qed.
-Lemma ct_lckStuck_ctu_cancelled (x : cctx) v : ct_lckStuck (ctu_cancelled x v) = ct_lckStuck x. Proof. reflexivity. Qed.
-Lemma ct_tag_ctu_gotStatus (x : cctx) v : ct_tag (ctu_gotStatus x v) = ct_tag x. Proof. reflexivity. Qed.
-Lemma ct_req_ctu_gotStatus (x : cctx) v : ct_req (ctu_gotStatus x v) = ct_req x. Proof. reflexivity. Qed.
-Lemma ct_resp_ctu_gotStatus (x : cctx) v : ct_resp (ctu_gotStatus x v) = ct_resp x. Proof. reflexivity. Qed.
-Lemma ct_sid_ctu_gotStatus (x : cctx) v : ct_sid (ctu_gotStatus x v) = ct_sid x. Proof. reflexivity. Qed.
-Lemma ct_conn_ctu_gotStatus (x : cctx) v : ct_conn (ctu_gotStatus x v) = ct_conn x. Proof. reflexivity. Qed.
-Lemma ct_done_ctu_gotStatus (x : cctx) v : ct_done (ctu_gotStatus x v) = ct_done x. Proof. reflexivity. Qed.
-Lemma ct_resolved_ctu_gotStatus (x : cctx) v : ct_resolved (ctu_gotStatus x v) = ct_resolved x. Proof. reflexivity. Qed.
-Lemma ct_finished_ctu_gotStatus (x : cctx) v : ct_finished (ctu_gotStatus x v) = ct_finished x. Proof. reflexivity. Qed.
-Lemma ct_err_ctu_gotStatus (x : cctx) v : ct_err (ctu_gotStatus x v) = ct_err x. Proof. reflexivity. Qed.
-Lemma ct_armed_ctu_gotStatus (x : cctx) v : ct_armed (ctu_gotStatus x v) = ct_armed x. Proof. reflexivity. Qed.
-Lemma ct_fired_ctu_gotStatus (x : cctx) v : ct_fired (ctu_gotStatus x v) = ct_fired x. Proof. reflexivity. Qed.
-Lemma ct_cancelled_ctu_gotStatus (x : cctx) v : ct_cancelled (ctu_gotStatus x v) = ct_cancelled x. Proof. reflexivity. Qed.
-Lemma ct_gotStatus_ctu_gotStatus (x : cctx) v : ct_gotStatus (ctu_gotStatus x v) = v. Proof. reflexivity. Qed.
-Lemma ct_bodyClosed_ctu_gotStatus (x : cctx) v : ct_bodyClosed (ctu_gotStatus x v) = ct_bodyClosed x. Proof. reflexivity. Qed.
-Lemma ct_writing_ctu_gotStatus (x : cctx) v : ct_writing (ctu_gotStatus x v) = ct_writing x. Proof. reflexivity. Qed.
-Lemma ct_returned_ctu_gotStatus (x : cctx) v : ct_returned (ctu_gotStatus x v) = ct_returned x. Proof. reflexivity. Qed.
-Lemma ct_pooled_ctu_gotStatus (x : cctx) v : ct_pooled (ctu_gotStatus x v) = ct_pooled x. Proof. reflexivity. Qed.
-Lemma ct_lckStuck_ctu_gotStatus (x : cctx) v : ct_lckStuck (ctu_gotStatus x v) = ct_lckStuck x. Proof. reflexivity. Qed.
-Lemma ct_tag_ctu_bodyClosed (x : cctx) v : ct_tag (ctu_bodyClosed x v) = ct_tag x. Proof. reflexivity. Qed.
-Lemma ct_req_ctu_bodyClosed (x : cctx) v : ct_req (ctu_bodyClosed x v) = ct_req x. Proof. reflexivity. Qed.
-Lemma ct_resp_ctu_bodyClosed (x : cctx) v : ct_resp (ctu_bodyClosed x v) = ct_resp x. Proof. reflexivity. Qed.
-Lemma ct_sid_ctu_bodyClosed (x : cctx) v : ct_sid (ctu_bodyClosed x v) = ct_sid x. Proof. reflexivity. Qed.
-Lemma ct_conn_ctu_bodyClosed (x : cctx) v : ct_conn (ctu_bodyClosed x v) = ct_conn x. Proof. reflexivity. Qed.
-Lemma ct_done_ctu_bodyClosed (x : cctx) v : ct_done (ctu_bodyClosed x v) = ct_done x. Proof. reflexivity. Qed.
-Lemma ct_resolved_ctu_bodyClosed (x : cctx) v : ct_resolved (ctu_bodyClosed x v) = ct_resolved x. Proof. reflexivity. Qed.
-Lemma ct_finished_ctu_bodyClosed (x : cctx) v : ct_finished (ctu_bodyClosed x v) = ct_finished x. Proof. reflexivity. Qed.
-Lemma ct_err_ctu_bodyClosed (x : cctx) v : ct_err (ctu_bodyClosed x v) = ct_err x. Proof. reflexivity. Qed.
-Lemma ct_armed_ctu_bodyClosed (x : cctx) v : ct_armed (ctu_bodyClosed x v) = ct_armed x. Proof. reflexivity. Qed.
-Lemma ct_fired_ctu_bodyClosed (x : cctx) v : ct_fired (ctu_bodyClosed x v) = ct_fired x. Proof. reflexivity. Qed.
-Lemma ct_cancelled_ctu_bodyClosed (x : cctx) v : ct_cancelled (ctu_bodyClosed x v) = ct_cancelled x. Proof. reflexivity. Qed.
-Lemma ct_gotStatus_ctu_bodyClosed (x : cctx) v : ct_gotStatus (ctu_bodyClosed x v) = ct_gotStatus x. Proof. reflexivity. Qed.
-Lemma ct_bodyClosed_ctu_bodyClosed (x : cctx) v : ct_bodyClosed (ctu_bodyClosed x v) = v. Proof. reflexivity. Qed.
-Lemma ct_writing_ctu_bodyClosed (x : cctx) v : ct_writing (ctu_bodyClosed x v) = ct_writing x. Proof. reflexivity. Qed.
-Lemma ct_returned_ctu_bodyClosed (x : cctx) v : ct_returned (ctu_bodyClosed x v) = ct_returned x. Proof. reflexivity. Qed.
-Lemma ct_pooled_ctu_bodyClosed (x : cctx) v : ct_pooled (ctu_bodyClosed x v) = ct_pooled x. Proof. reflexivity. Qed.
-Lemma ct_lckStuck_ctu_bodyClosed (x : cctx) v : ct_lckStuck (ctu_bodyClosed x v) = ct_lckStuck x. Proof. reflexivity. Qed.
-Lemma ct_tag_ctu_writing (x : cctx) v : ct_tag (ctu_writing x v) = ct_tag x. Proof. reflexivity. Qed.
-Lemma ct_req_ctu_writing (x : cctx) v : ct_req (ctu_writing x v) = ct_req x. Proof. reflexivity. Qed.
-Lemma ct_resp_ctu_writing (x : cctx) v : ct_resp (ctu_writing x v) = ct_resp x. Proof. reflexivity. Qed.
-Lemma ct_sid_ctu_writing (x : cctx) v : ct_sid (ctu_writing x v) = ct_sid x. Proof. reflexivity. Qed.
-Lemma ct_conn_ctu_writing (x : cctx) v : ct_conn (ctu_writing x v) = ct_conn x. Proof. reflexivity. Qed.
-Lemma ct_done_ctu_writing (x : cctx) v : ct_done (ctu_writing x v) = ct_done x. Proof. reflexivity. Qed.
-Lemma ct_resolved_ctu_writing (x : cctx) v : ct_resolved (ctu_writing x v) = ct_resolved x. Proof. reflexivity. Qed.
-Lemma ct_finished_ctu_writing (x : cctx) v : ct_finished (ctu_writing x v) = ct_finished x. Proof. reflexivity. Qed.
-Lemma ct_err_ctu_writing (x : cctx) v : ct_err (ctu_writing x v) = ct_err x. Proof. reflexivity. Qed.
-Lemma ct_armed_ctu_writing (x : cctx) v : ct_armed (ctu_writing x v) = ct_armed x. Proof. reflexivity. Qed.
-Lemma ct_fired_ctu_writing (x : cctx) v : ct_fired (ctu_writing x v) = ct_fired x. Proof. reflexivity. Qed.
-Lemma ct_cancelled_ctu_writing (x : cctx) v : ct_cancelled (ctu_writing x v) = ct_cancelled x. Proof. reflexivity. Qed.
-Lemma ct_gotStatus_ctu_writing (x : cctx) v : ct_gotStatus (ctu_writing x v) = ct_gotStatus x. Proof. reflexivity. Qed.
-Lemma ct_bodyClosed_ctu_writing (x : cctx) v : ct_bodyClosed (ctu_writing x v) = ct_bodyClosed x. Proof. reflexivity. Qed.
-Lemma ct_writing_ctu_writing (x : cctx) v : ct_writing (ctu_writing x v) = v. Proof. reflexivity. Qed.
-Lemma ct_returned_ctu_writing (x : cctx) v : ct_returned (ctu_writing x v) = ct_returned x. Proof. reflexivity. Qed.
-Lemma ct_pooled_ctu_writing (x : cctx) v : ct_pooled (ctu_writing x v) = ct_pooled x. Proof. reflexivity. Qed.
-Lemma ct_lckStuck_ctu_writing (x : cctx) v : ct_lckStuck (ctu_writing x v) = ct_lckStuck x. Proof. reflexivity. Qed.
-Lemma ct_tag_ctu_returned (x : cctx) v : ct_tag (ctu_returned x v) = ct_tag x. Proof. reflexivity. Qed.
-Lemma ct_req_ctu_returned (x : cctx) v : ct_req (ctu_returned x v) = ct_req x. Proof. reflexivity. Qed.
-Lemma ct_resp_ctu_returned (x : cctx) v : ct_resp (ctu_returned x v) = ct_resp x. Proof. reflexivity. Qed.
-Lemma ct_sid_ctu_returned (x : cctx) v : ct_sid (ctu_returned x v) = ct_sid x. Proof. reflexivity. Qed.
-Lemma ct_conn_ctu_returned (x : cctx) v : ct_conn (ctu_returned x v) = ct_conn x. Proof. reflexivity. Qed.
-Lemma ct_done_ctu_returned (x : cctx) v : ct_done (ctu_returned x v) = ct_done x. Proof. reflexivity. Qed.
-Lemma ct_resolved_ctu_returned (x : cctx) v : ct_resolved (ctu_returned x v) = ct_resolved x. Proof. reflexivity. Qed.
-Lemma ct_finished_ctu_returned (x : cctx) v : ct_finished (ctu_returned x v) = ct_finished x. Proof. reflexivity. Qed.
-Lemma ct_err_ctu_returned (x : cctx) v : ct_err (ctu_returned x v) = ct_err x. Proof. reflexivity. Qed.
-Lemma ct_armed_ctu_returned (x : cctx) v : ct_armed (ctu_returned x v) = ct_armed x. Proof. reflexivity. Qed.
-Lemma ct_fired_ctu_returned (x : cctx) v : ct_fired (ctu_returned x v) = ct_fired x. Proof. reflexivity. Qed.
-Lemma ct_cancelled_ctu_returned (x : cctx) v : ct_cancelled (ctu_returned x v) = ct_cancelled x. Proof. reflexivity. Qed.
-Lemma ct_gotStatus_ctu_returned (x : cctx) v : ct_gotStatus (ctu_returned x v) = ct_gotStatus x. Proof. reflexivity. Qed.
-Lemma ct_bodyClosed_ctu_returned (x : cctx) v : ct_bodyClosed (ctu_returned x v) = ct_bodyClosed x. Proof. reflexivity. Qed.
-Lemma ct_writing_ctu_returned (x : cctx) v : ct_writing (ctu_returned x v) = ct_writing x. Proof. reflexivity. Qed.
-Lemma ct_returned_ctu_returned (x : cctx) v : ct_returned (ctu_returned x v) = v. Proof. reflexivity. Qed.
-Lemma ct_pooled_ctu_returned (x : cctx) v : ct_pooled (ctu_returned x v) = ct_pooled x. Proof. reflexivity. Qed.
-Lemma ct_lckStuck_ctu_returned (x : cctx) v : ct_lckStuck (ctu_returned x v) = ct_lckStuck x. Proof. reflexivity. Qed.
-Lemma ct_tag_ctu_pooled (x : cctx) v : ct_tag (ctu_pooled x v) = ct_tag x. Proof. reflexivity. Qed.
-Lemma ct_req_ctu_pooled (x : cctx) v : ct_req (ctu_pooled x v) = ct_req x. Proof. reflexivity. Qed.
-Lemma ct_resp_ctu_pooled (x : cctx) v : ct_resp (ctu_pooled x v) = ct_resp x. Proof. reflexivity. Qed.
-Lemma ct_sid_ctu_pooled (x : cctx) v : ct_sid (ctu_pooled x v) = ct_sid x. Proof. reflexivity. Qed.
-Lemma ct_conn_ctu_pooled (x : cctx) v : ct_conn (ctu_pooled x v) = ct_conn x. Proof. reflexivity. Qed.
-Lemma ct_done_ctu_pooled (x : cctx) v : ct_done (ctu_pooled x v) = ct_done x. Proof. reflexivity. Qed.
-Lemma ct_resolved_ctu_pooled (x : cctx) v : ct_resolved (ctu_pooled x v) = ct_resolved x. Proof. reflexivity. Qed.
-Lemma ct_finished_ctu_pooled (x : cctx) v : ct_finished (ctu_pooled x v) = ct_finished x. Proof. reflexivity. Qed.
-Lemma ct_err_ctu_pooled (x : cctx) v : ct_err (ctu_pooled x v) = ct_err x. Proof. reflexivity. Qed.
-Lemma ct_armed_ctu_pooled (x : cctx) v : ct_armed (ctu_pooled x v) = ct_armed x. Proof. reflexivity. Qed.
-Lemma ct_fired_ctu_pooled (x : cctx) v : ct_fired (ctu_pooled x v) = ct_fired x. Proof. reflexivity. Qed.
-Lemma ct_cancelled_ctu_pooled (x : cctx) v : ct_cancelled (ctu_pooled x v) = ct_cancelled x. Proof. reflexivity. Qed.
-Lemma ct_gotStatus_ctu_pooled (x : cctx) v : ct_gotStatus (ctu_pooled x v) = ct_gotStatus x. Proof. reflexivity. Qed.
-Lemma ct_bodyClosed_ctu_pooled (x : cctx) v : ct_bodyClosed (ctu_pooled x v) = ct_bodyClosed x. Proof. reflexivity. Qed.
-Lemma ct_writing_ctu_pooled (x : cctx) v : ct_writing (ctu_pooled x v) = ct_writing x. Proof. reflexivity. Qed.
-Lemma ct_returned_ctu_pooled (x : cctx) v : ct_returned (ctu_pooled x v) = ct_returned x. Proof. reflexivity. Qed.
-Lemma ct_pooled_ctu_pooled (x : cctx) v : ct_pooled (ctu_pooled x v) = v. Proof. reflexivity. Qed.
-Lemma ct_lckStuck_ctu_pooled (x : cctx) v : ct_lckStuck (ctu_pooled x v) = ct_lckStuck x. Proof. reflexivity. Qed.
-Lemma ct_tag_ctu_lckStuck (x : cctx) v : ct_tag (ctu_lckStuck x v) = ct_tag x. Proof. reflexivity. Qed.
-Lemma ct_req_ctu_lckStuck (x : cctx) v : ct_req (ctu_lckStuck x v) = ct_req x. Proof. reflexivity. Qed.
-Lemma ct_resp_ctu_lckStuck (x : cctx) v : ct_resp (ctu_lckStuck x v) = ct_resp x. Proof. reflexivity. Qed.
-Lemma ct_sid_ctu_lckStuck (x : cctx) v : ct_sid (ctu_lckStuck x v) = ct_sid x. Proof. reflexivity. Qed.
-Lemma ct_conn_ctu_lckStuck (x : cctx) v : ct_conn (ctu_lckStuck x v) = ct_conn x. Proof. reflexivity. Qed.
-Lemma ct_done_ctu_lckStuck (x : cctx) v : ct_done (ctu_lckStuck x v) = ct_done x. Proof. reflexivity. Qed.
-Lemma ct_resolved_ctu_lckStuck (x : cctx) v : ct_resolved (ctu_lckStuck x v) = ct_resolved x. Proof. reflexivity. Qed.
-Lemma ct_finished_ctu_lckStuck (x : cctx) v : ct_finished (ctu_lckStuck x v) = ct_finished x. Proof. reflexivity. Qed.
-Lemma ct_err_ctu_lckStuck (x : cctx) v : ct_err (ctu_lckStuck x v) = ct_err x. Proof. reflexivity. Qed.
-Lemma ct_armed_ctu_lckStuck (x : cctx) v : ct_armed (ctu_lckStuck x v) = ct_armed x. Proof. reflexivity. Qed.
-Lemma ct_fired_ctu_lckStuck (x : cctx) v : ct_fired (ctu_lckStuck x v) = ct_fired x. Proof. reflexivity. Qed.
-Lemma ct_cancelled_ctu_lckStuck (x : cctx) v : ct_cancelled (ctu_lckStuck x v) = ct_cancelled x. Proof. reflexivity. Qed.
-Lemma ct_gotStatus_ctu_lckStuck (x : cctx) v : ct_gotStatus (ctu_lckStuck x v) = ct_gotStatus x. Proof. reflexivity. Qed.
-Lemma ct_bodyClosed_ctu_lckStuck (x : cctx) v : ct_bodyClosed (ctu_lckStuck x v) = ct_bodyClosed x. Proof. reflexivity. Qed.
-Lemma ct_writing_ctu_lckStuck (x : cctx) v : ct_writing (ctu_lckStuck x v) = ct_writing x. Proof. reflexivity. Qed.
-Lemma ct_returned_ctu_lckStuck (x : cctx) v : ct_returned (ctu_lckStuck x v) = ct_returned x. Proof. reflexivity. Qed.
-Lemma ct_pooled_ctu_lckStuck (x : cctx) v : ct_pooled (ctu_lckStuck x v) = ct_pooled x. Proof. reflexivity. Qed.
-Lemma ct_lckStuck_ctu_lckStuck (x : cctx) v : ct_lckStuck (ctu_lckStuck x v) = v. Proof. reflexivity. Qed.
-Lemma pb_id_pbu_id (x : cpending) v : pb_id (pbu_id x v) = v. Proof. reflexivity. Qed.
-Lemma pb_tag_pbu_id (x : cpending) v : pb_tag (pbu_id x v) = pb_tag x. Proof. reflexivity. Qed.
-Lemma pb_body_pbu_id (x : cpending) v : pb_body (pbu_id x v) = pb_body x. Proof. reflexivity. Qed.
-Lemma pb_window_pbu_id (x : cpending) v : pb_window (pbu_id x v) = pb_window x. Proof. reflexivity. Qed.
-Lemma pb_stream_pbu_id (x : cpending) v : pb_stream (pbu_id x v) = pb_stream x. Proof. reflexivity. Qed.
-Lemma pb_size_pbu_id (x : cpending) v : pb_size (pbu_id x v) = pb_size x. Proof. reflexivity. Qed.
-Lemma pb_read_pbu_id (x : cpending) v : pb_read (pbu_id x v) = pb_read x. Proof. reflexivity. Qed.
-Lemma pb_drained_pbu_id (x : cpending) v : pb_drained (pbu_id x v) = pb_drained x. Proof. reflexivity. Qed.
-Lemma pb_id_pbu_tag (x : cpending) v : pb_id (pbu_tag x v) = pb_id x. Proof. reflexivity. Qed.
-Lemma pb_tag_pbu_tag (x : cpending) v : pb_tag (pbu_tag x v) = v. Proof. reflexivity. Qed.
-Lemma pb_body_pbu_tag (x : cpending) v : pb_body (pbu_tag x v) = pb_body x. Proof. reflexivity. Qed.
-Lemma pb_window_pbu_tag (x : cpending) v : pb_window (pbu_tag x v) = pb_window x. Proof. reflexivity. Qed.
-Lemma pb_stream_pbu_tag (x : cpending) v : pb_stream (pbu_tag x v) = pb_stream x. Proof. reflexivity. Qed.
-Lemma pb_size_pbu_tag (x : cpending) v : pb_size (pbu_tag x v) = pb_size x. Proof. reflexivity. Qed.
-Lemma pb_read_pbu_tag (x : cpending) v : pb_read (pbu_tag x v) = pb_read x. Proof. reflexivity. Qed.
-Lemma pb_drained_pbu_tag (x : cpending) v : pb_drained (pbu_tag x v) = pb_drained x. Proof. reflexivity. Qed.
-Lemma pb_id_pbu_body (x : cpending) v : pb_id (pbu_body x v) = pb_id x. Proof. reflexivity. Qed.
-Lemma pb_tag_pbu_body (x : cpending) v : pb_tag (pbu_body x v) = pb_tag x. Proof. reflexivity. Qed.
-Lemma pb_body_pbu_body (x : cpending) v : pb_body (pbu_body x v) = v. Proof. reflexivity. Qed.
-Lemma pb_window_pbu_body (x : cpending) v : pb_window (pbu_body x v) = pb_window x. Proof. reflexivity. Qed.
-Lemma pb_stream_pbu_body (x : cpending) v : pb_stream (pbu_body x v) = pb_stream x. Proof. reflexivity. Qed.
-Lemma pb_size_pbu_body (x : cpending) v : pb_size (pbu_body x v) = pb_size x. Proof. reflexivity. Qed.
-Lemma pb_read_pbu_body (x : cpending) v : pb_read (pbu_body x v) = pb_read x. Proof. reflexivity. Qed.
-Lemma pb_drained_pbu_body (x : cpending) v : pb_drained (pbu_body x v) = pb_drained x. Proof. reflexivity. Qed.
-Lemma pb_id_pbu_window (x : cpending) v : pb_id (pbu_window x v) = pb_id x. Proof. reflexivity. Qed.
-Lemma pb_tag_pbu_window (x : cpending) v : pb_tag (pbu_window x v) = pb_tag x. Proof. reflexivity. Qed.
-Lemma pb_body_pbu_window (x : cpending) v : pb_body (pbu_window x v) = pb_body x. Proof. reflexivity. Qed.
-Lemma pb_window_pbu_window (x : cpending) v : pb_window (pbu_window x v) = v. Proof. reflexivity. Qed.
-Lemma pb_stream_pbu_window (x : cpending) v : pb_stream (pbu_window x v) = pb_stream x. Proof. reflexivity. Qed.
-Lemma pb_size_pbu_window (x : cpending) v : pb_size (pbu_window x v) = pb_size x. Proof. reflexivity. Qed.
-Lemma pb_read_pbu_window (x : cpending) v : pb_read (pbu_window x v) = pb_read x. Proof. reflexivity. Qed.
-Lemma pb_drained_pbu_window (x : cpending) v : pb_drained (pbu_window x v) = pb_drained x. Proof. reflexivity. Qed.
-Lemma pb_id_pbu_stream (x : cpending) v : pb_id (pbu_stream x v) = pb_id x. Proof. reflexivity. Qed.
-Lemma pb_tag_pbu_stream (x : cpending) v : pb_tag (pbu_stream x v) = pb_tag x. Proof. reflexivity. Qed.
-Lemma pb_body_pbu_stream (x : cpending) v : pb_body (pbu_stream x v) = pb_body x. Proof. reflexivity. Qed.
-Lemma pb_window_pbu_stream (x : cpending) v : pb_window (pbu_stream x v) = pb_window x. Proof. reflexivity. Qed.
-Lemma pb_stream_pbu_stream (x : cpending) v : pb_stream (pbu_stream x v) = v. Proof. reflexivity. Qed.
-Lemma pb_size_pbu_stream (x : cpending) v : pb_size (pbu_stream x v) = pb_size x. Proof. reflexivity. Qed.
-Lemma pb_read_pbu_stream (x : cpending) v : pb_read (pbu_stream x v) = pb_read x. Proof. reflexivity. Qed.
-Lemma pb_drained_pbu_stream (x : cpending) v : pb_drained (pbu_stream x v) = pb_drained x. Proof. reflexivity. Qed.
-Lemma pb_id_pbu_size (x : cpending) v : pb_id (pbu_size x v) = pb_id x. Proof. reflexivity. Qed.
-Lemma pb_tag_pbu_size (x : cpending) v : pb_tag (pbu_size x v) = pb_tag x. Proof. reflexivity. Qed.
-Lemma pb_body_pbu_size (x : cpending) v : pb_body (pbu_size x v) = pb_body x. Proof. reflexivity. Qed.
-Lemma pb_window_pbu_size (x : cpending) v : pb_window (pbu_size x v) = pb_window x. Proof. reflexivity. Qed.
-Lemma pb_stream_pbu_size (x : cpending) v : pb_stream (pbu_size x v) = pb_stream x. Proof. reflexivity. Qed.
-Lemma pb_size_pbu_size (x : cpending) v : pb_size (pbu_size x v) = v. Proof. reflexivity. Qed.
-Lemma pb_read_pbu_size (x : cpending) v : pb_read (pbu_size x v) = pb_read x. Proof. reflexivity. Qed.
-Lemma pb_drained_pbu_size (x : cpending) v : pb_drained (pbu_size x v) = pb_drained x. Proof. reflexivity. Qed.
-Lemma pb_id_pbu_read (x : cpending) v : pb_id (pbu_read x v) = pb_id x. Proof. reflexivity. Qed.
-Lemma pb_tag_pbu_read (x : cpending) v : pb_tag (pbu_read x v) = pb_tag x. Proof. reflexivity. Qed.
-Lemma pb_body_pbu_read (x : cpending) v : pb_body (pbu_read x v) = pb_body x. Proof. reflexivity. Qed.
-Lemma pb_window_pbu_read (x : cpending) v : pb_window (pbu_read x v) = pb_window x. Proof. reflexivity. Qed.
-Lemma pb_stream_pbu_read (x : cpending) v : pb_stream (pbu_read x v) = pb_stream x. Proof. reflexivity. Qed.
-Lemma pb_size_pbu_read (x : cpending) v : pb_size (pbu_read x v) = pb_size x. Proof. reflexivity. Qed.
-Lemma pb_read_pbu_read (x : cpending) v : pb_read (pbu_read x v) = v. Proof. reflexivity. Qed.
-Lemma pb_drained_pbu_read (x : cpending) v : pb_drained (pbu_read x v) = pb_drained x. Proof. reflexivity. Qed.
-Lemma pb_id_pbu_drained (x : cpending) v : pb_id (pbu_drained x v) = pb_id x. Proof. reflexivity. Qed.
-Lemma pb_tag_pbu_drained (x : cpending) v : pb_tag (pbu_drained x v) = pb_tag x. Proof. reflexivity. Qed.
-Lemma pb_body_pbu_drained (x : cpending) v : pb_body (pbu_drained x v) = pb_body x. Proof. reflexivity. Qed.
-Lemma pb_window_pbu_drained (x : cpending) v : pb_window (pbu_drained x v) = pb_window x. Proof. reflexivity. Qed.
-Lemma pb_stream_pbu_drained (x : cpending) v : pb_stream (pbu_drained x v) = pb_stream x. Proof. reflexivity. Qed.
-Lemma pb_size_pbu_drained (x : cpending) v : pb_size (pbu_drained x v) = pb_size x. Proof. reflexivity. Qed.
-Lemma pb_read_pbu_drained (x : cpending) v : pb_read (pbu_drained x v) = pb_read x. Proof. reflexivity. Qed.
-Lemma pb_drained_pbu_drained (x : cpending) v : pb_drained (pbu_drained x v) = v. Proof. reflexivity. Qed.
-(* END GENERATED upd *)
-(* BEGIN GENERATED fun (tools/gen_clibase.sh) *)
-Lemma cc_ctxs_cl_note (c : cconn hstate) o : cc_ctxs (cl_note c o) = cc_ctxs c. Proof. cc_unf. Qed.
-Lemma cc_nextID_cl_note (c : cconn hstate) o : cc_nextID (cl_note c o) = cc_nextID c. Proof. cc_unf. Qed.
-Lemma cc_open_cl_note (c : cconn hstate) o : cc_open (cl_note c o) = cc_open c. Proof. cc_unf. Qed.
-Lemma cc_maxStreams_cl_note (c : cconn hstate) o : cc_maxStreams (cl_note c o) = cc_maxStreams c. Proof. cc_unf. Qed.
-Lemma cc_maxFrame_cl_note (c : cconn hstate) o : cc_maxFrame (cl_note c o) = cc_maxFrame c. Proof. cc_unf. Qed.
-Lemma cc_goAway_cl_note (c : cconn hstate) o : cc_goAway (cl_note c o) = cc_goAway c. Proof. cc_unf. Qed.
-Lemma cc_closed_cl_note (c : cconn hstate) o : cc_closed (cl_note c o) = cc_closed c. Proof. cc_unf. Qed.
-Lemma cc_closing_cl_note (c : cconn hstate) o : cc_closing (cl_note c o) = cc_closing c. Proof. cc_unf. Qed.
-Lemma cc_netClosed_cl_note (c : cconn hstate) o : cc_netClosed (cl_note c o) = cc_netClosed c. Proof. cc_unf. Qed.
-Lemma cc_writeFail_cl_note (c : cconn hstate) o : cc_writeFail (cl_note c o) = cc_writeFail c. Proof. cc_unf. Qed.
-Lemma cc_enc_cl_note (c : cconn hstate) o : cc_enc (cl_note c o) = cc_enc c. Proof. cc_unf. Qed.
-Lemma cc_encTableSize_cl_note (c : cconn hstate) o : cc_encTableSize (cl_note c o) = cc_encTableSize c. Proof. cc_unf. Qed.
-Lemma cc_encTableSeen_cl_note (c : cconn hstate) o : cc_encTableSeen (cl_note c o) = cc_encTableSeen c. Proof. cc_unf. Qed.
-Lemma cc_dec_cl_note (c : cconn hstate) o : cc_dec (cl_note c o) = cc_dec c. Proof. cc_unf. Qed.
-Lemma cc_currentWindow_cl_note (c : cconn hstate) o : cc_currentWindow (cl_note c o) = cc_currentWindow c. Proof. cc_unf. Qed.
-Lemma cc_serverS_cl_note (c : cconn hstate) o : cc_serverS (cl_note c o) = cc_serverS c. Proof. cc_unf. Qed.
-Lemma cc_hdrStream_cl_note (c : cconn hstate) o : cc_hdrStream (cl_note c o) = cc_hdrStream c. Proof. cc_unf. Qed.
-Lemma cc_hdrPrev_cl_note (c : cconn hstate) o : cc_hdrPrev (cl_note c o) = cc_hdrPrev c. Proof. cc_unf. Qed.
-Lemma cc_hdrFields_cl_note (c : cconn hstate) o : cc_hdrFields (cl_note c o) = cc_hdrFields c. Proof. cc_unf. Qed.
-Lemma cc_hdrEndStream_cl_note (c : cconn hstate) o : cc_hdrEndStream (cl_note c o) = cc_hdrEndStream c. Proof. cc_unf. Qed.
-Lemma cc_hdrRegularSeen_cl_note (c : cconn hstate) o : cc_hdrRegularSeen (cl_note c o) = cc_hdrRegularSeen c. Proof. cc_unf. Qed.
-Lemma cc_hdrStatus_cl_note (c : cconn hstate) o : cc_hdrStatus (cl_note c o) = cc_hdrStatus c. Proof. cc_unf. Qed.
-Lemma cc_hdrErr_cl_note (c : cconn hstate) o : cc_hdrErr (cl_note c o) = cc_hdrErr c. Proof. cc_unf. Qed.
-Lemma cc_stateClosed_cl_note (c : cconn hstate) o : cc_stateClosed (cl_note c o) = cc_stateClosed c. Proof. cc_unf. Qed.
-Lemma cc_closeRef_cl_note (c : cconn hstate) o : cc_closeRef (cl_note c o) = cc_closeRef c. Proof. cc_unf. Qed.
-Lemma cc_reqQueued_cl_note (c : cconn hstate) o : cc_reqQueued (cl_note c o) = cc_reqQueued c. Proof. cc_unf. Qed.
-Lemma cc_pending_cl_note (c : cconn hstate) o : cc_pending (cl_note c o) = cc_pending c. Proof. cc_unf. Qed.
-Lemma cc_connWindow_cl_note (c : cconn hstate) o : cc_connWindow (cl_note c o) = cc_connWindow c. Proof. cc_unf. Qed.
-Lemma cc_streamWindow_cl_note (c : cconn hstate) o : cc_streamWindow (cl_note c o) = cc_streamWindow c. Proof. cc_unf. Qed.
-Lemma cc_inQ_cl_note (c : cconn hstate) o : cc_inQ (cl_note c o) = cc_inQ c. Proof. cc_unf. Qed.
-Lemma cc_outQ_cl_note (c : cconn hstate) o : cc_outQ (cl_note c o) = cc_outQ c. Proof. cc_unf. Qed.
-Lemma cc_winCh_cl_note (c : cconn hstate) o : cc_winCh (cl_note c o) = cc_winCh c. Proof. cc_unf. Qed.
-Lemma cc_lastErr_cl_note (c : cconn hstate) o : cc_lastErr (cl_note c o) = cc_lastErr c. Proof. cc_unf. Qed.
-Lemma cc_unacks_cl_note (c : cconn hstate) o : cc_unacks (cl_note c o) = cc_unacks c. Proof. cc_unf. Qed.
-Lemma cc_rl_done_cl_note (c : cconn hstate) o : cc_rl_done (cl_note c o) = cc_rl_done c. Proof. cc_unf. Qed.
-Lemma cc_wl_done_cl_note (c : cconn hstate) o : cc_wl_done (cl_note c o) = cc_wl_done c. Proof. cc_unf. Qed.
-Lemma cc_rl_stuck_cl_note (c : cconn hstate) o : cc_rl_stuck (cl_note c o) = cc_rl_stuck c. Proof. cc_unf. Qed.
-Lemma cc_wl_stuck_cl_note (c : cconn hstate) o : cc_wl_stuck (cl_note c o) = cc_wl_stuck c. Proof. cc_unf. Qed.
-Lemma cc_ctxs_cl_notes (c : cconn hstate) l : cc_ctxs (cl_notes c l) = cc_ctxs c. Proof. cc_unf. Qed.
-Lemma cc_nextID_cl_notes (c : cconn hstate) l : cc_nextID (cl_notes c l) = cc_nextID c. Proof. cc_unf. Qed.
-Lemma cc_open_cl_notes (c : cconn hstate) l : cc_open (cl_notes c l) = cc_open c. Proof. cc_unf. Qed.
-Lemma cc_maxStreams_cl_notes (c : cconn hstate) l : cc_maxStreams (cl_notes c l) = cc_maxStreams c. Proof. cc_unf. Qed.
-Lemma cc_maxFrame_cl_notes (c : cconn hstate) l : cc_maxFrame (cl_notes c l) = cc_maxFrame c. Proof. cc_unf. Qed.
-Lemma cc_goAway_cl_notes (c : cconn hstate) l : cc_goAway (cl_notes c l) = cc_goAway c. Proof. cc_unf. Qed.
-Lemma cc_closed_cl_notes (c : cconn hstate) l : cc_closed (cl_notes c l) = cc_closed c. Proof. cc_unf. Qed.
-Lemma cc_closing_cl_notes (c : cconn hstate) l : cc_closing (cl_notes c l) = cc_closing c. Proof. cc_unf. Qed.
-Lemma cc_netClosed_cl_notes (c : cconn hstate) l : cc_netClosed (cl_notes c l) = cc_netClosed c. Proof. cc_unf. Qed.
-Lemma cc_writeFail_cl_notes (c : cconn hstate) l : cc_writeFail (cl_notes c l) = cc_writeFail c. Proof. cc_unf. Qed.
-Lemma cc_enc_cl_notes (c : cconn hstate) l : cc_enc (cl_notes c l) = cc_enc c. Proof. cc_unf. Qed.
-Lemma cc_encTableSize_cl_notes (c : cconn hstate) l : cc_encTableSize (cl_notes c l) = cc_encTableSize c. Proof. cc_unf. Qed.
-Lemma cc_encTableSeen_cl_notes (c : cconn hstate) l : cc_encTableSeen (cl_notes c l) = cc_encTableSeen c. Proof. cc_unf. Qed.
-Lemma cc_dec_cl_notes (c : cconn hstate) l : cc_dec (cl_notes c l) = cc_dec c. Proof. cc_unf. Qed.
-Lemma cc_currentWindow_cl_notes (c : cconn hstate) l : cc_currentWindow (cl_notes c l) = cc_currentWindow c. Proof. cc_unf. Qed.
-Lemma cc_serverS_cl_notes (c : cconn hstate) l : cc_serverS (cl_notes c l) = cc_serverS c. Proof. cc_unf. Qed.
-Lemma cc_hdrStream_cl_notes (c : cconn hstate) l : cc_hdrStream (cl_notes c l) = cc_hdrStream c. Proof. cc_unf. Qed.
-Lemma cc_hdrPrev_cl_notes (c : cconn hstate) l : cc_hdrPrev (cl_notes c l) = cc_hdrPrev c. Proof. cc_unf. Qed.
-Lemma cc_hdrFields_cl_notes (c : cconn hstate) l : cc_hdrFields (cl_notes c l) = cc_hdrFields c. Proof. cc_unf. Qed.
-Lemma cc_hdrEndStream_cl_notes (c : cconn hstate) l : cc_hdrEndStream (cl_notes c l) = cc_hdrEndStream c. Proof. cc_unf. Qed.
-Lemma cc_hdrRegularSeen_cl_notes (c : cconn hstate) l : cc_hdrRegularSeen (cl_notes c l) = cc_hdrRegularSeen c. Proof. cc_unf. Qed.
-Lemma cc_hdrStatus_cl_notes (c : cconn hstate) l : cc_hdrStatus (cl_notes c l) = cc_hdrStatus c. Proof. cc_unf. Qed.
-Lemma cc_hdrErr_cl_notes (c : cconn hstate) l : cc_hdrErr (cl_notes c l) = cc_hdrErr c. Proof. cc_unf. Qed.
-Lemma cc_stateClosed_cl_notes (c : cconn hstate) l : cc_stateClosed (cl_notes c l) = cc_stateClosed c. Proof. cc_unf. Qed.
-Lemma cc_closeRef_cl_notes (c : cconn hstate) l : cc_closeRef (cl_notes c l) = cc_closeRef c. Proof. cc_unf. Qed.
-Lemma cc_reqQueued_cl_notes (c : cconn hstate) l : cc_reqQueued (cl_notes c l) = cc_reqQueued c. Proof. cc_unf. Qed.
-Lemma cc_pending_cl_notes (c : cconn hstate) l : cc_pending (cl_notes c l) = cc_pending c. Proof. cc_unf. Qed.
-Lemma cc_connWindow_cl_notes (c : cconn hstate) l : cc_connWindow (cl_notes c l) = cc_connWindow c. Proof. cc_unf. Qed.
-Lemma cc_streamWindow_cl_notes (c : cconn hstate) l : cc_streamWindow (cl_notes c l) = cc_streamWindow c. Proof. cc_unf. Qed.
-Lemma cc_inQ_cl_notes (c : cconn hstate) l : cc_inQ (cl_notes c l) = cc_inQ c. Proof. cc_unf. Qed.
-Lemma cc_outQ_cl_notes (c : cconn hstate) l : cc_outQ (cl_notes c l) = cc_outQ c. Proof. cc_unf. Qed.
-Lemma cc_winCh_cl_notes (c : cconn hstate) l : cc_winCh (cl_notes c l) = cc_winCh c. Proof. cc_unf. Qed.
-Lemma cc_lastErr_cl_notes (c : cconn hstate) l : cc_lastErr (cl_notes c l) = cc_lastErr c. Proof. cc_unf. Qed.
-Lemma cc_unacks_cl_notes (c : cconn hstate) l : cc_unacks (cl_notes c l) = cc_unacks c. Proof. cc_unf. Qed.
-Lemma cc_rl_done_cl_notes (c : cconn hstate) l : cc_rl_done (cl_notes c l) = cc_rl_done c. Proof. cc_unf. Qed.
-Lemma cc_wl_done_cl_notes (c : cconn hstate) l : cc_wl_done (cl_notes c l) = cc_wl_done c. Proof. cc_unf. Qed.
-Lemma cc_rl_stuck_cl_notes (c : cconn hstate) l : cc_rl_stuck (cl_notes c l) = cc_rl_stuck c. Proof. cc_unf. Qed.
-Lemma cc_wl_stuck_cl_notes (c : cconn hstate) l : cc_wl_stuck (cl_notes c l) = cc_wl_stuck c. Proof. cc_unf. Qed.
-Lemma cc_nextID_cl_ctx_put (c : cconn hstate) x : cc_nextID (cl_ctx_put c x) = cc_nextID c. Proof. cc_unf. Qed.
-Lemma cc_open_cl_ctx_put (c : cconn hstate) x : cc_open (cl_ctx_put c x) = cc_open c. Proof. cc_unf. Qed.
-Lemma cc_maxStreams_cl_ctx_put (c : cconn hstate) x : cc_maxStreams (cl_ctx_put c x) = cc_maxStreams c. Proof. cc_unf. Qed.
-Lemma cc_maxFrame_cl_ctx_put (c : cconn hstate) x : cc_maxFrame (cl_ctx_put c x) = cc_maxFrame c. Proof. cc_unf. Qed.
-Lemma cc_goAway_cl_ctx_put (c : cconn hstate) x : cc_goAway (cl_ctx_put c x) = cc_goAway c. Proof. cc_unf. Qed.
-Lemma cc_closed_cl_ctx_put (c : cconn hstate) x : cc_closed (cl_ctx_put c x) = cc_closed c. Proof. cc_unf. Qed.
-Lemma cc_closing_cl_ctx_put (c : cconn hstate) x : cc_closing (cl_ctx_put c x) = cc_closing c. Proof. cc_unf. Qed.
-Lemma cc_netClosed_cl_ctx_put (c : cconn hstate) x : cc_netClosed (cl_ctx_put c x) = cc_netClosed c. Proof. cc_unf. Qed.
-Lemma cc_writeFail_cl_ctx_put (c : cconn hstate) x : cc_writeFail (cl_ctx_put c x) = cc_writeFail c. Proof. cc_unf. Qed.
-Lemma cc_enc_cl_ctx_put (c : cconn hstate) x : cc_enc (cl_ctx_put c x) = cc_enc c. Proof. cc_unf. Qed.
-Lemma cc_encTableSize_cl_ctx_put (c : cconn hstate) x : cc_encTableSize (cl_ctx_put c x) = cc_encTableSize c. Proof. cc_unf. Qed.
-Lemma cc_encTableSeen_cl_ctx_put (c : cconn hstate) x : cc_encTableSeen (cl_ctx_put c x) = cc_encTableSeen c. Proof. cc_unf. Qed.
-Lemma cc_dec_cl_ctx_put (c : cconn hstate) x : cc_dec (cl_ctx_put c x) = cc_dec c. Proof. cc_unf. Qed.
-Lemma cc_currentWindow_cl_ctx_put (c : cconn hstate) x : cc_currentWindow (cl_ctx_put c x) = cc_currentWindow c. Proof. cc_unf. Qed.
-Lemma cc_serverS_cl_ctx_put (c : cconn hstate) x : cc_serverS (cl_ctx_put c x) = cc_serverS c. Proof. cc_unf. Qed.
-Lemma cc_hdrStream_cl_ctx_put (c : cconn hstate) x : cc_hdrStream (cl_ctx_put c x) = cc_hdrStream c. Proof. cc_unf. Qed.
-Lemma cc_hdrPrev_cl_ctx_put (c : cconn hstate) x : cc_hdrPrev (cl_ctx_put c x) = cc_hdrPrev c. Proof. cc_unf. Qed.
-Lemma cc_hdrFields_cl_ctx_put (c : cconn hstate) x : cc_hdrFields (cl_ctx_put c x) = cc_hdrFields c. Proof. cc_unf. Qed.
-Lemma cc_hdrEndStream_cl_ctx_put (c : cconn hstate) x : cc_hdrEndStream (cl_ctx_put c x) = cc_hdrEndStream c. Proof. cc_unf. Qed.
-Lemma cc_hdrRegularSeen_cl_ctx_put (c : cconn hstate) x : cc_hdrRegularSeen (cl_ctx_put c x) = cc_hdrRegularSeen c. Proof. cc_unf. Qed.
-Lemma cc_hdrStatus_cl_ctx_put (c : cconn hstate) x : cc_hdrStatus (cl_ctx_put c x) = cc_hdrStatus c. Proof. cc_unf. Qed.
-Lemma cc_hdrErr_cl_ctx_put (c : cconn hstate) x : cc_hdrErr (cl_ctx_put c x) = cc_hdrErr c. Proof. cc_unf. Qed.
-Lemma cc_stateClosed_cl_ctx_put (c : cconn hstate) x : cc_stateClosed (cl_ctx_put c x) = cc_stateClosed c. Proof. cc_unf. Qed.
-Lemma cc_closeRef_cl_ctx_put (c : cconn hstate) x : cc_closeRef (cl_ctx_put c x) = cc_closeRef c. Proof. cc_unf. Qed.
-Lemma cc_reqQueued_cl_ctx_put (c : cconn hstate) x : cc_reqQueued (cl_ctx_put c x) = cc_reqQueued c. Proof. cc_unf. Qed.
-Lemma cc_pending_cl_ctx_put (c : cconn hstate) x : cc_pending (cl_ctx_put c x) = cc_pending c. Proof. cc_unf. Qed.
-Lemma cc_connWindow_cl_ctx_put (c : cconn hstate) x : cc_connWindow (cl_ctx_put c x) = cc_connWindow c. Proof. cc_unf. Qed.
-Lemma cc_streamWindow_cl_ctx_put (c : cconn hstate) x : cc_streamWindow (cl_ctx_put c x) = cc_streamWindow c. Proof. cc_unf. Qed.
-Lemma cc_inQ_cl_ctx_put (c : cconn hstate) x : cc_inQ (cl_ctx_put c x) = cc_inQ c. Proof. cc_unf. Qed.
-Lemma cc_outQ_cl_ctx_put (c : cconn hstate) x : cc_outQ (cl_ctx_put c x) = cc_outQ c. Proof. cc_unf. Qed.
-Lemma cc_winCh_cl_ctx_put (c : cconn hstate) x : cc_winCh (cl_ctx_put c x) = cc_winCh c. Proof. cc_unf. Qed.
-Lemma cc_lastErr_cl_ctx_put (c : cconn hstate) x : cc_lastErr (cl_ctx_put c x) = cc_lastErr c. Proof. cc_unf. Qed.
-Lemma cc_unacks_cl_ctx_put (c : cconn hstate) x : cc_unacks (cl_ctx_put c x) = cc_unacks c. Proof. cc_unf. Qed.
-Lemma cc_rl_done_cl_ctx_put (c : cconn hstate) x : cc_rl_done (cl_ctx_put c x) = cc_rl_done c. Proof. cc_unf. Qed.
-Lemma cc_wl_done_cl_ctx_put (c : cconn hstate) x : cc_wl_done (cl_ctx_put c x) = cc_wl_done c. Proof. cc_unf. Qed.
-Lemma cc_rl_stuck_cl_ctx_put (c : cconn hstate) x : cc_rl_stuck (cl_ctx_put c x) = cc_rl_stuck c. Proof. cc_unf. Qed.
-Lemma cc_wl_stuck_cl_ctx_put (c : cconn hstate) x : cc_wl_stuck (cl_ctx_put c x) = cc_wl_stuck c. Proof. cc_unf. Qed.
-Lemma cc_out_cl_ctx_put (c : cconn hstate) x : cc_out (cl_ctx_put c x) = cc_out c. Proof. cc_unf. Qed.
-Lemma cc_nextID_cl_ctx_upd (c : cconn hstate) tag f : cc_nextID (cl_ctx_upd c tag f) = cc_nextID c. Proof. cc_unf. Qed.
-Lemma cc_open_cl_ctx_upd (c : cconn hstate) tag f : cc_open (cl_ctx_upd c tag f) = cc_open c. Proof. cc_unf. Qed.
-Lemma cc_maxStreams_cl_ctx_upd (c : cconn hstate) tag f : cc_maxStreams (cl_ctx_upd c tag f) = cc_maxStreams c. Proof. cc_unf. Qed.
-Lemma cc_maxFrame_cl_ctx_upd (c : cconn hstate) tag f : cc_maxFrame (cl_ctx_upd c tag f) = cc_maxFrame c. Proof. cc_unf. Qed.
-Lemma cc_goAway_cl_ctx_upd (c : cconn hstate) tag f : cc_goAway (cl_ctx_upd c tag f) = cc_goAway c. Proof. cc_unf. Qed.
-Lemma cc_closed_cl_ctx_upd (c : cconn hstate) tag f : cc_closed (cl_ctx_upd c tag f) = cc_closed c. Proof. cc_unf. Qed.
-Lemma cc_closing_cl_ctx_upd (c : cconn hstate) tag f : cc_closing (cl_ctx_upd c tag f) = cc_closing c. Proof. cc_unf. Qed.
-Lemma cc_netClosed_cl_ctx_upd (c : cconn hstate) tag f : cc_netClosed (cl_ctx_upd c tag f) = cc_netClosed c. Proof. cc_unf. Qed.
-Lemma cc_writeFail_cl_ctx_upd (c : cconn hstate) tag f : cc_writeFail (cl_ctx_upd c tag f) = cc_writeFail c. Proof. cc_unf. Qed.
-Lemma cc_enc_cl_ctx_upd (c : cconn hstate) tag f : cc_enc (cl_ctx_upd c tag f) = cc_enc c. Proof. cc_unf. Qed.
-Lemma cc_encTableSize_cl_ctx_upd (c : cconn hstate) tag f : cc_encTableSize (cl_ctx_upd c tag f) = cc_encTableSize c. Proof. cc_unf. Qed.
-Lemma cc_encTableSeen_cl_ctx_upd (c : cconn hstate) tag f : cc_encTableSeen (cl_ctx_upd c tag f) = cc_encTableSeen c. Proof. cc_unf. Qed.
-Lemma cc_dec_cl_ctx_upd (c : cconn hstate) tag f : cc_dec (cl_ctx_upd c tag f) = cc_dec c. Proof. cc_unf. Qed.
-Lemma cc_currentWindow_cl_ctx_upd (c : cconn hstate) tag f : cc_currentWindow (cl_ctx_upd c tag f) = cc_currentWindow c. Proof. cc_unf. Qed.
-Lemma cc_serverS_cl_ctx_upd (c : cconn hstate) tag f : cc_serverS (cl_ctx_upd c tag f) = cc_serverS c. Proof. cc_unf. Qed.
-Lemma cc_hdrStream_cl_ctx_upd (c : cconn hstate) tag f : cc_hdrStream (cl_ctx_upd c tag f) = cc_hdrStream c. Proof. cc_unf. Qed.
-Lemma cc_hdrPrev_cl_ctx_upd (c : cconn hstate) tag f : cc_hdrPrev (cl_ctx_upd c tag f) = cc_hdrPrev c. Proof. cc_unf. Qed.
-Lemma cc_hdrFields_cl_ctx_upd (c : cconn hstate) tag f : cc_hdrFields (cl_ctx_upd c tag f) = cc_hdrFields c. Proof. cc_unf. Qed.
-Lemma cc_hdrEndStream_cl_ctx_upd (c : cconn hstate) tag f : cc_hdrEndStream (cl_ctx_upd c tag f) = cc_hdrEndStream c. Proof. cc_unf. Qed.
-Lemma cc_hdrRegularSeen_cl_ctx_upd (c : cconn hstate) tag f : cc_hdrRegularSeen (cl_ctx_upd c tag f) = cc_hdrRegularSeen c. Proof. cc_unf. Qed.
-Lemma cc_hdrStatus_cl_ctx_upd (c : cconn hstate) tag f : cc_hdrStatus (cl_ctx_upd c tag f) = cc_hdrStatus c. Proof. cc_unf. Qed.
-Lemma cc_hdrErr_cl_ctx_upd (c : cconn hstate) tag f : cc_hdrErr (cl_ctx_upd c tag f) = cc_hdrErr c. Proof. cc_unf. Qed.
-Lemma cc_stateClosed_cl_ctx_upd (c : cconn hstate) tag f : cc_stateClosed (cl_ctx_upd c tag f) = cc_stateClosed c. Proof. cc_unf. Qed.
-Lemma cc_closeRef_cl_ctx_upd (c : cconn hstate) tag f : cc_closeRef (cl_ctx_upd c tag f) = cc_closeRef c. Proof. cc_unf. Qed.
-Lemma cc_reqQueued_cl_ctx_upd (c : cconn hstate) tag f : cc_reqQueued (cl_ctx_upd c tag f) = cc_reqQueued c. Proof. cc_unf. Qed.
-Lemma cc_pending_cl_ctx_upd (c : cconn hstate) tag f : cc_pending (cl_ctx_upd c tag f) = cc_pending c. Proof. cc_unf. Qed.
-Lemma cc_connWindow_cl_ctx_upd (c : cconn hstate) tag f : cc_connWindow (cl_ctx_upd c tag f) = cc_connWindow c. Proof. cc_unf. Qed.
-Lemma cc_streamWindow_cl_ctx_upd (c : cconn hstate) tag f : cc_streamWindow (cl_ctx_upd c tag f) = cc_streamWindow c. Proof. cc_unf. Qed.
-Lemma cc_inQ_cl_ctx_upd (c : cconn hstate) tag f : cc_inQ (cl_ctx_upd c tag f) = cc_inQ c. Proof. cc_unf. Qed.
-Lemma cc_outQ_cl_ctx_upd (c : cconn hstate) tag f : cc_outQ (cl_ctx_upd c tag f) = cc_outQ c. Proof. cc_unf. Qed.
-Lemma cc_winCh_cl_ctx_upd (c : cconn hstate) tag f : cc_winCh (cl_ctx_upd c tag f) = cc_winCh c. Proof. cc_unf. Qed.
-Lemma cc_lastErr_cl_ctx_upd (c : cconn hstate) tag f : cc_lastErr (cl_ctx_upd c tag f) = cc_lastErr c. Proof. cc_unf. Qed.
-Lemma cc_unacks_cl_ctx_upd (c : cconn hstate) tag f : cc_unacks (cl_ctx_upd c tag f) = cc_unacks c. Proof. cc_unf. Qed.
-Lemma cc_rl_done_cl_ctx_upd (c : cconn hstate) tag f : cc_rl_done (cl_ctx_upd c tag f) = cc_rl_done c. Proof. cc_unf. Qed.
-Lemma cc_wl_done_cl_ctx_upd (c : cconn hstate) tag f : cc_wl_done (cl_ctx_upd c tag f) = cc_wl_done c. Proof. cc_unf. Qed.
-Lemma cc_rl_stuck_cl_ctx_upd (c : cconn hstate) tag f : cc_rl_stuck (cl_ctx_upd c tag f) = cc_rl_stuck c. Proof. cc_unf. Qed.
-Lemma cc_wl_stuck_cl_ctx_upd (c : cconn hstate) tag f : cc_wl_stuck (cl_ctx_upd c tag f) = cc_wl_stuck c. Proof. cc_unf. Qed.
-Lemma cc_out_cl_ctx_upd (c : cconn hstate) tag f : cc_out (cl_ctx_upd c tag f) = cc_out c. Proof. cc_unf. Qed.
-Lemma cc_nextID_cl_resolve (c : cconn hstate) tag e : cc_nextID (cl_resolve c tag e) = cc_nextID c. Proof. cc_unf. Qed.
-Lemma cc_open_cl_resolve (c : cconn hstate) tag e : cc_open (cl_resolve c tag e) = cc_open c. Proof. cc_unf. Qed.
-Lemma cc_maxStreams_cl_resolve (c : cconn hstate) tag e : cc_maxStreams (cl_resolve c tag e) = cc_maxStreams c. Proof. cc_unf. Qed.
-Lemma cc_maxFrame_cl_resolve (c : cconn hstate) tag e : cc_maxFrame (cl_resolve c tag e) = cc_maxFrame c. Proof. cc_unf. Qed.
-Lemma cc_goAway_cl_resolve (c : cconn hstate) tag e : cc_goAway (cl_resolve c tag e) = cc_goAway c. Proof. cc_unf. Qed.
-Lemma cc_closed_cl_resolve (c : cconn hstate) tag e : cc_closed (cl_resolve c tag e) = cc_closed c. Proof. cc_unf. Qed.
-Lemma cc_closing_cl_resolve (c : cconn hstate) tag e : cc_closing (cl_resolve c tag e) = cc_closing c. Proof. cc_unf. Qed.
-Lemma cc_netClosed_cl_resolve (c : cconn hstate) tag e : cc_netClosed (cl_resolve c tag e) = cc_netClosed c. Proof. cc_unf. Qed.
-Lemma cc_writeFail_cl_resolve (c : cconn hstate) tag e : cc_writeFail (cl_resolve c tag e) = cc_writeFail c. Proof. cc_unf. Qed.
-Lemma cc_enc_cl_resolve (c : cconn hstate) tag e : cc_enc (cl_resolve c tag e) = cc_enc c. Proof. cc_unf. Qed.
-Lemma cc_encTableSize_cl_resolve (c : cconn hstate) tag e : cc_encTableSize (cl_resolve c tag e) = cc_encTableSize c. Proof. cc_unf. Qed.
-Lemma cc_encTableSeen_cl_resolve (c : cconn hstate) tag e : cc_encTableSeen (cl_resolve c tag e) = cc_encTableSeen c. Proof. cc_unf. Qed.
-Lemma cc_dec_cl_resolve (c : cconn hstate) tag e : cc_dec (cl_resolve c tag e) = cc_dec c. Proof. cc_unf. Qed.
-Lemma cc_currentWindow_cl_resolve (c : cconn hstate) tag e : cc_currentWindow (cl_resolve c tag e) = cc_currentWindow c. Proof. cc_unf. Qed.
-Lemma cc_serverS_cl_resolve (c : cconn hstate) tag e : cc_serverS (cl_resolve c tag e) = cc_serverS c. Proof. cc_unf. Qed.
-Lemma cc_hdrStream_cl_resolve (c : cconn hstate) tag e : cc_hdrStream (cl_resolve c tag e) = cc_hdrStream c. Proof. cc_unf. Qed.
-Lemma cc_hdrPrev_cl_resolve (c : cconn hstate) tag e : cc_hdrPrev (cl_resolve c tag e) = cc_hdrPrev c. Proof. cc_unf. Qed.
-Lemma cc_hdrFields_cl_resolve (c : cconn hstate) tag e : cc_hdrFields (cl_resolve c tag e) = cc_hdrFields c. Proof. cc_unf. Qed.
-Lemma cc_hdrEndStream_cl_resolve (c : cconn hstate) tag e : cc_hdrEndStream (cl_resolve c tag e) = cc_hdrEndStream c. Proof. cc_unf. Qed.
-Lemma cc_hdrRegularSeen_cl_resolve (c : cconn hstate) tag e : cc_hdrRegularSeen (cl_resolve c tag e) = cc_hdrRegularSeen c. Proof. cc_unf. Qed.
-Lemma cc_hdrStatus_cl_resolve (c : cconn hstate) tag e : cc_hdrStatus (cl_resolve c tag e) = cc_hdrStatus c. Proof. cc_unf. Qed.
-Lemma cc_hdrErr_cl_resolve (c : cconn hstate) tag e : cc_hdrErr (cl_resolve c tag e) = cc_hdrErr c. Proof. cc_unf. Qed.
-Lemma cc_stateClosed_cl_resolve (c : cconn hstate) tag e : cc_stateClosed (cl_resolve c tag e) = cc_stateClosed c. Proof. cc_unf. Qed.
-Lemma cc_closeRef_cl_resolve (c : cconn hstate) tag e : cc_closeRef (cl_resolve c tag e) = cc_closeRef c. Proof. cc_unf. Qed.
-Lemma cc_reqQueued_cl_resolve (c : cconn hstate) tag e : cc_reqQueued (cl_resolve c tag e) = cc_reqQueued c. Proof. cc_unf. Qed.
-Lemma cc_pending_cl_resolve (c : cconn hstate) tag e : cc_pending (cl_resolve c tag e) = cc_pending c. Proof. cc_unf. Qed.
-Lemma cc_connWindow_cl_resolve (c : cconn hstate) tag e : cc_connWindow (cl_resolve c tag e) = cc_connWindow c. Proof. cc_unf. Qed.
-Lemma cc_streamWindow_cl_resolve (c : cconn hstate) tag e : cc_streamWindow (cl_resolve c tag e) = cc_streamWindow c. Proof. cc_unf. Qed.
-Lemma cc_inQ_cl_resolve (c : cconn hstate) tag e : cc_inQ (cl_resolve c tag e) = cc_inQ c. Proof. cc_unf. Qed.
-Lemma cc_outQ_cl_resolve (c : cconn hstate) tag e : cc_outQ (cl_resolve c tag e) = cc_outQ c. Proof. cc_unf. Qed.
-Lemma cc_winCh_cl_resolve (c : cconn hstate) tag e : cc_winCh (cl_resolve c tag e) = cc_winCh c. Proof. cc_unf. Qed.
-Lemma cc_lastErr_cl_resolve (c : cconn hstate) tag e : cc_lastErr (cl_resolve c tag e) = cc_lastErr c. Proof. cc_unf. Qed.
-Lemma cc_unacks_cl_resolve (c : cconn hstate) tag e : cc_unacks (cl_resolve c tag e) = cc_unacks c. Proof. cc_unf. Qed.
-Lemma cc_rl_done_cl_resolve (c : cconn hstate) tag e : cc_rl_done (cl_resolve c tag e) = cc_rl_done c. Proof. cc_unf. Qed.
-Lemma cc_wl_done_cl_resolve (c : cconn hstate) tag e : cc_wl_done (cl_resolve c tag e) = cc_wl_done c. Proof. cc_unf. Qed.
-Lemma cc_rl_stuck_cl_resolve (c : cconn hstate) tag e : cc_rl_stuck (cl_resolve c tag e) = cc_rl_stuck c. Proof. cc_unf. Qed.
-Lemma cc_wl_stuck_cl_resolve (c : cconn hstate) tag e : cc_wl_stuck (cl_resolve c tag e) = cc_wl_stuck c. Proof. cc_unf. Qed.
-Lemma cc_out_cl_resolve (c : cconn hstate) tag e : cc_out (cl_resolve c tag e) = cc_out c. Proof. cc_unf. Qed.
-Lemma cc_nextID_cl_resolve_all (c : cconn hstate) tags e : cc_nextID (cl_resolve_all c tags e) = cc_nextID c. Proof. cc_unf. Qed.
-Lemma cc_open_cl_resolve_all (c : cconn hstate) tags e : cc_open (cl_resolve_all c tags e) = cc_open c. Proof. cc_unf. Qed.
-Lemma cc_maxStreams_cl_resolve_all (c : cconn hstate) tags e : cc_maxStreams (cl_resolve_all c tags e) = cc_maxStreams c. Proof. cc_unf. Qed.
-Lemma cc_maxFrame_cl_resolve_all (c : cconn hstate) tags e : cc_maxFrame (cl_resolve_all c tags e) = cc_maxFrame c. Proof. cc_unf. Qed.
-Lemma cc_goAway_cl_resolve_all (c : cconn hstate) tags e : cc_goAway (cl_resolve_all c tags e) = cc_goAway c. Proof. cc_unf. Qed.
-Lemma cc_closed_cl_resolve_all (c : cconn hstate) tags e : cc_closed (cl_resolve_all c tags e) = cc_closed c. Proof. cc_unf. Qed.
-Lemma cc_closing_cl_resolve_all (c : cconn hstate) tags e : cc_closing (cl_resolve_all c tags e) = cc_closing c. Proof. cc_unf. Qed.
-Lemma cc_netClosed_cl_resolve_all (c : cconn hstate) tags e : cc_netClosed (cl_resolve_all c tags e) = cc_netClosed c. Proof. cc_unf. Qed.
-Lemma cc_writeFail_cl_resolve_all (c : cconn hstate) tags e : cc_writeFail (cl_resolve_all c tags e) = cc_writeFail c. Proof. cc_unf. Qed.
-Lemma cc_enc_cl_resolve_all (c : cconn hstate) tags e : cc_enc (cl_resolve_all c tags e) = cc_enc c. Proof. cc_unf. Qed.
-Lemma cc_encTableSize_cl_resolve_all (c : cconn hstate) tags e : cc_encTableSize (cl_resolve_all c tags e) = cc_encTableSize c. Proof. cc_unf. Qed.
-Lemma cc_encTableSeen_cl_resolve_all (c : cconn hstate) tags e : cc_encTableSeen (cl_resolve_all c tags e) = cc_encTableSeen c. Proof. cc_unf. Qed.
-Lemma cc_dec_cl_resolve_all (c : cconn hstate) tags e : cc_dec (cl_resolve_all c tags e) = cc_dec c. Proof. cc_unf. Qed.
-Lemma cc_currentWindow_cl_resolve_all (c : cconn hstate) tags e : cc_currentWindow (cl_resolve_all c tags e) = cc_currentWindow c. Proof. cc_unf. Qed.
-Lemma cc_serverS_cl_resolve_all (c : cconn hstate) tags e : cc_serverS (cl_resolve_all c tags e) = cc_serverS c. Proof. cc_unf. Qed.
-Lemma cc_hdrStream_cl_resolve_all (c : cconn hstate) tags e : cc_hdrStream (cl_resolve_all c tags e) = cc_hdrStream c. Proof. cc_unf. Qed.
-Lemma cc_hdrPrev_cl_resolve_all (c : cconn hstate) tags e : cc_hdrPrev (cl_resolve_all c tags e) = cc_hdrPrev c. Proof. cc_unf. Qed.
-Lemma cc_hdrFields_cl_resolve_all (c : cconn hstate) tags e : cc_hdrFields (cl_resolve_all c tags e) = cc_hdrFields c. Proof. cc_unf. Qed.
-Lemma cc_hdrEndStream_cl_resolve_all (c : cconn hstate) tags e : cc_hdrEndStream (cl_resolve_all c tags e) = cc_hdrEndStream c. Proof. cc_unf. Qed.
-Lemma cc_hdrRegularSeen_cl_resolve_all (c : cconn hstate) tags e : cc_hdrRegularSeen (cl_resolve_all c tags e) = cc_hdrRegularSeen c. Proof. cc_unf. Qed.
-Lemma cc_hdrStatus_cl_resolve_all (c : cconn hstate) tags e : cc_hdrStatus (cl_resolve_all c tags e) = cc_hdrStatus c. Proof. cc_unf. Qed.
-Lemma cc_hdrErr_cl_resolve_all (c : cconn hstate) tags e : cc_hdrErr (cl_resolve_all c tags e) = cc_hdrErr c. Proof. cc_unf. Qed.
-Lemma cc_stateClosed_cl_resolve_all (c : cconn hstate) tags e : cc_stateClosed (cl_resolve_all c tags e) = cc_stateClosed c. Proof. cc_unf. Qed.
-Lemma cc_closeRef_cl_resolve_all (c : cconn hstate) tags e : cc_closeRef (cl_resolve_all c tags e) = cc_closeRef c. Proof. cc_unf. Qed.
-Lemma cc_reqQueued_cl_resolve_all (c : cconn hstate) tags e : cc_reqQueued (cl_resolve_all c tags e) = cc_reqQueued c. Proof. cc_unf. Qed.
-Lemma cc_pending_cl_resolve_all (c : cconn hstate) tags e : cc_pending (cl_resolve_all c tags e) = cc_pending c. Proof. cc_unf. Qed.
-Lemma cc_connWindow_cl_resolve_all (c : cconn hstate) tags e : cc_connWindow (cl_resolve_all c tags e) = cc_connWindow c. Proof. cc_unf. Qed.
-Lemma cc_streamWindow_cl_resolve_all (c : cconn hstate) tags e : cc_streamWindow (cl_resolve_all c tags e) = cc_streamWindow c. Proof. cc_unf. Qed.
-Lemma cc_inQ_cl_resolve_all (c : cconn hstate) tags e : cc_inQ (cl_resolve_all c tags e) = cc_inQ c. Proof. cc_unf. Qed.
-Lemma cc_outQ_cl_resolve_all (c : cconn hstate) tags e : cc_outQ (cl_resolve_all c tags e) = cc_outQ c. Proof. cc_unf. Qed.
-Lemma cc_winCh_cl_resolve_all (c : cconn hstate) tags e : cc_winCh (cl_resolve_all c tags e) = cc_winCh c. Proof. cc_unf. Qed.
-Lemma cc_lastErr_cl_resolve_all (c : cconn hstate) tags e : cc_lastErr (cl_resolve_all c tags e) = cc_lastErr c. Proof. cc_unf. Qed.
-Lemma cc_unacks_cl_resolve_all (c : cconn hstate) tags e : cc_unacks (cl_resolve_all c tags e) = cc_unacks c. Proof. cc_unf. Qed.
-Lemma cc_rl_done_cl_resolve_all (c : cconn hstate) tags e : cc_rl_done (cl_resolve_all c tags e) = cc_rl_done c. Proof. cc_unf. Qed.
-Lemma cc_wl_done_cl_resolve_all (c : cconn hstate) tags e : cc_wl_done (cl_resolve_all c tags e) = cc_wl_done c. Proof. cc_unf. Qed.
-Lemma cc_rl_stuck_cl_resolve_all (c : cconn hstate) tags e : cc_rl_stuck (cl_resolve_all c tags e) = cc_rl_stuck c. Proof. cc_unf. Qed.
-Lemma cc_wl_stuck_cl_resolve_all (c : cconn hstate) tags e : cc_wl_stuck (cl_resolve_all c tags e) = cc_wl_stuck c. Proof. cc_unf. Qed.
-Lemma cc_out_cl_resolve_all (c : cconn hstate) tags e : cc_out (cl_resolve_all c tags e) = cc_out c. Proof. cc_unf. Qed.
-Lemma cc_ctxs_cl_set_last_err (c : cconn hstate) e : cc_ctxs (cl_set_last_err c e) = cc_ctxs c. Proof. cc_unf. Qed.
-Lemma cc_nextID_cl_set_last_err (c : cconn hstate) e : cc_nextID (cl_set_last_err c e) = cc_nextID c. Proof. cc_unf. Qed.
-Lemma cc_open_cl_set_last_err (c : cconn hstate) e : cc_open (cl_set_last_err c e) = cc_open c. Proof. cc_unf. Qed.
-Lemma cc_maxStreams_cl_set_last_err (c : cconn hstate) e : cc_maxStreams (cl_set_last_err c e) = cc_maxStreams c. Proof. cc_unf. Qed.
-Lemma cc_maxFrame_cl_set_last_err (c : cconn hstate) e : cc_maxFrame (cl_set_last_err c e) = cc_maxFrame c. Proof. cc_unf. Qed.
-Lemma cc_goAway_cl_set_last_err (c : cconn hstate) e : cc_goAway (cl_set_last_err c e) = cc_goAway c. Proof. cc_unf. Qed.
-Lemma cc_closed_cl_set_last_err (c : cconn hstate) e : cc_closed (cl_set_last_err c e) = cc_closed c. Proof. cc_unf. Qed.
-Lemma cc_closing_cl_set_last_err (c : cconn hstate) e : cc_closing (cl_set_last_err c e) = cc_closing c. Proof. cc_unf. Qed.
-Lemma cc_netClosed_cl_set_last_err (c : cconn hstate) e : cc_netClosed (cl_set_last_err c e) = cc_netClosed c. Proof. cc_unf. Qed.
-Lemma cc_writeFail_cl_set_last_err (c : cconn hstate) e : cc_writeFail (cl_set_last_err c e) = cc_writeFail c. Proof. cc_unf. Qed.
-Lemma cc_enc_cl_set_last_err (c : cconn hstate) e : cc_enc (cl_set_last_err c e) = cc_enc c. Proof. cc_unf. Qed.
-Lemma cc_encTableSize_cl_set_last_err (c : cconn hstate) e : cc_encTableSize (cl_set_last_err c e) = cc_encTableSize c. Proof. cc_unf. Qed.
-Lemma cc_encTableSeen_cl_set_last_err (c : cconn hstate) e : cc_encTableSeen (cl_set_last_err c e) = cc_encTableSeen c. Proof. cc_unf. Qed.
-Lemma cc_dec_cl_set_last_err (c : cconn hstate) e : cc_dec (cl_set_last_err c e) = cc_dec c. Proof. cc_unf. Qed.
-Lemma cc_currentWindow_cl_set_last_err (c : cconn hstate) e : cc_currentWindow (cl_set_last_err c e) = cc_currentWindow c. Proof. cc_unf. Qed.
-Lemma cc_serverS_cl_set_last_err (c : cconn hstate) e : cc_serverS (cl_set_last_err c e) = cc_serverS c. Proof. cc_unf. Qed.
-Lemma cc_hdrStream_cl_set_last_err (c : cconn hstate) e : cc_hdrStream (cl_set_last_err c e) = cc_hdrStream c. Proof. cc_unf. Qed.
-Lemma cc_hdrPrev_cl_set_last_err (c : cconn hstate) e : cc_hdrPrev (cl_set_last_err c e) = cc_hdrPrev c. Proof. cc_unf. Qed.
-Lemma cc_hdrFields_cl_set_last_err (c : cconn hstate) e : cc_hdrFields (cl_set_last_err c e) = cc_hdrFields c. Proof. cc_unf. Qed.
-Lemma cc_hdrEndStream_cl_set_last_err (c : cconn hstate) e : cc_hdrEndStream (cl_set_last_err c e) = cc_hdrEndStream c. Proof. cc_unf. Qed.
-Lemma cc_hdrRegularSeen_cl_set_last_err (c : cconn hstate) e : cc_hdrRegularSeen (cl_set_last_err c e) = cc_hdrRegularSeen c. Proof. cc_unf. Qed.
-Lemma cc_hdrStatus_cl_set_last_err (c : cconn hstate) e : cc_hdrStatus (cl_set_last_err c e) = cc_hdrStatus c. Proof. cc_unf. Qed.
-Lemma cc_hdrErr_cl_set_last_err (c : cconn hstate) e : cc_hdrErr (cl_set_last_err c e) = cc_hdrErr c. Proof. cc_unf. Qed.
-Lemma cc_stateClosed_cl_set_last_err (c : cconn hstate) e : cc_stateClosed (cl_set_last_err c e) = cc_stateClosed c. Proof. cc_unf. Qed.
-Lemma cc_closeRef_cl_set_last_err (c : cconn hstate) e : cc_closeRef (cl_set_last_err c e) = cc_closeRef c. Proof. cc_unf. Qed.
-Lemma cc_reqQueued_cl_set_last_err (c : cconn hstate) e : cc_reqQueued (cl_set_last_err c e) = cc_reqQueued c. Proof. cc_unf. Qed.
-Lemma cc_pending_cl_set_last_err (c : cconn hstate) e : cc_pending (cl_set_last_err c e) = cc_pending c. Proof. cc_unf. Qed.
-Lemma cc_connWindow_cl_set_last_err (c : cconn hstate) e : cc_connWindow (cl_set_last_err c e) = cc_connWindow c. Proof. cc_unf. Qed.
-Lemma cc_streamWindow_cl_set_last_err (c : cconn hstate) e : cc_streamWindow (cl_set_last_err c e) = cc_streamWindow c. Proof. cc_unf. Qed.
-Lemma cc_inQ_cl_set_last_err (c : cconn hstate) e : cc_inQ (cl_set_last_err c e) = cc_inQ c. Proof. cc_unf. Qed.
-Lemma cc_outQ_cl_set_last_err (c : cconn hstate) e : cc_outQ (cl_set_last_err c e) = cc_outQ c. Proof. cc_unf. Qed.
-Lemma cc_winCh_cl_set_last_err (c : cconn hstate) e : cc_winCh (cl_set_last_err c e) = cc_winCh c. Proof. cc_unf. Qed.
-Lemma cc_unacks_cl_set_last_err (c : cconn hstate) e : cc_unacks (cl_set_last_err c e) = cc_unacks c. Proof. cc_unf. Qed.
-Lemma cc_rl_done_cl_set_last_err (c : cconn hstate) e : cc_rl_done (cl_set_last_err c e) = cc_rl_done c. Proof. cc_unf. Qed.
-Lemma cc_wl_done_cl_set_last_err (c : cconn hstate) e : cc_wl_done (cl_set_last_err c e) = cc_wl_done c. Proof. cc_unf. Qed.
-Lemma cc_rl_stuck_cl_set_last_err (c : cconn hstate) e : cc_rl_stuck (cl_set_last_err c e) = cc_rl_stuck c. Proof. cc_unf. Qed.
-Lemma cc_wl_stuck_cl_set_last_err (c : cconn hstate) e : cc_wl_stuck (cl_set_last_err c e) = cc_wl_stuck c. Proof. cc_unf. Qed.
-Lemma cc_out_cl_set_last_err (c : cconn hstate) e : cc_out (cl_set_last_err c e) = cc_out c. Proof. cc_unf. Qed.
-Lemma cc_ctxs_cl_req_del (c : cconn hstate) id : cc_ctxs (cl_req_del c id) = cc_ctxs c. Proof. cc_unf. Qed.
-Lemma cc_nextID_cl_req_del (c : cconn hstate) id : cc_nextID (cl_req_del c id) = cc_nextID c. Proof. cc_unf. Qed.
-Lemma cc_open_cl_req_del (c : cconn hstate) id : cc_open (cl_req_del c id) = cc_open c. Proof. cc_unf. Qed.
-Lemma cc_maxStreams_cl_req_del (c : cconn hstate) id : cc_maxStreams (cl_req_del c id) = cc_maxStreams c. Proof. cc_unf. Qed.
-Lemma cc_maxFrame_cl_req_del (c : cconn hstate) id : cc_maxFrame (cl_req_del c id) = cc_maxFrame c. Proof. cc_unf. Qed.
-Lemma cc_goAway_cl_req_del (c : cconn hstate) id : cc_goAway (cl_req_del c id) = cc_goAway c. Proof. cc_unf. Qed.
-Lemma cc_closed_cl_req_del (c : cconn hstate) id : cc_closed (cl_req_del c id) = cc_closed c. Proof. cc_unf. Qed.
-Lemma cc_closing_cl_req_del (c : cconn hstate) id : cc_closing (cl_req_del c id) = cc_closing c. Proof. cc_unf. Qed.
-Lemma cc_netClosed_cl_req_del (c : cconn hstate) id : cc_netClosed (cl_req_del c id) = cc_netClosed c. Proof. cc_unf. Qed.
-Lemma cc_writeFail_cl_req_del (c : cconn hstate) id : cc_writeFail (cl_req_del c id) = cc_writeFail c. Proof. cc_unf. Qed.
-Lemma cc_enc_cl_req_del (c : cconn hstate) id : cc_enc (cl_req_del c id) = cc_enc c. Proof. cc_unf. Qed.
-Lemma cc_encTableSize_cl_req_del (c : cconn hstate) id : cc_encTableSize (cl_req_del c id) = cc_encTableSize c. Proof. cc_unf. Qed.
-Lemma cc_encTableSeen_cl_req_del (c : cconn hstate) id : cc_encTableSeen (cl_req_del c id) = cc_encTableSeen c. Proof. cc_unf. Qed.
-Lemma cc_dec_cl_req_del (c : cconn hstate) id : cc_dec (cl_req_del c id) = cc_dec c. Proof. cc_unf. Qed.
-Lemma cc_currentWindow_cl_req_del (c : cconn hstate) id : cc_currentWindow (cl_req_del c id) = cc_currentWindow c. Proof. cc_unf. Qed.
-Lemma cc_serverS_cl_req_del (c : cconn hstate) id : cc_serverS (cl_req_del c id) = cc_serverS c. Proof. cc_unf. Qed.
-Lemma cc_hdrStream_cl_req_del (c : cconn hstate) id : cc_hdrStream (cl_req_del c id) = cc_hdrStream c. Proof. cc_unf. Qed.
-Lemma cc_hdrPrev_cl_req_del (c : cconn hstate) id : cc_hdrPrev (cl_req_del c id) = cc_hdrPrev c. Proof. cc_unf. Qed.
-Lemma cc_hdrFields_cl_req_del (c : cconn hstate) id : cc_hdrFields (cl_req_del c id) = cc_hdrFields c. Proof. cc_unf. Qed.
-Lemma cc_hdrEndStream_cl_req_del (c : cconn hstate) id : cc_hdrEndStream (cl_req_del c id) = cc_hdrEndStream c. Proof. cc_unf. Qed.
-Lemma cc_hdrRegularSeen_cl_req_del (c : cconn hstate) id : cc_hdrRegularSeen (cl_req_del c id) = cc_hdrRegularSeen c. Proof. cc_unf. Qed.
-Lemma cc_hdrStatus_cl_req_del (c : cconn hstate) id : cc_hdrStatus (cl_req_del c id) = cc_hdrStatus c. Proof. cc_unf. Qed.
-Lemma cc_hdrErr_cl_req_del (c : cconn hstate) id : cc_hdrErr (cl_req_del c id) = cc_hdrErr c. Proof. cc_unf. Qed.
-Lemma cc_stateClosed_cl_req_del (c : cconn hstate) id : cc_stateClosed (cl_req_del c id) = cc_stateClosed c. Proof. cc_unf. Qed.
-Lemma cc_closeRef_cl_req_del (c : cconn hstate) id : cc_closeRef (cl_req_del c id) = cc_closeRef c. Proof. cc_unf. Qed.
-Lemma cc_pending_cl_req_del (c : cconn hstate) id : cc_pending (cl_req_del c id) = cc_pending c. Proof. cc_unf. Qed.
-Lemma cc_connWindow_cl_req_del (c : cconn hstate) id : cc_connWindow (cl_req_del c id) = cc_connWindow c. Proof. cc_unf. Qed.
-Lemma cc_streamWindow_cl_req_del (c : cconn hstate) id : cc_streamWindow (cl_req_del c id) = cc_streamWindow c. Proof. cc_unf. Qed.
-Lemma cc_inQ_cl_req_del (c : cconn hstate) id : cc_inQ (cl_req_del c id) = cc_inQ c. Proof. cc_unf. Qed.
-Lemma cc_outQ_cl_req_del (c : cconn hstate) id : cc_outQ (cl_req_del c id) = cc_outQ c. Proof. cc_unf. Qed.
-Lemma cc_winCh_cl_req_del (c : cconn hstate) id : cc_winCh (cl_req_del c id) = cc_winCh c. Proof. cc_unf. Qed.
-Lemma cc_lastErr_cl_req_del (c : cconn hstate) id : cc_lastErr (cl_req_del c id) = cc_lastErr c. Proof. cc_unf. Qed.
-Lemma cc_unacks_cl_req_del (c : cconn hstate) id : cc_unacks (cl_req_del c id) = cc_unacks c. Proof. cc_unf. Qed.
-Lemma cc_rl_done_cl_req_del (c : cconn hstate) id : cc_rl_done (cl_req_del c id) = cc_rl_done c. Proof. cc_unf. Qed.
-Lemma cc_wl_done_cl_req_del (c : cconn hstate) id : cc_wl_done (cl_req_del c id) = cc_wl_done c. Proof. cc_unf. Qed.
-Lemma cc_rl_stuck_cl_req_del (c : cconn hstate) id : cc_rl_stuck (cl_req_del c id) = cc_rl_stuck c. Proof. cc_unf. Qed.
-Lemma cc_wl_stuck_cl_req_del (c : cconn hstate) id : cc_wl_stuck (cl_req_del c id) = cc_wl_stuck c. Proof. cc_unf. Qed.
-Lemma cc_out_cl_req_del (c : cconn hstate) id : cc_out (cl_req_del c id) = cc_out c. Proof. cc_unf. Qed.
-Lemma cc_ctxs_cl_take_req_count (c : cconn hstate) id : cc_ctxs (cl_take_req_count c id) = cc_ctxs c. Proof. cc_unf. Qed.
-Lemma cc_nextID_cl_take_req_count (c : cconn hstate) id : cc_nextID (cl_take_req_count c id) = cc_nextID c. Proof. cc_unf. Qed.
-Lemma cc_maxStreams_cl_take_req_count (c : cconn hstate) id : cc_maxStreams (cl_take_req_count c id) = cc_maxStreams c. Proof. cc_unf. Qed.
-Lemma cc_maxFrame_cl_take_req_count (c : cconn hstate) id : cc_maxFrame (cl_take_req_count c id) = cc_maxFrame c. Proof. cc_unf. Qed.
-Lemma cc_goAway_cl_take_req_count (c : cconn hstate) id : cc_goAway (cl_take_req_count c id) = cc_goAway c. Proof. cc_unf. Qed.
-Lemma cc_closed_cl_take_req_count (c : cconn hstate) id : cc_closed (cl_take_req_count c id) = cc_closed c. Proof. cc_unf. Qed.
-Lemma cc_closing_cl_take_req_count (c : cconn hstate) id : cc_closing (cl_take_req_count c id) = cc_closing c. Proof. cc_unf. Qed.
-Lemma cc_netClosed_cl_take_req_count (c : cconn hstate) id : cc_netClosed (cl_take_req_count c id) = cc_netClosed c. Proof. cc_unf. Qed.
-Lemma cc_writeFail_cl_take_req_count (c : cconn hstate) id : cc_writeFail (cl_take_req_count c id) = cc_writeFail c. Proof. cc_unf. Qed.
-Lemma cc_enc_cl_take_req_count (c : cconn hstate) id : cc_enc (cl_take_req_count c id) = cc_enc c. Proof. cc_unf. Qed.
-Lemma cc_encTableSize_cl_take_req_count (c : cconn hstate) id : cc_encTableSize (cl_take_req_count c id) = cc_encTableSize c. Proof. cc_unf. Qed.
-Lemma cc_encTableSeen_cl_take_req_count (c : cconn hstate) id : cc_encTableSeen (cl_take_req_count c id) = cc_encTableSeen c. Proof. cc_unf. Qed.
-Lemma cc_dec_cl_take_req_count (c : cconn hstate) id : cc_dec (cl_take_req_count c id) = cc_dec c. Proof. cc_unf. Qed.
-Lemma cc_currentWindow_cl_take_req_count (c : cconn hstate) id : cc_currentWindow (cl_take_req_count c id) = cc_currentWindow c. Proof. cc_unf. Qed.
-Lemma cc_serverS_cl_take_req_count (c : cconn hstate) id : cc_serverS (cl_take_req_count c id) = cc_serverS c. Proof. cc_unf. Qed.
-Lemma cc_hdrStream_cl_take_req_count (c : cconn hstate) id : cc_hdrStream (cl_take_req_count c id) = cc_hdrStream c. Proof. cc_unf. Qed.
-Lemma cc_hdrPrev_cl_take_req_count (c : cconn hstate) id : cc_hdrPrev (cl_take_req_count c id) = cc_hdrPrev c. Proof. cc_unf. Qed.
-Lemma cc_hdrFields_cl_take_req_count (c : cconn hstate) id : cc_hdrFields (cl_take_req_count c id) = cc_hdrFields c. Proof. cc_unf. Qed.
-Lemma cc_hdrEndStream_cl_take_req_count (c : cconn hstate) id : cc_hdrEndStream (cl_take_req_count c id) = cc_hdrEndStream c. Proof. cc_unf. Qed.
-Lemma cc_hdrRegularSeen_cl_take_req_count (c : cconn hstate) id : cc_hdrRegularSeen (cl_take_req_count c id) = cc_hdrRegularSeen c. Proof. cc_unf. Qed.
-Lemma cc_hdrStatus_cl_take_req_count (c : cconn hstate) id : cc_hdrStatus (cl_take_req_count c id) = cc_hdrStatus c. Proof. cc_unf. Qed.
-Lemma cc_hdrErr_cl_take_req_count (c : cconn hstate) id : cc_hdrErr (cl_take_req_count c id) = cc_hdrErr c. Proof. cc_unf. Qed.
-Lemma cc_stateClosed_cl_take_req_count (c : cconn hstate) id : cc_stateClosed (cl_take_req_count c id) = cc_stateClosed c. Proof. cc_unf. Qed.
-Lemma cc_closeRef_cl_take_req_count (c : cconn hstate) id : cc_closeRef (cl_take_req_count c id) = cc_closeRef c. Proof. cc_unf. Qed.
-Lemma cc_pending_cl_take_req_count (c : cconn hstate) id : cc_pending (cl_take_req_count c id) = cc_pending c. Proof. cc_unf. Qed.
-Lemma cc_connWindow_cl_take_req_count (c : cconn hstate) id : cc_connWindow (cl_take_req_count c id) = cc_connWindow c. Proof. cc_unf. Qed.
-Lemma cc_streamWindow_cl_take_req_count (c : cconn hstate) id : cc_streamWindow (cl_take_req_count c id) = cc_streamWindow c. Proof. cc_unf. Qed.
-Lemma cc_inQ_cl_take_req_count (c : cconn hstate) id : cc_inQ (cl_take_req_count c id) = cc_inQ c. Proof. cc_unf. Qed.
-Lemma cc_outQ_cl_take_req_count (c : cconn hstate) id : cc_outQ (cl_take_req_count c id) = cc_outQ c. Proof. cc_unf. Qed.
-Lemma cc_winCh_cl_take_req_count (c : cconn hstate) id : cc_winCh (cl_take_req_count c id) = cc_winCh c. Proof. cc_unf. Qed.
-Lemma cc_lastErr_cl_take_req_count (c : cconn hstate) id : cc_lastErr (cl_take_req_count c id) = cc_lastErr c. Proof. cc_unf. Qed.
-Lemma cc_unacks_cl_take_req_count (c : cconn hstate) id : cc_unacks (cl_take_req_count c id) = cc_unacks c. Proof. cc_unf. Qed.
-Lemma cc_rl_done_cl_take_req_count (c : cconn hstate) id : cc_rl_done (cl_take_req_count c id) = cc_rl_done c. Proof. cc_unf. Qed.
-Lemma cc_wl_done_cl_take_req_count (c : cconn hstate) id : cc_wl_done (cl_take_req_count c id) = cc_wl_done c. Proof. cc_unf. Qed.
-Lemma cc_rl_stuck_cl_take_req_count (c : cconn hstate) id : cc_rl_stuck (cl_take_req_count c id) = cc_rl_stuck c. Proof. cc_unf. Qed.
-Lemma cc_wl_stuck_cl_take_req_count (c : cconn hstate) id : cc_wl_stuck (cl_take_req_count c id) = cc_wl_stuck c. Proof. cc_unf. Qed.
-Lemma cc_out_cl_take_req_count (c : cconn hstate) id : cc_out (cl_take_req_count c id) = cc_out c. Proof. cc_unf. Qed.
-Lemma cc_ctxs_cl_write_out (c : cconn hstate) o : cc_ctxs (cl_write_out c o) = cc_ctxs c. Proof. cc_unf. Qed.
-Lemma cc_nextID_cl_write_out (c : cconn hstate) o : cc_nextID (cl_write_out c o) = cc_nextID c. Proof. cc_unf. Qed.
-Lemma cc_open_cl_write_out (c : cconn hstate) o : cc_open (cl_write_out c o) = cc_open c. Proof. cc_unf. Qed.
-Lemma cc_maxStreams_cl_write_out (c : cconn hstate) o : cc_maxStreams (cl_write_out c o) = cc_maxStreams c. Proof. cc_unf. Qed.
-Lemma cc_maxFrame_cl_write_out (c : cconn hstate) o : cc_maxFrame (cl_write_out c o) = cc_maxFrame c. Proof. cc_unf. Qed.
-Lemma cc_goAway_cl_write_out (c : cconn hstate) o : cc_goAway (cl_write_out c o) = cc_goAway c. Proof. cc_unf. Qed.
-Lemma cc_closed_cl_write_out (c : cconn hstate) o : cc_closed (cl_write_out c o) = cc_closed c. Proof. cc_unf. Qed.
-Lemma cc_closing_cl_write_out (c : cconn hstate) o : cc_closing (cl_write_out c o) = cc_closing c. Proof. cc_unf. Qed.
-Lemma cc_netClosed_cl_write_out (c : cconn hstate) o : cc_netClosed (cl_write_out c o) = cc_netClosed c. Proof. cc_unf. Qed.
-Lemma cc_writeFail_cl_write_out (c : cconn hstate) o : cc_writeFail (cl_write_out c o) = cc_writeFail c. Proof. cc_unf. Qed.
-Lemma cc_enc_cl_write_out (c : cconn hstate) o : cc_enc (cl_write_out c o) = cc_enc c. Proof. cc_unf. Qed.
-Lemma cc_encTableSize_cl_write_out (c : cconn hstate) o : cc_encTableSize (cl_write_out c o) = cc_encTableSize c. Proof. cc_unf. Qed.
-Lemma cc_encTableSeen_cl_write_out (c : cconn hstate) o : cc_encTableSeen (cl_write_out c o) = cc_encTableSeen c. Proof. cc_unf. Qed.
-Lemma cc_dec_cl_write_out (c : cconn hstate) o : cc_dec (cl_write_out c o) = cc_dec c. Proof. cc_unf. Qed.
-Lemma cc_currentWindow_cl_write_out (c : cconn hstate) o : cc_currentWindow (cl_write_out c o) = cc_currentWindow c. Proof. cc_unf. Qed.
-Lemma cc_serverS_cl_write_out (c : cconn hstate) o : cc_serverS (cl_write_out c o) = cc_serverS c. Proof. cc_unf. Qed.
-Lemma cc_hdrStream_cl_write_out (c : cconn hstate) o : cc_hdrStream (cl_write_out c o) = cc_hdrStream c. Proof. cc_unf. Qed.
-Lemma cc_hdrPrev_cl_write_out (c : cconn hstate) o : cc_hdrPrev (cl_write_out c o) = cc_hdrPrev c. Proof. cc_unf. Qed.
-Lemma cc_hdrFields_cl_write_out (c : cconn hstate) o : cc_hdrFields (cl_write_out c o) = cc_hdrFields c. Proof. cc_unf. Qed.
-Lemma cc_hdrEndStream_cl_write_out (c : cconn hstate) o : cc_hdrEndStream (cl_write_out c o) = cc_hdrEndStream c. Proof. cc_unf. Qed.
-Lemma cc_hdrRegularSeen_cl_write_out (c : cconn hstate) o : cc_hdrRegularSeen (cl_write_out c o) = cc_hdrRegularSeen c. Proof. cc_unf. Qed.
-Lemma cc_hdrStatus_cl_write_out (c : cconn hstate) o : cc_hdrStatus (cl_write_out c o) = cc_hdrStatus c. Proof. cc_unf. Qed.
-Lemma cc_hdrErr_cl_write_out (c : cconn hstate) o : cc_hdrErr (cl_write_out c o) = cc_hdrErr c. Proof. cc_unf. Qed.
-Lemma cc_stateClosed_cl_write_out (c : cconn hstate) o : cc_stateClosed (cl_write_out c o) = cc_stateClosed c. Proof. cc_unf. Qed.
-Lemma cc_closeRef_cl_write_out (c : cconn hstate) o : cc_closeRef (cl_write_out c o) = cc_closeRef c. Proof. cc_unf. Qed.
-Lemma cc_reqQueued_cl_write_out (c : cconn hstate) o : cc_reqQueued (cl_write_out c o) = cc_reqQueued c. Proof. cc_unf. Qed.
-Lemma cc_pending_cl_write_out (c : cconn hstate) o : cc_pending (cl_write_out c o) = cc_pending c. Proof. cc_unf. Qed.
-Lemma cc_connWindow_cl_write_out (c : cconn hstate) o : cc_connWindow (cl_write_out c o) = cc_connWindow c. Proof. cc_unf. Qed.
-Lemma cc_streamWindow_cl_write_out (c : cconn hstate) o : cc_streamWindow (cl_write_out c o) = cc_streamWindow c. Proof. cc_unf. Qed.
-Lemma cc_inQ_cl_write_out (c : cconn hstate) o : cc_inQ (cl_write_out c o) = cc_inQ c. Proof. cc_unf. Qed.
-Lemma cc_winCh_cl_write_out (c : cconn hstate) o : cc_winCh (cl_write_out c o) = cc_winCh c. Proof. cc_unf. Qed.
-Lemma cc_lastErr_cl_write_out (c : cconn hstate) o : cc_lastErr (cl_write_out c o) = cc_lastErr c. Proof. cc_unf. Qed.
-Lemma cc_unacks_cl_write_out (c : cconn hstate) o : cc_unacks (cl_write_out c o) = cc_unacks c. Proof. cc_unf. Qed.
-Lemma cc_rl_done_cl_write_out (c : cconn hstate) o : cc_rl_done (cl_write_out c o) = cc_rl_done c. Proof. cc_unf. Qed.
-Lemma cc_wl_done_cl_write_out (c : cconn hstate) o : cc_wl_done (cl_write_out c o) = cc_wl_done c. Proof. cc_unf. Qed.
-Lemma cc_rl_stuck_cl_write_out (c : cconn hstate) o : cc_rl_stuck (cl_write_out c o) = cc_rl_stuck c. Proof. cc_unf. Qed.
-Lemma cc_wl_stuck_cl_write_out (c : cconn hstate) o : cc_wl_stuck (cl_write_out c o) = cc_wl_stuck c. Proof. cc_unf. Qed.
-Lemma cc_out_cl_write_out (c : cconn hstate) o : cc_out (cl_write_out c o) = cc_out c. Proof. cc_unf. Qed.
-Lemma cc_ctxs_cl_signal_window (c : cconn hstate)  : cc_ctxs (cl_signal_window c) = cc_ctxs c. Proof. cc_unf. Qed.
-Lemma cc_nextID_cl_signal_window (c : cconn hstate)  : cc_nextID (cl_signal_window c) = cc_nextID c. Proof. cc_unf. Qed.
-Lemma cc_open_cl_signal_window (c : cconn hstate)  : cc_open (cl_signal_window c) = cc_open c. Proof. cc_unf. Qed.
-Lemma cc_maxStreams_cl_signal_window (c : cconn hstate)  : cc_maxStreams (cl_signal_window c) = cc_maxStreams c. Proof. cc_unf. Qed.
-Lemma cc_maxFrame_cl_signal_window (c : cconn hstate)  : cc_maxFrame (cl_signal_window c) = cc_maxFrame c. Proof. cc_unf. Qed.
-Lemma cc_goAway_cl_signal_window (c : cconn hstate)  : cc_goAway (cl_signal_window c) = cc_goAway c. Proof. cc_unf. Qed.
-Lemma cc_closed_cl_signal_window (c : cconn hstate)  : cc_closed (cl_signal_window c) = cc_closed c. Proof. cc_unf. Qed.
-Lemma cc_closing_cl_signal_window (c : cconn hstate)  : cc_closing (cl_signal_window c) = cc_closing c. Proof. cc_unf. Qed.
-Lemma cc_netClosed_cl_signal_window (c : cconn hstate)  : cc_netClosed (cl_signal_window c) = cc_netClosed c. Proof. cc_unf. Qed.
-Lemma cc_writeFail_cl_signal_window (c : cconn hstate)  : cc_writeFail (cl_signal_window c) = cc_writeFail c. Proof. cc_unf. Qed.
-Lemma cc_enc_cl_signal_window (c : cconn hstate)  : cc_enc (cl_signal_window c) = cc_enc c. Proof. cc_unf. Qed.
-Lemma cc_encTableSize_cl_signal_window (c : cconn hstate)  : cc_encTableSize (cl_signal_window c) = cc_encTableSize c. Proof. cc_unf. Qed.
-Lemma cc_encTableSeen_cl_signal_window (c : cconn hstate)  : cc_encTableSeen (cl_signal_window c) = cc_encTableSeen c. Proof. cc_unf. Qed.
-Lemma cc_dec_cl_signal_window (c : cconn hstate)  : cc_dec (cl_signal_window c) = cc_dec c. Proof. cc_unf. Qed.
-Lemma cc_currentWindow_cl_signal_window (c : cconn hstate)  : cc_currentWindow (cl_signal_window c) = cc_currentWindow c. Proof. cc_unf. Qed.
-Lemma cc_serverS_cl_signal_window (c : cconn hstate)  : cc_serverS (cl_signal_window c) = cc_serverS c. Proof. cc_unf. Qed.
-Lemma cc_hdrStream_cl_signal_window (c : cconn hstate)  : cc_hdrStream (cl_signal_window c) = cc_hdrStream c. Proof. cc_unf. Qed.
-Lemma cc_hdrPrev_cl_signal_window (c : cconn hstate)  : cc_hdrPrev (cl_signal_window c) = cc_hdrPrev c. Proof. cc_unf. Qed.
-Lemma cc_hdrFields_cl_signal_window (c : cconn hstate)  : cc_hdrFields (cl_signal_window c) = cc_hdrFields c. Proof. cc_unf. Qed.
-Lemma cc_hdrEndStream_cl_signal_window (c : cconn hstate)  : cc_hdrEndStream (cl_signal_window c) = cc_hdrEndStream c. Proof. cc_unf. Qed.
-Lemma cc_hdrRegularSeen_cl_signal_window (c : cconn hstate)  : cc_hdrRegularSeen (cl_signal_window c) = cc_hdrRegularSeen c. Proof. cc_unf. Qed.
-Lemma cc_hdrStatus_cl_signal_window (c : cconn hstate)  : cc_hdrStatus (cl_signal_window c) = cc_hdrStatus c. Proof. cc_unf. Qed.
-Lemma cc_hdrErr_cl_signal_window (c : cconn hstate)  : cc_hdrErr (cl_signal_window c) = cc_hdrErr c. Proof. cc_unf. Qed.
-Lemma cc_stateClosed_cl_signal_window (c : cconn hstate)  : cc_stateClosed (cl_signal_window c) = cc_stateClosed c. Proof. cc_unf. Qed.
-Lemma cc_closeRef_cl_signal_window (c : cconn hstate)  : cc_closeRef (cl_signal_window c) = cc_closeRef c. Proof. cc_unf. Qed.
-Lemma cc_reqQueued_cl_signal_window (c : cconn hstate)  : cc_reqQueued (cl_signal_window c) = cc_reqQueued c. Proof. cc_unf. Qed.
-Lemma cc_pending_cl_signal_window (c : cconn hstate)  : cc_pending (cl_signal_window c) = cc_pending c. Proof. cc_unf. Qed.
-Lemma cc_connWindow_cl_signal_window (c : cconn hstate)  : cc_connWindow (cl_signal_window c) = cc_connWindow c. Proof. cc_unf. Qed.
-Lemma cc_streamWindow_cl_signal_window (c : cconn hstate)  : cc_streamWindow (cl_signal_window c) = cc_streamWindow c. Proof. cc_unf. Qed.
-Lemma cc_inQ_cl_signal_window (c : cconn hstate)  : cc_inQ (cl_signal_window c) = cc_inQ c. Proof. cc_unf. Qed.
-Lemma cc_outQ_cl_signal_window (c : cconn hstate)  : cc_outQ (cl_signal_window c) = cc_outQ c. Proof. cc_unf. Qed.
-Lemma cc_lastErr_cl_signal_window (c : cconn hstate)  : cc_lastErr (cl_signal_window c) = cc_lastErr c. Proof. cc_unf. Qed.
-Lemma cc_unacks_cl_signal_window (c : cconn hstate)  : cc_unacks (cl_signal_window c) = cc_unacks c. Proof. cc_unf. Qed.
-Lemma cc_rl_done_cl_signal_window (c : cconn hstate)  : cc_rl_done (cl_signal_window c) = cc_rl_done c. Proof. cc_unf. Qed.
-Lemma cc_wl_done_cl_signal_window (c : cconn hstate)  : cc_wl_done (cl_signal_window c) = cc_wl_done c. Proof. cc_unf. Qed.
-Lemma cc_rl_stuck_cl_signal_window (c : cconn hstate)  : cc_rl_stuck (cl_signal_window c) = cc_rl_stuck c. Proof. cc_unf. Qed.
-Lemma cc_wl_stuck_cl_signal_window (c : cconn hstate)  : cc_wl_stuck (cl_signal_window c) = cc_wl_stuck c. Proof. cc_unf. Qed.
-Lemma cc_out_cl_signal_window (c : cconn hstate)  : cc_out (cl_signal_window c) = cc_out c. Proof. cc_unf. Qed.
-Lemma cc_ctxs_cl_close_begin (c : cconn hstate)  : cc_ctxs (fst (cl_close_begin c)) = cc_ctxs c. Proof. cc_unf. Qed.
-Lemma cc_nextID_cl_close_begin (c : cconn hstate)  : cc_nextID (fst (cl_close_begin c)) = cc_nextID c. Proof. cc_unf. Qed.
-Lemma cc_open_cl_close_begin (c : cconn hstate)  : cc_open (fst (cl_close_begin c)) = cc_open c. Proof. cc_unf. Qed.
-Lemma cc_maxStreams_cl_close_begin (c : cconn hstate)  : cc_maxStreams (fst (cl_close_begin c)) = cc_maxStreams c. Proof. cc_unf. Qed.
-Lemma cc_maxFrame_cl_close_begin (c : cconn hstate)  : cc_maxFrame (fst (cl_close_begin c)) = cc_maxFrame c. Proof. cc_unf. Qed.
-Lemma cc_goAway_cl_close_begin (c : cconn hstate)  : cc_goAway (fst (cl_close_begin c)) = cc_goAway c. Proof. cc_unf. Qed.
-Lemma cc_closing_cl_close_begin (c : cconn hstate)  : cc_closing (fst (cl_close_begin c)) = cc_closing c. Proof. cc_unf. Qed.
-Lemma cc_netClosed_cl_close_begin (c : cconn hstate)  : cc_netClosed (fst (cl_close_begin c)) = cc_netClosed c. Proof. cc_unf. Qed.
-Lemma cc_writeFail_cl_close_begin (c : cconn hstate)  : cc_writeFail (fst (cl_close_begin c)) = cc_writeFail c. Proof. cc_unf. Qed.
-Lemma cc_enc_cl_close_begin (c : cconn hstate)  : cc_enc (fst (cl_close_begin c)) = cc_enc c. Proof. cc_unf. Qed.
-Lemma cc_encTableSize_cl_close_begin (c : cconn hstate)  : cc_encTableSize (fst (cl_close_begin c)) = cc_encTableSize c. Proof. cc_unf. Qed.
-Lemma cc_encTableSeen_cl_close_begin (c : cconn hstate)  : cc_encTableSeen (fst (cl_close_begin c)) = cc_encTableSeen c. Proof. cc_unf. Qed.
-Lemma cc_dec_cl_close_begin (c : cconn hstate)  : cc_dec (fst (cl_close_begin c)) = cc_dec c. Proof. cc_unf. Qed.
-Lemma cc_currentWindow_cl_close_begin (c : cconn hstate)  : cc_currentWindow (fst (cl_close_begin c)) = cc_currentWindow c. Proof. cc_unf. Qed.
-Lemma cc_serverS_cl_close_begin (c : cconn hstate)  : cc_serverS (fst (cl_close_begin c)) = cc_serverS c. Proof. cc_unf. Qed.
-Lemma cc_hdrStream_cl_close_begin (c : cconn hstate)  : cc_hdrStream (fst (cl_close_begin c)) = cc_hdrStream c. Proof. cc_unf. Qed.
-Lemma cc_hdrPrev_cl_close_begin (c : cconn hstate)  : cc_hdrPrev (fst (cl_close_begin c)) = cc_hdrPrev c. Proof. cc_unf. Qed.
-Lemma cc_hdrFields_cl_close_begin (c : cconn hstate)  : cc_hdrFields (fst (cl_close_begin c)) = cc_hdrFields c. Proof. cc_unf. Qed.
-Lemma cc_hdrEndStream_cl_close_begin (c : cconn hstate)  : cc_hdrEndStream (fst (cl_close_begin c)) = cc_hdrEndStream c. Proof. cc_unf. Qed.
-Lemma cc_hdrRegularSeen_cl_close_begin (c : cconn hstate)  : cc_hdrRegularSeen (fst (cl_close_begin c)) = cc_hdrRegularSeen c. Proof. cc_unf. Qed.
-Lemma cc_hdrStatus_cl_close_begin (c : cconn hstate)  : cc_hdrStatus (fst (cl_close_begin c)) = cc_hdrStatus c. Proof. cc_unf. Qed.
-Lemma cc_hdrErr_cl_close_begin (c : cconn hstate)  : cc_hdrErr (fst (cl_close_begin c)) = cc_hdrErr c. Proof. cc_unf. Qed.
-Lemma cc_stateClosed_cl_close_begin (c : cconn hstate)  : cc_stateClosed (fst (cl_close_begin c)) = cc_stateClosed c. Proof. cc_unf. Qed.
-Lemma cc_closeRef_cl_close_begin (c : cconn hstate)  : cc_closeRef (fst (cl_close_begin c)) = cc_closeRef c. Proof. cc_unf. Qed.
-Lemma cc_reqQueued_cl_close_begin (c : cconn hstate)  : cc_reqQueued (fst (cl_close_begin c)) = cc_reqQueued c. Proof. cc_unf. Qed.
-Lemma cc_pending_cl_close_begin (c : cconn hstate)  : cc_pending (fst (cl_close_begin c)) = cc_pending c. Proof. cc_unf. Qed.
-Lemma cc_connWindow_cl_close_begin (c : cconn hstate)  : cc_connWindow (fst (cl_close_begin c)) = cc_connWindow c. Proof. cc_unf. Qed.
-Lemma cc_streamWindow_cl_close_begin (c : cconn hstate)  : cc_streamWindow (fst (cl_close_begin c)) = cc_streamWindow c. Proof. cc_unf. Qed.
-Lemma cc_inQ_cl_close_begin (c : cconn hstate)  : cc_inQ (fst (cl_close_begin c)) = cc_inQ c. Proof. cc_unf. Qed.
-Lemma cc_outQ_cl_close_begin (c : cconn hstate)  : cc_outQ (fst (cl_close_begin c)) = cc_outQ c. Proof. cc_unf. Qed.
-Lemma cc_winCh_cl_close_begin (c : cconn hstate)  : cc_winCh (fst (cl_close_begin c)) = cc_winCh c. Proof. cc_unf. Qed.
-Lemma cc_lastErr_cl_close_begin (c : cconn hstate)  : cc_lastErr (fst (cl_close_begin c)) = cc_lastErr c. Proof. cc_unf. Qed.
-Lemma cc_unacks_cl_close_begin (c : cconn hstate)  : cc_unacks (fst (cl_close_begin c)) = cc_unacks c. Proof. cc_unf. Qed.
-Lemma cc_rl_done_cl_close_begin (c : cconn hstate)  : cc_rl_done (fst (cl_close_begin c)) = cc_rl_done c. Proof. cc_unf. Qed.
-Lemma cc_wl_done_cl_close_begin (c : cconn hstate)  : cc_wl_done (fst (cl_close_begin c)) = cc_wl_done c. Proof. cc_unf. Qed.
-Lemma cc_rl_stuck_cl_close_begin (c : cconn hstate)  : cc_rl_stuck (fst (cl_close_begin c)) = cc_rl_stuck c. Proof. cc_unf. Qed.
-Lemma cc_wl_stuck_cl_close_begin (c : cconn hstate)  : cc_wl_stuck (fst (cl_close_begin c)) = cc_wl_stuck c. Proof. cc_unf. Qed.
-Lemma cc_out_cl_close_begin (c : cconn hstate)  : cc_out (fst (cl_close_begin c)) = cc_out c. Proof. cc_unf. Qed.
-Lemma cc_ctxs_cl_close_net (c : cconn hstate)  : cc_ctxs (cl_close_net c) = cc_ctxs c. Proof. cc_unf. Qed.
-Lemma cc_nextID_cl_close_net (c : cconn hstate)  : cc_nextID (cl_close_net c) = cc_nextID c. Proof. cc_unf. Qed.
-Lemma cc_open_cl_close_net (c : cconn hstate)  : cc_open (cl_close_net c) = cc_open c. Proof. cc_unf. Qed.
-Lemma cc_maxStreams_cl_close_net (c : cconn hstate)  : cc_maxStreams (cl_close_net c) = cc_maxStreams c. Proof. cc_unf. Qed.
-Lemma cc_maxFrame_cl_close_net (c : cconn hstate)  : cc_maxFrame (cl_close_net c) = cc_maxFrame c. Proof. cc_unf. Qed.
-Lemma cc_goAway_cl_close_net (c : cconn hstate)  : cc_goAway (cl_close_net c) = cc_goAway c. Proof. cc_unf. Qed.
-Lemma cc_closed_cl_close_net (c : cconn hstate)  : cc_closed (cl_close_net c) = cc_closed c. Proof. cc_unf. Qed.
-Lemma cc_closing_cl_close_net (c : cconn hstate)  : cc_closing (cl_close_net c) = cc_closing c. Proof. cc_unf. Qed.
-Lemma cc_writeFail_cl_close_net (c : cconn hstate)  : cc_writeFail (cl_close_net c) = cc_writeFail c. Proof. cc_unf. Qed.
-Lemma cc_enc_cl_close_net (c : cconn hstate)  : cc_enc (cl_close_net c) = cc_enc c. Proof. cc_unf. Qed.
-Lemma cc_encTableSize_cl_close_net (c : cconn hstate)  : cc_encTableSize (cl_close_net c) = cc_encTableSize c. Proof. cc_unf. Qed.
-Lemma cc_encTableSeen_cl_close_net (c : cconn hstate)  : cc_encTableSeen (cl_close_net c) = cc_encTableSeen c. Proof. cc_unf. Qed.
-Lemma cc_dec_cl_close_net (c : cconn hstate)  : cc_dec (cl_close_net c) = cc_dec c. Proof. cc_unf. Qed.
-Lemma cc_currentWindow_cl_close_net (c : cconn hstate)  : cc_currentWindow (cl_close_net c) = cc_currentWindow c. Proof. cc_unf. Qed.
-Lemma cc_serverS_cl_close_net (c : cconn hstate)  : cc_serverS (cl_close_net c) = cc_serverS c. Proof. cc_unf. Qed.
-Lemma cc_hdrStream_cl_close_net (c : cconn hstate)  : cc_hdrStream (cl_close_net c) = cc_hdrStream c. Proof. cc_unf. Qed.
-Lemma cc_hdrPrev_cl_close_net (c : cconn hstate)  : cc_hdrPrev (cl_close_net c) = cc_hdrPrev c. Proof. cc_unf. Qed.
-Lemma cc_hdrFields_cl_close_net (c : cconn hstate)  : cc_hdrFields (cl_close_net c) = cc_hdrFields c. Proof. cc_unf. Qed.
-Lemma cc_hdrEndStream_cl_close_net (c : cconn hstate)  : cc_hdrEndStream (cl_close_net c) = cc_hdrEndStream c. Proof. cc_unf. Qed.
-Lemma cc_hdrRegularSeen_cl_close_net (c : cconn hstate)  : cc_hdrRegularSeen (cl_close_net c) = cc_hdrRegularSeen c. Proof. cc_unf. Qed.
-Lemma cc_hdrStatus_cl_close_net (c : cconn hstate)  : cc_hdrStatus (cl_close_net c) = cc_hdrStatus c. Proof. cc_unf. Qed.
-Lemma cc_hdrErr_cl_close_net (c : cconn hstate)  : cc_hdrErr (cl_close_net c) = cc_hdrErr c. Proof. cc_unf. Qed.
-Lemma cc_stateClosed_cl_close_net (c : cconn hstate)  : cc_stateClosed (cl_close_net c) = cc_stateClosed c. Proof. cc_unf. Qed.
-Lemma cc_closeRef_cl_close_net (c : cconn hstate)  : cc_closeRef (cl_close_net c) = cc_closeRef c. Proof. cc_unf. Qed.
-Lemma cc_reqQueued_cl_close_net (c : cconn hstate)  : cc_reqQueued (cl_close_net c) = cc_reqQueued c. Proof. cc_unf. Qed.
-Lemma cc_pending_cl_close_net (c : cconn hstate)  : cc_pending (cl_close_net c) = cc_pending c. Proof. cc_unf. Qed.
-Lemma cc_connWindow_cl_close_net (c : cconn hstate)  : cc_connWindow (cl_close_net c) = cc_connWindow c. Proof. cc_unf. Qed.
-Lemma cc_streamWindow_cl_close_net (c : cconn hstate)  : cc_streamWindow (cl_close_net c) = cc_streamWindow c. Proof. cc_unf. Qed.
-Lemma cc_inQ_cl_close_net (c : cconn hstate)  : cc_inQ (cl_close_net c) = cc_inQ c. Proof. cc_unf. Qed.
-Lemma cc_outQ_cl_close_net (c : cconn hstate)  : cc_outQ (cl_close_net c) = cc_outQ c. Proof. cc_unf. Qed.
-Lemma cc_winCh_cl_close_net (c : cconn hstate)  : cc_winCh (cl_close_net c) = cc_winCh c. Proof. cc_unf. Qed.
-Lemma cc_lastErr_cl_close_net (c : cconn hstate)  : cc_lastErr (cl_close_net c) = cc_lastErr c. Proof. cc_unf. Qed.
-Lemma cc_unacks_cl_close_net (c : cconn hstate)  : cc_unacks (cl_close_net c) = cc_unacks c. Proof. cc_unf. Qed.
-Lemma cc_rl_done_cl_close_net (c : cconn hstate)  : cc_rl_done (cl_close_net c) = cc_rl_done c. Proof. cc_unf. Qed.
-Lemma cc_wl_done_cl_close_net (c : cconn hstate)  : cc_wl_done (cl_close_net c) = cc_wl_done c. Proof. cc_unf. Qed.
-Lemma cc_rl_stuck_cl_close_net (c : cconn hstate)  : cc_rl_stuck (cl_close_net c) = cc_rl_stuck c. Proof. cc_unf. Qed.
-Lemma cc_wl_stuck_cl_close_net (c : cconn hstate)  : cc_wl_stuck (cl_close_net c) = cc_wl_stuck c. Proof. cc_unf. Qed.
-Lemma cc_ctxs_cl_conn_close (c : cconn hstate)  : cc_ctxs (cl_conn_close c) = cc_ctxs c. Proof. cc_unf. Qed.
-Lemma cc_nextID_cl_conn_close (c : cconn hstate)  : cc_nextID (cl_conn_close c) = cc_nextID c. Proof. cc_unf. Qed.
-Lemma cc_open_cl_conn_close (c : cconn hstate)  : cc_open (cl_conn_close c) = cc_open c. Proof. cc_unf. Qed.
-Lemma cc_maxStreams_cl_conn_close (c : cconn hstate)  : cc_maxStreams (cl_conn_close c) = cc_maxStreams c. Proof. cc_unf. Qed.
-Lemma cc_maxFrame_cl_conn_close (c : cconn hstate)  : cc_maxFrame (cl_conn_close c) = cc_maxFrame c. Proof. cc_unf. Qed.
-Lemma cc_goAway_cl_conn_close (c : cconn hstate)  : cc_goAway (cl_conn_close c) = cc_goAway c. Proof. cc_unf. Qed.
-Lemma cc_closing_cl_conn_close (c : cconn hstate)  : cc_closing (cl_conn_close c) = cc_closing c. Proof. cc_unf. Qed.
-Lemma cc_writeFail_cl_conn_close (c : cconn hstate)  : cc_writeFail (cl_conn_close c) = cc_writeFail c. Proof. cc_unf. Qed.
-Lemma cc_enc_cl_conn_close (c : cconn hstate)  : cc_enc (cl_conn_close c) = cc_enc c. Proof. cc_unf. Qed.
-Lemma cc_encTableSize_cl_conn_close (c : cconn hstate)  : cc_encTableSize (cl_conn_close c) = cc_encTableSize c. Proof. cc_unf. Qed.
-Lemma cc_encTableSeen_cl_conn_close (c : cconn hstate)  : cc_encTableSeen (cl_conn_close c) = cc_encTableSeen c. Proof. cc_unf. Qed.
-Lemma cc_dec_cl_conn_close (c : cconn hstate)  : cc_dec (cl_conn_close c) = cc_dec c. Proof. cc_unf. Qed.
-Lemma cc_currentWindow_cl_conn_close (c : cconn hstate)  : cc_currentWindow (cl_conn_close c) = cc_currentWindow c. Proof. cc_unf. Qed.
-Lemma cc_serverS_cl_conn_close (c : cconn hstate)  : cc_serverS (cl_conn_close c) = cc_serverS c. Proof. cc_unf. Qed.
-Lemma cc_hdrStream_cl_conn_close (c : cconn hstate)  : cc_hdrStream (cl_conn_close c) = cc_hdrStream c. Proof. cc_unf. Qed.
-Lemma cc_hdrPrev_cl_conn_close (c : cconn hstate)  : cc_hdrPrev (cl_conn_close c) = cc_hdrPrev c. Proof. cc_unf. Qed.
-Lemma cc_hdrFields_cl_conn_close (c : cconn hstate)  : cc_hdrFields (cl_conn_close c) = cc_hdrFields c. Proof. cc_unf. Qed.
-Lemma cc_hdrEndStream_cl_conn_close (c : cconn hstate)  : cc_hdrEndStream (cl_conn_close c) = cc_hdrEndStream c. Proof. cc_unf. Qed.
-Lemma cc_hdrRegularSeen_cl_conn_close (c : cconn hstate)  : cc_hdrRegularSeen (cl_conn_close c) = cc_hdrRegularSeen c. Proof. cc_unf. Qed.
-Lemma cc_hdrStatus_cl_conn_close (c : cconn hstate)  : cc_hdrStatus (cl_conn_close c) = cc_hdrStatus c. Proof. cc_unf. Qed.
-Lemma cc_hdrErr_cl_conn_close (c : cconn hstate)  : cc_hdrErr (cl_conn_close c) = cc_hdrErr c. Proof. cc_unf. Qed.
-Lemma cc_stateClosed_cl_conn_close (c : cconn hstate)  : cc_stateClosed (cl_conn_close c) = cc_stateClosed c. Proof. cc_unf. Qed.
-Lemma cc_closeRef_cl_conn_close (c : cconn hstate)  : cc_closeRef (cl_conn_close c) = cc_closeRef c. Proof. cc_unf. Qed.
-Lemma cc_reqQueued_cl_conn_close (c : cconn hstate)  : cc_reqQueued (cl_conn_close c) = cc_reqQueued c. Proof. cc_unf. Qed.
-Lemma cc_pending_cl_conn_close (c : cconn hstate)  : cc_pending (cl_conn_close c) = cc_pending c. Proof. cc_unf. Qed.
-Lemma cc_connWindow_cl_conn_close (c : cconn hstate)  : cc_connWindow (cl_conn_close c) = cc_connWindow c. Proof. cc_unf. Qed.
-Lemma cc_streamWindow_cl_conn_close (c : cconn hstate)  : cc_streamWindow (cl_conn_close c) = cc_streamWindow c. Proof. cc_unf. Qed.
-Lemma cc_inQ_cl_conn_close (c : cconn hstate)  : cc_inQ (cl_conn_close c) = cc_inQ c. Proof. cc_unf. Qed.
-Lemma cc_outQ_cl_conn_close (c : cconn hstate)  : cc_outQ (cl_conn_close c) = cc_outQ c. Proof. cc_unf. Qed.
-Lemma cc_winCh_cl_conn_close (c : cconn hstate)  : cc_winCh (cl_conn_close c) = cc_winCh c. Proof. cc_unf. Qed.
-Lemma cc_lastErr_cl_conn_close (c : cconn hstate)  : cc_lastErr (cl_conn_close c) = cc_lastErr c. Proof. cc_unf. Qed.
-Lemma cc_unacks_cl_conn_close (c : cconn hstate)  : cc_unacks (cl_conn_close c) = cc_unacks c. Proof. cc_unf. Qed.
-Lemma cc_rl_done_cl_conn_close (c : cconn hstate)  : cc_rl_done (cl_conn_close c) = cc_rl_done c. Proof. cc_unf. Qed.
-Lemma cc_wl_done_cl_conn_close (c : cconn hstate)  : cc_wl_done (cl_conn_close c) = cc_wl_done c. Proof. cc_unf. Qed.
-Lemma cc_rl_stuck_cl_conn_close (c : cconn hstate)  : cc_rl_stuck (cl_conn_close c) = cc_rl_stuck c. Proof. cc_unf. Qed.
-Lemma cc_wl_stuck_cl_conn_close (c : cconn hstate)  : cc_wl_stuck (cl_conn_close c) = cc_wl_stuck c. Proof. cc_unf. Qed.
-Lemma cc_nextID_cl_go_stuck (c : cconn hstate) who held self tag : cc_nextID (cl_go_stuck who held c self tag) = cc_nextID c. Proof. cc_unf. Qed.
-Lemma cc_open_cl_go_stuck (c : cconn hstate) who held self tag : cc_open (cl_go_stuck who held c self tag) = cc_open c. Proof. cc_unf. Qed.
-Lemma cc_maxStreams_cl_go_stuck (c : cconn hstate) who held self tag : cc_maxStreams (cl_go_stuck who held c self tag) = cc_maxStreams c. Proof. cc_unf. Qed.
-Lemma cc_maxFrame_cl_go_stuck (c : cconn hstate) who held self tag : cc_maxFrame (cl_go_stuck who held c self tag) = cc_maxFrame c. Proof. cc_unf. Qed.
-Lemma cc_goAway_cl_go_stuck (c : cconn hstate) who held self tag : cc_goAway (cl_go_stuck who held c self tag) = cc_goAway c. Proof. cc_unf. Qed.
-Lemma cc_closed_cl_go_stuck (c : cconn hstate) who held self tag : cc_closed (cl_go_stuck who held c self tag) = cc_closed c. Proof. cc_unf. Qed.
-Lemma cc_closing_cl_go_stuck (c : cconn hstate) who held self tag : cc_closing (cl_go_stuck who held c self tag) = cc_closing c. Proof. cc_unf. Qed.
-Lemma cc_netClosed_cl_go_stuck (c : cconn hstate) who held self tag : cc_netClosed (cl_go_stuck who held c self tag) = cc_netClosed c. Proof. cc_unf. Qed.
-Lemma cc_writeFail_cl_go_stuck (c : cconn hstate) who held self tag : cc_writeFail (cl_go_stuck who held c self tag) = cc_writeFail c. Proof. cc_unf. Qed.
-Lemma cc_enc_cl_go_stuck (c : cconn hstate) who held self tag : cc_enc (cl_go_stuck who held c self tag) = cc_enc c. Proof. cc_unf. Qed.
-Lemma cc_encTableSize_cl_go_stuck (c : cconn hstate) who held self tag : cc_encTableSize (cl_go_stuck who held c self tag) = cc_encTableSize c. Proof. cc_unf. Qed.
-Lemma cc_encTableSeen_cl_go_stuck (c : cconn hstate) who held self tag : cc_encTableSeen (cl_go_stuck who held c self tag) = cc_encTableSeen c. Proof. cc_unf. Qed.
-Lemma cc_dec_cl_go_stuck (c : cconn hstate) who held self tag : cc_dec (cl_go_stuck who held c self tag) = cc_dec c. Proof. cc_unf. Qed.
-Lemma cc_currentWindow_cl_go_stuck (c : cconn hstate) who held self tag : cc_currentWindow (cl_go_stuck who held c self tag) = cc_currentWindow c. Proof. cc_unf. Qed.
-Lemma cc_serverS_cl_go_stuck (c : cconn hstate) who held self tag : cc_serverS (cl_go_stuck who held c self tag) = cc_serverS c. Proof. cc_unf. Qed.
-Lemma cc_hdrStream_cl_go_stuck (c : cconn hstate) who held self tag : cc_hdrStream (cl_go_stuck who held c self tag) = cc_hdrStream c. Proof. cc_unf. Qed.
-Lemma cc_hdrPrev_cl_go_stuck (c : cconn hstate) who held self tag : cc_hdrPrev (cl_go_stuck who held c self tag) = cc_hdrPrev c. Proof. cc_unf. Qed.
-Lemma cc_hdrFields_cl_go_stuck (c : cconn hstate) who held self tag : cc_hdrFields (cl_go_stuck who held c self tag) = cc_hdrFields c. Proof. cc_unf. Qed.
-Lemma cc_hdrEndStream_cl_go_stuck (c : cconn hstate) who held self tag : cc_hdrEndStream (cl_go_stuck who held c self tag) = cc_hdrEndStream c. Proof. cc_unf. Qed.
-Lemma cc_hdrRegularSeen_cl_go_stuck (c : cconn hstate) who held self tag : cc_hdrRegularSeen (cl_go_stuck who held c self tag) = cc_hdrRegularSeen c. Proof. cc_unf. Qed.
-Lemma cc_hdrStatus_cl_go_stuck (c : cconn hstate) who held self tag : cc_hdrStatus (cl_go_stuck who held c self tag) = cc_hdrStatus c. Proof. cc_unf. Qed.
-Lemma cc_hdrErr_cl_go_stuck (c : cconn hstate) who held self tag : cc_hdrErr (cl_go_stuck who held c self tag) = cc_hdrErr c. Proof. cc_unf. Qed.
-Lemma cc_stateClosed_cl_go_stuck (c : cconn hstate) who held self tag : cc_stateClosed (cl_go_stuck who held c self tag) = cc_stateClosed c. Proof. cc_unf. Qed.
-Lemma cc_closeRef_cl_go_stuck (c : cconn hstate) who held self tag : cc_closeRef (cl_go_stuck who held c self tag) = cc_closeRef c. Proof. cc_unf. Qed.
-Lemma cc_reqQueued_cl_go_stuck (c : cconn hstate) who held self tag : cc_reqQueued (cl_go_stuck who held c self tag) = cc_reqQueued c. Proof. cc_unf. Qed.
-Lemma cc_pending_cl_go_stuck (c : cconn hstate) who held self tag : cc_pending (cl_go_stuck who held c self tag) = cc_pending c. Proof. cc_unf. Qed.
-Lemma cc_connWindow_cl_go_stuck (c : cconn hstate) who held self tag : cc_connWindow (cl_go_stuck who held c self tag) = cc_connWindow c. Proof. cc_unf. Qed.
-Lemma cc_streamWindow_cl_go_stuck (c : cconn hstate) who held self tag : cc_streamWindow (cl_go_stuck who held c self tag) = cc_streamWindow c. Proof. cc_unf. Qed.
-Lemma cc_inQ_cl_go_stuck (c : cconn hstate) who held self tag : cc_inQ (cl_go_stuck who held c self tag) = cc_inQ c. Proof. cc_unf. Qed.
-Lemma cc_outQ_cl_go_stuck (c : cconn hstate) who held self tag : cc_outQ (cl_go_stuck who held c self tag) = cc_outQ c. Proof. cc_unf. Qed.
-Lemma cc_winCh_cl_go_stuck (c : cconn hstate) who held self tag : cc_winCh (cl_go_stuck who held c self tag) = cc_winCh c. Proof. cc_unf. Qed.
-Lemma cc_lastErr_cl_go_stuck (c : cconn hstate) who held self tag : cc_lastErr (cl_go_stuck who held c self tag) = cc_lastErr c. Proof. cc_unf. Qed.
-Lemma cc_unacks_cl_go_stuck (c : cconn hstate) who held self tag : cc_unacks (cl_go_stuck who held c self tag) = cc_unacks c. Proof. cc_unf. Qed.
-Lemma cc_rl_done_cl_go_stuck (c : cconn hstate) who held self tag : cc_rl_done (cl_go_stuck who held c self tag) = cc_rl_done c. Proof. cc_unf. Qed.
-Lemma cc_wl_done_cl_go_stuck (c : cconn hstate) who held self tag : cc_wl_done (cl_go_stuck who held c self tag) = cc_wl_done c. Proof. cc_unf. Qed.
-Lemma cc_nextID_cl_close_body (c : cconn hstate) pb : cc_nextID (cl_close_body c pb) = cc_nextID c. Proof. cc_unf. Qed.
-Lemma cc_open_cl_close_body (c : cconn hstate) pb : cc_open (cl_close_body c pb) = cc_open c. Proof. cc_unf. Qed.
-Lemma cc_maxStreams_cl_close_body (c : cconn hstate) pb : cc_maxStreams (cl_close_body c pb) = cc_maxStreams c. Proof. cc_unf. Qed.
-Lemma cc_maxFrame_cl_close_body (c : cconn hstate) pb : cc_maxFrame (cl_close_body c pb) = cc_maxFrame c. Proof. cc_unf. Qed.
-Lemma cc_goAway_cl_close_body (c : cconn hstate) pb : cc_goAway (cl_close_body c pb) = cc_goAway c. Proof. cc_unf. Qed.
-Lemma cc_closed_cl_close_body (c : cconn hstate) pb : cc_closed (cl_close_body c pb) = cc_closed c. Proof. cc_unf. Qed.
-Lemma cc_closing_cl_close_body (c : cconn hstate) pb : cc_closing (cl_close_body c pb) = cc_closing c. Proof. cc_unf. Qed.
-Lemma cc_netClosed_cl_close_body (c : cconn hstate) pb : cc_netClosed (cl_close_body c pb) = cc_netClosed c. Proof. cc_unf. Qed.
-Lemma cc_writeFail_cl_close_body (c : cconn hstate) pb : cc_writeFail (cl_close_body c pb) = cc_writeFail c. Proof. cc_unf. Qed.
-Lemma cc_enc_cl_close_body (c : cconn hstate) pb : cc_enc (cl_close_body c pb) = cc_enc c. Proof. cc_unf. Qed.
-Lemma cc_encTableSize_cl_close_body (c : cconn hstate) pb : cc_encTableSize (cl_close_body c pb) = cc_encTableSize c. Proof. cc_unf. Qed.
-Lemma cc_encTableSeen_cl_close_body (c : cconn hstate) pb : cc_encTableSeen (cl_close_body c pb) = cc_encTableSeen c. Proof. cc_unf. Qed.
-Lemma cc_dec_cl_close_body (c : cconn hstate) pb : cc_dec (cl_close_body c pb) = cc_dec c. Proof. cc_unf. Qed.
-Lemma cc_currentWindow_cl_close_body (c : cconn hstate) pb : cc_currentWindow (cl_close_body c pb) = cc_currentWindow c. Proof. cc_unf. Qed.
-Lemma cc_serverS_cl_close_body (c : cconn hstate) pb : cc_serverS (cl_close_body c pb) = cc_serverS c. Proof. cc_unf. Qed.
-Lemma cc_hdrStream_cl_close_body (c : cconn hstate) pb : cc_hdrStream (cl_close_body c pb) = cc_hdrStream c. Proof. cc_unf. Qed.
-Lemma cc_hdrPrev_cl_close_body (c : cconn hstate) pb : cc_hdrPrev (cl_close_body c pb) = cc_hdrPrev c. Proof. cc_unf. Qed.
-Lemma cc_hdrFields_cl_close_body (c : cconn hstate) pb : cc_hdrFields (cl_close_body c pb) = cc_hdrFields c. Proof. cc_unf. Qed.
-Lemma cc_hdrEndStream_cl_close_body (c : cconn hstate) pb : cc_hdrEndStream (cl_close_body c pb) = cc_hdrEndStream c. Proof. cc_unf. Qed.
-Lemma cc_hdrRegularSeen_cl_close_body (c : cconn hstate) pb : cc_hdrRegularSeen (cl_close_body c pb) = cc_hdrRegularSeen c. Proof. cc_unf. Qed.
-Lemma cc_hdrStatus_cl_close_body (c : cconn hstate) pb : cc_hdrStatus (cl_close_body c pb) = cc_hdrStatus c. Proof. cc_unf. Qed.
-Lemma cc_hdrErr_cl_close_body (c : cconn hstate) pb : cc_hdrErr (cl_close_body c pb) = cc_hdrErr c. Proof. cc_unf. Qed.
-Lemma cc_stateClosed_cl_close_body (c : cconn hstate) pb : cc_stateClosed (cl_close_body c pb) = cc_stateClosed c. Proof. cc_unf. Qed.
-Lemma cc_closeRef_cl_close_body (c : cconn hstate) pb : cc_closeRef (cl_close_body c pb) = cc_closeRef c. Proof. cc_unf. Qed.
-Lemma cc_reqQueued_cl_close_body (c : cconn hstate) pb : cc_reqQueued (cl_close_body c pb) = cc_reqQueued c. Proof. cc_unf. Qed.
-Lemma cc_pending_cl_close_body (c : cconn hstate) pb : cc_pending (cl_close_body c pb) = cc_pending c. Proof. cc_unf. Qed.
-Lemma cc_connWindow_cl_close_body (c : cconn hstate) pb : cc_connWindow (cl_close_body c pb) = cc_connWindow c. Proof. cc_unf. Qed.
-Lemma cc_streamWindow_cl_close_body (c : cconn hstate) pb : cc_streamWindow (cl_close_body c pb) = cc_streamWindow c. Proof. cc_unf. Qed.
-Lemma cc_inQ_cl_close_body (c : cconn hstate) pb : cc_inQ (cl_close_body c pb) = cc_inQ c. Proof. cc_unf. Qed.
-Lemma cc_outQ_cl_close_body (c : cconn hstate) pb : cc_outQ (cl_close_body c pb) = cc_outQ c. Proof. cc_unf. Qed.
-Lemma cc_winCh_cl_close_body (c : cconn hstate) pb : cc_winCh (cl_close_body c pb) = cc_winCh c. Proof. cc_unf. Qed.
-Lemma cc_lastErr_cl_close_body (c : cconn hstate) pb : cc_lastErr (cl_close_body c pb) = cc_lastErr c. Proof. cc_unf. Qed.
-Lemma cc_unacks_cl_close_body (c : cconn hstate) pb : cc_unacks (cl_close_body c pb) = cc_unacks c. Proof. cc_unf. Qed.
-Lemma cc_rl_done_cl_close_body (c : cconn hstate) pb : cc_rl_done (cl_close_body c pb) = cc_rl_done c. Proof. cc_unf. Qed.
-Lemma cc_wl_done_cl_close_body (c : cconn hstate) pb : cc_wl_done (cl_close_body c pb) = cc_wl_done c. Proof. cc_unf. Qed.
-Lemma cc_rl_stuck_cl_close_body (c : cconn hstate) pb : cc_rl_stuck (cl_close_body c pb) = cc_rl_stuck c. Proof. cc_unf. Qed.
-Lemma cc_wl_stuck_cl_close_body (c : cconn hstate) pb : cc_wl_stuck (cl_close_body c pb) = cc_wl_stuck c. Proof. cc_unf. Qed.
-Lemma cc_nextID_cl_delete_pending (c : cconn hstate) who held id : cc_nextID (fst (cl_delete_pending who held c id)) = cc_nextID c. Proof. cc_unf. Qed.
-Lemma cc_open_cl_delete_pending (c : cconn hstate) who held id : cc_open (fst (cl_delete_pending who held c id)) = cc_open c. Proof. cc_unf. Qed.
-Lemma cc_maxStreams_cl_delete_pending (c : cconn hstate) who held id : cc_maxStreams (fst (cl_delete_pending who held c id)) = cc_maxStreams c. Proof. cc_unf. Qed.
-Lemma cc_maxFrame_cl_delete_pending (c : cconn hstate) who held id : cc_maxFrame (fst (cl_delete_pending who held c id)) = cc_maxFrame c. Proof. cc_unf. Qed.
-Lemma cc_goAway_cl_delete_pending (c : cconn hstate) who held id : cc_goAway (fst (cl_delete_pending who held c id)) = cc_goAway c. Proof. cc_unf. Qed.
-Lemma cc_closed_cl_delete_pending (c : cconn hstate) who held id : cc_closed (fst (cl_delete_pending who held c id)) = cc_closed c. Proof. cc_unf. Qed.
-Lemma cc_closing_cl_delete_pending (c : cconn hstate) who held id : cc_closing (fst (cl_delete_pending who held c id)) = cc_closing c. Proof. cc_unf. Qed.
-Lemma cc_netClosed_cl_delete_pending (c : cconn hstate) who held id : cc_netClosed (fst (cl_delete_pending who held c id)) = cc_netClosed c. Proof. cc_unf. Qed.
-Lemma cc_writeFail_cl_delete_pending (c : cconn hstate) who held id : cc_writeFail (fst (cl_delete_pending who held c id)) = cc_writeFail c. Proof. cc_unf. Qed.
-Lemma cc_enc_cl_delete_pending (c : cconn hstate) who held id : cc_enc (fst (cl_delete_pending who held c id)) = cc_enc c. Proof. cc_unf. Qed.
-Lemma cc_encTableSize_cl_delete_pending (c : cconn hstate) who held id : cc_encTableSize (fst (cl_delete_pending who held c id)) = cc_encTableSize c. Proof. cc_unf. Qed.
-Lemma cc_encTableSeen_cl_delete_pending (c : cconn hstate) who held id : cc_encTableSeen (fst (cl_delete_pending who held c id)) = cc_encTableSeen c. Proof. cc_unf. Qed.
-Lemma cc_dec_cl_delete_pending (c : cconn hstate) who held id : cc_dec (fst (cl_delete_pending who held c id)) = cc_dec c. Proof. cc_unf. Qed.
-Lemma cc_currentWindow_cl_delete_pending (c : cconn hstate) who held id : cc_currentWindow (fst (cl_delete_pending who held c id)) = cc_currentWindow c. Proof. cc_unf. Qed.
-Lemma cc_serverS_cl_delete_pending (c : cconn hstate) who held id : cc_serverS (fst (cl_delete_pending who held c id)) = cc_serverS c. Proof. cc_unf. Qed.
-Lemma cc_hdrStream_cl_delete_pending (c : cconn hstate) who held id : cc_hdrStream (fst (cl_delete_pending who held c id)) = cc_hdrStream c. Proof. cc_unf. Qed.
-Lemma cc_hdrPrev_cl_delete_pending (c : cconn hstate) who held id : cc_hdrPrev (fst (cl_delete_pending who held c id)) = cc_hdrPrev c. Proof. cc_unf. Qed.
-Lemma cc_hdrFields_cl_delete_pending (c : cconn hstate) who held id : cc_hdrFields (fst (cl_delete_pending who held c id)) = cc_hdrFields c. Proof. cc_unf. Qed.
-Lemma cc_hdrEndStream_cl_delete_pending (c : cconn hstate) who held id : cc_hdrEndStream (fst (cl_delete_pending who held c id)) = cc_hdrEndStream c. Proof. cc_unf. Qed.
-Lemma cc_hdrRegularSeen_cl_delete_pending (c : cconn hstate) who held id : cc_hdrRegularSeen (fst (cl_delete_pending who held c id)) = cc_hdrRegularSeen c. Proof. cc_unf. Qed.
-Lemma cc_hdrStatus_cl_delete_pending (c : cconn hstate) who held id : cc_hdrStatus (fst (cl_delete_pending who held c id)) = cc_hdrStatus c. Proof. cc_unf. Qed.
-Lemma cc_hdrErr_cl_delete_pending (c : cconn hstate) who held id : cc_hdrErr (fst (cl_delete_pending who held c id)) = cc_hdrErr c. Proof. cc_unf. Qed.
-Lemma cc_stateClosed_cl_delete_pending (c : cconn hstate) who held id : cc_stateClosed (fst (cl_delete_pending who held c id)) = cc_stateClosed c. Proof. cc_unf. Qed.
-Lemma cc_closeRef_cl_delete_pending (c : cconn hstate) who held id : cc_closeRef (fst (cl_delete_pending who held c id)) = cc_closeRef c. Proof. cc_unf. Qed.
-Lemma cc_reqQueued_cl_delete_pending (c : cconn hstate) who held id : cc_reqQueued (fst (cl_delete_pending who held c id)) = cc_reqQueued c. Proof. cc_unf. Qed.
-Lemma cc_connWindow_cl_delete_pending (c : cconn hstate) who held id : cc_connWindow (fst (cl_delete_pending who held c id)) = cc_connWindow c. Proof. cc_unf. Qed.
-Lemma cc_streamWindow_cl_delete_pending (c : cconn hstate) who held id : cc_streamWindow (fst (cl_delete_pending who held c id)) = cc_streamWindow c. Proof. cc_unf. Qed.
-Lemma cc_inQ_cl_delete_pending (c : cconn hstate) who held id : cc_inQ (fst (cl_delete_pending who held c id)) = cc_inQ c. Proof. cc_unf. Qed.
-Lemma cc_outQ_cl_delete_pending (c : cconn hstate) who held id : cc_outQ (fst (cl_delete_pending who held c id)) = cc_outQ c. Proof. cc_unf. Qed.
-Lemma cc_winCh_cl_delete_pending (c : cconn hstate) who held id : cc_winCh (fst (cl_delete_pending who held c id)) = cc_winCh c. Proof. cc_unf. Qed.
-Lemma cc_lastErr_cl_delete_pending (c : cconn hstate) who held id : cc_lastErr (fst (cl_delete_pending who held c id)) = cc_lastErr c. Proof. cc_unf. Qed.
-Lemma cc_unacks_cl_delete_pending (c : cconn hstate) who held id : cc_unacks (fst (cl_delete_pending who held c id)) = cc_unacks c. Proof. cc_unf. Qed.
-Lemma cc_rl_done_cl_delete_pending (c : cconn hstate) who held id : cc_rl_done (fst (cl_delete_pending who held c id)) = cc_rl_done c. Proof. cc_unf. Qed.
-Lemma cc_wl_done_cl_delete_pending (c : cconn hstate) who held id : cc_wl_done (fst (cl_delete_pending who held c id)) = cc_wl_done c. Proof. cc_unf. Qed.
-Lemma cc_ctxs_cl_cancel_stream (c : cconn hstate) id code : cc_ctxs (cl_cancel_stream c id code) = cc_ctxs c. Proof. cc_unf. Qed.
-Lemma cc_nextID_cl_cancel_stream (c : cconn hstate) id code : cc_nextID (cl_cancel_stream c id code) = cc_nextID c. Proof. cc_unf. Qed.
-Lemma cc_open_cl_cancel_stream (c : cconn hstate) id code : cc_open (cl_cancel_stream c id code) = cc_open c. Proof. cc_unf. Qed.
-Lemma cc_maxStreams_cl_cancel_stream (c : cconn hstate) id code : cc_maxStreams (cl_cancel_stream c id code) = cc_maxStreams c. Proof. cc_unf. Qed.
-Lemma cc_maxFrame_cl_cancel_stream (c : cconn hstate) id code : cc_maxFrame (cl_cancel_stream c id code) = cc_maxFrame c. Proof. cc_unf. Qed.
-Lemma cc_goAway_cl_cancel_stream (c : cconn hstate) id code : cc_goAway (cl_cancel_stream c id code) = cc_goAway c. Proof. cc_unf. Qed.
-Lemma cc_closed_cl_cancel_stream (c : cconn hstate) id code : cc_closed (cl_cancel_stream c id code) = cc_closed c. Proof. cc_unf. Qed.
-Lemma cc_closing_cl_cancel_stream (c : cconn hstate) id code : cc_closing (cl_cancel_stream c id code) = cc_closing c. Proof. cc_unf. Qed.
-Lemma cc_netClosed_cl_cancel_stream (c : cconn hstate) id code : cc_netClosed (cl_cancel_stream c id code) = cc_netClosed c. Proof. cc_unf. Qed.
-Lemma cc_writeFail_cl_cancel_stream (c : cconn hstate) id code : cc_writeFail (cl_cancel_stream c id code) = cc_writeFail c. Proof. cc_unf. Qed.
-Lemma cc_enc_cl_cancel_stream (c : cconn hstate) id code : cc_enc (cl_cancel_stream c id code) = cc_enc c. Proof. cc_unf. Qed.
-Lemma cc_encTableSize_cl_cancel_stream (c : cconn hstate) id code : cc_encTableSize (cl_cancel_stream c id code) = cc_encTableSize c. Proof. cc_unf. Qed.
-Lemma cc_encTableSeen_cl_cancel_stream (c : cconn hstate) id code : cc_encTableSeen (cl_cancel_stream c id code) = cc_encTableSeen c. Proof. cc_unf. Qed.
-Lemma cc_dec_cl_cancel_stream (c : cconn hstate) id code : cc_dec (cl_cancel_stream c id code) = cc_dec c. Proof. cc_unf. Qed.
-Lemma cc_currentWindow_cl_cancel_stream (c : cconn hstate) id code : cc_currentWindow (cl_cancel_stream c id code) = cc_currentWindow c. Proof. cc_unf. Qed.
-Lemma cc_serverS_cl_cancel_stream (c : cconn hstate) id code : cc_serverS (cl_cancel_stream c id code) = cc_serverS c. Proof. cc_unf. Qed.
-Lemma cc_hdrStream_cl_cancel_stream (c : cconn hstate) id code : cc_hdrStream (cl_cancel_stream c id code) = cc_hdrStream c. Proof. cc_unf. Qed.
-Lemma cc_hdrPrev_cl_cancel_stream (c : cconn hstate) id code : cc_hdrPrev (cl_cancel_stream c id code) = cc_hdrPrev c. Proof. cc_unf. Qed.
-Lemma cc_hdrFields_cl_cancel_stream (c : cconn hstate) id code : cc_hdrFields (cl_cancel_stream c id code) = cc_hdrFields c. Proof. cc_unf. Qed.
-Lemma cc_hdrEndStream_cl_cancel_stream (c : cconn hstate) id code : cc_hdrEndStream (cl_cancel_stream c id code) = cc_hdrEndStream c. Proof. cc_unf. Qed.
-Lemma cc_hdrRegularSeen_cl_cancel_stream (c : cconn hstate) id code : cc_hdrRegularSeen (cl_cancel_stream c id code) = cc_hdrRegularSeen c. Proof. cc_unf. Qed.
-Lemma cc_hdrStatus_cl_cancel_stream (c : cconn hstate) id code : cc_hdrStatus (cl_cancel_stream c id code) = cc_hdrStatus c. Proof. cc_unf. Qed.
-Lemma cc_hdrErr_cl_cancel_stream (c : cconn hstate) id code : cc_hdrErr (cl_cancel_stream c id code) = cc_hdrErr c. Proof. cc_unf. Qed.
-Lemma cc_stateClosed_cl_cancel_stream (c : cconn hstate) id code : cc_stateClosed (cl_cancel_stream c id code) = cc_stateClosed c. Proof. cc_unf. Qed.
-Lemma cc_closeRef_cl_cancel_stream (c : cconn hstate) id code : cc_closeRef (cl_cancel_stream c id code) = cc_closeRef c. Proof. cc_unf. Qed.
-Lemma cc_reqQueued_cl_cancel_stream (c : cconn hstate) id code : cc_reqQueued (cl_cancel_stream c id code) = cc_reqQueued c. Proof. cc_unf. Qed.
-Lemma cc_pending_cl_cancel_stream (c : cconn hstate) id code : cc_pending (cl_cancel_stream c id code) = cc_pending c. Proof. cc_unf. Qed.
-Lemma cc_connWindow_cl_cancel_stream (c : cconn hstate) id code : cc_connWindow (cl_cancel_stream c id code) = cc_connWindow c. Proof. cc_unf. Qed.
-Lemma cc_streamWindow_cl_cancel_stream (c : cconn hstate) id code : cc_streamWindow (cl_cancel_stream c id code) = cc_streamWindow c. Proof. cc_unf. Qed.
-Lemma cc_inQ_cl_cancel_stream (c : cconn hstate) id code : cc_inQ (cl_cancel_stream c id code) = cc_inQ c. Proof. cc_unf. Qed.
-Lemma cc_winCh_cl_cancel_stream (c : cconn hstate) id code : cc_winCh (cl_cancel_stream c id code) = cc_winCh c. Proof. cc_unf. Qed.
-Lemma cc_lastErr_cl_cancel_stream (c : cconn hstate) id code : cc_lastErr (cl_cancel_stream c id code) = cc_lastErr c. Proof. cc_unf. Qed.
-Lemma cc_unacks_cl_cancel_stream (c : cconn hstate) id code : cc_unacks (cl_cancel_stream c id code) = cc_unacks c. Proof. cc_unf. Qed.
-Lemma cc_rl_done_cl_cancel_stream (c : cconn hstate) id code : cc_rl_done (cl_cancel_stream c id code) = cc_rl_done c. Proof. cc_unf. Qed.
-Lemma cc_wl_done_cl_cancel_stream (c : cconn hstate) id code : cc_wl_done (cl_cancel_stream c id code) = cc_wl_done c. Proof. cc_unf. Qed.
-Lemma cc_rl_stuck_cl_cancel_stream (c : cconn hstate) id code : cc_rl_stuck (cl_cancel_stream c id code) = cc_rl_stuck c. Proof. cc_unf. Qed.
-Lemma cc_wl_stuck_cl_cancel_stream (c : cconn hstate) id code : cc_wl_stuck (cl_cancel_stream c id code) = cc_wl_stuck c. Proof. cc_unf. Qed.
-Lemma cc_out_cl_cancel_stream (c : cconn hstate) id code : cc_out (cl_cancel_stream c id code) = cc_out c. Proof. cc_unf. Qed.
-Lemma cc_ctxs_cl_apply_initial_window (c : cconn hstate) size : cc_ctxs (cl_apply_initial_window c size) = cc_ctxs c. Proof. cc_unf. Qed.
-Lemma cc_nextID_cl_apply_initial_window (c : cconn hstate) size : cc_nextID (cl_apply_initial_window c size) = cc_nextID c. Proof. cc_unf. Qed.
-Lemma cc_open_cl_apply_initial_window (c : cconn hstate) size : cc_open (cl_apply_initial_window c size) = cc_open c. Proof. cc_unf. Qed.
-Lemma cc_maxStreams_cl_apply_initial_window (c : cconn hstate) size : cc_maxStreams (cl_apply_initial_window c size) = cc_maxStreams c. Proof. cc_unf. Qed.
-Lemma cc_maxFrame_cl_apply_initial_window (c : cconn hstate) size : cc_maxFrame (cl_apply_initial_window c size) = cc_maxFrame c. Proof. cc_unf. Qed.
-Lemma cc_goAway_cl_apply_initial_window (c : cconn hstate) size : cc_goAway (cl_apply_initial_window c size) = cc_goAway c. Proof. cc_unf. Qed.
-Lemma cc_closed_cl_apply_initial_window (c : cconn hstate) size : cc_closed (cl_apply_initial_window c size) = cc_closed c. Proof. cc_unf. Qed.
-Lemma cc_closing_cl_apply_initial_window (c : cconn hstate) size : cc_closing (cl_apply_initial_window c size) = cc_closing c. Proof. cc_unf. Qed.
-Lemma cc_netClosed_cl_apply_initial_window (c : cconn hstate) size : cc_netClosed (cl_apply_initial_window c size) = cc_netClosed c. Proof. cc_unf. Qed.
-Lemma cc_writeFail_cl_apply_initial_window (c : cconn hstate) size : cc_writeFail (cl_apply_initial_window c size) = cc_writeFail c. Proof. cc_unf. Qed.
-Lemma cc_enc_cl_apply_initial_window (c : cconn hstate) size : cc_enc (cl_apply_initial_window c size) = cc_enc c. Proof. cc_unf. Qed.
-Lemma cc_encTableSize_cl_apply_initial_window (c : cconn hstate) size : cc_encTableSize (cl_apply_initial_window c size) = cc_encTableSize c. Proof. cc_unf. Qed.
-Lemma cc_encTableSeen_cl_apply_initial_window (c : cconn hstate) size : cc_encTableSeen (cl_apply_initial_window c size) = cc_encTableSeen c. Proof. cc_unf. Qed.
-Lemma cc_dec_cl_apply_initial_window (c : cconn hstate) size : cc_dec (cl_apply_initial_window c size) = cc_dec c. Proof. cc_unf. Qed.
-Lemma cc_currentWindow_cl_apply_initial_window (c : cconn hstate) size : cc_currentWindow (cl_apply_initial_window c size) = cc_currentWindow c. Proof. cc_unf. Qed.
-Lemma cc_serverS_cl_apply_initial_window (c : cconn hstate) size : cc_serverS (cl_apply_initial_window c size) = cc_serverS c. Proof. cc_unf. Qed.
-Lemma cc_hdrStream_cl_apply_initial_window (c : cconn hstate) size : cc_hdrStream (cl_apply_initial_window c size) = cc_hdrStream c. Proof. cc_unf. Qed.
-Lemma cc_hdrPrev_cl_apply_initial_window (c : cconn hstate) size : cc_hdrPrev (cl_apply_initial_window c size) = cc_hdrPrev c. Proof. cc_unf. Qed.
-Lemma cc_hdrFields_cl_apply_initial_window (c : cconn hstate) size : cc_hdrFields (cl_apply_initial_window c size) = cc_hdrFields c. Proof. cc_unf. Qed.
-Lemma cc_hdrEndStream_cl_apply_initial_window (c : cconn hstate) size : cc_hdrEndStream (cl_apply_initial_window c size) = cc_hdrEndStream c. Proof. cc_unf. Qed.
-Lemma cc_hdrRegularSeen_cl_apply_initial_window (c : cconn hstate) size : cc_hdrRegularSeen (cl_apply_initial_window c size) = cc_hdrRegularSeen c. Proof. cc_unf. Qed.
-Lemma cc_hdrStatus_cl_apply_initial_window (c : cconn hstate) size : cc_hdrStatus (cl_apply_initial_window c size) = cc_hdrStatus c. Proof. cc_unf. Qed.
-Lemma cc_hdrErr_cl_apply_initial_window (c : cconn hstate) size : cc_hdrErr (cl_apply_initial_window c size) = cc_hdrErr c. Proof. cc_unf. Qed.
-Lemma cc_stateClosed_cl_apply_initial_window (c : cconn hstate) size : cc_stateClosed (cl_apply_initial_window c size) = cc_stateClosed c. Proof. cc_unf. Qed.
-Lemma cc_closeRef_cl_apply_initial_window (c : cconn hstate) size : cc_closeRef (cl_apply_initial_window c size) = cc_closeRef c. Proof. cc_unf. Qed.
-Lemma cc_reqQueued_cl_apply_initial_window (c : cconn hstate) size : cc_reqQueued (cl_apply_initial_window c size) = cc_reqQueued c. Proof. cc_unf. Qed.
-Lemma cc_connWindow_cl_apply_initial_window (c : cconn hstate) size : cc_connWindow (cl_apply_initial_window c size) = cc_connWindow c. Proof. cc_unf. Qed.
-Lemma cc_inQ_cl_apply_initial_window (c : cconn hstate) size : cc_inQ (cl_apply_initial_window c size) = cc_inQ c. Proof. cc_unf. Qed.
-Lemma cc_outQ_cl_apply_initial_window (c : cconn hstate) size : cc_outQ (cl_apply_initial_window c size) = cc_outQ c. Proof. cc_unf. Qed.
-Lemma cc_lastErr_cl_apply_initial_window (c : cconn hstate) size : cc_lastErr (cl_apply_initial_window c size) = cc_lastErr c. Proof. cc_unf. Qed.
-Lemma cc_unacks_cl_apply_initial_window (c : cconn hstate) size : cc_unacks (cl_apply_initial_window c size) = cc_unacks c. Proof. cc_unf. Qed.
-Lemma cc_rl_done_cl_apply_initial_window (c : cconn hstate) size : cc_rl_done (cl_apply_initial_window c size) = cc_rl_done c. Proof. cc_unf. Qed.
-Lemma cc_wl_done_cl_apply_initial_window (c : cconn hstate) size : cc_wl_done (cl_apply_initial_window c size) = cc_wl_done c. Proof. cc_unf. Qed.
-Lemma cc_rl_stuck_cl_apply_initial_window (c : cconn hstate) size : cc_rl_stuck (cl_apply_initial_window c size) = cc_rl_stuck c. Proof. cc_unf. Qed.
-Lemma cc_wl_stuck_cl_apply_initial_window (c : cconn hstate) size : cc_wl_stuck (cl_apply_initial_window c size) = cc_wl_stuck c. Proof. cc_unf. Qed.
-Lemma cc_out_cl_apply_initial_window (c : cconn hstate) size : cc_out (cl_apply_initial_window c size) = cc_out c. Proof. cc_unf. Qed.
-Lemma cc_ctxs_cl_add_window (c : cconn hstate) sid inc : cc_ctxs (cl_add_window c sid inc) = cc_ctxs c. Proof. cc_unf. Qed.
-Lemma cc_nextID_cl_add_window (c : cconn hstate) sid inc : cc_nextID (cl_add_window c sid inc) = cc_nextID c. Proof. cc_unf. Qed.
-Lemma cc_open_cl_add_window (c : cconn hstate) sid inc : cc_open (cl_add_window c sid inc) = cc_open c. Proof. cc_unf. Qed.
-Lemma cc_maxStreams_cl_add_window (c : cconn hstate) sid inc : cc_maxStreams (cl_add_window c sid inc) = cc_maxStreams c. Proof. cc_unf. Qed.
-Lemma cc_maxFrame_cl_add_window (c : cconn hstate) sid inc : cc_maxFrame (cl_add_window c sid inc) = cc_maxFrame c. Proof. cc_unf. Qed.
-Lemma cc_goAway_cl_add_window (c : cconn hstate) sid inc : cc_goAway (cl_add_window c sid inc) = cc_goAway c. Proof. cc_unf. Qed.
-Lemma cc_closed_cl_add_window (c : cconn hstate) sid inc : cc_closed (cl_add_window c sid inc) = cc_closed c. Proof. cc_unf. Qed.
-Lemma cc_closing_cl_add_window (c : cconn hstate) sid inc : cc_closing (cl_add_window c sid inc) = cc_closing c. Proof. cc_unf. Qed.
-Lemma cc_netClosed_cl_add_window (c : cconn hstate) sid inc : cc_netClosed (cl_add_window c sid inc) = cc_netClosed c. Proof. cc_unf. Qed.
-Lemma cc_writeFail_cl_add_window (c : cconn hstate) sid inc : cc_writeFail (cl_add_window c sid inc) = cc_writeFail c. Proof. cc_unf. Qed.
-Lemma cc_enc_cl_add_window (c : cconn hstate) sid inc : cc_enc (cl_add_window c sid inc) = cc_enc c. Proof. cc_unf. Qed.
-Lemma cc_encTableSize_cl_add_window (c : cconn hstate) sid inc : cc_encTableSize (cl_add_window c sid inc) = cc_encTableSize c. Proof. cc_unf. Qed.
-Lemma cc_encTableSeen_cl_add_window (c : cconn hstate) sid inc : cc_encTableSeen (cl_add_window c sid inc) = cc_encTableSeen c. Proof. cc_unf. Qed.
-Lemma cc_dec_cl_add_window (c : cconn hstate) sid inc : cc_dec (cl_add_window c sid inc) = cc_dec c. Proof. cc_unf. Qed.
-Lemma cc_currentWindow_cl_add_window (c : cconn hstate) sid inc : cc_currentWindow (cl_add_window c sid inc) = cc_currentWindow c. Proof. cc_unf. Qed.
-Lemma cc_serverS_cl_add_window (c : cconn hstate) sid inc : cc_serverS (cl_add_window c sid inc) = cc_serverS c. Proof. cc_unf. Qed.
-Lemma cc_hdrStream_cl_add_window (c : cconn hstate) sid inc : cc_hdrStream (cl_add_window c sid inc) = cc_hdrStream c. Proof. cc_unf. Qed.
-Lemma cc_hdrPrev_cl_add_window (c : cconn hstate) sid inc : cc_hdrPrev (cl_add_window c sid inc) = cc_hdrPrev c. Proof. cc_unf. Qed.
-Lemma cc_hdrFields_cl_add_window (c : cconn hstate) sid inc : cc_hdrFields (cl_add_window c sid inc) = cc_hdrFields c. Proof. cc_unf. Qed.
-Lemma cc_hdrEndStream_cl_add_window (c : cconn hstate) sid inc : cc_hdrEndStream (cl_add_window c sid inc) = cc_hdrEndStream c. Proof. cc_unf. Qed.
-Lemma cc_hdrRegularSeen_cl_add_window (c : cconn hstate) sid inc : cc_hdrRegularSeen (cl_add_window c sid inc) = cc_hdrRegularSeen c. Proof. cc_unf. Qed.
-Lemma cc_hdrStatus_cl_add_window (c : cconn hstate) sid inc : cc_hdrStatus (cl_add_window c sid inc) = cc_hdrStatus c. Proof. cc_unf. Qed.
-Lemma cc_hdrErr_cl_add_window (c : cconn hstate) sid inc : cc_hdrErr (cl_add_window c sid inc) = cc_hdrErr c. Proof. cc_unf. Qed.
-Lemma cc_stateClosed_cl_add_window (c : cconn hstate) sid inc : cc_stateClosed (cl_add_window c sid inc) = cc_stateClosed c. Proof. cc_unf. Qed.
-Lemma cc_closeRef_cl_add_window (c : cconn hstate) sid inc : cc_closeRef (cl_add_window c sid inc) = cc_closeRef c. Proof. cc_unf. Qed.
-Lemma cc_reqQueued_cl_add_window (c : cconn hstate) sid inc : cc_reqQueued (cl_add_window c sid inc) = cc_reqQueued c. Proof. cc_unf. Qed.
-Lemma cc_streamWindow_cl_add_window (c : cconn hstate) sid inc : cc_streamWindow (cl_add_window c sid inc) = cc_streamWindow c. Proof. cc_unf. Qed.
-Lemma cc_inQ_cl_add_window (c : cconn hstate) sid inc : cc_inQ (cl_add_window c sid inc) = cc_inQ c. Proof. cc_unf. Qed.
-Lemma cc_outQ_cl_add_window (c : cconn hstate) sid inc : cc_outQ (cl_add_window c sid inc) = cc_outQ c. Proof. cc_unf. Qed.
-Lemma cc_lastErr_cl_add_window (c : cconn hstate) sid inc : cc_lastErr (cl_add_window c sid inc) = cc_lastErr c. Proof. cc_unf. Qed.
-Lemma cc_unacks_cl_add_window (c : cconn hstate) sid inc : cc_unacks (cl_add_window c sid inc) = cc_unacks c. Proof. cc_unf. Qed.
-Lemma cc_rl_done_cl_add_window (c : cconn hstate) sid inc : cc_rl_done (cl_add_window c sid inc) = cc_rl_done c. Proof. cc_unf. Qed.
-Lemma cc_wl_done_cl_add_window (c : cconn hstate) sid inc : cc_wl_done (cl_add_window c sid inc) = cc_wl_done c. Proof. cc_unf. Qed.
-Lemma cc_rl_stuck_cl_add_window (c : cconn hstate) sid inc : cc_rl_stuck (cl_add_window c sid inc) = cc_rl_stuck c. Proof. cc_unf. Qed.
-Lemma cc_wl_stuck_cl_add_window (c : cconn hstate) sid inc : cc_wl_stuck (cl_add_window c sid inc) = cc_wl_stuck c. Proof. cc_unf. Qed.
-Lemma cc_out_cl_add_window (c : cconn hstate) sid inc : cc_out (cl_add_window c sid inc) = cc_out c. Proof. cc_unf. Qed.
-Lemma cc_ctxs_cl_update_window (c : cconn hstate) sid n : cc_ctxs (cl_update_window c sid n) = cc_ctxs c. Proof. cc_unf. Qed.
-Lemma cc_nextID_cl_update_window (c : cconn hstate) sid n : cc_nextID (cl_update_window c sid n) = cc_nextID c. Proof. cc_unf. Qed.
-Lemma cc_open_cl_update_window (c : cconn hstate) sid n : cc_open (cl_update_window c sid n) = cc_open c. Proof. cc_unf. Qed.
-Lemma cc_maxStreams_cl_update_window (c : cconn hstate) sid n : cc_maxStreams (cl_update_window c sid n) = cc_maxStreams c. Proof. cc_unf. Qed.
-Lemma cc_maxFrame_cl_update_window (c : cconn hstate) sid n : cc_maxFrame (cl_update_window c sid n) = cc_maxFrame c. Proof. cc_unf. Qed.
-Lemma cc_goAway_cl_update_window (c : cconn hstate) sid n : cc_goAway (cl_update_window c sid n) = cc_goAway c. Proof. cc_unf. Qed.
-Lemma cc_closed_cl_update_window (c : cconn hstate) sid n : cc_closed (cl_update_window c sid n) = cc_closed c. Proof. cc_unf. Qed.
-Lemma cc_closing_cl_update_window (c : cconn hstate) sid n : cc_closing (cl_update_window c sid n) = cc_closing c. Proof. cc_unf. Qed.
-Lemma cc_netClosed_cl_update_window (c : cconn hstate) sid n : cc_netClosed (cl_update_window c sid n) = cc_netClosed c. Proof. cc_unf. Qed.
-Lemma cc_writeFail_cl_update_window (c : cconn hstate) sid n : cc_writeFail (cl_update_window c sid n) = cc_writeFail c. Proof. cc_unf. Qed.
-Lemma cc_enc_cl_update_window (c : cconn hstate) sid n : cc_enc (cl_update_window c sid n) = cc_enc c. Proof. cc_unf. Qed.
-Lemma cc_encTableSize_cl_update_window (c : cconn hstate) sid n : cc_encTableSize (cl_update_window c sid n) = cc_encTableSize c. Proof. cc_unf. Qed.
-Lemma cc_encTableSeen_cl_update_window (c : cconn hstate) sid n : cc_encTableSeen (cl_update_window c sid n) = cc_encTableSeen c. Proof. cc_unf. Qed.
-Lemma cc_dec_cl_update_window (c : cconn hstate) sid n : cc_dec (cl_update_window c sid n) = cc_dec c. Proof. cc_unf. Qed.
-Lemma cc_currentWindow_cl_update_window (c : cconn hstate) sid n : cc_currentWindow (cl_update_window c sid n) = cc_currentWindow c. Proof. cc_unf. Qed.
-Lemma cc_serverS_cl_update_window (c : cconn hstate) sid n : cc_serverS (cl_update_window c sid n) = cc_serverS c. Proof. cc_unf. Qed.
-Lemma cc_hdrStream_cl_update_window (c : cconn hstate) sid n : cc_hdrStream (cl_update_window c sid n) = cc_hdrStream c. Proof. cc_unf. Qed.
-Lemma cc_hdrPrev_cl_update_window (c : cconn hstate) sid n : cc_hdrPrev (cl_update_window c sid n) = cc_hdrPrev c. Proof. cc_unf. Qed.
-Lemma cc_hdrFields_cl_update_window (c : cconn hstate) sid n : cc_hdrFields (cl_update_window c sid n) = cc_hdrFields c. Proof. cc_unf. Qed.
-Lemma cc_hdrEndStream_cl_update_window (c : cconn hstate) sid n : cc_hdrEndStream (cl_update_window c sid n) = cc_hdrEndStream c. Proof. cc_unf. Qed.
-Lemma cc_hdrRegularSeen_cl_update_window (c : cconn hstate) sid n : cc_hdrRegularSeen (cl_update_window c sid n) = cc_hdrRegularSeen c. Proof. cc_unf. Qed.
-Lemma cc_hdrStatus_cl_update_window (c : cconn hstate) sid n : cc_hdrStatus (cl_update_window c sid n) = cc_hdrStatus c. Proof. cc_unf. Qed.
-Lemma cc_hdrErr_cl_update_window (c : cconn hstate) sid n : cc_hdrErr (cl_update_window c sid n) = cc_hdrErr c. Proof. cc_unf. Qed.
-Lemma cc_stateClosed_cl_update_window (c : cconn hstate) sid n : cc_stateClosed (cl_update_window c sid n) = cc_stateClosed c. Proof. cc_unf. Qed.
-Lemma cc_closeRef_cl_update_window (c : cconn hstate) sid n : cc_closeRef (cl_update_window c sid n) = cc_closeRef c. Proof. cc_unf. Qed.
-Lemma cc_reqQueued_cl_update_window (c : cconn hstate) sid n : cc_reqQueued (cl_update_window c sid n) = cc_reqQueued c. Proof. cc_unf. Qed.
-Lemma cc_pending_cl_update_window (c : cconn hstate) sid n : cc_pending (cl_update_window c sid n) = cc_pending c. Proof. cc_unf. Qed.
-Lemma cc_connWindow_cl_update_window (c : cconn hstate) sid n : cc_connWindow (cl_update_window c sid n) = cc_connWindow c. Proof. cc_unf. Qed.
-Lemma cc_streamWindow_cl_update_window (c : cconn hstate) sid n : cc_streamWindow (cl_update_window c sid n) = cc_streamWindow c. Proof. cc_unf. Qed.
-Lemma cc_inQ_cl_update_window (c : cconn hstate) sid n : cc_inQ (cl_update_window c sid n) = cc_inQ c. Proof. cc_unf. Qed.
-Lemma cc_winCh_cl_update_window (c : cconn hstate) sid n : cc_winCh (cl_update_window c sid n) = cc_winCh c. Proof. cc_unf. Qed.
-Lemma cc_lastErr_cl_update_window (c : cconn hstate) sid n : cc_lastErr (cl_update_window c sid n) = cc_lastErr c. Proof. cc_unf. Qed.
-Lemma cc_unacks_cl_update_window (c : cconn hstate) sid n : cc_unacks (cl_update_window c sid n) = cc_unacks c. Proof. cc_unf. Qed.
-Lemma cc_rl_done_cl_update_window (c : cconn hstate) sid n : cc_rl_done (cl_update_window c sid n) = cc_rl_done c. Proof. cc_unf. Qed.
-Lemma cc_wl_done_cl_update_window (c : cconn hstate) sid n : cc_wl_done (cl_update_window c sid n) = cc_wl_done c. Proof. cc_unf. Qed.
-Lemma cc_rl_stuck_cl_update_window (c : cconn hstate) sid n : cc_rl_stuck (cl_update_window c sid n) = cc_rl_stuck c. Proof. cc_unf. Qed.
-Lemma cc_wl_stuck_cl_update_window (c : cconn hstate) sid n : cc_wl_stuck (cl_update_window c sid n) = cc_wl_stuck c. Proof. cc_unf. Qed.
-Lemma cc_out_cl_update_window (c : cconn hstate) sid n : cc_out (cl_update_window c sid n) = cc_out c. Proof. cc_unf. Qed.
-Lemma cc_ctxs_cl_handle_settings (c : cconn hstate) st : cc_ctxs (cl_handle_settings c st) = cc_ctxs c. Proof. cc_unf. Qed.
-Lemma cc_nextID_cl_handle_settings (c : cconn hstate) st : cc_nextID (cl_handle_settings c st) = cc_nextID c. Proof. cc_unf. Qed.
-Lemma cc_open_cl_handle_settings (c : cconn hstate) st : cc_open (cl_handle_settings c st) = cc_open c. Proof. cc_unf. Qed.
-Lemma cc_goAway_cl_handle_settings (c : cconn hstate) st : cc_goAway (cl_handle_settings c st) = cc_goAway c. Proof. cc_unf. Qed.
-Lemma cc_closed_cl_handle_settings (c : cconn hstate) st : cc_closed (cl_handle_settings c st) = cc_closed c. Proof. cc_unf. Qed.
-Lemma cc_closing_cl_handle_settings (c : cconn hstate) st : cc_closing (cl_handle_settings c st) = cc_closing c. Proof. cc_unf. Qed.
-Lemma cc_netClosed_cl_handle_settings (c : cconn hstate) st : cc_netClosed (cl_handle_settings c st) = cc_netClosed c. Proof. cc_unf. Qed.
-Lemma cc_writeFail_cl_handle_settings (c : cconn hstate) st : cc_writeFail (cl_handle_settings c st) = cc_writeFail c. Proof. cc_unf. Qed.
-Lemma cc_enc_cl_handle_settings (c : cconn hstate) st : cc_enc (cl_handle_settings c st) = cc_enc c. Proof. cc_unf. Qed.
-Lemma cc_encTableSeen_cl_handle_settings (c : cconn hstate) st : cc_encTableSeen (cl_handle_settings c st) = cc_encTableSeen c. Proof. cc_unf. Qed.
-Lemma cc_dec_cl_handle_settings (c : cconn hstate) st : cc_dec (cl_handle_settings c st) = cc_dec c. Proof. cc_unf. Qed.
-Lemma cc_currentWindow_cl_handle_settings (c : cconn hstate) st : cc_currentWindow (cl_handle_settings c st) = cc_currentWindow c. Proof. cc_unf. Qed.
-Lemma cc_hdrStream_cl_handle_settings (c : cconn hstate) st : cc_hdrStream (cl_handle_settings c st) = cc_hdrStream c. Proof. cc_unf. Qed.
-Lemma cc_hdrPrev_cl_handle_settings (c : cconn hstate) st : cc_hdrPrev (cl_handle_settings c st) = cc_hdrPrev c. Proof. cc_unf. Qed.
-Lemma cc_hdrFields_cl_handle_settings (c : cconn hstate) st : cc_hdrFields (cl_handle_settings c st) = cc_hdrFields c. Proof. cc_unf. Qed.
-Lemma cc_hdrEndStream_cl_handle_settings (c : cconn hstate) st : cc_hdrEndStream (cl_handle_settings c st) = cc_hdrEndStream c. Proof. cc_unf. Qed.
-Lemma cc_hdrRegularSeen_cl_handle_settings (c : cconn hstate) st : cc_hdrRegularSeen (cl_handle_settings c st) = cc_hdrRegularSeen c. Proof. cc_unf. Qed.
-Lemma cc_hdrStatus_cl_handle_settings (c : cconn hstate) st : cc_hdrStatus (cl_handle_settings c st) = cc_hdrStatus c. Proof. cc_unf. Qed.
-Lemma cc_hdrErr_cl_handle_settings (c : cconn hstate) st : cc_hdrErr (cl_handle_settings c st) = cc_hdrErr c. Proof. cc_unf. Qed.
-Lemma cc_stateClosed_cl_handle_settings (c : cconn hstate) st : cc_stateClosed (cl_handle_settings c st) = cc_stateClosed c. Proof. cc_unf. Qed.
-Lemma cc_closeRef_cl_handle_settings (c : cconn hstate) st : cc_closeRef (cl_handle_settings c st) = cc_closeRef c. Proof. cc_unf. Qed.
-Lemma cc_reqQueued_cl_handle_settings (c : cconn hstate) st : cc_reqQueued (cl_handle_settings c st) = cc_reqQueued c. Proof. cc_unf. Qed.
-Lemma cc_connWindow_cl_handle_settings (c : cconn hstate) st : cc_connWindow (cl_handle_settings c st) = cc_connWindow c. Proof. cc_unf. Qed.
-Lemma cc_inQ_cl_handle_settings (c : cconn hstate) st : cc_inQ (cl_handle_settings c st) = cc_inQ c. Proof. cc_unf. Qed.
-Lemma cc_lastErr_cl_handle_settings (c : cconn hstate) st : cc_lastErr (cl_handle_settings c st) = cc_lastErr c. Proof. cc_unf. Qed.
-Lemma cc_unacks_cl_handle_settings (c : cconn hstate) st : cc_unacks (cl_handle_settings c st) = cc_unacks c. Proof. cc_unf. Qed.
-Lemma cc_rl_done_cl_handle_settings (c : cconn hstate) st : cc_rl_done (cl_handle_settings c st) = cc_rl_done c. Proof. cc_unf. Qed.
-Lemma cc_wl_done_cl_handle_settings (c : cconn hstate) st : cc_wl_done (cl_handle_settings c st) = cc_wl_done c. Proof. cc_unf. Qed.
-Lemma cc_rl_stuck_cl_handle_settings (c : cconn hstate) st : cc_rl_stuck (cl_handle_settings c st) = cc_rl_stuck c. Proof. cc_unf. Qed.
-Lemma cc_wl_stuck_cl_handle_settings (c : cconn hstate) st : cc_wl_stuck (cl_handle_settings c st) = cc_wl_stuck c. Proof. cc_unf. Qed.
-Lemma cc_out_cl_handle_settings (c : cconn hstate) st : cc_out (cl_handle_settings c st) = cc_out c. Proof. cc_unf. Qed.
-Lemma cc_nextID_cl_finish (c : cconn hstate) tag id e : cc_nextID (cl_finish c tag id e) = cc_nextID c. Proof. cc_unf. Qed.
-Lemma cc_maxStreams_cl_finish (c : cconn hstate) tag id e : cc_maxStreams (cl_finish c tag id e) = cc_maxStreams c. Proof. cc_unf. Qed.
-Lemma cc_maxFrame_cl_finish (c : cconn hstate) tag id e : cc_maxFrame (cl_finish c tag id e) = cc_maxFrame c. Proof. cc_unf. Qed.
-Lemma cc_goAway_cl_finish (c : cconn hstate) tag id e : cc_goAway (cl_finish c tag id e) = cc_goAway c. Proof. cc_unf. Qed.
-Lemma cc_closed_cl_finish (c : cconn hstate) tag id e : cc_closed (cl_finish c tag id e) = cc_closed c. Proof. cc_unf. Qed.
-Lemma cc_closing_cl_finish (c : cconn hstate) tag id e : cc_closing (cl_finish c tag id e) = cc_closing c. Proof. cc_unf. Qed.
-Lemma cc_netClosed_cl_finish (c : cconn hstate) tag id e : cc_netClosed (cl_finish c tag id e) = cc_netClosed c. Proof. cc_unf. Qed.
-Lemma cc_writeFail_cl_finish (c : cconn hstate) tag id e : cc_writeFail (cl_finish c tag id e) = cc_writeFail c. Proof. cc_unf. Qed.
-Lemma cc_enc_cl_finish (c : cconn hstate) tag id e : cc_enc (cl_finish c tag id e) = cc_enc c. Proof. cc_unf. Qed.
-Lemma cc_encTableSize_cl_finish (c : cconn hstate) tag id e : cc_encTableSize (cl_finish c tag id e) = cc_encTableSize c. Proof. cc_unf. Qed.
-Lemma cc_encTableSeen_cl_finish (c : cconn hstate) tag id e : cc_encTableSeen (cl_finish c tag id e) = cc_encTableSeen c. Proof. cc_unf. Qed.
-Lemma cc_dec_cl_finish (c : cconn hstate) tag id e : cc_dec (cl_finish c tag id e) = cc_dec c. Proof. cc_unf. Qed.
-Lemma cc_currentWindow_cl_finish (c : cconn hstate) tag id e : cc_currentWindow (cl_finish c tag id e) = cc_currentWindow c. Proof. cc_unf. Qed.
-Lemma cc_serverS_cl_finish (c : cconn hstate) tag id e : cc_serverS (cl_finish c tag id e) = cc_serverS c. Proof. cc_unf. Qed.
-Lemma cc_hdrStream_cl_finish (c : cconn hstate) tag id e : cc_hdrStream (cl_finish c tag id e) = cc_hdrStream c. Proof. cc_unf. Qed.
-Lemma cc_hdrPrev_cl_finish (c : cconn hstate) tag id e : cc_hdrPrev (cl_finish c tag id e) = cc_hdrPrev c. Proof. cc_unf. Qed.
-Lemma cc_hdrFields_cl_finish (c : cconn hstate) tag id e : cc_hdrFields (cl_finish c tag id e) = cc_hdrFields c. Proof. cc_unf. Qed.
-Lemma cc_hdrEndStream_cl_finish (c : cconn hstate) tag id e : cc_hdrEndStream (cl_finish c tag id e) = cc_hdrEndStream c. Proof. cc_unf. Qed.
-Lemma cc_hdrRegularSeen_cl_finish (c : cconn hstate) tag id e : cc_hdrRegularSeen (cl_finish c tag id e) = cc_hdrRegularSeen c. Proof. cc_unf. Qed.
-Lemma cc_hdrStatus_cl_finish (c : cconn hstate) tag id e : cc_hdrStatus (cl_finish c tag id e) = cc_hdrStatus c. Proof. cc_unf. Qed.
-Lemma cc_hdrErr_cl_finish (c : cconn hstate) tag id e : cc_hdrErr (cl_finish c tag id e) = cc_hdrErr c. Proof. cc_unf. Qed.
-Lemma cc_stateClosed_cl_finish (c : cconn hstate) tag id e : cc_stateClosed (cl_finish c tag id e) = cc_stateClosed c. Proof. cc_unf. Qed.
-Lemma cc_closeRef_cl_finish (c : cconn hstate) tag id e : cc_closeRef (cl_finish c tag id e) = cc_closeRef c. Proof. cc_unf. Qed.
-Lemma cc_connWindow_cl_finish (c : cconn hstate) tag id e : cc_connWindow (cl_finish c tag id e) = cc_connWindow c. Proof. cc_unf. Qed.
-Lemma cc_streamWindow_cl_finish (c : cconn hstate) tag id e : cc_streamWindow (cl_finish c tag id e) = cc_streamWindow c. Proof. cc_unf. Qed.
-Lemma cc_inQ_cl_finish (c : cconn hstate) tag id e : cc_inQ (cl_finish c tag id e) = cc_inQ c. Proof. cc_unf. Qed.
-Lemma cc_outQ_cl_finish (c : cconn hstate) tag id e : cc_outQ (cl_finish c tag id e) = cc_outQ c. Proof. cc_unf. Qed.
-Lemma cc_winCh_cl_finish (c : cconn hstate) tag id e : cc_winCh (cl_finish c tag id e) = cc_winCh c. Proof. cc_unf. Qed.
-Lemma cc_lastErr_cl_finish (c : cconn hstate) tag id e : cc_lastErr (cl_finish c tag id e) = cc_lastErr c. Proof. cc_unf. Qed.
-Lemma cc_unacks_cl_finish (c : cconn hstate) tag id e : cc_unacks (cl_finish c tag id e) = cc_unacks c. Proof. cc_unf. Qed.
-Lemma cc_rl_done_cl_finish (c : cconn hstate) tag id e : cc_rl_done (cl_finish c tag id e) = cc_rl_done c. Proof. cc_unf. Qed.
-Lemma cc_wl_done_cl_finish (c : cconn hstate) tag id e : cc_wl_done (cl_finish c tag id e) = cc_wl_done c. Proof. cc_unf. Qed.
-Lemma cc_rl_stuck_cl_finish (c : cconn hstate) tag id e : cc_rl_stuck (cl_finish c tag id e) = cc_rl_stuck c. Proof. cc_unf. Qed.
-Lemma cc_wl_stuck_cl_finish (c : cconn hstate) tag id e : cc_wl_stuck (cl_finish c tag id e) = cc_wl_stuck c. Proof. cc_unf. Qed.
-(* END GENERATED fun *)
-End Proj.
-(* BEGIN GENERATED hints (tools/gen_clibase.sh) *)
-#[export] Hint Rewrite @cc_ctxs_ccu_ctxs @cc_nextID_ccu_ctxs @cc_open_ccu_ctxs @cc_maxStreams_ccu_ctxs @cc_maxFrame_ccu_ctxs @cc_goAway_ccu_ctxs @cc_closed_ccu_ctxs @cc_closing_ccu_ctxs : cc.
-#[export] Hint Rewrite @cc_netClosed_ccu_ctxs @cc_writeFail_ccu_ctxs @cc_enc_ccu_ctxs @cc_encTableSize_ccu_ctxs @cc_encTableSeen_ccu_ctxs @cc_dec_ccu_ctxs @cc_currentWindow_ccu_ctxs @cc_serverS_ccu_ctxs : cc.
-#[export] Hint Rewrite @cc_hdrStream_ccu_ctxs @cc_hdrPrev_ccu_ctxs @cc_hdrFields_ccu_ctxs @cc_hdrEndStream_ccu_ctxs @cc_hdrRegularSeen_ccu_ctxs @cc_hdrStatus_ccu_ctxs @cc_hdrErr_ccu_ctxs @cc_stateClosed_ccu_ctxs : cc.
-#[export] Hint Rewrite @cc_closeRef_ccu_ctxs @cc_reqQueued_ccu_ctxs @cc_pending_ccu_ctxs @cc_connWindow_ccu_ctxs @cc_streamWindow_ccu_ctxs @cc_inQ_ccu_ctxs @cc_outQ_ccu_ctxs @cc_winCh_ccu_ctxs : cc.
-#[export] Hint Rewrite @cc_lastErr_ccu_ctxs @cc_unacks_ccu_ctxs @cc_rl_done_ccu_ctxs @cc_wl_done_ccu_ctxs @cc_rl_stuck_ccu_ctxs @cc_wl_stuck_ccu_ctxs @cc_out_ccu_ctxs @cc_ctxs_ccu_nextID : cc.
-#[export] Hint Rewrite @cc_nextID_ccu_nextID @cc_open_ccu_nextID @cc_maxStreams_ccu_nextID @cc_maxFrame_ccu_nextID @cc_goAway_ccu_nextID @cc_closed_ccu_nextID @cc_closing_ccu_nextID @cc_netClosed_ccu_nextID : cc.
-#[export] Hint Rewrite @cc_writeFail_ccu_nextID @cc_enc_ccu_nextID @cc_encTableSize_ccu_nextID @cc_encTableSeen_ccu_nextID @cc_dec_ccu_nextID @cc_currentWindow_ccu_nextID @cc_serverS_ccu_nextID @cc_hdrStream_ccu_nextID : cc.
-#[export] Hint Rewrite @cc_hdrPrev_ccu_nextID @cc_hdrFields_ccu_nextID @cc_hdrEndStream_ccu_nextID @cc_hdrRegularSeen_ccu_nextID @cc_hdrStatus_ccu_nextID @cc_hdrErr_ccu_nextID @cc_stateClosed_ccu_nextID @cc_closeRef_ccu_nextID : cc.
-#[export] Hint Rewrite @cc_reqQueued_ccu_nextID @cc_pending_ccu_nextID @cc_connWindow_ccu_nextID @cc_streamWindow_ccu_nextID @cc_inQ_ccu_nextID @cc_outQ_ccu_nextID @cc_winCh_ccu_nextID @cc_lastErr_ccu_nextID : cc.
-#[export] Hint Rewrite @cc_unacks_ccu_nextID @cc_rl_done_ccu_nextID @cc_wl_done_ccu_nextID @cc_rl_stuck_ccu_nextID @cc_wl_stuck_ccu_nextID @cc_out_ccu_nextID @cc_ctxs_ccu_open @cc_nextID_ccu_open : cc.
-#[export] Hint Rewrite @cc_open_ccu_open @cc_maxStreams_ccu_open @cc_maxFrame_ccu_open @cc_goAway_ccu_open @cc_closed_ccu_open @cc_closing_ccu_open @cc_netClosed_ccu_open @cc_writeFail_ccu_open : cc.
-#[export] Hint Rewrite @cc_enc_ccu_open @cc_encTableSize_ccu_open @cc_encTableSeen_ccu_open @cc_dec_ccu_open @cc_currentWindow_ccu_open @cc_serverS_ccu_open @cc_hdrStream_ccu_open @cc_hdrPrev_ccu_open : cc.
-#[export] Hint Rewrite @cc_hdrFields_ccu_open @cc_hdrEndStream_ccu_open @cc_hdrRegularSeen_ccu_open @cc_hdrStatus_ccu_open @cc_hdrErr_ccu_open @cc_stateClosed_ccu_open @cc_closeRef_ccu_open @cc_reqQueued_ccu_open : cc.
-#[export] Hint Rewrite @cc_pending_ccu_open @cc_connWindow_ccu_open @cc_streamWindow_ccu_open @cc_inQ_ccu_open @cc_outQ_ccu_open @cc_winCh_ccu_open @cc_lastErr_ccu_open @cc_unacks_ccu_open : cc.
-#[export] Hint Rewrite @cc_rl_done_ccu_open @cc_wl_done_ccu_open @cc_rl_stuck_ccu_open @cc_wl_stuck_ccu_open @cc_out_ccu_open @cc_ctxs_ccu_maxStreams @cc_nextID_ccu_maxStreams @cc_open_ccu_maxStreams : cc.
-#[export] Hint Rewrite @cc_maxStreams_ccu_maxStreams @cc_maxFrame_ccu_maxStreams @cc_goAway_ccu_maxStreams @cc_closed_ccu_maxStreams @cc_closing_ccu_maxStreams @cc_netClosed_ccu_maxStreams @cc_writeFail_ccu_maxStreams @cc_enc_ccu_maxStreams : cc.
-#[export] Hint Rewrite @cc_encTableSize_ccu_maxStreams @cc_encTableSeen_ccu_maxStreams @cc_dec_ccu_maxStreams @cc_currentWindow_ccu_maxStreams @cc_serverS_ccu_maxStreams @cc_hdrStream_ccu_maxStreams @cc_hdrPrev_ccu_maxStreams @cc_hdrFields_ccu_maxStreams : cc.
-#[export] Hint Rewrite @cc_hdrEndStream_ccu_maxStreams @cc_hdrRegularSeen_ccu_maxStreams @cc_hdrStatus_ccu_maxStreams @cc_hdrErr_ccu_maxStreams @cc_stateClosed_ccu_maxStreams @cc_closeRef_ccu_maxStreams @cc_reqQueued_ccu_maxStreams @cc_pending_ccu_maxStreams : cc.
-#[export] Hint Rewrite @cc_connWindow_ccu_maxStreams @cc_streamWindow_ccu_maxStreams @cc_inQ_ccu_maxStreams @cc_outQ_ccu_maxStreams @cc_winCh_ccu_maxStreams @cc_lastErr_ccu_maxStreams @cc_unacks_ccu_maxStreams @cc_rl_done_ccu_maxStreams : cc.
-#[export] Hint Rewrite @cc_wl_done_ccu_maxStreams @cc_rl_stuck_ccu_maxStreams @cc_wl_stuck_ccu_maxStreams @cc_out_ccu_maxStreams @cc_ctxs_ccu_maxFrame @cc_nextID_ccu_maxFrame @cc_open_ccu_maxFrame @cc_maxStreams_ccu_maxFrame : cc.
-#[export] Hint Rewrite @cc_maxFrame_ccu_maxFrame @cc_goAway_ccu_maxFrame @cc_closed_ccu_maxFrame @cc_closing_ccu_maxFrame @cc_netClosed_ccu_maxFrame @cc_writeFail_ccu_maxFrame @cc_enc_ccu_maxFrame @cc_encTableSize_ccu_maxFrame : cc.
-#[export] Hint Rewrite @cc_encTableSeen_ccu_maxFrame @cc_dec_ccu_maxFrame @cc_currentWindow_ccu_maxFrame @cc_serverS_ccu_maxFrame @cc_hdrStream_ccu_maxFrame @cc_hdrPrev_ccu_maxFrame @cc_hdrFields_ccu_maxFrame @cc_hdrEndStream_ccu_maxFrame : cc.
-#[export] Hint Rewrite @cc_hdrRegularSeen_ccu_maxFrame @cc_hdrStatus_ccu_maxFrame @cc_hdrErr_ccu_maxFrame @cc_stateClosed_ccu_maxFrame @cc_closeRef_ccu_maxFrame @cc_reqQueued_ccu_maxFrame @cc_pending_ccu_maxFrame @cc_connWindow_ccu_maxFrame : cc.
-#[export] Hint Rewrite @cc_streamWindow_ccu_maxFrame @cc_inQ_ccu_maxFrame @cc_outQ_ccu_maxFrame @cc_winCh_ccu_maxFrame @cc_lastErr_ccu_maxFrame @cc_unacks_ccu_maxFrame @cc_rl_done_ccu_maxFrame @cc_wl_done_ccu_maxFrame : cc.
-#[export] Hint Rewrite @cc_rl_stuck_ccu_maxFrame @cc_wl_stuck_ccu_maxFrame @cc_out_ccu_maxFrame @cc_ctxs_ccu_goAway @cc_nextID_ccu_goAway @cc_open_ccu_goAway @cc_maxStreams_ccu_goAway @cc_maxFrame_ccu_goAway : cc.
-#[export] Hint Rewrite @cc_goAway_ccu_goAway @cc_closed_ccu_goAway @cc_closing_ccu_goAway @cc_netClosed_ccu_goAway @cc_writeFail_ccu_goAway @cc_enc_ccu_goAway @cc_encTableSize_ccu_goAway @cc_encTableSeen_ccu_goAway : cc.
-#[export] Hint Rewrite @cc_dec_ccu_goAway @cc_currentWindow_ccu_goAway @cc_serverS_ccu_goAway @cc_hdrStream_ccu_goAway @cc_hdrPrev_ccu_goAway @cc_hdrFields_ccu_goAway @cc_hdrEndStream_ccu_goAway @cc_hdrRegularSeen_ccu_goAway : cc.
-#[export] Hint Rewrite @cc_hdrStatus_ccu_goAway @cc_hdrErr_ccu_goAway @cc_stateClosed_ccu_goAway @cc_closeRef_ccu_goAway @cc_reqQueued_ccu_goAway @cc_pending_ccu_goAway @cc_connWindow_ccu_goAway @cc_streamWindow_ccu_goAway : cc.
-#[export] Hint Rewrite @cc_inQ_ccu_goAway @cc_outQ_ccu_goAway @cc_winCh_ccu_goAway @cc_lastErr_ccu_goAway @cc_unacks_ccu_goAway @cc_rl_done_ccu_goAway @cc_wl_done_ccu_goAway @cc_rl_stuck_ccu_goAway : cc.
-#[export] Hint Rewrite @cc_wl_stuck_ccu_goAway @cc_out_ccu_goAway @cc_ctxs_ccu_closed @cc_nextID_ccu_closed @cc_open_ccu_closed @cc_maxStreams_ccu_closed @cc_maxFrame_ccu_closed @cc_goAway_ccu_closed : cc.
-#[export] Hint Rewrite @cc_closed_ccu_closed @cc_closing_ccu_closed @cc_netClosed_ccu_closed @cc_writeFail_ccu_closed @cc_enc_ccu_closed @cc_encTableSize_ccu_closed @cc_encTableSeen_ccu_closed @cc_dec_ccu_closed : cc.
-#[export] Hint Rewrite @cc_currentWindow_ccu_closed @cc_serverS_ccu_closed @cc_hdrStream_ccu_closed @cc_hdrPrev_ccu_closed @cc_hdrFields_ccu_closed @cc_hdrEndStream_ccu_closed @cc_hdrRegularSeen_ccu_closed @cc_hdrStatus_ccu_closed : cc.
-#[export] Hint Rewrite @cc_hdrErr_ccu_closed @cc_stateClosed_ccu_closed @cc_closeRef_ccu_closed @cc_reqQueued_ccu_closed @cc_pending_ccu_closed @cc_connWindow_ccu_closed @cc_streamWindow_ccu_closed @cc_inQ_ccu_closed : cc.
-#[export] Hint Rewrite @cc_outQ_ccu_closed @cc_winCh_ccu_closed @cc_lastErr_ccu_closed @cc_unacks_ccu_closed @cc_rl_done_ccu_closed @cc_wl_done_ccu_closed @cc_rl_stuck_ccu_closed @cc_wl_stuck_ccu_closed : cc.
-#[export] Hint Rewrite @cc_out_ccu_closed @cc_ctxs_ccu_closing @cc_nextID_ccu_closing @cc_open_ccu_closing @cc_maxStreams_ccu_closing @cc_maxFrame_ccu_closing @cc_goAway_ccu_closing @cc_closed_ccu_closing : cc.
-#[export] Hint Rewrite @cc_closing_ccu_closing @cc_netClosed_ccu_closing @cc_writeFail_ccu_closing @cc_enc_ccu_closing @cc_encTableSize_ccu_closing @cc_encTableSeen_ccu_closing @cc_dec_ccu_closing @cc_currentWindow_ccu_closing : cc.
-#[export] Hint Rewrite @cc_serverS_ccu_closing @cc_hdrStream_ccu_closing @cc_hdrPrev_ccu_closing @cc_hdrFields_ccu_closing @cc_hdrEndStream_ccu_closing @cc_hdrRegularSeen_ccu_closing @cc_hdrStatus_ccu_closing @cc_hdrErr_ccu_closing : cc.
-#[export] Hint Rewrite @cc_stateClosed_ccu_closing @cc_closeRef_ccu_closing @cc_reqQueued_ccu_closing @cc_pending_ccu_closing @cc_connWindow_ccu_closing @cc_streamWindow_ccu_closing @cc_inQ_ccu_closing @cc_outQ_ccu_closing : cc.
-#[export] Hint Rewrite @cc_winCh_ccu_closing @cc_lastErr_ccu_closing @cc_unacks_ccu_closing @cc_rl_done_ccu_closing @cc_wl_done_ccu_closing @cc_rl_stuck_ccu_closing @cc_wl_stuck_ccu_closing @cc_out_ccu_closing : cc.
-#[export] Hint Rewrite @cc_ctxs_ccu_netClosed @cc_nextID_ccu_netClosed @cc_open_ccu_netClosed @cc_maxStreams_ccu_netClosed @cc_maxFrame_ccu_netClosed @cc_goAway_ccu_netClosed @cc_closed_ccu_netClosed @cc_closing_ccu_netClosed : cc.
-#[export] Hint Rewrite @cc_netClosed_ccu_netClosed @cc_writeFail_ccu_netClosed @cc_enc_ccu_netClosed @cc_encTableSize_ccu_netClosed @cc_encTableSeen_ccu_netClosed @cc_dec_ccu_netClosed @cc_currentWindow_ccu_netClosed @cc_serverS_ccu_netClosed : cc.
-#[export] Hint Rewrite @cc_hdrStream_ccu_netClosed @cc_hdrPrev_ccu_netClosed @cc_hdrFields_ccu_netClosed @cc_hdrEndStream_ccu_netClosed @cc_hdrRegularSeen_ccu_netClosed @cc_hdrStatus_ccu_netClosed @cc_hdrErr_ccu_netClosed @cc_stateClosed_ccu_netClosed : cc.
-#[export] Hint Rewrite @cc_closeRef_ccu_netClosed @cc_reqQueued_ccu_netClosed @cc_pending_ccu_netClosed @cc_connWindow_ccu_netClosed @cc_streamWindow_ccu_netClosed @cc_inQ_ccu_netClosed @cc_outQ_ccu_netClosed @cc_winCh_ccu_netClosed : cc.
-#[export] Hint Rewrite @cc_lastErr_ccu_netClosed @cc_unacks_ccu_netClosed @cc_rl_done_ccu_netClosed @cc_wl_done_ccu_netClosed @cc_rl_stuck_ccu_netClosed @cc_wl_stuck_ccu_netClosed @cc_out_ccu_netClosed @cc_ctxs_ccu_writeFail : cc.
-#[export] Hint Rewrite @cc_nextID_ccu_writeFail @cc_open_ccu_writeFail @cc_maxStreams_ccu_writeFail @cc_maxFrame_ccu_writeFail @cc_goAway_ccu_writeFail @cc_closed_ccu_writeFail @cc_closing_ccu_writeFail @cc_netClosed_ccu_writeFail : cc.
-#[export] Hint Rewrite @cc_writeFail_ccu_writeFail @cc_enc_ccu_writeFail @cc_encTableSize_ccu_writeFail @cc_encTableSeen_ccu_writeFail @cc_dec_ccu_writeFail @cc_currentWindow_ccu_writeFail @cc_serverS_ccu_writeFail @cc_hdrStream_ccu_writeFail : cc.
-#[export] Hint Rewrite @cc_hdrPrev_ccu_writeFail @cc_hdrFields_ccu_writeFail @cc_hdrEndStream_ccu_writeFail @cc_hdrRegularSeen_ccu_writeFail @cc_hdrStatus_ccu_writeFail @cc_hdrErr_ccu_writeFail @cc_stateClosed_ccu_writeFail @cc_closeRef_ccu_writeFail : cc.
-#[export] Hint Rewrite @cc_reqQueued_ccu_writeFail @cc_pending_ccu_writeFail @cc_connWindow_ccu_writeFail @cc_streamWindow_ccu_writeFail @cc_inQ_ccu_writeFail @cc_outQ_ccu_writeFail @cc_winCh_ccu_writeFail @cc_lastErr_ccu_writeFail : cc.
-#[export] Hint Rewrite @cc_unacks_ccu_writeFail @cc_rl_done_ccu_writeFail @cc_wl_done_ccu_writeFail @cc_rl_stuck_ccu_writeFail @cc_wl_stuck_ccu_writeFail @cc_out_ccu_writeFail @cc_ctxs_ccu_enc @cc_nextID_ccu_enc : cc.
-#[export] Hint Rewrite @cc_open_ccu_enc @cc_maxStreams_ccu_enc @cc_maxFrame_ccu_enc @cc_goAway_ccu_enc @cc_closed_ccu_enc @cc_closing_ccu_enc @cc_netClosed_ccu_enc @cc_writeFail_ccu_enc : cc.
-#[export] Hint Rewrite @cc_enc_ccu_enc @cc_encTableSize_ccu_enc @cc_encTableSeen_ccu_enc @cc_dec_ccu_enc @cc_currentWindow_ccu_enc @cc_serverS_ccu_enc @cc_hdrStream_ccu_enc @cc_hdrPrev_ccu_enc : cc.
-#[export] Hint Rewrite @cc_hdrFields_ccu_enc @cc_hdrEndStream_ccu_enc @cc_hdrRegularSeen_ccu_enc @cc_hdrStatus_ccu_enc @cc_hdrErr_ccu_enc @cc_stateClosed_ccu_enc @cc_closeRef_ccu_enc @cc_reqQueued_ccu_enc : cc.
-#[export] Hint Rewrite @cc_pending_ccu_enc @cc_connWindow_ccu_enc @cc_streamWindow_ccu_enc @cc_inQ_ccu_enc @cc_outQ_ccu_enc @cc_winCh_ccu_enc @cc_lastErr_ccu_enc @cc_unacks_ccu_enc : cc.
-#[export] Hint Rewrite @cc_rl_done_ccu_enc @cc_wl_done_ccu_enc @cc_rl_stuck_ccu_enc @cc_wl_stuck_ccu_enc @cc_out_ccu_enc @cc_ctxs_ccu_encTableSize @cc_nextID_ccu_encTableSize @cc_open_ccu_encTableSize : cc.
-#[export] Hint Rewrite @cc_maxStreams_ccu_encTableSize @cc_maxFrame_ccu_encTableSize @cc_goAway_ccu_encTableSize @cc_closed_ccu_encTableSize @cc_closing_ccu_encTableSize @cc_netClosed_ccu_encTableSize @cc_writeFail_ccu_encTableSize @cc_enc_ccu_encTableSize : cc.
-#[export] Hint Rewrite @cc_encTableSize_ccu_encTableSize @cc_encTableSeen_ccu_encTableSize @cc_dec_ccu_encTableSize @cc_currentWindow_ccu_encTableSize @cc_serverS_ccu_encTableSize @cc_hdrStream_ccu_encTableSize @cc_hdrPrev_ccu_encTableSize @cc_hdrFields_ccu_encTableSize : cc.
-#[export] Hint Rewrite @cc_hdrEndStream_ccu_encTableSize @cc_hdrRegularSeen_ccu_encTableSize @cc_hdrStatus_ccu_encTableSize @cc_hdrErr_ccu_encTableSize @cc_stateClosed_ccu_encTableSize @cc_closeRef_ccu_encTableSize @cc_reqQueued_ccu_encTableSize @cc_pending_ccu_encTableSize : cc.
-#[export] Hint Rewrite @cc_connWindow_ccu_encTableSize @cc_streamWindow_ccu_encTableSize @cc_inQ_ccu_encTableSize @cc_outQ_ccu_encTableSize @cc_winCh_ccu_encTableSize @cc_lastErr_ccu_encTableSize @cc_unacks_ccu_encTableSize @cc_rl_done_ccu_encTableSize : cc.
-#[export] Hint Rewrite @cc_wl_done_ccu_encTableSize @cc_rl_stuck_ccu_encTableSize @cc_wl_stuck_ccu_encTableSize @cc_out_ccu_encTableSize @cc_ctxs_ccu_encTableSeen @cc_nextID_ccu_encTableSeen @cc_open_ccu_encTableSeen @cc_maxStreams_ccu_encTableSeen : cc.
-#[export] Hint Rewrite @cc_maxFrame_ccu_encTableSeen @cc_goAway_ccu_encTableSeen @cc_closed_ccu_encTableSeen @cc_closing_ccu_encTableSeen @cc_netClosed_ccu_encTableSeen @cc_writeFail_ccu_encTableSeen @cc_enc_ccu_encTableSeen @cc_encTableSize_ccu_encTableSeen : cc.
-#[export] Hint Rewrite @cc_encTableSeen_ccu_encTableSeen @cc_dec_ccu_encTableSeen @cc_currentWindow_ccu_encTableSeen @cc_serverS_ccu_encTableSeen @cc_hdrStream_ccu_encTableSeen @cc_hdrPrev_ccu_encTableSeen @cc_hdrFields_ccu_encTableSeen @cc_hdrEndStream_ccu_encTableSeen : cc.
-#[export] Hint Rewrite @cc_hdrRegularSeen_ccu_encTableSeen @cc_hdrStatus_ccu_encTableSeen @cc_hdrErr_ccu_encTableSeen @cc_stateClosed_ccu_encTableSeen @cc_closeRef_ccu_encTableSeen @cc_reqQueued_ccu_encTableSeen @cc_pending_ccu_encTableSeen @cc_connWindow_ccu_encTableSeen : cc.
-#[export] Hint Rewrite @cc_streamWindow_ccu_encTableSeen @cc_inQ_ccu_encTableSeen @cc_outQ_ccu_encTableSeen @cc_winCh_ccu_encTableSeen @cc_lastErr_ccu_encTableSeen @cc_unacks_ccu_encTableSeen @cc_rl_done_ccu_encTableSeen @cc_wl_done_ccu_encTableSeen : cc.
-#[export] Hint Rewrite @cc_rl_stuck_ccu_encTableSeen @cc_wl_stuck_ccu_encTableSeen @cc_out_ccu_encTableSeen @cc_ctxs_ccu_dec @cc_nextID_ccu_dec @cc_open_ccu_dec @cc_maxStreams_ccu_dec @cc_maxFrame_ccu_dec : cc.
-#[export] Hint Rewrite @cc_goAway_ccu_dec @cc_closed_ccu_dec @cc_closing_ccu_dec @cc_netClosed_ccu_dec @cc_writeFail_ccu_dec @cc_enc_ccu_dec @cc_encTableSize_ccu_dec @cc_encTableSeen_ccu_dec : cc.
-#[export] Hint Rewrite @cc_dec_ccu_dec @cc_currentWindow_ccu_dec @cc_serverS_ccu_dec @cc_hdrStream_ccu_dec @cc_hdrPrev_ccu_dec @cc_hdrFields_ccu_dec @cc_hdrEndStream_ccu_dec @cc_hdrRegularSeen_ccu_dec : cc.
-#[export] Hint Rewrite @cc_hdrStatus_ccu_dec @cc_hdrErr_ccu_dec @cc_stateClosed_ccu_dec @cc_closeRef_ccu_dec @cc_reqQueued_ccu_dec @cc_pending_ccu_dec @cc_connWindow_ccu_dec @cc_streamWindow_ccu_dec : cc.
-#[export] Hint Rewrite @cc_inQ_ccu_dec @cc_outQ_ccu_dec @cc_winCh_ccu_dec @cc_lastErr_ccu_dec @cc_unacks_ccu_dec @cc_rl_done_ccu_dec @cc_wl_done_ccu_dec @cc_rl_stuck_ccu_dec : cc.
-#[export] Hint Rewrite @cc_wl_stuck_ccu_dec @cc_out_ccu_dec @cc_ctxs_ccu_currentWindow @cc_nextID_ccu_currentWindow @cc_open_ccu_currentWindow @cc_maxStreams_ccu_currentWindow @cc_maxFrame_ccu_currentWindow @cc_goAway_ccu_currentWindow : cc.
-#[export] Hint Rewrite @cc_closed_ccu_currentWindow @cc_closing_ccu_currentWindow @cc_netClosed_ccu_currentWindow @cc_writeFail_ccu_currentWindow @cc_enc_ccu_currentWindow @cc_encTableSize_ccu_currentWindow @cc_encTableSeen_ccu_currentWindow @cc_dec_ccu_currentWindow : cc.
-#[export] Hint Rewrite @cc_currentWindow_ccu_currentWindow @cc_serverS_ccu_currentWindow @cc_hdrStream_ccu_currentWindow @cc_hdrPrev_ccu_currentWindow @cc_hdrFields_ccu_currentWindow @cc_hdrEndStream_ccu_currentWindow @cc_hdrRegularSeen_ccu_currentWindow @cc_hdrStatus_ccu_currentWindow : cc.
-#[export] Hint Rewrite @cc_hdrErr_ccu_currentWindow @cc_stateClosed_ccu_currentWindow @cc_closeRef_ccu_currentWindow @cc_reqQueued_ccu_currentWindow @cc_pending_ccu_currentWindow @cc_connWindow_ccu_currentWindow @cc_streamWindow_ccu_currentWindow @cc_inQ_ccu_currentWindow : cc.
-#[export] Hint Rewrite @cc_outQ_ccu_currentWindow @cc_winCh_ccu_currentWindow @cc_lastErr_ccu_currentWindow @cc_unacks_ccu_currentWindow @cc_rl_done_ccu_currentWindow @cc_wl_done_ccu_currentWindow @cc_rl_stuck_ccu_currentWindow @cc_wl_stuck_ccu_currentWindow : cc.
-#[export] Hint Rewrite @cc_out_ccu_currentWindow @cc_ctxs_ccu_serverS @cc_nextID_ccu_serverS @cc_open_ccu_serverS @cc_maxStreams_ccu_serverS @cc_maxFrame_ccu_serverS @cc_goAway_ccu_serverS @cc_closed_ccu_serverS : cc.
-#[export] Hint Rewrite @cc_closing_ccu_serverS @cc_netClosed_ccu_serverS @cc_writeFail_ccu_serverS @cc_enc_ccu_serverS @cc_encTableSize_ccu_serverS @cc_encTableSeen_ccu_serverS @cc_dec_ccu_serverS @cc_currentWindow_ccu_serverS : cc.
-#[export] Hint Rewrite @cc_serverS_ccu_serverS @cc_hdrStream_ccu_serverS @cc_hdrPrev_ccu_serverS @cc_hdrFields_ccu_serverS @cc_hdrEndStream_ccu_serverS @cc_hdrRegularSeen_ccu_serverS @cc_hdrStatus_ccu_serverS @cc_hdrErr_ccu_serverS : cc.
-#[export] Hint Rewrite @cc_stateClosed_ccu_serverS @cc_closeRef_ccu_serverS @cc_reqQueued_ccu_serverS @cc_pending_ccu_serverS @cc_connWindow_ccu_serverS @cc_streamWindow_ccu_serverS @cc_inQ_ccu_serverS @cc_outQ_ccu_serverS : cc.
-#[export] Hint Rewrite @cc_winCh_ccu_serverS @cc_lastErr_ccu_serverS @cc_unacks_ccu_serverS @cc_rl_done_ccu_serverS @cc_wl_done_ccu_serverS @cc_rl_stuck_ccu_serverS @cc_wl_stuck_ccu_serverS @cc_out_ccu_serverS : cc.
-#[export] Hint Rewrite @cc_ctxs_ccu_hdrStream @cc_nextID_ccu_hdrStream @cc_open_ccu_hdrStream @cc_maxStreams_ccu_hdrStream @cc_maxFrame_ccu_hdrStream @cc_goAway_ccu_hdrStream @cc_closed_ccu_hdrStream @cc_closing_ccu_hdrStream : cc.
-#[export] Hint Rewrite @cc_netClosed_ccu_hdrStream @cc_writeFail_ccu_hdrStream @cc_enc_ccu_hdrStream @cc_encTableSize_ccu_hdrStream @cc_encTableSeen_ccu_hdrStream @cc_dec_ccu_hdrStream @cc_currentWindow_ccu_hdrStream @cc_serverS_ccu_hdrStream : cc.
-#[export] Hint Rewrite @cc_hdrStream_ccu_hdrStream @cc_hdrPrev_ccu_hdrStream @cc_hdrFields_ccu_hdrStream @cc_hdrEndStream_ccu_hdrStream @cc_hdrRegularSeen_ccu_hdrStream @cc_hdrStatus_ccu_hdrStream @cc_hdrErr_ccu_hdrStream @cc_stateClosed_ccu_hdrStream : cc.
-#[export] Hint Rewrite @cc_closeRef_ccu_hdrStream @cc_reqQueued_ccu_hdrStream @cc_pending_ccu_hdrStream @cc_connWindow_ccu_hdrStream @cc_streamWindow_ccu_hdrStream @cc_inQ_ccu_hdrStream @cc_outQ_ccu_hdrStream @cc_winCh_ccu_hdrStream : cc.
-#[export] Hint Rewrite @cc_lastErr_ccu_hdrStream @cc_unacks_ccu_hdrStream @cc_rl_done_ccu_hdrStream @cc_wl_done_ccu_hdrStream @cc_rl_stuck_ccu_hdrStream @cc_wl_stuck_ccu_hdrStream @cc_out_ccu_hdrStream @cc_ctxs_ccu_hdrPrev : cc.
-#[export] Hint Rewrite @cc_nextID_ccu_hdrPrev @cc_open_ccu_hdrPrev @cc_maxStreams_ccu_hdrPrev @cc_maxFrame_ccu_hdrPrev @cc_goAway_ccu_hdrPrev @cc_closed_ccu_hdrPrev @cc_closing_ccu_hdrPrev @cc_netClosed_ccu_hdrPrev : cc.
-#[export] Hint Rewrite @cc_writeFail_ccu_hdrPrev @cc_enc_ccu_hdrPrev @cc_encTableSize_ccu_hdrPrev @cc_encTableSeen_ccu_hdrPrev @cc_dec_ccu_hdrPrev @cc_currentWindow_ccu_hdrPrev @cc_serverS_ccu_hdrPrev @cc_hdrStream_ccu_hdrPrev : cc.
-#[export] Hint Rewrite @cc_hdrPrev_ccu_hdrPrev @cc_hdrFields_ccu_hdrPrev @cc_hdrEndStream_ccu_hdrPrev @cc_hdrRegularSeen_ccu_hdrPrev @cc_hdrStatus_ccu_hdrPrev @cc_hdrErr_ccu_hdrPrev @cc_stateClosed_ccu_hdrPrev @cc_closeRef_ccu_hdrPrev : cc.
-#[export] Hint Rewrite @cc_reqQueued_ccu_hdrPrev @cc_pending_ccu_hdrPrev @cc_connWindow_ccu_hdrPrev @cc_streamWindow_ccu_hdrPrev @cc_inQ_ccu_hdrPrev @cc_outQ_ccu_hdrPrev @cc_winCh_ccu_hdrPrev @cc_lastErr_ccu_hdrPrev : cc.
-#[export] Hint Rewrite @cc_unacks_ccu_hdrPrev @cc_rl_done_ccu_hdrPrev @cc_wl_done_ccu_hdrPrev @cc_rl_stuck_ccu_hdrPrev @cc_wl_stuck_ccu_hdrPrev @cc_out_ccu_hdrPrev @cc_ctxs_ccu_hdrFields @cc_nextID_ccu_hdrFields : cc.
-#[export] Hint Rewrite @cc_open_ccu_hdrFields @cc_maxStreams_ccu_hdrFields @cc_maxFrame_ccu_hdrFields @cc_goAway_ccu_hdrFields @cc_closed_ccu_hdrFields @cc_closing_ccu_hdrFields @cc_netClosed_ccu_hdrFields @cc_writeFail_ccu_hdrFields : cc.
-#[export] Hint Rewrite @cc_enc_ccu_hdrFields @cc_encTableSize_ccu_hdrFields @cc_encTableSeen_ccu_hdrFields @cc_dec_ccu_hdrFields @cc_currentWindow_ccu_hdrFields @cc_serverS_ccu_hdrFields @cc_hdrStream_ccu_hdrFields @cc_hdrPrev_ccu_hdrFields : cc.
-#[export] Hint Rewrite @cc_hdrFields_ccu_hdrFields @cc_hdrEndStream_ccu_hdrFields @cc_hdrRegularSeen_ccu_hdrFields @cc_hdrStatus_ccu_hdrFields @cc_hdrErr_ccu_hdrFields @cc_stateClosed_ccu_hdrFields @cc_closeRef_ccu_hdrFields @cc_reqQueued_ccu_hdrFields : cc.
-#[export] Hint Rewrite @cc_pending_ccu_hdrFields @cc_connWindow_ccu_hdrFields @cc_streamWindow_ccu_hdrFields @cc_inQ_ccu_hdrFields @cc_outQ_ccu_hdrFields @cc_winCh_ccu_hdrFields @cc_lastErr_ccu_hdrFields @cc_unacks_ccu_hdrFields : cc.
-#[export] Hint Rewrite @cc_rl_done_ccu_hdrFields @cc_wl_done_ccu_hdrFields @cc_rl_stuck_ccu_hdrFields @cc_wl_stuck_ccu_hdrFields @cc_out_ccu_hdrFields @cc_ctxs_ccu_hdrEndStream @cc_nextID_ccu_hdrEndStream @cc_open_ccu_hdrEndStream : cc.
-#[export] Hint Rewrite @cc_maxStreams_ccu_hdrEndStream @cc_maxFrame_ccu_hdrEndStream @cc_goAway_ccu_hdrEndStream @cc_closed_ccu_hdrEndStream @cc_closing_ccu_hdrEndStream @cc_netClosed_ccu_hdrEndStream @cc_writeFail_ccu_hdrEndStream @cc_enc_ccu_hdrEndStream : cc.
-#[export] Hint Rewrite @cc_encTableSize_ccu_hdrEndStream @cc_encTableSeen_ccu_hdrEndStream @cc_dec_ccu_hdrEndStream @cc_currentWindow_ccu_hdrEndStream @cc_serverS_ccu_hdrEndStream @cc_hdrStream_ccu_hdrEndStream @cc_hdrPrev_ccu_hdrEndStream @cc_hdrFields_ccu_hdrEndStream : cc.
-#[export] Hint Rewrite @cc_hdrEndStream_ccu_hdrEndStream @cc_hdrRegularSeen_ccu_hdrEndStream @cc_hdrStatus_ccu_hdrEndStream @cc_hdrErr_ccu_hdrEndStream @cc_stateClosed_ccu_hdrEndStream @cc_closeRef_ccu_hdrEndStream @cc_reqQueued_ccu_hdrEndStream @cc_pending_ccu_hdrEndStream : cc.
-#[export] Hint Rewrite @cc_connWindow_ccu_hdrEndStream @cc_streamWindow_ccu_hdrEndStream @cc_inQ_ccu_hdrEndStream @cc_outQ_ccu_hdrEndStream @cc_winCh_ccu_hdrEndStream @cc_lastErr_ccu_hdrEndStream @cc_unacks_ccu_hdrEndStream @cc_rl_done_ccu_hdrEndStream : cc.
-#[export] Hint Rewrite @cc_wl_done_ccu_hdrEndStream @cc_rl_stuck_ccu_hdrEndStream @cc_wl_stuck_ccu_hdrEndStream @cc_out_ccu_hdrEndStream @cc_ctxs_ccu_hdrRegularSeen @cc_nextID_ccu_hdrRegularSeen @cc_open_ccu_hdrRegularSeen @cc_maxStreams_ccu_hdrRegularSeen : cc.
-#[export] Hint Rewrite @cc_maxFrame_ccu_hdrRegularSeen @cc_goAway_ccu_hdrRegularSeen @cc_closed_ccu_hdrRegularSeen @cc_closing_ccu_hdrRegularSeen @cc_netClosed_ccu_hdrRegularSeen @cc_writeFail_ccu_hdrRegularSeen @cc_enc_ccu_hdrRegularSeen @cc_encTableSize_ccu_hdrRegularSeen : cc.
-#[export] Hint Rewrite @cc_encTableSeen_ccu_hdrRegularSeen @cc_dec_ccu_hdrRegularSeen @cc_currentWindow_ccu_hdrRegularSeen @cc_serverS_ccu_hdrRegularSeen @cc_hdrStream_ccu_hdrRegularSeen @cc_hdrPrev_ccu_hdrRegularSeen @cc_hdrFields_ccu_hdrRegularSeen @cc_hdrEndStream_ccu_hdrRegularSeen : cc.
-#[export] Hint Rewrite @cc_hdrRegularSeen_ccu_hdrRegularSeen @cc_hdrStatus_ccu_hdrRegularSeen @cc_hdrErr_ccu_hdrRegularSeen @cc_stateClosed_ccu_hdrRegularSeen @cc_closeRef_ccu_hdrRegularSeen @cc_reqQueued_ccu_hdrRegularSeen @cc_pending_ccu_hdrRegularSeen @cc_connWindow_ccu_hdrRegularSeen : cc.
-#[export] Hint Rewrite @cc_streamWindow_ccu_hdrRegularSeen @cc_inQ_ccu_hdrRegularSeen @cc_outQ_ccu_hdrRegularSeen @cc_winCh_ccu_hdrRegularSeen @cc_lastErr_ccu_hdrRegularSeen @cc_unacks_ccu_hdrRegularSeen @cc_rl_done_ccu_hdrRegularSeen @cc_wl_done_ccu_hdrRegularSeen : cc.
-#[export] Hint Rewrite @cc_rl_stuck_ccu_hdrRegularSeen @cc_wl_stuck_ccu_hdrRegularSeen @cc_out_ccu_hdrRegularSeen @cc_ctxs_ccu_hdrStatus @cc_nextID_ccu_hdrStatus @cc_open_ccu_hdrStatus @cc_maxStreams_ccu_hdrStatus @cc_maxFrame_ccu_hdrStatus : cc.
-#[export] Hint Rewrite @cc_goAway_ccu_hdrStatus @cc_closed_ccu_hdrStatus @cc_closing_ccu_hdrStatus @cc_netClosed_ccu_hdrStatus @cc_writeFail_ccu_hdrStatus @cc_enc_ccu_hdrStatus @cc_encTableSize_ccu_hdrStatus @cc_encTableSeen_ccu_hdrStatus : cc.
-#[export] Hint Rewrite @cc_dec_ccu_hdrStatus @cc_currentWindow_ccu_hdrStatus @cc_serverS_ccu_hdrStatus @cc_hdrStream_ccu_hdrStatus @cc_hdrPrev_ccu_hdrStatus @cc_hdrFields_ccu_hdrStatus @cc_hdrEndStream_ccu_hdrStatus @cc_hdrRegularSeen_ccu_hdrStatus : cc.
-#[export] Hint Rewrite @cc_hdrStatus_ccu_hdrStatus @cc_hdrErr_ccu_hdrStatus @cc_stateClosed_ccu_hdrStatus @cc_closeRef_ccu_hdrStatus @cc_reqQueued_ccu_hdrStatus @cc_pending_ccu_hdrStatus @cc_connWindow_ccu_hdrStatus @cc_streamWindow_ccu_hdrStatus : cc.
-#[export] Hint Rewrite @cc_inQ_ccu_hdrStatus @cc_outQ_ccu_hdrStatus @cc_winCh_ccu_hdrStatus @cc_lastErr_ccu_hdrStatus @cc_unacks_ccu_hdrStatus @cc_rl_done_ccu_hdrStatus @cc_wl_done_ccu_hdrStatus @cc_rl_stuck_ccu_hdrStatus : cc.
-#[export] Hint Rewrite @cc_wl_stuck_ccu_hdrStatus @cc_out_ccu_hdrStatus @cc_ctxs_ccu_hdrErr @cc_nextID_ccu_hdrErr @cc_open_ccu_hdrErr @cc_maxStreams_ccu_hdrErr @cc_maxFrame_ccu_hdrErr @cc_goAway_ccu_hdrErr : cc.
-#[export] Hint Rewrite @cc_closed_ccu_hdrErr @cc_closing_ccu_hdrErr @cc_netClosed_ccu_hdrErr @cc_writeFail_ccu_hdrErr @cc_enc_ccu_hdrErr @cc_encTableSize_ccu_hdrErr @cc_encTableSeen_ccu_hdrErr @cc_dec_ccu_hdrErr : cc.
-#[export] Hint Rewrite @cc_currentWindow_ccu_hdrErr @cc_serverS_ccu_hdrErr @cc_hdrStream_ccu_hdrErr @cc_hdrPrev_ccu_hdrErr @cc_hdrFields_ccu_hdrErr @cc_hdrEndStream_ccu_hdrErr @cc_hdrRegularSeen_ccu_hdrErr @cc_hdrStatus_ccu_hdrErr : cc.
-#[export] Hint Rewrite @cc_hdrErr_ccu_hdrErr @cc_stateClosed_ccu_hdrErr @cc_closeRef_ccu_hdrErr @cc_reqQueued_ccu_hdrErr @cc_pending_ccu_hdrErr @cc_connWindow_ccu_hdrErr @cc_streamWindow_ccu_hdrErr @cc_inQ_ccu_hdrErr : cc.
-#[export] Hint Rewrite @cc_outQ_ccu_hdrErr @cc_winCh_ccu_hdrErr @cc_lastErr_ccu_hdrErr @cc_unacks_ccu_hdrErr @cc_rl_done_ccu_hdrErr @cc_wl_done_ccu_hdrErr @cc_rl_stuck_ccu_hdrErr @cc_wl_stuck_ccu_hdrErr : cc.
-#[export] Hint Rewrite @cc_out_ccu_hdrErr @cc_ctxs_ccu_stateClosed @cc_nextID_ccu_stateClosed @cc_open_ccu_stateClosed @cc_maxStreams_ccu_stateClosed @cc_maxFrame_ccu_stateClosed @cc_goAway_ccu_stateClosed @cc_closed_ccu_stateClosed : cc.
-#[export] Hint Rewrite @cc_closing_ccu_stateClosed @cc_netClosed_ccu_stateClosed @cc_writeFail_ccu_stateClosed @cc_enc_ccu_stateClosed @cc_encTableSize_ccu_stateClosed @cc_encTableSeen_ccu_stateClosed @cc_dec_ccu_stateClosed @cc_currentWindow_ccu_stateClosed : cc.
-#[export] Hint Rewrite @cc_serverS_ccu_stateClosed @cc_hdrStream_ccu_stateClosed @cc_hdrPrev_ccu_stateClosed @cc_hdrFields_ccu_stateClosed @cc_hdrEndStream_ccu_stateClosed @cc_hdrRegularSeen_ccu_stateClosed @cc_hdrStatus_ccu_stateClosed @cc_hdrErr_ccu_stateClosed : cc.
-#[export] Hint Rewrite @cc_stateClosed_ccu_stateClosed @cc_closeRef_ccu_stateClosed @cc_reqQueued_ccu_stateClosed @cc_pending_ccu_stateClosed @cc_connWindow_ccu_stateClosed @cc_streamWindow_ccu_stateClosed @cc_inQ_ccu_stateClosed @cc_outQ_ccu_stateClosed : cc.
-#[export] Hint Rewrite @cc_winCh_ccu_stateClosed @cc_lastErr_ccu_stateClosed @cc_unacks_ccu_stateClosed @cc_rl_done_ccu_stateClosed @cc_wl_done_ccu_stateClosed @cc_rl_stuck_ccu_stateClosed @cc_wl_stuck_ccu_stateClosed @cc_out_ccu_stateClosed : cc.
-#[export] Hint Rewrite @cc_ctxs_ccu_closeRef @cc_nextID_ccu_closeRef @cc_open_ccu_closeRef @cc_maxStreams_ccu_closeRef @cc_maxFrame_ccu_closeRef @cc_goAway_ccu_closeRef @cc_closed_ccu_closeRef @cc_closing_ccu_closeRef : cc.
-#[export] Hint Rewrite @cc_netClosed_ccu_closeRef @cc_writeFail_ccu_closeRef @cc_enc_ccu_closeRef @cc_encTableSize_ccu_closeRef @cc_encTableSeen_ccu_closeRef @cc_dec_ccu_closeRef @cc_currentWindow_ccu_closeRef @cc_serverS_ccu_closeRef : cc.
-#[export] Hint Rewrite @cc_hdrStream_ccu_closeRef @cc_hdrPrev_ccu_closeRef @cc_hdrFields_ccu_closeRef @cc_hdrEndStream_ccu_closeRef @cc_hdrRegularSeen_ccu_closeRef @cc_hdrStatus_ccu_closeRef @cc_hdrErr_ccu_closeRef @cc_stateClosed_ccu_closeRef : cc.
-#[export] Hint Rewrite @cc_closeRef_ccu_closeRef @cc_reqQueued_ccu_closeRef @cc_pending_ccu_closeRef @cc_connWindow_ccu_closeRef @cc_streamWindow_ccu_closeRef @cc_inQ_ccu_closeRef @cc_outQ_ccu_closeRef @cc_winCh_ccu_closeRef : cc.
-#[export] Hint Rewrite @cc_lastErr_ccu_closeRef @cc_unacks_ccu_closeRef @cc_rl_done_ccu_closeRef @cc_wl_done_ccu_closeRef @cc_rl_stuck_ccu_closeRef @cc_wl_stuck_ccu_closeRef @cc_out_ccu_closeRef @cc_ctxs_ccu_reqQueued : cc.
-#[export] Hint Rewrite @cc_nextID_ccu_reqQueued @cc_open_ccu_reqQueued @cc_maxStreams_ccu_reqQueued @cc_maxFrame_ccu_reqQueued @cc_goAway_ccu_reqQueued @cc_closed_ccu_reqQueued @cc_closing_ccu_reqQueued @cc_netClosed_ccu_reqQueued : cc.
-#[export] Hint Rewrite @cc_writeFail_ccu_reqQueued @cc_enc_ccu_reqQueued @cc_encTableSize_ccu_reqQueued @cc_encTableSeen_ccu_reqQueued @cc_dec_ccu_reqQueued @cc_currentWindow_ccu_reqQueued @cc_serverS_ccu_reqQueued @cc_hdrStream_ccu_reqQueued : cc.
-#[export] Hint Rewrite @cc_hdrPrev_ccu_reqQueued @cc_hdrFields_ccu_reqQueued @cc_hdrEndStream_ccu_reqQueued @cc_hdrRegularSeen_ccu_reqQueued @cc_hdrStatus_ccu_reqQueued @cc_hdrErr_ccu_reqQueued @cc_stateClosed_ccu_reqQueued @cc_closeRef_ccu_reqQueued : cc.
-#[export] Hint Rewrite @cc_reqQueued_ccu_reqQueued @cc_pending_ccu_reqQueued @cc_connWindow_ccu_reqQueued @cc_streamWindow_ccu_reqQueued @cc_inQ_ccu_reqQueued @cc_outQ_ccu_reqQueued @cc_winCh_ccu_reqQueued @cc_lastErr_ccu_reqQueued : cc.
-#[export] Hint Rewrite @cc_unacks_ccu_reqQueued @cc_rl_done_ccu_reqQueued @cc_wl_done_ccu_reqQueued @cc_rl_stuck_ccu_reqQueued @cc_wl_stuck_ccu_reqQueued @cc_out_ccu_reqQueued @cc_ctxs_ccu_pending @cc_nextID_ccu_pending : cc.
-#[export] Hint Rewrite @cc_open_ccu_pending @cc_maxStreams_ccu_pending @cc_maxFrame_ccu_pending @cc_goAway_ccu_pending @cc_closed_ccu_pending @cc_closing_ccu_pending @cc_netClosed_ccu_pending @cc_writeFail_ccu_pending : cc.
-#[export] Hint Rewrite @cc_enc_ccu_pending @cc_encTableSize_ccu_pending @cc_encTableSeen_ccu_pending @cc_dec_ccu_pending @cc_currentWindow_ccu_pending @cc_serverS_ccu_pending @cc_hdrStream_ccu_pending @cc_hdrPrev_ccu_pending : cc.
-#[export] Hint Rewrite @cc_hdrFields_ccu_pending @cc_hdrEndStream_ccu_pending @cc_hdrRegularSeen_ccu_pending @cc_hdrStatus_ccu_pending @cc_hdrErr_ccu_pending @cc_stateClosed_ccu_pending @cc_closeRef_ccu_pending @cc_reqQueued_ccu_pending : cc.
-#[export] Hint Rewrite @cc_pending_ccu_pending @cc_connWindow_ccu_pending @cc_streamWindow_ccu_pending @cc_inQ_ccu_pending @cc_outQ_ccu_pending @cc_winCh_ccu_pending @cc_lastErr_ccu_pending @cc_unacks_ccu_pending : cc.
-#[export] Hint Rewrite @cc_rl_done_ccu_pending @cc_wl_done_ccu_pending @cc_rl_stuck_ccu_pending @cc_wl_stuck_ccu_pending @cc_out_ccu_pending @cc_ctxs_ccu_connWindow @cc_nextID_ccu_connWindow @cc_open_ccu_connWindow : cc.
-#[export] Hint Rewrite @cc_maxStreams_ccu_connWindow @cc_maxFrame_ccu_connWindow @cc_goAway_ccu_connWindow @cc_closed_ccu_connWindow @cc_closing_ccu_connWindow @cc_netClosed_ccu_connWindow @cc_writeFail_ccu_connWindow @cc_enc_ccu_connWindow : cc.
-#[export] Hint Rewrite @cc_encTableSize_ccu_connWindow @cc_encTableSeen_ccu_connWindow @cc_dec_ccu_connWindow @cc_currentWindow_ccu_connWindow @cc_serverS_ccu_connWindow @cc_hdrStream_ccu_connWindow @cc_hdrPrev_ccu_connWindow @cc_hdrFields_ccu_connWindow : cc.
-#[export] Hint Rewrite @cc_hdrEndStream_ccu_connWindow @cc_hdrRegularSeen_ccu_connWindow @cc_hdrStatus_ccu_connWindow @cc_hdrErr_ccu_connWindow @cc_stateClosed_ccu_connWindow @cc_closeRef_ccu_connWindow @cc_reqQueued_ccu_connWindow @cc_pending_ccu_connWindow : cc.
-#[export] Hint Rewrite @cc_connWindow_ccu_connWindow @cc_streamWindow_ccu_connWindow @cc_inQ_ccu_connWindow @cc_outQ_ccu_connWindow @cc_winCh_ccu_connWindow @cc_lastErr_ccu_connWindow @cc_unacks_ccu_connWindow @cc_rl_done_ccu_connWindow : cc.
-#[export] Hint Rewrite @cc_wl_done_ccu_connWindow @cc_rl_stuck_ccu_connWindow @cc_wl_stuck_ccu_connWindow @cc_out_ccu_connWindow @cc_ctxs_ccu_streamWindow @cc_nextID_ccu_streamWindow @cc_open_ccu_streamWindow @cc_maxStreams_ccu_streamWindow : cc.
-#[export] Hint Rewrite @cc_maxFrame_ccu_streamWindow @cc_goAway_ccu_streamWindow @cc_closed_ccu_streamWindow @cc_closing_ccu_streamWindow @cc_netClosed_ccu_streamWindow @cc_writeFail_ccu_streamWindow @cc_enc_ccu_streamWindow @cc_encTableSize_ccu_streamWindow : cc.
-#[export] Hint Rewrite @cc_encTableSeen_ccu_streamWindow @cc_dec_ccu_streamWindow @cc_currentWindow_ccu_streamWindow @cc_serverS_ccu_streamWindow @cc_hdrStream_ccu_streamWindow @cc_hdrPrev_ccu_streamWindow @cc_hdrFields_ccu_streamWindow @cc_hdrEndStream_ccu_streamWindow : cc.
-#[export] Hint Rewrite @cc_hdrRegularSeen_ccu_streamWindow @cc_hdrStatus_ccu_streamWindow @cc_hdrErr_ccu_streamWindow @cc_stateClosed_ccu_streamWindow @cc_closeRef_ccu_streamWindow @cc_reqQueued_ccu_streamWindow @cc_pending_ccu_streamWindow @cc_connWindow_ccu_streamWindow : cc.
-#[export] Hint Rewrite @cc_streamWindow_ccu_streamWindow @cc_inQ_ccu_streamWindow @cc_outQ_ccu_streamWindow @cc_winCh_ccu_streamWindow @cc_lastErr_ccu_streamWindow @cc_unacks_ccu_streamWindow @cc_rl_done_ccu_streamWindow @cc_wl_done_ccu_streamWindow : cc.
-#[export] Hint Rewrite @cc_rl_stuck_ccu_streamWindow @cc_wl_stuck_ccu_streamWindow @cc_out_ccu_streamWindow @cc_ctxs_ccu_inQ @cc_nextID_ccu_inQ @cc_open_ccu_inQ @cc_maxStreams_ccu_inQ @cc_maxFrame_ccu_inQ : cc.
-#[export] Hint Rewrite @cc_goAway_ccu_inQ @cc_closed_ccu_inQ @cc_closing_ccu_inQ @cc_netClosed_ccu_inQ @cc_writeFail_ccu_inQ @cc_enc_ccu_inQ @cc_encTableSize_ccu_inQ @cc_encTableSeen_ccu_inQ : cc.
-#[export] Hint Rewrite @cc_dec_ccu_inQ @cc_currentWindow_ccu_inQ @cc_serverS_ccu_inQ @cc_hdrStream_ccu_inQ @cc_hdrPrev_ccu_inQ @cc_hdrFields_ccu_inQ @cc_hdrEndStream_ccu_inQ @cc_hdrRegularSeen_ccu_inQ : cc.
-#[export] Hint Rewrite @cc_hdrStatus_ccu_inQ @cc_hdrErr_ccu_inQ @cc_stateClosed_ccu_inQ @cc_closeRef_ccu_inQ @cc_reqQueued_ccu_inQ @cc_pending_ccu_inQ @cc_connWindow_ccu_inQ @cc_streamWindow_ccu_inQ : cc.
-#[export] Hint Rewrite @cc_inQ_ccu_inQ @cc_outQ_ccu_inQ @cc_winCh_ccu_inQ @cc_lastErr_ccu_inQ @cc_unacks_ccu_inQ @cc_rl_done_ccu_inQ @cc_wl_done_ccu_inQ @cc_rl_stuck_ccu_inQ : cc.
-#[export] Hint Rewrite @cc_wl_stuck_ccu_inQ @cc_out_ccu_inQ @cc_ctxs_ccu_outQ @cc_nextID_ccu_outQ @cc_open_ccu_outQ @cc_maxStreams_ccu_outQ @cc_maxFrame_ccu_outQ @cc_goAway_ccu_outQ : cc.
-#[export] Hint Rewrite @cc_closed_ccu_outQ @cc_closing_ccu_outQ @cc_netClosed_ccu_outQ @cc_writeFail_ccu_outQ @cc_enc_ccu_outQ @cc_encTableSize_ccu_outQ @cc_encTableSeen_ccu_outQ @cc_dec_ccu_outQ : cc.
-#[export] Hint Rewrite @cc_currentWindow_ccu_outQ @cc_serverS_ccu_outQ @cc_hdrStream_ccu_outQ @cc_hdrPrev_ccu_outQ @cc_hdrFields_ccu_outQ @cc_hdrEndStream_ccu_outQ @cc_hdrRegularSeen_ccu_outQ @cc_hdrStatus_ccu_outQ : cc.
-#[export] Hint Rewrite @cc_hdrErr_ccu_outQ @cc_stateClosed_ccu_outQ @cc_closeRef_ccu_outQ @cc_reqQueued_ccu_outQ @cc_pending_ccu_outQ @cc_connWindow_ccu_outQ @cc_streamWindow_ccu_outQ @cc_inQ_ccu_outQ : cc.
-#[export] Hint Rewrite @cc_outQ_ccu_outQ @cc_winCh_ccu_outQ @cc_lastErr_ccu_outQ @cc_unacks_ccu_outQ @cc_rl_done_ccu_outQ @cc_wl_done_ccu_outQ @cc_rl_stuck_ccu_outQ @cc_wl_stuck_ccu_outQ : cc.
-#[export] Hint Rewrite @cc_out_ccu_outQ @cc_ctxs_ccu_winCh @cc_nextID_ccu_winCh @cc_open_ccu_winCh @cc_maxStreams_ccu_winCh @cc_maxFrame_ccu_winCh @cc_goAway_ccu_winCh @cc_closed_ccu_winCh : cc.
-#[export] Hint Rewrite @cc_closing_ccu_winCh @cc_netClosed_ccu_winCh @cc_writeFail_ccu_winCh @cc_enc_ccu_winCh @cc_encTableSize_ccu_winCh @cc_encTableSeen_ccu_winCh @cc_dec_ccu_winCh @cc_currentWindow_ccu_winCh : cc.
-#[export] Hint Rewrite @cc_serverS_ccu_winCh @cc_hdrStream_ccu_winCh @cc_hdrPrev_ccu_winCh @cc_hdrFields_ccu_winCh @cc_hdrEndStream_ccu_winCh @cc_hdrRegularSeen_ccu_winCh @cc_hdrStatus_ccu_winCh @cc_hdrErr_ccu_winCh : cc.
-#[export] Hint Rewrite @cc_stateClosed_ccu_winCh @cc_closeRef_ccu_winCh @cc_reqQueued_ccu_winCh @cc_pending_ccu_winCh @cc_connWindow_ccu_winCh @cc_streamWindow_ccu_winCh @cc_inQ_ccu_winCh @cc_outQ_ccu_winCh : cc.
-#[export] Hint Rewrite @cc_winCh_ccu_winCh @cc_lastErr_ccu_winCh @cc_unacks_ccu_winCh @cc_rl_done_ccu_winCh @cc_wl_done_ccu_winCh @cc_rl_stuck_ccu_winCh @cc_wl_stuck_ccu_winCh @cc_out_ccu_winCh : cc.
-#[export] Hint Rewrite @cc_ctxs_ccu_lastErr @cc_nextID_ccu_lastErr @cc_open_ccu_lastErr @cc_maxStreams_ccu_lastErr @cc_maxFrame_ccu_lastErr @cc_goAway_ccu_lastErr @cc_closed_ccu_lastErr @cc_closing_ccu_lastErr : cc.
-#[export] Hint Rewrite @cc_netClosed_ccu_lastErr @cc_writeFail_ccu_lastErr @cc_enc_ccu_lastErr @cc_encTableSize_ccu_lastErr @cc_encTableSeen_ccu_lastErr @cc_dec_ccu_lastErr @cc_currentWindow_ccu_lastErr @cc_serverS_ccu_lastErr : cc.
-#[export] Hint Rewrite @cc_hdrStream_ccu_lastErr @cc_hdrPrev_ccu_lastErr @cc_hdrFields_ccu_lastErr @cc_hdrEndStream_ccu_lastErr @cc_hdrRegularSeen_ccu_lastErr @cc_hdrStatus_ccu_lastErr @cc_hdrErr_ccu_lastErr @cc_stateClosed_ccu_lastErr : cc.
-#[export] Hint Rewrite @cc_closeRef_ccu_lastErr @cc_reqQueued_ccu_lastErr @cc_pending_ccu_lastErr @cc_connWindow_ccu_lastErr @cc_streamWindow_ccu_lastErr @cc_inQ_ccu_lastErr @cc_outQ_ccu_lastErr @cc_winCh_ccu_lastErr : cc.
-#[export] Hint Rewrite @cc_lastErr_ccu_lastErr @cc_unacks_ccu_lastErr @cc_rl_done_ccu_lastErr @cc_wl_done_ccu_lastErr @cc_rl_stuck_ccu_lastErr @cc_wl_stuck_ccu_lastErr @cc_out_ccu_lastErr @cc_ctxs_ccu_unacks : cc.
-#[export] Hint Rewrite @cc_nextID_ccu_unacks @cc_open_ccu_unacks @cc_maxStreams_ccu_unacks @cc_maxFrame_ccu_unacks @cc_goAway_ccu_unacks @cc_closed_ccu_unacks @cc_closing_ccu_unacks @cc_netClosed_ccu_unacks : cc.
-#[export] Hint Rewrite @cc_writeFail_ccu_unacks @cc_enc_ccu_unacks @cc_encTableSize_ccu_unacks @cc_encTableSeen_ccu_unacks @cc_dec_ccu_unacks @cc_currentWindow_ccu_unacks @cc_serverS_ccu_unacks @cc_hdrStream_ccu_unacks : cc.
-#[export] Hint Rewrite @cc_hdrPrev_ccu_unacks @cc_hdrFields_ccu_unacks @cc_hdrEndStream_ccu_unacks @cc_hdrRegularSeen_ccu_unacks @cc_hdrStatus_ccu_unacks @cc_hdrErr_ccu_unacks @cc_stateClosed_ccu_unacks @cc_closeRef_ccu_unacks : cc.
-#[export] Hint Rewrite @cc_reqQueued_ccu_unacks @cc_pending_ccu_unacks @cc_connWindow_ccu_unacks @cc_streamWindow_ccu_unacks @cc_inQ_ccu_unacks @cc_outQ_ccu_unacks @cc_winCh_ccu_unacks @cc_lastErr_ccu_unacks : cc.
-#[export] Hint Rewrite @cc_unacks_ccu_unacks @cc_rl_done_ccu_unacks @cc_wl_done_ccu_unacks @cc_rl_stuck_ccu_unacks @cc_wl_stuck_ccu_unacks @cc_out_ccu_unacks @cc_ctxs_ccu_rl_done @cc_nextID_ccu_rl_done : cc.
-#[export] Hint Rewrite @cc_open_ccu_rl_done @cc_maxStreams_ccu_rl_done @cc_maxFrame_ccu_rl_done @cc_goAway_ccu_rl_done @cc_closed_ccu_rl_done @cc_closing_ccu_rl_done @cc_netClosed_ccu_rl_done @cc_writeFail_ccu_rl_done : cc.
-#[export] Hint Rewrite @cc_enc_ccu_rl_done @cc_encTableSize_ccu_rl_done @cc_encTableSeen_ccu_rl_done @cc_dec_ccu_rl_done @cc_currentWindow_ccu_rl_done @cc_serverS_ccu_rl_done @cc_hdrStream_ccu_rl_done @cc_hdrPrev_ccu_rl_done : cc.
-#[export] Hint Rewrite @cc_hdrFields_ccu_rl_done @cc_hdrEndStream_ccu_rl_done @cc_hdrRegularSeen_ccu_rl_done @cc_hdrStatus_ccu_rl_done @cc_hdrErr_ccu_rl_done @cc_stateClosed_ccu_rl_done @cc_closeRef_ccu_rl_done @cc_reqQueued_ccu_rl_done : cc.
-#[export] Hint Rewrite @cc_pending_ccu_rl_done @cc_connWindow_ccu_rl_done @cc_streamWindow_ccu_rl_done @cc_inQ_ccu_rl_done @cc_outQ_ccu_rl_done @cc_winCh_ccu_rl_done @cc_lastErr_ccu_rl_done @cc_unacks_ccu_rl_done : cc.
-#[export] Hint Rewrite @cc_rl_done_ccu_rl_done @cc_wl_done_ccu_rl_done @cc_rl_stuck_ccu_rl_done @cc_wl_stuck_ccu_rl_done @cc_out_ccu_rl_done @cc_ctxs_ccu_wl_done @cc_nextID_ccu_wl_done @cc_open_ccu_wl_done : cc.
-#[export] Hint Rewrite @cc_maxStreams_ccu_wl_done @cc_maxFrame_ccu_wl_done @cc_goAway_ccu_wl_done @cc_closed_ccu_wl_done @cc_closing_ccu_wl_done @cc_netClosed_ccu_wl_done @cc_writeFail_ccu_wl_done @cc_enc_ccu_wl_done : cc.
-#[export] Hint Rewrite @cc_encTableSize_ccu_wl_done @cc_encTableSeen_ccu_wl_done @cc_dec_ccu_wl_done @cc_currentWindow_ccu_wl_done @cc_serverS_ccu_wl_done @cc_hdrStream_ccu_wl_done @cc_hdrPrev_ccu_wl_done @cc_hdrFields_ccu_wl_done : cc.
-#[export] Hint Rewrite @cc_hdrEndStream_ccu_wl_done @cc_hdrRegularSeen_ccu_wl_done @cc_hdrStatus_ccu_wl_done @cc_hdrErr_ccu_wl_done @cc_stateClosed_ccu_wl_done @cc_closeRef_ccu_wl_done @cc_reqQueued_ccu_wl_done @cc_pending_ccu_wl_done : cc.
-#[export] Hint Rewrite @cc_connWindow_ccu_wl_done @cc_streamWindow_ccu_wl_done @cc_inQ_ccu_wl_done @cc_outQ_ccu_wl_done @cc_winCh_ccu_wl_done @cc_lastErr_ccu_wl_done @cc_unacks_ccu_wl_done @cc_rl_done_ccu_wl_done : cc.
-#[export] Hint Rewrite @cc_wl_done_ccu_wl_done @cc_rl_stuck_ccu_wl_done @cc_wl_stuck_ccu_wl_done @cc_out_ccu_wl_done @cc_ctxs_ccu_rl_stuck @cc_nextID_ccu_rl_stuck @cc_open_ccu_rl_stuck @cc_maxStreams_ccu_rl_stuck : cc.
-#[export] Hint Rewrite @cc_maxFrame_ccu_rl_stuck @cc_goAway_ccu_rl_stuck @cc_closed_ccu_rl_stuck @cc_closing_ccu_rl_stuck @cc_netClosed_ccu_rl_stuck @cc_writeFail_ccu_rl_stuck @cc_enc_ccu_rl_stuck @cc_encTableSize_ccu_rl_stuck : cc.
-#[export] Hint Rewrite @cc_encTableSeen_ccu_rl_stuck @cc_dec_ccu_rl_stuck @cc_currentWindow_ccu_rl_stuck @cc_serverS_ccu_rl_stuck @cc_hdrStream_ccu_rl_stuck @cc_hdrPrev_ccu_rl_stuck @cc_hdrFields_ccu_rl_stuck @cc_hdrEndStream_ccu_rl_stuck : cc.
-#[export] Hint Rewrite @cc_hdrRegularSeen_ccu_rl_stuck @cc_hdrStatus_ccu_rl_stuck @cc_hdrErr_ccu_rl_stuck @cc_stateClosed_ccu_rl_stuck @cc_closeRef_ccu_rl_stuck @cc_reqQueued_ccu_rl_stuck @cc_pending_ccu_rl_stuck @cc_connWindow_ccu_rl_stuck : cc.
-#[export] Hint Rewrite @cc_streamWindow_ccu_rl_stuck @cc_inQ_ccu_rl_stuck @cc_outQ_ccu_rl_stuck @cc_winCh_ccu_rl_stuck @cc_lastErr_ccu_rl_stuck @cc_unacks_ccu_rl_stuck @cc_rl_done_ccu_rl_stuck @cc_wl_done_ccu_rl_stuck : cc.
-#[export] Hint Rewrite @cc_rl_stuck_ccu_rl_stuck @cc_wl_stuck_ccu_rl_stuck @cc_out_ccu_rl_stuck @cc_ctxs_ccu_wl_stuck @cc_nextID_ccu_wl_stuck @cc_open_ccu_wl_stuck @cc_maxStreams_ccu_wl_stuck @cc_maxFrame_ccu_wl_stuck : cc.
-#[export] Hint Rewrite @cc_goAway_ccu_wl_stuck @cc_closed_ccu_wl_stuck @cc_closing_ccu_wl_stuck @cc_netClosed_ccu_wl_stuck @cc_writeFail_ccu_wl_stuck @cc_enc_ccu_wl_stuck @cc_encTableSize_ccu_wl_stuck @cc_encTableSeen_ccu_wl_stuck : cc.
-#[export] Hint Rewrite @cc_dec_ccu_wl_stuck @cc_currentWindow_ccu_wl_stuck @cc_serverS_ccu_wl_stuck @cc_hdrStream_ccu_wl_stuck @cc_hdrPrev_ccu_wl_stuck @cc_hdrFields_ccu_wl_stuck @cc_hdrEndStream_ccu_wl_stuck @cc_hdrRegularSeen_ccu_wl_stuck : cc.
-#[export] Hint Rewrite @cc_hdrStatus_ccu_wl_stuck @cc_hdrErr_ccu_wl_stuck @cc_stateClosed_ccu_wl_stuck @cc_closeRef_ccu_wl_stuck @cc_reqQueued_ccu_wl_stuck @cc_pending_ccu_wl_stuck @cc_connWindow_ccu_wl_stuck @cc_streamWindow_ccu_wl_stuck : cc.
-#[export] Hint Rewrite @cc_inQ_ccu_wl_stuck @cc_outQ_ccu_wl_stuck @cc_winCh_ccu_wl_stuck @cc_lastErr_ccu_wl_stuck @cc_unacks_ccu_wl_stuck @cc_rl_done_ccu_wl_stuck @cc_wl_done_ccu_wl_stuck @cc_rl_stuck_ccu_wl_stuck : cc.
-#[export] Hint Rewrite @cc_wl_stuck_ccu_wl_stuck @cc_out_ccu_wl_stuck @cc_ctxs_ccu_out @cc_nextID_ccu_out @cc_open_ccu_out @cc_maxStreams_ccu_out @cc_maxFrame_ccu_out @cc_goAway_ccu_out : cc.
-#[export] Hint Rewrite @cc_closed_ccu_out @cc_closing_ccu_out @cc_netClosed_ccu_out @cc_writeFail_ccu_out @cc_enc_ccu_out @cc_encTableSize_ccu_out @cc_encTableSeen_ccu_out @cc_dec_ccu_out : cc.
-#[export] Hint Rewrite @cc_currentWindow_ccu_out @cc_serverS_ccu_out @cc_hdrStream_ccu_out @cc_hdrPrev_ccu_out @cc_hdrFields_ccu_out @cc_hdrEndStream_ccu_out @cc_hdrRegularSeen_ccu_out @cc_hdrStatus_ccu_out : cc.
-#[export] Hint Rewrite @cc_hdrErr_ccu_out @cc_stateClosed_ccu_out @cc_closeRef_ccu_out @cc_reqQueued_ccu_out @cc_pending_ccu_out @cc_connWindow_ccu_out @cc_streamWindow_ccu_out @cc_inQ_ccu_out : cc.
-#[export] Hint Rewrite @cc_outQ_ccu_out @cc_winCh_ccu_out @cc_lastErr_ccu_out @cc_unacks_ccu_out @cc_rl_done_ccu_out @cc_wl_done_ccu_out @cc_rl_stuck_ccu_out @cc_wl_stuck_ccu_out : cc.
-#[export] Hint Rewrite @cc_out_ccu_out @cc_ctxs_cl_note @cc_nextID_cl_note @cc_open_cl_note @cc_maxStreams_cl_note @cc_maxFrame_cl_note @cc_goAway_cl_note @cc_closed_cl_note : cc.
-#[export] Hint Rewrite @cc_closing_cl_note @cc_netClosed_cl_note @cc_writeFail_cl_note @cc_enc_cl_note @cc_encTableSize_cl_note @cc_encTableSeen_cl_note @cc_dec_cl_note @cc_currentWindow_cl_note : cc.
-#[export] Hint Rewrite @cc_serverS_cl_note @cc_hdrStream_cl_note @cc_hdrPrev_cl_note @cc_hdrFields_cl_note @cc_hdrEndStream_cl_note @cc_hdrRegularSeen_cl_note @cc_hdrStatus_cl_note @cc_hdrErr_cl_note : cc.
-#[export] Hint Rewrite @cc_stateClosed_cl_note @cc_closeRef_cl_note @cc_reqQueued_cl_note @cc_pending_cl_note @cc_connWindow_cl_note @cc_streamWindow_cl_note @cc_inQ_cl_note @cc_outQ_cl_note : cc.
-#[export] Hint Rewrite @cc_winCh_cl_note @cc_lastErr_cl_note @cc_unacks_cl_note @cc_rl_done_cl_note @cc_wl_done_cl_note @cc_rl_stuck_cl_note @cc_wl_stuck_cl_note @cc_ctxs_cl_notes : cc.
-#[export] Hint Rewrite @cc_nextID_cl_notes @cc_open_cl_notes @cc_maxStreams_cl_notes @cc_maxFrame_cl_notes @cc_goAway_cl_notes @cc_closed_cl_notes @cc_closing_cl_notes @cc_netClosed_cl_notes : cc.
-#[export] Hint Rewrite @cc_writeFail_cl_notes @cc_enc_cl_notes @cc_encTableSize_cl_notes @cc_encTableSeen_cl_notes @cc_dec_cl_notes @cc_currentWindow_cl_notes @cc_serverS_cl_notes @cc_hdrStream_cl_notes : cc.
-#[export] Hint Rewrite @cc_hdrPrev_cl_notes @cc_hdrFields_cl_notes @cc_hdrEndStream_cl_notes @cc_hdrRegularSeen_cl_notes @cc_hdrStatus_cl_notes @cc_hdrErr_cl_notes @cc_stateClosed_cl_notes @cc_closeRef_cl_notes : cc.
-#[export] Hint Rewrite @cc_reqQueued_cl_notes @cc_pending_cl_notes @cc_connWindow_cl_notes @cc_streamWindow_cl_notes @cc_inQ_cl_notes @cc_outQ_cl_notes @cc_winCh_cl_notes @cc_lastErr_cl_notes : cc.
-#[export] Hint Rewrite @cc_unacks_cl_notes @cc_rl_done_cl_notes @cc_wl_done_cl_notes @cc_rl_stuck_cl_notes @cc_wl_stuck_cl_notes @cc_nextID_cl_ctx_put @cc_open_cl_ctx_put @cc_maxStreams_cl_ctx_put : cc.
-#[export] Hint Rewrite @cc_maxFrame_cl_ctx_put @cc_goAway_cl_ctx_put @cc_closed_cl_ctx_put @cc_closing_cl_ctx_put @cc_netClosed_cl_ctx_put @cc_writeFail_cl_ctx_put @cc_enc_cl_ctx_put @cc_encTableSize_cl_ctx_put : cc.
-#[export] Hint Rewrite @cc_encTableSeen_cl_ctx_put @cc_dec_cl_ctx_put @cc_currentWindow_cl_ctx_put @cc_serverS_cl_ctx_put @cc_hdrStream_cl_ctx_put @cc_hdrPrev_cl_ctx_put @cc_hdrFields_cl_ctx_put @cc_hdrEndStream_cl_ctx_put : cc.
-#[export] Hint Rewrite @cc_hdrRegularSeen_cl_ctx_put @cc_hdrStatus_cl_ctx_put @cc_hdrErr_cl_ctx_put @cc_stateClosed_cl_ctx_put @cc_closeRef_cl_ctx_put @cc_reqQueued_cl_ctx_put @cc_pending_cl_ctx_put @cc_connWindow_cl_ctx_put : cc.
-#[export] Hint Rewrite @cc_streamWindow_cl_ctx_put @cc_inQ_cl_ctx_put @cc_outQ_cl_ctx_put @cc_winCh_cl_ctx_put @cc_lastErr_cl_ctx_put @cc_unacks_cl_ctx_put @cc_rl_done_cl_ctx_put @cc_wl_done_cl_ctx_put : cc.
-#[export] Hint Rewrite @cc_rl_stuck_cl_ctx_put @cc_wl_stuck_cl_ctx_put @cc_out_cl_ctx_put @cc_nextID_cl_ctx_upd @cc_open_cl_ctx_upd @cc_maxStreams_cl_ctx_upd @cc_maxFrame_cl_ctx_upd @cc_goAway_cl_ctx_upd : cc.
-#[export] Hint Rewrite @cc_closed_cl_ctx_upd @cc_closing_cl_ctx_upd @cc_netClosed_cl_ctx_upd @cc_writeFail_cl_ctx_upd @cc_enc_cl_ctx_upd @cc_encTableSize_cl_ctx_upd @cc_encTableSeen_cl_ctx_upd @cc_dec_cl_ctx_upd : cc.
-#[export] Hint Rewrite @cc_currentWindow_cl_ctx_upd @cc_serverS_cl_ctx_upd @cc_hdrStream_cl_ctx_upd @cc_hdrPrev_cl_ctx_upd @cc_hdrFields_cl_ctx_upd @cc_hdrEndStream_cl_ctx_upd @cc_hdrRegularSeen_cl_ctx_upd @cc_hdrStatus_cl_ctx_upd : cc.
-#[export] Hint Rewrite @cc_hdrErr_cl_ctx_upd @cc_stateClosed_cl_ctx_upd @cc_closeRef_cl_ctx_upd @cc_reqQueued_cl_ctx_upd @cc_pending_cl_ctx_upd @cc_connWindow_cl_ctx_upd @cc_streamWindow_cl_ctx_upd @cc_inQ_cl_ctx_upd : cc.
-#[export] Hint Rewrite @cc_outQ_cl_ctx_upd @cc_winCh_cl_ctx_upd @cc_lastErr_cl_ctx_upd @cc_unacks_cl_ctx_upd @cc_rl_done_cl_ctx_upd @cc_wl_done_cl_ctx_upd @cc_rl_stuck_cl_ctx_upd @cc_wl_stuck_cl_ctx_upd : cc.
-#[export] Hint Rewrite @cc_out_cl_ctx_upd @cc_nextID_cl_resolve @cc_open_cl_resolve @cc_maxStreams_cl_resolve @cc_maxFrame_cl_resolve @cc_goAway_cl_resolve @cc_closed_cl_resolve @cc_closing_cl_resolve : cc.
-#[export] Hint Rewrite @cc_netClosed_cl_resolve @cc_writeFail_cl_resolve @cc_enc_cl_resolve @cc_encTableSize_cl_resolve @cc_encTableSeen_cl_resolve @cc_dec_cl_resolve @cc_currentWindow_cl_resolve @cc_serverS_cl_resolve : cc.
-#[export] Hint Rewrite @cc_hdrStream_cl_resolve @cc_hdrPrev_cl_resolve @cc_hdrFields_cl_resolve @cc_hdrEndStream_cl_resolve @cc_hdrRegularSeen_cl_resolve @cc_hdrStatus_cl_resolve @cc_hdrErr_cl_resolve @cc_stateClosed_cl_resolve : cc.
-#[export] Hint Rewrite @cc_closeRef_cl_resolve @cc_reqQueued_cl_resolve @cc_pending_cl_resolve @cc_connWindow_cl_resolve @cc_streamWindow_cl_resolve @cc_inQ_cl_resolve @cc_outQ_cl_resolve @cc_winCh_cl_resolve : cc.
-#[export] Hint Rewrite @cc_lastErr_cl_resolve @cc_unacks_cl_resolve @cc_rl_done_cl_resolve @cc_wl_done_cl_resolve @cc_rl_stuck_cl_resolve @cc_wl_stuck_cl_resolve @cc_out_cl_resolve @cc_nextID_cl_resolve_all : cc.
-#[export] Hint Rewrite @cc_open_cl_resolve_all @cc_maxStreams_cl_resolve_all @cc_maxFrame_cl_resolve_all @cc_goAway_cl_resolve_all @cc_closed_cl_resolve_all @cc_closing_cl_resolve_all @cc_netClosed_cl_resolve_all @cc_writeFail_cl_resolve_all : cc.
-#[export] Hint Rewrite @cc_enc_cl_resolve_all @cc_encTableSize_cl_resolve_all @cc_encTableSeen_cl_resolve_all @cc_dec_cl_resolve_all @cc_currentWindow_cl_resolve_all @cc_serverS_cl_resolve_all @cc_hdrStream_cl_resolve_all @cc_hdrPrev_cl_resolve_all : cc.
-#[export] Hint Rewrite @cc_hdrFields_cl_resolve_all @cc_hdrEndStream_cl_resolve_all @cc_hdrRegularSeen_cl_resolve_all @cc_hdrStatus_cl_resolve_all @cc_hdrErr_cl_resolve_all @cc_stateClosed_cl_resolve_all @cc_closeRef_cl_resolve_all @cc_reqQueued_cl_resolve_all : cc.
-#[export] Hint Rewrite @cc_pending_cl_resolve_all @cc_connWindow_cl_resolve_all @cc_streamWindow_cl_resolve_all @cc_inQ_cl_resolve_all @cc_outQ_cl_resolve_all @cc_winCh_cl_resolve_all @cc_lastErr_cl_resolve_all @cc_unacks_cl_resolve_all : cc.
-#[export] Hint Rewrite @cc_rl_done_cl_resolve_all @cc_wl_done_cl_resolve_all @cc_rl_stuck_cl_resolve_all @cc_wl_stuck_cl_resolve_all @cc_out_cl_resolve_all @cc_ctxs_cl_set_last_err @cc_nextID_cl_set_last_err @cc_open_cl_set_last_err : cc.
-#[export] Hint Rewrite @cc_maxStreams_cl_set_last_err @cc_maxFrame_cl_set_last_err @cc_goAway_cl_set_last_err @cc_closed_cl_set_last_err @cc_closing_cl_set_last_err @cc_netClosed_cl_set_last_err @cc_writeFail_cl_set_last_err @cc_enc_cl_set_last_err : cc.
-#[export] Hint Rewrite @cc_encTableSize_cl_set_last_err @cc_encTableSeen_cl_set_last_err @cc_dec_cl_set_last_err @cc_currentWindow_cl_set_last_err @cc_serverS_cl_set_last_err @cc_hdrStream_cl_set_last_err @cc_hdrPrev_cl_set_last_err @cc_hdrFields_cl_set_last_err : cc.
-#[export] Hint Rewrite @cc_hdrEndStream_cl_set_last_err @cc_hdrRegularSeen_cl_set_last_err @cc_hdrStatus_cl_set_last_err @cc_hdrErr_cl_set_last_err @cc_stateClosed_cl_set_last_err @cc_closeRef_cl_set_last_err @cc_reqQueued_cl_set_last_err @cc_pending_cl_set_last_err : cc.
-#[export] Hint Rewrite @cc_connWindow_cl_set_last_err @cc_streamWindow_cl_set_last_err @cc_inQ_cl_set_last_err @cc_outQ_cl_set_last_err @cc_winCh_cl_set_last_err @cc_unacks_cl_set_last_err @cc_rl_done_cl_set_last_err @cc_wl_done_cl_set_last_err : cc.
-#[export] Hint Rewrite @cc_rl_stuck_cl_set_last_err @cc_wl_stuck_cl_set_last_err @cc_out_cl_set_last_err @cc_ctxs_cl_req_del @cc_nextID_cl_req_del @cc_open_cl_req_del @cc_maxStreams_cl_req_del @cc_maxFrame_cl_req_del : cc.
-#[export] Hint Rewrite @cc_goAway_cl_req_del @cc_closed_cl_req_del @cc_closing_cl_req_del @cc_netClosed_cl_req_del @cc_writeFail_cl_req_del @cc_enc_cl_req_del @cc_encTableSize_cl_req_del @cc_encTableSeen_cl_req_del : cc.
-#[export] Hint Rewrite @cc_dec_cl_req_del @cc_currentWindow_cl_req_del @cc_serverS_cl_req_del @cc_hdrStream_cl_req_del @cc_hdrPrev_cl_req_del @cc_hdrFields_cl_req_del @cc_hdrEndStream_cl_req_del @cc_hdrRegularSeen_cl_req_del : cc.
-#[export] Hint Rewrite @cc_hdrStatus_cl_req_del @cc_hdrErr_cl_req_del @cc_stateClosed_cl_req_del @cc_closeRef_cl_req_del @cc_pending_cl_req_del @cc_connWindow_cl_req_del @cc_streamWindow_cl_req_del @cc_inQ_cl_req_del : cc.
-#[export] Hint Rewrite @cc_outQ_cl_req_del @cc_winCh_cl_req_del @cc_lastErr_cl_req_del @cc_unacks_cl_req_del @cc_rl_done_cl_req_del @cc_wl_done_cl_req_del @cc_rl_stuck_cl_req_del @cc_wl_stuck_cl_req_del : cc.
-#[export] Hint Rewrite @cc_out_cl_req_del @cc_ctxs_cl_take_req_count @cc_nextID_cl_take_req_count @cc_maxStreams_cl_take_req_count @cc_maxFrame_cl_take_req_count @cc_goAway_cl_take_req_count @cc_closed_cl_take_req_count @cc_closing_cl_take_req_count : cc.
-#[export] Hint Rewrite @cc_netClosed_cl_take_req_count @cc_writeFail_cl_take_req_count @cc_enc_cl_take_req_count @cc_encTableSize_cl_take_req_count @cc_encTableSeen_cl_take_req_count @cc_dec_cl_take_req_count @cc_currentWindow_cl_take_req_count @cc_serverS_cl_take_req_count : cc.
-#[export] Hint Rewrite @cc_hdrStream_cl_take_req_count @cc_hdrPrev_cl_take_req_count @cc_hdrFields_cl_take_req_count @cc_hdrEndStream_cl_take_req_count @cc_hdrRegularSeen_cl_take_req_count @cc_hdrStatus_cl_take_req_count @cc_hdrErr_cl_take_req_count @cc_stateClosed_cl_take_req_count : cc.
-#[export] Hint Rewrite @cc_closeRef_cl_take_req_count @cc_pending_cl_take_req_count @cc_connWindow_cl_take_req_count @cc_streamWindow_cl_take_req_count @cc_inQ_cl_take_req_count @cc_outQ_cl_take_req_count @cc_winCh_cl_take_req_count @cc_lastErr_cl_take_req_count : cc.
-#[export] Hint Rewrite @cc_unacks_cl_take_req_count @cc_rl_done_cl_take_req_count @cc_wl_done_cl_take_req_count @cc_rl_stuck_cl_take_req_count @cc_wl_stuck_cl_take_req_count @cc_out_cl_take_req_count @cc_ctxs_cl_write_out @cc_nextID_cl_write_out : cc.
-#[export] Hint Rewrite @cc_open_cl_write_out @cc_maxStreams_cl_write_out @cc_maxFrame_cl_write_out @cc_goAway_cl_write_out @cc_closed_cl_write_out @cc_closing_cl_write_out @cc_netClosed_cl_write_out @cc_writeFail_cl_write_out : cc.
-#[export] Hint Rewrite @cc_enc_cl_write_out @cc_encTableSize_cl_write_out @cc_encTableSeen_cl_write_out @cc_dec_cl_write_out @cc_currentWindow_cl_write_out @cc_serverS_cl_write_out @cc_hdrStream_cl_write_out @cc_hdrPrev_cl_write_out : cc.
-#[export] Hint Rewrite @cc_hdrFields_cl_write_out @cc_hdrEndStream_cl_write_out @cc_hdrRegularSeen_cl_write_out @cc_hdrStatus_cl_write_out @cc_hdrErr_cl_write_out @cc_stateClosed_cl_write_out @cc_closeRef_cl_write_out @cc_reqQueued_cl_write_out : cc.
-#[export] Hint Rewrite @cc_pending_cl_write_out @cc_connWindow_cl_write_out @cc_streamWindow_cl_write_out @cc_inQ_cl_write_out @cc_winCh_cl_write_out @cc_lastErr_cl_write_out @cc_unacks_cl_write_out @cc_rl_done_cl_write_out : cc.
-#[export] Hint Rewrite @cc_wl_done_cl_write_out @cc_rl_stuck_cl_write_out @cc_wl_stuck_cl_write_out @cc_out_cl_write_out @cc_ctxs_cl_signal_window @cc_nextID_cl_signal_window @cc_open_cl_signal_window @cc_maxStreams_cl_signal_window : cc.
-#[export] Hint Rewrite @cc_maxFrame_cl_signal_window @cc_goAway_cl_signal_window @cc_closed_cl_signal_window @cc_closing_cl_signal_window @cc_netClosed_cl_signal_window @cc_writeFail_cl_signal_window @cc_enc_cl_signal_window @cc_encTableSize_cl_signal_window : cc.
-#[export] Hint Rewrite @cc_encTableSeen_cl_signal_window @cc_dec_cl_signal_window @cc_currentWindow_cl_signal_window @cc_serverS_cl_signal_window @cc_hdrStream_cl_signal_window @cc_hdrPrev_cl_signal_window @cc_hdrFields_cl_signal_window @cc_hdrEndStream_cl_signal_window : cc.
-#[export] Hint Rewrite @cc_hdrRegularSeen_cl_signal_window @cc_hdrStatus_cl_signal_window @cc_hdrErr_cl_signal_window @cc_stateClosed_cl_signal_window @cc_closeRef_cl_signal_window @cc_reqQueued_cl_signal_window @cc_pending_cl_signal_window @cc_connWindow_cl_signal_window : cc.
-#[export] Hint Rewrite @cc_streamWindow_cl_signal_window @cc_inQ_cl_signal_window @cc_outQ_cl_signal_window @cc_lastErr_cl_signal_window @cc_unacks_cl_signal_window @cc_rl_done_cl_signal_window @cc_wl_done_cl_signal_window @cc_rl_stuck_cl_signal_window : cc.
-#[export] Hint Rewrite @cc_wl_stuck_cl_signal_window @cc_out_cl_signal_window @cc_ctxs_cl_close_begin @cc_nextID_cl_close_begin @cc_open_cl_close_begin @cc_maxStreams_cl_close_begin @cc_maxFrame_cl_close_begin @cc_goAway_cl_close_begin : cc.
-#[export] Hint Rewrite @cc_closing_cl_close_begin @cc_netClosed_cl_close_begin @cc_writeFail_cl_close_begin @cc_enc_cl_close_begin @cc_encTableSize_cl_close_begin @cc_encTableSeen_cl_close_begin @cc_dec_cl_close_begin @cc_currentWindow_cl_close_begin : cc.
-#[export] Hint Rewrite @cc_serverS_cl_close_begin @cc_hdrStream_cl_close_begin @cc_hdrPrev_cl_close_begin @cc_hdrFields_cl_close_begin @cc_hdrEndStream_cl_close_begin @cc_hdrRegularSeen_cl_close_begin @cc_hdrStatus_cl_close_begin @cc_hdrErr_cl_close_begin : cc.
-#[export] Hint Rewrite @cc_stateClosed_cl_close_begin @cc_closeRef_cl_close_begin @cc_reqQueued_cl_close_begin @cc_pending_cl_close_begin @cc_connWindow_cl_close_begin @cc_streamWindow_cl_close_begin @cc_inQ_cl_close_begin @cc_outQ_cl_close_begin : cc.
-#[export] Hint Rewrite @cc_winCh_cl_close_begin @cc_lastErr_cl_close_begin @cc_unacks_cl_close_begin @cc_rl_done_cl_close_begin @cc_wl_done_cl_close_begin @cc_rl_stuck_cl_close_begin @cc_wl_stuck_cl_close_begin @cc_out_cl_close_begin : cc.
-#[export] Hint Rewrite @cc_ctxs_cl_close_net @cc_nextID_cl_close_net @cc_open_cl_close_net @cc_maxStreams_cl_close_net @cc_maxFrame_cl_close_net @cc_goAway_cl_close_net @cc_closed_cl_close_net @cc_closing_cl_close_net : cc.
-#[export] Hint Rewrite @cc_writeFail_cl_close_net @cc_enc_cl_close_net @cc_encTableSize_cl_close_net @cc_encTableSeen_cl_close_net @cc_dec_cl_close_net @cc_currentWindow_cl_close_net @cc_serverS_cl_close_net @cc_hdrStream_cl_close_net : cc.
-#[export] Hint Rewrite @cc_hdrPrev_cl_close_net @cc_hdrFields_cl_close_net @cc_hdrEndStream_cl_close_net @cc_hdrRegularSeen_cl_close_net @cc_hdrStatus_cl_close_net @cc_hdrErr_cl_close_net @cc_stateClosed_cl_close_net @cc_closeRef_cl_close_net : cc.
-#[export] Hint Rewrite @cc_reqQueued_cl_close_net @cc_pending_cl_close_net @cc_connWindow_cl_close_net @cc_streamWindow_cl_close_net @cc_inQ_cl_close_net @cc_outQ_cl_close_net @cc_winCh_cl_close_net @cc_lastErr_cl_close_net : cc.
-#[export] Hint Rewrite @cc_unacks_cl_close_net @cc_rl_done_cl_close_net @cc_wl_done_cl_close_net @cc_rl_stuck_cl_close_net @cc_wl_stuck_cl_close_net @cc_ctxs_cl_conn_close @cc_nextID_cl_conn_close @cc_open_cl_conn_close : cc.
-#[export] Hint Rewrite @cc_maxStreams_cl_conn_close @cc_maxFrame_cl_conn_close @cc_goAway_cl_conn_close @cc_closing_cl_conn_close @cc_writeFail_cl_conn_close @cc_enc_cl_conn_close @cc_encTableSize_cl_conn_close @cc_encTableSeen_cl_conn_close : cc.
-#[export] Hint Rewrite @cc_dec_cl_conn_close @cc_currentWindow_cl_conn_close @cc_serverS_cl_conn_close @cc_hdrStream_cl_conn_close @cc_hdrPrev_cl_conn_close @cc_hdrFields_cl_conn_close @cc_hdrEndStream_cl_conn_close @cc_hdrRegularSeen_cl_conn_close : cc.
-#[export] Hint Rewrite @cc_hdrStatus_cl_conn_close @cc_hdrErr_cl_conn_close @cc_stateClosed_cl_conn_close @cc_closeRef_cl_conn_close @cc_reqQueued_cl_conn_close @cc_pending_cl_conn_close @cc_connWindow_cl_conn_close @cc_streamWindow_cl_conn_close : cc.
-#[export] Hint Rewrite @cc_inQ_cl_conn_close @cc_outQ_cl_conn_close @cc_winCh_cl_conn_close @cc_lastErr_cl_conn_close @cc_unacks_cl_conn_close @cc_rl_done_cl_conn_close @cc_wl_done_cl_conn_close @cc_rl_stuck_cl_conn_close : cc.
-#[export] Hint Rewrite @cc_wl_stuck_cl_conn_close @cc_nextID_cl_go_stuck @cc_open_cl_go_stuck @cc_maxStreams_cl_go_stuck @cc_maxFrame_cl_go_stuck @cc_goAway_cl_go_stuck @cc_closed_cl_go_stuck @cc_closing_cl_go_stuck : cc.
-#[export] Hint Rewrite @cc_netClosed_cl_go_stuck @cc_writeFail_cl_go_stuck @cc_enc_cl_go_stuck @cc_encTableSize_cl_go_stuck @cc_encTableSeen_cl_go_stuck @cc_dec_cl_go_stuck @cc_currentWindow_cl_go_stuck @cc_serverS_cl_go_stuck : cc.
-#[export] Hint Rewrite @cc_hdrStream_cl_go_stuck @cc_hdrPrev_cl_go_stuck @cc_hdrFields_cl_go_stuck @cc_hdrEndStream_cl_go_stuck @cc_hdrRegularSeen_cl_go_stuck @cc_hdrStatus_cl_go_stuck @cc_hdrErr_cl_go_stuck @cc_stateClosed_cl_go_stuck : cc.
-#[export] Hint Rewrite @cc_closeRef_cl_go_stuck @cc_reqQueued_cl_go_stuck @cc_pending_cl_go_stuck @cc_connWindow_cl_go_stuck @cc_streamWindow_cl_go_stuck @cc_inQ_cl_go_stuck @cc_outQ_cl_go_stuck @cc_winCh_cl_go_stuck : cc.
-#[export] Hint Rewrite @cc_lastErr_cl_go_stuck @cc_unacks_cl_go_stuck @cc_rl_done_cl_go_stuck @cc_wl_done_cl_go_stuck @cc_nextID_cl_close_body @cc_open_cl_close_body @cc_maxStreams_cl_close_body @cc_maxFrame_cl_close_body : cc.
-#[export] Hint Rewrite @cc_goAway_cl_close_body @cc_closed_cl_close_body @cc_closing_cl_close_body @cc_netClosed_cl_close_body @cc_writeFail_cl_close_body @cc_enc_cl_close_body @cc_encTableSize_cl_close_body @cc_encTableSeen_cl_close_body : cc.
-#[export] Hint Rewrite @cc_dec_cl_close_body @cc_currentWindow_cl_close_body @cc_serverS_cl_close_body @cc_hdrStream_cl_close_body @cc_hdrPrev_cl_close_body @cc_hdrFields_cl_close_body @cc_hdrEndStream_cl_close_body @cc_hdrRegularSeen_cl_close_body : cc.
-#[export] Hint Rewrite @cc_hdrStatus_cl_close_body @cc_hdrErr_cl_close_body @cc_stateClosed_cl_close_body @cc_closeRef_cl_close_body @cc_reqQueued_cl_close_body @cc_pending_cl_close_body @cc_connWindow_cl_close_body @cc_streamWindow_cl_close_body : cc.
-#[export] Hint Rewrite @cc_inQ_cl_close_body @cc_outQ_cl_close_body @cc_winCh_cl_close_body @cc_lastErr_cl_close_body @cc_unacks_cl_close_body @cc_rl_done_cl_close_body @cc_wl_done_cl_close_body @cc_rl_stuck_cl_close_body : cc.
-#[export] Hint Rewrite @cc_wl_stuck_cl_close_body @cc_nextID_cl_delete_pending @cc_open_cl_delete_pending @cc_maxStreams_cl_delete_pending @cc_maxFrame_cl_delete_pending @cc_goAway_cl_delete_pending @cc_closed_cl_delete_pending @cc_closing_cl_delete_pending : cc.
-#[export] Hint Rewrite @cc_netClosed_cl_delete_pending @cc_writeFail_cl_delete_pending @cc_enc_cl_delete_pending @cc_encTableSize_cl_delete_pending @cc_encTableSeen_cl_delete_pending @cc_dec_cl_delete_pending @cc_currentWindow_cl_delete_pending @cc_serverS_cl_delete_pending : cc.
-#[export] Hint Rewrite @cc_hdrStream_cl_delete_pending @cc_hdrPrev_cl_delete_pending @cc_hdrFields_cl_delete_pending @cc_hdrEndStream_cl_delete_pending @cc_hdrRegularSeen_cl_delete_pending @cc_hdrStatus_cl_delete_pending @cc_hdrErr_cl_delete_pending @cc_stateClosed_cl_delete_pending : cc.
-#[export] Hint Rewrite @cc_closeRef_cl_delete_pending @cc_reqQueued_cl_delete_pending @cc_connWindow_cl_delete_pending @cc_streamWindow_cl_delete_pending @cc_inQ_cl_delete_pending @cc_outQ_cl_delete_pending @cc_winCh_cl_delete_pending @cc_lastErr_cl_delete_pending : cc.
-#[export] Hint Rewrite @cc_unacks_cl_delete_pending @cc_rl_done_cl_delete_pending @cc_wl_done_cl_delete_pending @cc_ctxs_cl_cancel_stream @cc_nextID_cl_cancel_stream @cc_open_cl_cancel_stream @cc_maxStreams_cl_cancel_stream @cc_maxFrame_cl_cancel_stream : cc.
-#[export] Hint Rewrite @cc_goAway_cl_cancel_stream @cc_closed_cl_cancel_stream @cc_closing_cl_cancel_stream @cc_netClosed_cl_cancel_stream @cc_writeFail_cl_cancel_stream @cc_enc_cl_cancel_stream @cc_encTableSize_cl_cancel_stream @cc_encTableSeen_cl_cancel_stream : cc.
-#[export] Hint Rewrite @cc_dec_cl_cancel_stream @cc_currentWindow_cl_cancel_stream @cc_serverS_cl_cancel_stream @cc_hdrStream_cl_cancel_stream @cc_hdrPrev_cl_cancel_stream @cc_hdrFields_cl_cancel_stream @cc_hdrEndStream_cl_cancel_stream @cc_hdrRegularSeen_cl_cancel_stream : cc.
-#[export] Hint Rewrite @cc_hdrStatus_cl_cancel_stream @cc_hdrErr_cl_cancel_stream @cc_stateClosed_cl_cancel_stream @cc_closeRef_cl_cancel_stream @cc_reqQueued_cl_cancel_stream @cc_pending_cl_cancel_stream @cc_connWindow_cl_cancel_stream @cc_streamWindow_cl_cancel_stream : cc.
-#[export] Hint Rewrite @cc_inQ_cl_cancel_stream @cc_winCh_cl_cancel_stream @cc_lastErr_cl_cancel_stream @cc_unacks_cl_cancel_stream @cc_rl_done_cl_cancel_stream @cc_wl_done_cl_cancel_stream @cc_rl_stuck_cl_cancel_stream @cc_wl_stuck_cl_cancel_stream : cc.
-#[export] Hint Rewrite @cc_out_cl_cancel_stream @cc_ctxs_cl_apply_initial_window @cc_nextID_cl_apply_initial_window @cc_open_cl_apply_initial_window @cc_maxStreams_cl_apply_initial_window @cc_maxFrame_cl_apply_initial_window @cc_goAway_cl_apply_initial_window @cc_closed_cl_apply_initial_window : cc.
-#[export] Hint Rewrite @cc_closing_cl_apply_initial_window @cc_netClosed_cl_apply_initial_window @cc_writeFail_cl_apply_initial_window @cc_enc_cl_apply_initial_window @cc_encTableSize_cl_apply_initial_window @cc_encTableSeen_cl_apply_initial_window @cc_dec_cl_apply_initial_window @cc_currentWindow_cl_apply_initial_window : cc.
-#[export] Hint Rewrite @cc_serverS_cl_apply_initial_window @cc_hdrStream_cl_apply_initial_window @cc_hdrPrev_cl_apply_initial_window @cc_hdrFields_cl_apply_initial_window @cc_hdrEndStream_cl_apply_initial_window @cc_hdrRegularSeen_cl_apply_initial_window @cc_hdrStatus_cl_apply_initial_window @cc_hdrErr_cl_apply_initial_window : cc.
-#[export] Hint Rewrite @cc_stateClosed_cl_apply_initial_window @cc_closeRef_cl_apply_initial_window @cc_reqQueued_cl_apply_initial_window @cc_connWindow_cl_apply_initial_window @cc_inQ_cl_apply_initial_window @cc_outQ_cl_apply_initial_window @cc_lastErr_cl_apply_initial_window @cc_unacks_cl_apply_initial_window : cc.
-#[export] Hint Rewrite @cc_rl_done_cl_apply_initial_window @cc_wl_done_cl_apply_initial_window @cc_rl_stuck_cl_apply_initial_window @cc_wl_stuck_cl_apply_initial_window @cc_out_cl_apply_initial_window @cc_ctxs_cl_add_window @cc_nextID_cl_add_window @cc_open_cl_add_window : cc.
-#[export] Hint Rewrite @cc_maxStreams_cl_add_window @cc_maxFrame_cl_add_window @cc_goAway_cl_add_window @cc_closed_cl_add_window @cc_closing_cl_add_window @cc_netClosed_cl_add_window @cc_writeFail_cl_add_window @cc_enc_cl_add_window : cc.
-#[export] Hint Rewrite @cc_encTableSize_cl_add_window @cc_encTableSeen_cl_add_window @cc_dec_cl_add_window @cc_currentWindow_cl_add_window @cc_serverS_cl_add_window @cc_hdrStream_cl_add_window @cc_hdrPrev_cl_add_window @cc_hdrFields_cl_add_window : cc.
-#[export] Hint Rewrite @cc_hdrEndStream_cl_add_window @cc_hdrRegularSeen_cl_add_window @cc_hdrStatus_cl_add_window @cc_hdrErr_cl_add_window @cc_stateClosed_cl_add_window @cc_closeRef_cl_add_window @cc_reqQueued_cl_add_window @cc_streamWindow_cl_add_window : cc.
-#[export] Hint Rewrite @cc_inQ_cl_add_window @cc_outQ_cl_add_window @cc_lastErr_cl_add_window @cc_unacks_cl_add_window @cc_rl_done_cl_add_window @cc_wl_done_cl_add_window @cc_rl_stuck_cl_add_window @cc_wl_stuck_cl_add_window : cc.
-#[export] Hint Rewrite @cc_out_cl_add_window @cc_ctxs_cl_update_window @cc_nextID_cl_update_window @cc_open_cl_update_window @cc_maxStreams_cl_update_window @cc_maxFrame_cl_update_window @cc_goAway_cl_update_window @cc_closed_cl_update_window : cc.
-#[export] Hint Rewrite @cc_closing_cl_update_window @cc_netClosed_cl_update_window @cc_writeFail_cl_update_window @cc_enc_cl_update_window @cc_encTableSize_cl_update_window @cc_encTableSeen_cl_update_window @cc_dec_cl_update_window @cc_currentWindow_cl_update_window : cc.
-#[export] Hint Rewrite @cc_serverS_cl_update_window @cc_hdrStream_cl_update_window @cc_hdrPrev_cl_update_window @cc_hdrFields_cl_update_window @cc_hdrEndStream_cl_update_window @cc_hdrRegularSeen_cl_update_window @cc_hdrStatus_cl_update_window @cc_hdrErr_cl_update_window : cc.
-#[export] Hint Rewrite @cc_stateClosed_cl_update_window @cc_closeRef_cl_update_window @cc_reqQueued_cl_update_window @cc_pending_cl_update_window @cc_connWindow_cl_update_window @cc_streamWindow_cl_update_window @cc_inQ_cl_update_window @cc_winCh_cl_update_window : cc.
-#[export] Hint Rewrite @cc_lastErr_cl_update_window @cc_unacks_cl_update_window @cc_rl_done_cl_update_window @cc_wl_done_cl_update_window @cc_rl_stuck_cl_update_window @cc_wl_stuck_cl_update_window @cc_out_cl_update_window @cc_ctxs_cl_handle_settings : cc.
-#[export] Hint Rewrite @cc_nextID_cl_handle_settings @cc_open_cl_handle_settings @cc_goAway_cl_handle_settings @cc_closed_cl_handle_settings @cc_closing_cl_handle_settings @cc_netClosed_cl_handle_settings @cc_writeFail_cl_handle_settings @cc_enc_cl_handle_settings : cc.
-#[export] Hint Rewrite @cc_encTableSeen_cl_handle_settings @cc_dec_cl_handle_settings @cc_currentWindow_cl_handle_settings @cc_hdrStream_cl_handle_settings @cc_hdrPrev_cl_handle_settings @cc_hdrFields_cl_handle_settings @cc_hdrEndStream_cl_handle_settings @cc_hdrRegularSeen_cl_handle_settings : cc.
-#[export] Hint Rewrite @cc_hdrStatus_cl_handle_settings @cc_hdrErr_cl_handle_settings @cc_stateClosed_cl_handle_settings @cc_closeRef_cl_handle_settings @cc_reqQueued_cl_handle_settings @cc_connWindow_cl_handle_settings @cc_inQ_cl_handle_settings @cc_lastErr_cl_handle_settings : cc.
-#[export] Hint Rewrite @cc_unacks_cl_handle_settings @cc_rl_done_cl_handle_settings @cc_wl_done_cl_handle_settings @cc_rl_stuck_cl_handle_settings @cc_wl_stuck_cl_handle_settings @cc_out_cl_handle_settings @cc_nextID_cl_finish @cc_maxStreams_cl_finish : cc.
-#[export] Hint Rewrite @cc_maxFrame_cl_finish @cc_goAway_cl_finish @cc_closed_cl_finish @cc_closing_cl_finish @cc_netClosed_cl_finish @cc_writeFail_cl_finish @cc_enc_cl_finish @cc_encTableSize_cl_finish : cc.
-#[export] Hint Rewrite @cc_encTableSeen_cl_finish @cc_dec_cl_finish @cc_currentWindow_cl_finish @cc_serverS_cl_finish @cc_hdrStream_cl_finish @cc_hdrPrev_cl_finish @cc_hdrFields_cl_finish @cc_hdrEndStream_cl_finish : cc.
-#[export] Hint Rewrite @cc_hdrRegularSeen_cl_finish @cc_hdrStatus_cl_finish @cc_hdrErr_cl_finish @cc_stateClosed_cl_finish @cc_closeRef_cl_finish @cc_connWindow_cl_finish @cc_streamWindow_cl_finish @cc_inQ_cl_finish : cc.
-#[export] Hint Rewrite @cc_outQ_cl_finish @cc_winCh_cl_finish @cc_lastErr_cl_finish @cc_unacks_cl_finish @cc_rl_done_cl_finish @cc_wl_done_cl_finish @cc_rl_stuck_cl_finish @cc_wl_stuck_cl_finish : cc.
-#[export] Hint Rewrite ct_tag_ctu_tag ct_req_ctu_tag ct_resp_ctu_tag ct_sid_ctu_tag ct_conn_ctu_tag ct_done_ctu_tag ct_resolved_ctu_tag ct_finished_ctu_tag : cc.
-#[export] Hint Rewrite ct_err_ctu_tag ct_armed_ctu_tag ct_fired_ctu_tag ct_cancelled_ctu_tag ct_gotStatus_ctu_tag ct_bodyClosed_ctu_tag ct_writing_ctu_tag ct_returned_ctu_tag : cc.
-#[export] Hint Rewrite ct_pooled_ctu_tag ct_lckStuck_ctu_tag ct_tag_ctu_req ct_req_ctu_req ct_resp_ctu_req ct_sid_ctu_req ct_conn_ctu_req ct_done_ctu_req : cc.
-#[export] Hint Rewrite ct_resolved_ctu_req ct_finished_ctu_req ct_err_ctu_req ct_armed_ctu_req ct_fired_ctu_req ct_cancelled_ctu_req ct_gotStatus_ctu_req ct_bodyClosed_ctu_req : cc.
-#[export] Hint Rewrite ct_writing_ctu_req ct_returned_ctu_req ct_pooled_ctu_req ct_lckStuck_ctu_req ct_tag_ctu_resp ct_req_ctu_resp ct_resp_ctu_resp ct_sid_ctu_resp : cc.
-#[export] Hint Rewrite ct_conn_ctu_resp ct_done_ctu_resp ct_resolved_ctu_resp ct_finished_ctu_resp ct_err_ctu_resp ct_armed_ctu_resp ct_fired_ctu_resp ct_cancelled_ctu_resp : cc.
-#[export] Hint Rewrite ct_gotStatus_ctu_resp ct_bodyClosed_ctu_resp ct_writing_ctu_resp ct_returned_ctu_resp ct_pooled_ctu_resp ct_lckStuck_ctu_resp ct_tag_ctu_sid ct_req_ctu_sid : cc.
-#[export] Hint Rewrite ct_resp_ctu_sid ct_sid_ctu_sid ct_conn_ctu_sid ct_done_ctu_sid ct_resolved_ctu_sid ct_finished_ctu_sid ct_err_ctu_sid ct_armed_ctu_sid : cc.
-#[export] Hint Rewrite ct_fired_ctu_sid ct_cancelled_ctu_sid ct_gotStatus_ctu_sid ct_bodyClosed_ctu_sid ct_writing_ctu_sid ct_returned_ctu_sid ct_pooled_ctu_sid ct_lckStuck_ctu_sid : cc.
-#[export] Hint Rewrite ct_tag_ctu_conn ct_req_ctu_conn ct_resp_ctu_conn ct_sid_ctu_conn ct_conn_ctu_conn ct_done_ctu_conn ct_resolved_ctu_conn ct_finished_ctu_conn : cc.
-#[export] Hint Rewrite ct_err_ctu_conn ct_armed_ctu_conn ct_fired_ctu_conn ct_cancelled_ctu_conn ct_gotStatus_ctu_conn ct_bodyClosed_ctu_conn ct_writing_ctu_conn ct_returned_ctu_conn : cc.
-#[export] Hint Rewrite ct_pooled_ctu_conn ct_lckStuck_ctu_conn ct_tag_ctu_done ct_req_ctu_done ct_resp_ctu_done ct_sid_ctu_done ct_conn_ctu_done ct_done_ctu_done : cc.
-#[export] Hint Rewrite ct_resolved_ctu_done ct_finished_ctu_done ct_err_ctu_done ct_armed_ctu_done ct_fired_ctu_done ct_cancelled_ctu_done ct_gotStatus_ctu_done ct_bodyClosed_ctu_done : cc.
-#[export] Hint Rewrite ct_writing_ctu_done ct_returned_ctu_done ct_pooled_ctu_done ct_lckStuck_ctu_done ct_tag_ctu_resolved ct_req_ctu_resolved ct_resp_ctu_resolved ct_sid_ctu_resolved : cc.
-#[export] Hint Rewrite ct_conn_ctu_resolved ct_done_ctu_resolved ct_resolved_ctu_resolved ct_finished_ctu_resolved ct_err_ctu_resolved ct_armed_ctu_resolved ct_fired_ctu_resolved ct_cancelled_ctu_resolved : cc.
-#[export] Hint Rewrite ct_gotStatus_ctu_resolved ct_bodyClosed_ctu_resolved ct_writing_ctu_resolved ct_returned_ctu_resolved ct_pooled_ctu_resolved ct_lckStuck_ctu_resolved ct_tag_ctu_finished ct_req_ctu_finished : cc.
-#[export] Hint Rewrite ct_resp_ctu_finished ct_sid_ctu_finished ct_conn_ctu_finished ct_done_ctu_finished ct_resolved_ctu_finished ct_finished_ctu_finished ct_err_ctu_finished ct_armed_ctu_finished : cc.
-#[export] Hint Rewrite ct_fired_ctu_finished ct_cancelled_ctu_finished ct_gotStatus_ctu_finished ct_bodyClosed_ctu_finished ct_writing_ctu_finished ct_returned_ctu_finished ct_pooled_ctu_finished ct_lckStuck_ctu_finished : cc.
-#[export] Hint Rewrite ct_tag_ctu_err ct_req_ctu_err ct_resp_ctu_err ct_sid_ctu_err ct_conn_ctu_err ct_done_ctu_err ct_resolved_ctu_err ct_finished_ctu_err : cc.
-#[export] Hint Rewrite ct_err_ctu_err ct_armed_ctu_err ct_fired_ctu_err ct_cancelled_ctu_err ct_gotStatus_ctu_err ct_bodyClosed_ctu_err ct_writing_ctu_err ct_returned_ctu_err : cc.
-#[export] Hint Rewrite ct_pooled_ctu_err ct_lckStuck_ctu_err ct_tag_ctu_armed ct_req_ctu_armed ct_resp_ctu_armed ct_sid_ctu_armed ct_conn_ctu_armed ct_done_ctu_armed : cc.
-#[export] Hint Rewrite ct_resolved_ctu_armed ct_finished_ctu_armed ct_err_ctu_armed ct_armed_ctu_armed ct_fired_ctu_armed ct_cancelled_ctu_armed ct_gotStatus_ctu_armed ct_bodyClosed_ctu_armed : cc.
-#[export] Hint Rewrite ct_writing_ctu_armed ct_returned_ctu_armed ct_pooled_ctu_armed ct_lckStuck_ctu_armed ct_tag_ctu_fired ct_req_ctu_fired ct_resp_ctu_fired ct_sid_ctu_fired : cc.
-#[export] Hint Rewrite ct_conn_ctu_fired ct_done_ctu_fired ct_resolved_ctu_fired ct_finished_ctu_fired ct_err_ctu_fired ct_armed_ctu_fired ct_fired_ctu_fired ct_cancelled_ctu_fired : cc.
-#[export] Hint Rewrite ct_gotStatus_ctu_fired ct_bodyClosed_ctu_fired ct_writing_ctu_fired ct_returned_ctu_fired ct_pooled_ctu_fired ct_lckStuck_ctu_fired ct_tag_ctu_cancelled ct_req_ctu_cancelled : cc.
-#[export] Hint Rewrite ct_resp_ctu_cancelled ct_sid_ctu_cancelled ct_conn_ctu_cancelled ct_done_ctu_cancelled ct_resolved_ctu_cancelled ct_finished_ctu_cancelled ct_err_ctu_cancelled ct_armed_ctu_cancelled : cc.
-#[export] Hint Rewrite ct_fired_ctu_cancelled ct_cancelled_ctu_cancelled ct_gotStatus_ctu_cancelled ct_bodyClosed_ctu_cancelled ct_writing_ctu_cancelled ct_returned_ctu_cancelled ct_pooled_ctu_cancelled ct_lckStuck_ctu_cancelled : cc.
-#[export] Hint Rewrite ct_tag_ctu_gotStatus ct_req_ctu_gotStatus ct_resp_ctu_gotStatus ct_sid_ctu_gotStatus ct_conn_ctu_gotStatus ct_done_ctu_gotStatus ct_resolved_ctu_gotStatus ct_finished_ctu_gotStatus : cc.
-#[export] Hint Rewrite ct_err_ctu_gotStatus ct_armed_ctu_gotStatus ct_fired_ctu_gotStatus ct_cancelled_ctu_gotStatus ct_gotStatus_ctu_gotStatus ct_bodyClosed_ctu_gotStatus ct_writing_ctu_gotStatus ct_returned_ctu_gotStatus : cc.
-#[export] Hint Rewrite ct_pooled_ctu_gotStatus ct_lckStuck_ctu_gotStatus ct_tag_ctu_bodyClosed ct_req_ctu_bodyClosed ct_resp_ctu_bodyClosed ct_sid_ctu_bodyClosed ct_conn_ctu_bodyClosed ct_done_ctu_bodyClosed : cc.
-#[export] Hint Rewrite ct_resolved_ctu_bodyClosed ct_finished_ctu_bodyClosed ct_err_ctu_bodyClosed ct_armed_ctu_bodyClosed ct_fired_ctu_bodyClosed ct_cancelled_ctu_bodyClosed ct_gotStatus_ctu_bodyClosed ct_bodyClosed_ctu_bodyClosed : cc.
-#[export] Hint Rewrite ct_writing_ctu_bodyClosed ct_returned_ctu_bodyClosed ct_pooled_ctu_bodyClosed ct_lckStuck_ctu_bodyClosed ct_tag_ctu_writing ct_req_ctu_writing ct_resp_ctu_writing ct_sid_ctu_writing : cc.
-#[export] Hint Rewrite ct_conn_ctu_writing ct_done_ctu_writing ct_resolved_ctu_writing ct_finished_ctu_writing ct_err_ctu_writing ct_armed_ctu_writing ct_fired_ctu_writing ct_cancelled_ctu_writing : cc.
-#[export] Hint Rewrite ct_gotStatus_ctu_writing ct_bodyClosed_ctu_writing ct_writing_ctu_writing ct_returned_ctu_writing ct_pooled_ctu_writing ct_lckStuck_ctu_writing ct_tag_ctu_returned ct_req_ctu_returned : cc.
-#[export] Hint Rewrite ct_resp_ctu_returned ct_sid_ctu_returned ct_conn_ctu_returned ct_done_ctu_returned ct_resolved_ctu_returned ct_finished_ctu_returned ct_err_ctu_returned ct_armed_ctu_returned : cc.
-#[export] Hint Rewrite ct_fired_ctu_returned ct_cancelled_ctu_returned ct_gotStatus_ctu_returned ct_bodyClosed_ctu_returned ct_writing_ctu_returned ct_returned_ctu_returned ct_pooled_ctu_returned ct_lckStuck_ctu_returned : cc.
-#[export] Hint Rewrite ct_tag_ctu_pooled ct_req_ctu_pooled ct_resp_ctu_pooled ct_sid_ctu_pooled ct_conn_ctu_pooled ct_done_ctu_pooled ct_resolved_ctu_pooled ct_finished_ctu_pooled : cc.
-#[export] Hint Rewrite ct_err_ctu_pooled ct_armed_ctu_pooled ct_fired_ctu_pooled ct_cancelled_ctu_pooled ct_gotStatus_ctu_pooled ct_bodyClosed_ctu_pooled ct_writing_ctu_pooled ct_returned_ctu_pooled : cc.
-#[export] Hint Rewrite ct_pooled_ctu_pooled ct_lckStuck_ctu_pooled ct_tag_ctu_lckStuck ct_req_ctu_lckStuck ct_resp_ctu_lckStuck ct_sid_ctu_lckStuck ct_conn_ctu_lckStuck ct_done_ctu_lckStuck : cc.
-#[export] Hint Rewrite ct_resolved_ctu_lckStuck ct_finished_ctu_lckStuck ct_err_ctu_lckStuck ct_armed_ctu_lckStuck ct_fired_ctu_lckStuck ct_cancelled_ctu_lckStuck ct_gotStatus_ctu_lckStuck ct_bodyClosed_ctu_lckStuck : cc.
-#[export] Hint Rewrite ct_writing_ctu_lckStuck ct_returned_ctu_lckStuck ct_pooled_ctu_lckStuck ct_lckStuck_ctu_lckStuck pb_id_pbu_id pb_tag_pbu_id pb_body_pbu_id pb_window_pbu_id : cc.
-#[export] Hint Rewrite pb_stream_pbu_id pb_size_pbu_id pb_read_pbu_id pb_drained_pbu_id pb_id_pbu_tag pb_tag_pbu_tag pb_body_pbu_tag pb_window_pbu_tag : cc.
-#[export] Hint Rewrite pb_stream_pbu_tag pb_size_pbu_tag pb_read_pbu_tag pb_drained_pbu_tag pb_id_pbu_body pb_tag_pbu_body pb_body_pbu_body pb_window_pbu_body : cc.
-#[export] Hint Rewrite pb_stream_pbu_body pb_size_pbu_body pb_read_pbu_body pb_drained_pbu_body pb_id_pbu_window pb_tag_pbu_window pb_body_pbu_window pb_window_pbu_window : cc.
-#[export] Hint Rewrite pb_stream_pbu_window pb_size_pbu_window pb_read_pbu_window pb_drained_pbu_window pb_id_pbu_stream pb_tag_pbu_stream pb_body_pbu_stream pb_window_pbu_stream : cc.
-#[export] Hint Rewrite pb_stream_pbu_stream pb_size_pbu_stream pb_read_pbu_stream pb_drained_pbu_stream pb_id_pbu_size pb_tag_pbu_size pb_body_pbu_size pb_window_pbu_size : cc.
-#[export] Hint Rewrite pb_stream_pbu_size pb_size_pbu_size pb_read_pbu_size pb_drained_pbu_size pb_id_pbu_read pb_tag_pbu_read pb_body_pbu_read pb_window_pbu_read : cc.
-#[export] Hint Rewrite pb_stream_pbu_read pb_size_pbu_read pb_read_pbu_read pb_drained_pbu_read pb_id_pbu_drained pb_tag_pbu_drained pb_body_pbu_drained pb_window_pbu_drained : cc.
-#[export] Hint Rewrite pb_stream_pbu_drained pb_size_pbu_drained pb_read_pbu_drained pb_drained_pbu_drained : cc.
-(* END GENERATED hints *)
-
 (* ---------- the small helpers: what they DO change ---------- *)
 Section Helpers.
 Variable hstate : Type.
@@ -3481,7 +270,7 @@ Proof. unfold cl_resolve. apply cl_ctx_get_upd. intro x. apply ct_tag_cl_ctx_res
 (* lastErr is set once *)
 Lemma cc_lastErr_cl_set_last_err c e :
   cc_lastErr (cl_set_last_err c e) = match cc_lastErr c with None => Some e | Some e0 => Some e0 end.
-Proof. unfold cl_set_last_err. destruct (cc_lastErr c); reflexivity. Qed.
+Proof. unfold cl_set_last_err. destruct (cc_lastErr c) eqn:E; [exact E | reflexivity]. Qed.
 
 Lemma cc_reqQueued_cl_req_del c id :
   cc_reqQueued (cl_req_del c id) = filter (fun e => negb (fst e =? id)) (cc_reqQueued c).
